@@ -43,842 +43,842 @@ pub fn case_6(vars: &Vars) -> InferredGoal<DU, DE, Goal<DU, DE>> {
 pub fn case_7(vars: &Vars) -> InferredGoal<DU, DE, Goal<DU, DE>> {
     let qa = vars.v[0].clone();
     let qb = vars.v[1].clone();
-    let coll0: LT = LT::from_vec(vec![lterm!(2), lterm!(2), lterm!([[], 1])]);
-    proto_vulcan!([[[1, 3, 'b' | 'b'] | qa] != qb, for e in &coll0 { P3(e, 2, 2) == (3, []) }])
+    let coll0: LT = LT::from_vec(vec![lterm!(1)]);
+    proto_vulcan!([for e in &coll0 { [qa] != qa }])
 }
 pub fn case_8(vars: &Vars) -> InferredGoal<DU, DE, Goal<DU, DE>> {
     let qa = vars.v[0].clone();
     let qb = vars.v[1].clone();
-    let coll0: Vec<LT> = vec![lterm!(3), lterm!([])];
-    proto_vulcan!([for e in &coll0 { append(qb, qa, [3, 3]) }])
+    let coll0: Vec<LT> = vec![lterm!(2), lterm!([[], 2])];
+    proto_vulcan!([for e in &coll0 { [2, qa] != e, [2, qb] != qb }])
 }
 pub fn case_9(vars: &Vars) -> InferredGoal<DU, DE, Goal<DU, DE>> {
     let qa = vars.v[0].clone();
     let qb = vars.v[1].clone();
-    let coll0: Vec<LT> = vec![lterm!([2]), qb.clone()];
-    proto_vulcan!([[|tz| { [3, 3, 2] != [3, 3 | tz], tz == [2] }, |tz| { [1, 3] != [1 | tz], tz == [3] }], for e in &coll0 { [1, qa, []] == qb }])
+    let coll0: Vec<LT> = vec![];
+    proto_vulcan!([[qa, qa, qa | qa] == qa, for e in &coll0 { e == ([], _) }])
 }
 pub fn case_10(vars: &Vars) -> InferredGoal<DU, DE, Goal<DU, DE>> {
     let qa = vars.v[0].clone();
     let qb = vars.v[1].clone();
-    let coll0: LT = LT::from_vec(vec![lterm!([1])]);
-    proto_vulcan!([for e in &coll0 { e == [qb, 1 | []] }])
+    let coll0: Vec<LT> = vec![lterm!([[], 2]), qb.clone()];
+    proto_vulcan!([qb == qa, for e in &coll0 { conde { e == 3, true }, [3, 3] != qb, qa != (e, _) }])
 }
 pub fn case_11(vars: &Vars) -> InferredGoal<DU, DE, Goal<DU, DE>> {
     let qa = vars.v[0].clone();
     let qb = vars.v[1].clone();
     let coll0: Vec<LT> = vec![];
-    proto_vulcan!([[qa != P3(1, 2, 1), false], for e in &coll0 { |t| { [["a", _]] == t } }])
+    proto_vulcan!([|x| { [qa, qb | qa] == 2 }, for e in &coll0 { conde { e == 3, true }, [2, true, 2] != e }])
 }
 pub fn case_12(vars: &Vars) -> InferredGoal<DU, DE, Goal<DU, DE>> {
     let qa = vars.v[0].clone();
     let qb = vars.v[1].clone();
-    let coll0: Vec<LT> = vec![lterm!([[], 1]), lterm!([[], 1])];
-    proto_vulcan!([for e in &coll0 { conde { e == 3, true }, [e, "a", 1 | _] == qb }])
+    let coll0: Vec<LT> = vec![lterm!([]), lterm!([])];
+    proto_vulcan!([for e in &coll0 { conde { e == 3, true }, [|tz| { tz == [2, 3], [1 | tz] != [1, 2, 3] }, [[e | qa], [qa, e | e], [3, qb | qb]] == 1, true] }])
 }
 pub fn case_13(vars: &Vars) -> InferredGoal<DU, DE, Goal<DU, DE>> {
     let qa = vars.v[0].clone();
     let qb = vars.v[1].clone();
     let coll0: Vec<LT> = vec![];
-    proto_vulcan!([|y, z| { qb == z, false, 2 != z }, for e in &coll0 { P3(3, _, [_, 3]) == e, e != qb }])
+    proto_vulcan!([for e in &coll0 { false }])
 }
 pub fn case_14(vars: &Vars) -> InferredGoal<DU, DE, Goal<DU, DE>> {
     let qa = vars.v[0].clone();
     let qb = vars.v[1].clone();
-    let coll0: Vec<LT> = vec![lterm!([2]), lterm!([2])];
-    proto_vulcan!([|h| { h == [_, 1, qa], (h, _) != [qa, _, 3] }, for e in &coll0 { conde { e == 3, true }, qa == [e, [], []], qb == [[2, e], 1, [3, 2] | qa] }])
+    let coll0: LT = LT::from_vec(vec![qa.clone(), lterm!(2), lterm!([[], 1])]);
+    proto_vulcan!([qa != [[qa], [_], qb], for e in &coll0 { qa != 1 }])
 }
 pub fn case_15(vars: &Vars) -> InferredGoal<DU, DE, Goal<DU, DE>> {
     let qa = vars.v[0].clone();
     let qb = vars.v[1].clone();
-    let coll0: Vec<LT> = vec![lterm!([2]), lterm!([2]), qb.clone(), lterm!(3)];
-    proto_vulcan!([for e in &coll0 { conde { e == 1, true }, append(e, qa, []) }])
+    let coll0: Vec<LT> = vec![];
+    proto_vulcan!([for e in &coll0 { [1 == e, e == [[] | qb], e == P3(1, 1, qa)], |z| { member(qa, [2, 3]), qa == [z, 2], member(z, [3, 3]) } }])
 }
 pub fn case_16(vars: &Vars) -> InferredGoal<DU, DE, Goal<DU, DE>> {
     let qa = vars.v[0].clone();
     let qb = vars.v[1].clone();
-    let coll0: Vec<LT> = vec![lterm!([]), lterm!([[], 1]), lterm!([[], 1]), lterm!(1)];
-    proto_vulcan!([for e in &coll0 { conde { e == 3, true }, [qa, 3, qb] == qb }])
+    let coll0: Vec<LT> = vec![];
+    proto_vulcan!([qa == [true, 2, [] | qa], for e in &coll0 { [[qa, 2, 1 | qa], [_, _], e] == qa, qa != P3([], e, [_, _]) }])
 }
 pub fn case_17(vars: &Vars) -> InferredGoal<DU, DE, Goal<DU, DE>> {
     let qa = vars.v[0].clone();
     let qb = vars.v[1].clone();
-    let coll0: Vec<LT> = vec![lterm!([2]), lterm!([[], 1])];
-    proto_vulcan!([for e in &coll0 { qb == [e], 2 != qa }])
+    let coll0: LT = LT::from_vec(vec![lterm!([1]), lterm!([1]), lterm!([1])]);
+    proto_vulcan!([qa == 2, for e in &coll0 { conde { e == 3, true }, [1] == qa }])
 }
 pub fn case_18(vars: &Vars) -> InferredGoal<DU, DE, Goal<DU, DE>> {
     let qa = vars.v[0].clone();
     let qb = vars.v[1].clone();
-    let coll0: LT = LT::from_vec(vec![lterm!([])]);
-    proto_vulcan!([for e in &coll0 { [2, 3 | e] == e }])
+    let coll0: LT = LT::from_vec(vec![lterm!(2), lterm!([]), lterm!([])]);
+    proto_vulcan!([for e in &coll0 { |tz| { tz == [2, 3], [3, 3, 2, 3] != [3, 3 | tz] } }])
 }
 pub fn case_19(vars: &Vars) -> InferredGoal<DU, DE, Goal<DU, DE>> {
     let qa = vars.v[0].clone();
     let qb = vars.v[1].clone();
-    let coll0: Vec<LT> = vec![lterm!([1]), lterm!([])];
-    proto_vulcan!([member(qb, [3, 3, 3]), for e in &coll0 { conde { e == 2, true }, |t| { [t, []] == t, true } }])
+    let coll0: LT = LT::from_vec(vec![lterm!(1)]);
+    proto_vulcan!([for e in &coll0 { conde { e == 1, true }, |y| {  } }])
 }
 pub fn case_20(vars: &Vars) -> InferredGoal<DU, DE, Goal<DU, DE>> {
     let qa = vars.v[0].clone();
     let qb = vars.v[1].clone();
-    let coll0: Vec<LT> = vec![lterm!([2]), lterm!(1)];
-    proto_vulcan!([for e in &coll0 { |x, z| { false, qb == qa, append(qb, e, [2]) }, qb == [e, qa] }])
+    let coll0: Vec<LT> = vec![];
+    proto_vulcan!([for e in &coll0 { append(e, qb, []), |h| { qa == 1 } }])
 }
 pub fn case_21(vars: &Vars) -> InferredGoal<DU, DE, Goal<DU, DE>> {
     let qa = vars.v[0].clone();
     let qb = vars.v[1].clone();
-    let coll0: Vec<LT> = vec![];
-    proto_vulcan!([true, for e in &coll0 { P3(_, _, [_]) == qa }])
+    let coll0: Vec<LT> = vec![lterm!([[], 2]), lterm!(1)];
+    proto_vulcan!([for e in &coll0 { 1 != e }])
 }
 pub fn case_22(vars: &Vars) -> InferredGoal<DU, DE, Goal<DU, DE>> {
     let qa = vars.v[0].clone();
     let qb = vars.v[1].clone();
-    let coll0: Vec<LT> = vec![lterm!([[], 2]), qa.clone()];
-    proto_vulcan!([for e in &coll0 { conde { [false, 3] == qa } }])
+    let coll0: LT = LT::from_vec(vec![lterm!(2)]);
+    proto_vulcan!([P3(1, [1], 1) == qb, for e in &coll0 { conde { ["bc" != e, e == [e, qb, 2]], qa == [_, [] | qb], [1] == _ }, conde { [[_, "a"] == [2, [qb, [], true] | qa], "bc" == qa], [append(qb, qb, [2, 3]), [[2, 3, 3], _] != qa] } }])
 }
 pub fn case_23(vars: &Vars) -> InferredGoal<DU, DE, Goal<DU, DE>> {
     let qa = vars.v[0].clone();
     let qb = vars.v[1].clone();
-    let coll0: Vec<LT> = vec![];
-    proto_vulcan!([for e in &coll0 { conde { e == 1, true }, e == [[], 1] }])
+    let coll0: Vec<LT> = vec![lterm!([[], 1]), lterm!([1]), lterm!([1]), qa.clone()];
+    proto_vulcan!([[qa == [2 | qb], qb != P3([qb, 3], [], 2), member(qb, [3, 2])], for e in &coll0 { conde { e == 1, true }, qa == qb }])
 }
 pub fn case_24(vars: &Vars) -> InferredGoal<DU, DE, Goal<DU, DE>> {
     let qa = vars.v[0].clone();
     let qb = vars.v[1].clone();
-    let coll0: LT = LT::from_vec(vec![qa.clone()]);
-    proto_vulcan!([qb == qa, for e in &coll0 { |tz| { [1, 2, 3] != [1 | tz], tz == [2, 3] } }])
+    let coll0: Vec<LT> = vec![];
+    proto_vulcan!([qa == P3([[], 1], _, 1), for e in &coll0 { qa == _ }])
 }
 pub fn case_25(vars: &Vars) -> InferredGoal<DU, DE, Goal<DU, DE>> {
     let qa = vars.v[0].clone();
     let qb = vars.v[1].clone();
-    let coll0: Vec<LT> = vec![qa.clone(), lterm!(2)];
-    proto_vulcan!([for e in &coll0 { [append(qb, qa, []), P3(e, e, [[]]) == qb] }])
+    let coll0: LT = LT::from_vec(vec![lterm!([[], 2]), lterm!([[], 2]), lterm!(1)]);
+    proto_vulcan!([|t| { t == 3 }, for e in &coll0 { conde { e == 3, true }, |tz| { [3, 2, 2, 1] != [3, 2 | tz], tz == [2, 1] } }])
 }
 pub fn case_26(vars: &Vars) -> InferredGoal<DU, DE, Goal<DU, DE>> {
     let qa = vars.v[0].clone();
     let qb = vars.v[1].clone();
-    let coll0: Vec<LT> = vec![lterm!([2]), lterm!(3)];
-    proto_vulcan!([for e in &coll0 { e == 3, append(e, qb, [1]) }])
+    let coll0: Vec<LT> = vec![];
+    proto_vulcan!([for e in &coll0 { conde { e == 2, true }, conde { [e == qb, P3([], [e, qb], _) == []] } }])
 }
 pub fn case_27(vars: &Vars) -> InferredGoal<DU, DE, Goal<DU, DE>> {
     let qa = vars.v[0].clone();
     let qb = vars.v[1].clone();
     let coll0: Vec<LT> = vec![];
-    proto_vulcan!([for e in &coll0 { ([], qb) == qb }])
+    proto_vulcan!([qb == qb, for e in &coll0 { conde { e == 1, true }, qb == 2 }])
 }
 pub fn case_28(vars: &Vars) -> InferredGoal<DU, DE, Goal<DU, DE>> {
     let qa = vars.v[0].clone();
     let qb = vars.v[1].clone();
-    let coll0: Vec<LT> = vec![lterm!(2), lterm!([])];
-    proto_vulcan!([for e in &coll0 { conde { e == 1, true }, 1 == [[], qa], e != (qb, e) }])
+    let coll0: Vec<LT> = vec![lterm!([[], 1]), lterm!([]), qb.clone(), qb.clone()];
+    proto_vulcan!([for e in &coll0 { conde { e == 2, true }, qa == [] }])
 }
 pub fn case_29(vars: &Vars) -> InferredGoal<DU, DE, Goal<DU, DE>> {
     let qa = vars.v[0].clone();
     let qb = vars.v[1].clone();
-    let coll0: Vec<LT> = vec![];
-    proto_vulcan!([P3([], [[]], qb) == qa, for e in &coll0 { qb != qa }])
+    let coll0: LT = LT::from_vec(vec![lterm!(3)]);
+    proto_vulcan!([for e in &coll0 { qb == _, |tz| { [2 | tz] != [2, 3, 2], tz == [3, 2] } }])
 }
 pub fn case_30(vars: &Vars) -> InferredGoal<DU, DE, Goal<DU, DE>> {
     let qa = vars.v[0].clone();
     let qb = vars.v[1].clone();
-    let coll0: Vec<LT> = vec![lterm!(3), lterm!(1)];
-    proto_vulcan!([P3(_, [1, _], [[]]) == qa, for e in &coll0 { [] }])
+    let coll0: Vec<LT> = vec![];
+    proto_vulcan!([conde { true }, for e in &coll0 { conde { e == 2, true }, |tz| { [3 | tz] != [3, 2], tz == [2] } }])
 }
 pub fn case_31(vars: &Vars) -> InferredGoal<DU, DE, Goal<DU, DE>> {
     let qa = vars.v[0].clone();
     let qb = vars.v[1].clone();
-    let coll0: LT = LT::from_vec(vec![lterm!([])]);
-    proto_vulcan!([for e in &coll0 { qa == (2, qb) }])
+    let coll0: Vec<LT> = vec![];
+    proto_vulcan!([for e in &coll0 { [1] == e, qb == [] }])
 }
 pub fn case_32(vars: &Vars) -> InferredGoal<DU, DE, Goal<DU, DE>> {
     let qa = vars.v[0].clone();
     let qb = vars.v[1].clone();
-    let coll0: LT = LT::from_vec(vec![lterm!([1]), qa.clone(), qa.clone()]);
-    proto_vulcan!([qb == true, for e in &coll0 { conde { e == 2, true }, [1] != qa }])
+    let coll0: Vec<LT> = vec![];
+    proto_vulcan!([|tz| { tz == [3], [2, 3 | tz] != [2, 3, 3] }, for e in &coll0 { conde { e == 2, true }, |tz| { tz == [3, 3], [2, 3, 3] != [2 | tz] }, |x, z| { e != P3([], 2, _), [[], [_, qa, 2], [1, _, "bc"]] != x } }])
 }
 pub fn case_33(vars: &Vars) -> InferredGoal<DU, DE, Goal<DU, DE>> {
     let qa = vars.v[0].clone();
     let qb = vars.v[1].clone();
-    let coll0: Vec<LT> = vec![lterm!(3), lterm!(1)];
-    proto_vulcan!([for e in &coll0 { conde { [[], e] == [[[]], [1, _] | qa], true } }])
+    let coll0: Vec<LT> = vec![qa.clone(), lterm!(1)];
+    proto_vulcan!([(2, _) == qb, for e in &coll0 { |tz| { tz == [2], [1 | tz] != [1, 2] } }])
 }
 pub fn case_34(vars: &Vars) -> InferredGoal<DU, DE, Goal<DU, DE>> {
     let qa = vars.v[0].clone();
     let qb = vars.v[1].clone();
-    let coll0: Vec<LT> = vec![lterm!([2]), lterm!([2]), lterm!(3), lterm!([2])];
-    proto_vulcan!([for e in &coll0 { conde { e == 2, true }, qa != [2, qa, e], e == 3 }])
+    let coll0: Vec<LT> = vec![lterm!(3), lterm!(3)];
+    proto_vulcan!([false, for e in &coll0 { conde { e == 2, true }, P3(qb, 1, e) == qa, ([], [[]]) == e }])
 }
 pub fn case_35(vars: &Vars) -> InferredGoal<DU, DE, Goal<DU, DE>> {
     let qa = vars.v[0].clone();
     let qb = vars.v[1].clone();
-    let coll0: Vec<LT> = vec![qa.clone(), lterm!(1), lterm!([]), lterm!([])];
-    proto_vulcan!([for e in &coll0 { conde { e == 1, true }, |tz| { tz == [2], [1 | tz] != [1, 2] } }])
+    let coll0: Vec<LT> = vec![];
+    proto_vulcan!([qb == [true, [[], qb | qa] | qa], for e in &coll0 { [P3(3, qa, _) != qb, qa == (1, [[], 1]), |tz| { [2, 1, 3, 3] != [2, 1 | tz], tz == [3, 3] }], member(qa, [2]) }])
 }
 pub fn case_36(vars: &Vars) -> InferredGoal<DU, DE, Goal<DU, DE>> {
     let qa = vars.v[0].clone();
     let qb = vars.v[1].clone();
-    let coll0: Vec<LT> = vec![lterm!(1), lterm!(2)];
-    proto_vulcan!([for e in &coll0 { |h| { e == 3, (2, 1) == h, e == [2, 1 | qa] } }])
+    let coll0: Vec<LT> = vec![lterm!(3), lterm!([[], 1])];
+    proto_vulcan!([for e in &coll0 { |z, x| { false, "a" == qb, append(qb, qa, [2]) } }])
 }
 pub fn case_37(vars: &Vars) -> InferredGoal<DU, DE, Goal<DU, DE>> {
     let qa = vars.v[0].clone();
     let qb = vars.v[1].clone();
-    let coll0: LT = LT::from_vec(vec![lterm!(1), lterm!([]), lterm!(2)]);
-    proto_vulcan!([|z| { qb == qa }, for e in &coll0 { 'b' != qb, conde { [[[]], qa, [e, 3, 1] | e] == qb, [[[qb, e | qa], _, [2 | qb] | e] == qa, [] == e] } }])
+    let coll0: LT = LT::from_vec(vec![lterm!(3)]);
+    proto_vulcan!([for e in &coll0 { e != 2 }])
 }
 pub fn case_38(vars: &Vars) -> InferredGoal<DU, DE, Goal<DU, DE>> {
     let qa = vars.v[0].clone();
     let qb = vars.v[1].clone();
-    let coll0: Vec<LT> = vec![lterm!(3), lterm!(3)];
-    proto_vulcan!([for e in &coll0 { conde { e == 2, true }, |t| { qb == [e, 2, 'b'], qb == [[3, 'a', 2 | 2]] }, append(e, qa, []) }])
+    let coll0: Vec<LT> = vec![lterm!(2), qa.clone()];
+    proto_vulcan!([for e in &coll0 { conde { e == 1, true }, (qb, _) == qa, P3(_, 2, []) == [[2, e]] }])
 }
 pub fn case_39(vars: &Vars) -> InferredGoal<DU, DE, Goal<DU, DE>> {
     let qa = vars.v[0].clone();
     let qb = vars.v[1].clone();
-    let coll0: Vec<LT> = vec![lterm!([]), lterm!([[], 1]), lterm!([[], 1]), lterm!([2])];
-    proto_vulcan!([for e in &coll0 { conde { e == 3, true }, [e] == e }])
+    let coll0: Vec<LT> = vec![];
+    proto_vulcan!([for e in &coll0 { |t, y| {  } }])
 }
 pub fn case_40(vars: &Vars) -> InferredGoal<DU, DE, Goal<DU, DE>> {
     let qa = vars.v[0].clone();
     let qb = vars.v[1].clone();
-    let coll0: LT = LT::from_vec(vec![lterm!(3), lterm!(3), lterm!([])]);
-    proto_vulcan!([for e in &coll0 { qb != ([qa, _], [qa]), |h, y| { 1 == y } }])
+    let coll0: Vec<LT> = vec![];
+    proto_vulcan!([qa == [qb, 'a', "bc"], for e in &coll0 { P3(1, [], 3) == P3([], _, [1]), [qa, qb, 1] == [false | qb] }])
 }
 pub fn case_41(vars: &Vars) -> InferredGoal<DU, DE, Goal<DU, DE>> {
     let qa = vars.v[0].clone();
     let qb = vars.v[1].clone();
-    let coll0: LT = LT::from_vec(vec![lterm!([])]);
-    proto_vulcan!([[[] != qa, "bc" == qb, [2, 2] == qb], for e in &coll0 { qa == 2, |z| {  } }])
+    let coll0: LT = LT::from_vec(vec![lterm!([1]), lterm!(1), lterm!(3)]);
+    proto_vulcan!([|h| { member(h, [2, 2]), qa == P3(qa, _, 2) }, for e in &coll0 { qb != [[1, _]], 1 == e }])
 }
 pub fn case_42(vars: &Vars) -> InferredGoal<DU, DE, Goal<DU, DE>> {
     let qa = vars.v[0].clone();
     let qb = vars.v[1].clone();
-    let coll0: Vec<LT> = vec![];
-    proto_vulcan!([conde { [], [[qb, [], 1]] != [], [[1], 1, [true, qa]] != qb }, for e in &coll0 { [[_, 'b' | qb] | e] == [qa | [e]] }])
+    let coll0: LT = LT::from_vec(vec![lterm!([]), qb.clone(), qb.clone()]);
+    proto_vulcan!([|x| { x != [2, _ | qb], qb == x }, for e in &coll0 { conde { e == 2, true }, |t, h| { [[], [_, e, 2], [1]] != t, [[2, h | qb], [true, e], [[], qb | e]] == [[], 1, 'a'] } }])
 }
 pub fn case_43(vars: &Vars) -> InferredGoal<DU, DE, Goal<DU, DE>> {
     let qa = vars.v[0].clone();
     let qb = vars.v[1].clone();
-    let coll0: LT = LT::from_vec(vec![qa.clone(), lterm!(1), lterm!(2)]);
-    proto_vulcan!([[[3, []] == qa], for e in &coll0 { conde { e == 1, true }, |tz| { tz == [2, 1], [2, 3 | tz] != [2, 3, 2, 1] }, [_, qa] == qa }])
+    let coll0: Vec<LT> = vec![lterm!([[], 2]), lterm!([[], 2])];
+    proto_vulcan!([for e in &coll0 { conde { e == 2, true }, 3 == e }])
 }
 pub fn case_44(vars: &Vars) -> InferredGoal<DU, DE, Goal<DU, DE>> {
     let qa = vars.v[0].clone();
     let qb = vars.v[1].clone();
-    let coll0: Vec<LT> = vec![lterm!(2), lterm!(2)];
-    proto_vulcan!([|tz| { tz == [1, 1], [2, 1, 1] != [2 | tz] }, for e in &coll0 { conde { e == 3, true }, |x| { P3(_, 2, [1, qa]) == qa, ["a"] == e, 1 != qa }, [member(e, []), qb == P3(qa, qb, e), qa == qa] }])
+    let coll0: Vec<LT> = vec![];
+    proto_vulcan!([for e in &coll0 { [], [2, e] == 3 }])
 }
 pub fn case_45(vars: &Vars) -> InferredGoal<DU, DE, Goal<DU, DE>> {
     let qa = vars.v[0].clone();
     let qb = vars.v[1].clone();
-    let coll0: Vec<LT> = vec![lterm!([]), lterm!([2])];
-    proto_vulcan!([[qa, qb | [qb, qa]] == qb, for e in &coll0 { |y, x| { append(x, e, [3]), e == [1, _, 1], append(qa, qa, []) } }])
+    let coll0: Vec<LT> = vec![lterm!([]), lterm!([]), lterm!(3), lterm!(2)];
+    proto_vulcan!([for e in &coll0 { conde { e == 2, true }, [[] | qb] == qa, [qb == P3([2, 1], e, []), append(qb, e, [1]), [] != e] }])
 }
 pub fn case_46(vars: &Vars) -> InferredGoal<DU, DE, Goal<DU, DE>> {
     let qa = vars.v[0].clone();
     let qb = vars.v[1].clone();
-    let coll0: LT = LT::from_vec(vec![lterm!(3)]);
-    proto_vulcan!([for e in &coll0 { [1, e, 2] == qa }])
+    let coll0: Vec<LT> = vec![lterm!(1), lterm!(1)];
+    proto_vulcan!([for e in &coll0 { conde { e == 3, true }, member(qb, [1, 2, 2]), |tz| { [2 | tz] != [2, 2, 1], tz == [2, 1] } }])
 }
 pub fn case_47(vars: &Vars) -> InferredGoal<DU, DE, Goal<DU, DE>> {
     let qa = vars.v[0].clone();
     let qb = vars.v[1].clone();
-    let coll0: Vec<LT> = vec![];
-    proto_vulcan!([[2 | qb] == qa, for e in &coll0 { conde { e == 3, true }, qb != e, |t| {  } }])
+    let coll0: Vec<LT> = vec![lterm!([2]), lterm!([2]), qa.clone(), lterm!(1)];
+    proto_vulcan!([for e in &coll0 { conde { e == 2, true }, |y| { qa == 2, append(qa, y, [1]), member(qa, [1]) }, |x| { [[], 1] != e, [[]] == qb, qb == [1] } }])
 }
 pub fn case_48(vars: &Vars) -> InferredGoal<DU, DE, Goal<DU, DE>> {
     let qa = vars.v[0].clone();
     let qb = vars.v[1].clone();
-    let coll0: LT = LT::from_vec(vec![lterm!([]), lterm!(3), lterm!(2)]);
-    proto_vulcan!([for e in &coll0 { qb == 1, |h| { h == [1, 3, qb | qb], P3(h, qa, [_, 1]) == [e, [h], [qb, qa] | 2] } }])
+    let coll0: LT = LT::from_vec(vec![lterm!([])]);
+    proto_vulcan!([conde { qa != P3([], 3, []), qb != P3(3, qa, [qb, []]) }, for e in &coll0 { [e] == e }])
 }
 pub fn case_49(vars: &Vars) -> InferredGoal<DU, DE, Goal<DU, DE>> {
     let qa = vars.v[0].clone();
     let qb = vars.v[1].clone();
-    let coll0: LT = LT::from_vec(vec![lterm!([[], 2])]);
-    proto_vulcan!([|t| { [t, ["bc", 'b'] | 1] == t, append(qb, t, [2]), qa != P3(1, [t, qb], 3) }, for e in &coll0 { ["bc", "bc", [_, e, [] | qa]] == [_, 3, 2 | qb] }])
+    let coll0: Vec<LT> = vec![];
+    proto_vulcan!([for e in &coll0 { member(qb, [3, 2]) }])
 }
 pub fn case_50(vars: &Vars) -> InferredGoal<DU, DE, Goal<DU, DE>> {
     let qa = vars.v[0].clone();
     let qb = vars.v[1].clone();
-    let coll0: Vec<LT> = vec![];
-    proto_vulcan!([conde { [append(qb, qb, [2, 2]), |tz| { [1, 1] != [1 | tz], tz == [1] }] }, for e in &coll0 { [qa, 1, [] | e] == qa }])
+    let coll0: Vec<LT> = vec![qa.clone(), qb.clone()];
+    proto_vulcan!([for e in &coll0 { conde { e == 1, true }, [[] | 2] == [[2, 'b'], [_, 2, qb | [[], 2]], [[], _, 3]], [e] == qa }])
 }
 pub fn case_51(vars: &Vars) -> InferredGoal<DU, DE, Goal<DU, DE>> {
     let qa = vars.v[0].clone();
     let qb = vars.v[1].clone();
-    let coll0: Vec<LT> = vec![lterm!(1), qa.clone()];
-    proto_vulcan!([for e in &coll0 { [[2, e | qb], [2 | qb]] == qa, |y, x| { y == [], true, [qb, _] == e } }])
+    let coll0: Vec<LT> = vec![lterm!(2), lterm!([])];
+    proto_vulcan!([for e in &coll0 { conde { e == 1, true }, conde { e != true, (3, []) == qa } }])
 }
 pub fn case_52(vars: &Vars) -> InferredGoal<DU, DE, Goal<DU, DE>> {
     let qa = vars.v[0].clone();
     let qb = vars.v[1].clone();
-    let coll0: LT = LT::from_vec(vec![lterm!(3), qb.clone(), qb.clone()]);
-    proto_vulcan!([false, for e in &coll0 { conde { e == 1, true }, qa == [qa, _, 3], |z| { qa == [[qb, qa | qa], _, [z]], qb == (_, _) } }])
+    let coll0: Vec<LT> = vec![lterm!(2), qb.clone(), lterm!(3), lterm!(3)];
+    proto_vulcan!([[_ == qa, qb == qa], for e in &coll0 { conde { e == 1, true }, false, qa == [e, 3, 'a'] }])
 }
 pub fn case_53(vars: &Vars) -> InferredGoal<DU, DE, Goal<DU, DE>> {
     let qa = vars.v[0].clone();
     let qb = vars.v[1].clone();
-    let coll0: Vec<LT> = vec![];
-    proto_vulcan!([for e in &coll0 { conde { e == 3, true }, |x| { member(x, [1]), [[3, 1], x, qa] == _ }, conde { e == e, [qa == [[[], 3], [qa, e] | qa], qb == _], [[] == e, [qb] == qa] } }])
+    let coll0: Vec<LT> = vec![lterm!([1]), lterm!(1)];
+    proto_vulcan!([for e in &coll0 { 1 != qa }])
 }
 pub fn case_54(vars: &Vars) -> InferredGoal<DU, DE, Goal<DU, DE>> {
     let qa = vars.v[0].clone();
     let qb = vars.v[1].clone();
-    let coll0: LT = LT::from_vec(vec![lterm!(2)]);
-    proto_vulcan!([conde { [append(qa, qb, [1, 2]), qb == [2, _]] }, for e in &coll0 { [1, e | qa] == qb }])
+    let coll0: Vec<LT> = vec![];
+    proto_vulcan!([for e in &coll0 { conde { e != [qa], [append(qa, qa, [1]), e != qa], [|tz| { tz == [3, 1], [2 | tz] != [2, 3, 1] }, (qa, e) != qb] }, append(qa, e, [1]) }])
 }
 pub fn case_55(vars: &Vars) -> InferredGoal<DU, DE, Goal<DU, DE>> {
     let qa = vars.v[0].clone();
     let qb = vars.v[1].clone();
-    let coll0: Vec<LT> = vec![lterm!([]), lterm!([])];
-    proto_vulcan!([for e in &coll0 { (qb, 2) == e }])
+    let coll0: Vec<LT> = vec![lterm!([1]), lterm!(1), lterm!([2]), lterm!([2])];
+    proto_vulcan!([for e in &coll0 { conde { e == 1, true }, |z| { z == ([], [_]), append(e, e, []), [qa, qb] == qa }, true }])
 }
 pub fn case_56(vars: &Vars) -> InferredGoal<DU, DE, Goal<DU, DE>> {
     let qa = vars.v[0].clone();
     let qb = vars.v[1].clone();
-    let coll0: Vec<LT> = vec![lterm!(3), lterm!(3), qa.clone(), qb.clone()];
-    proto_vulcan!([for e in &coll0 { conde { e == 1, true }, e == P3([qa, qb], qb, [1, qa]) }])
+    let coll0: Vec<LT> = vec![];
+    proto_vulcan!([qb == qa, for e in &coll0 { [] == [qa, qa, _] }])
 }
 pub fn case_57(vars: &Vars) -> InferredGoal<DU, DE, Goal<DU, DE>> {
     let qa = vars.v[0].clone();
     let qb = vars.v[1].clone();
-    let coll0: LT = LT::from_vec(vec![lterm!([])]);
-    proto_vulcan!([for e in &coll0 { [[e, 1, [] | qb] | e] != ([_, []], qb), qa == [qa, _, e | [qa]] }])
+    let coll0: Vec<LT> = vec![lterm!([]), lterm!([]), lterm!([1]), lterm!([])];
+    proto_vulcan!([conde { [2] == qa, [qa == qb, member(qb, [2, 2, 3])] }, for e in &coll0 { conde { e == 2, true }, e == P3([_, 1], [], qb) }])
 }
 pub fn case_58(vars: &Vars) -> InferredGoal<DU, DE, Goal<DU, DE>> {
     let qa = vars.v[0].clone();
     let qb = vars.v[1].clone();
-    let coll0: Vec<LT> = vec![];
-    proto_vulcan!([for e in &coll0 { [['a', _], 3, [2, [], e | [1, []]] | qa] != [[e, "bc", []], ['a'], _], qb == ([3], _) }])
+    let coll0: LT = LT::from_vec(vec![lterm!(3)]);
+    proto_vulcan!([for e in &coll0 { e == [[]], [[2, qa, _] | qb] == qa }])
 }
 pub fn case_59(vars: &Vars) -> InferredGoal<DU, DE, Goal<DU, DE>> {
     let qa = vars.v[0].clone();
     let qb = vars.v[1].clone();
     let coll0: Vec<LT> = vec![];
-    proto_vulcan!([qb == ([], []), for e in &coll0 { |x| { true } }])
+    proto_vulcan!([for e in &coll0 { [member(qb, [2, 1, 1])], conde { 1 == e, qa == qa } }])
 }
 pub fn case_60(vars: &Vars) -> InferredGoal<DU, DE, Goal<DU, DE>> {
     let qa = vars.v[0].clone();
     let qb = vars.v[1].clone();
-    let coll0: Vec<LT> = vec![lterm!([]), qa.clone()];
-    proto_vulcan!([true, for e in &coll0 { [["bc" | qb]] == _, [e, 3 | 2] != e }])
+    let coll0: Vec<LT> = vec![lterm!(1), lterm!(1)];
+    proto_vulcan!([for e in &coll0 { conde { e == 2, true }, [1] == qa }])
 }
 pub fn case_61(vars: &Vars) -> InferredGoal<DU, DE, Goal<DU, DE>> {
     let qa = vars.v[0].clone();
     let qb = vars.v[1].clone();
-    let coll0: Vec<LT> = vec![];
-    proto_vulcan!([|tz| { tz == [2, 3], [2, 1, 2, 3] != [2, 1 | tz] }, for e in &coll0 { conde { e == 1, true }, qa != (_, [_]) }])
+    let coll0: Vec<LT> = vec![lterm!([1]), lterm!([1])];
+    proto_vulcan!([for e in &coll0 { conde { e == 1, true }, e == ["bc", qa, 1], [qa | []] == [1, true, [e]] }])
 }
 pub fn case_62(vars: &Vars) -> InferredGoal<DU, DE, Goal<DU, DE>> {
     let qa = vars.v[0].clone();
     let qb = vars.v[1].clone();
-    let coll0: Vec<LT> = vec![];
-    proto_vulcan!([[(qb, qb) != qa, member(qb, [1, 3]), append(qb, qb, [2])], for e in &coll0 { qa != [2 | e] }])
+    let coll0: LT = LT::from_vec(vec![qb.clone(), lterm!(2), lterm!(2)]);
+    proto_vulcan!([for e in &coll0 { conde { e == 3, true }, |tz| { tz == [1], [2, 1] != [2 | tz] } }])
 }
 pub fn case_63(vars: &Vars) -> InferredGoal<DU, DE, Goal<DU, DE>> {
     let qa = vars.v[0].clone();
     let qb = vars.v[1].clone();
-    let coll0: Vec<LT> = vec![lterm!(3), lterm!([[], 1])];
-    proto_vulcan!([[[qa, qa, qa], 2] == [2, 2], for e in &coll0 { conde { e == 1, true }, [1] != P3([[], 2], 2, e) }])
+    let coll0: Vec<LT> = vec![];
+    proto_vulcan!([for e in &coll0 { _ == qb }])
 }
 pub fn case_64(vars: &Vars) -> InferredGoal<DU, DE, Goal<DU, DE>> {
     let qa = vars.v[0].clone();
     let qb = vars.v[1].clone();
-    let coll0: Vec<LT> = vec![qa.clone(), lterm!([])];
-    proto_vulcan!([for e in &coll0 { conde { [e == [1, 2, 2 | qa], qb == [2]], |tz| { [2, 3 | tz] != [2, 3, 2], tz == [2] }, |tz| { tz == [3], [2, 2 | tz] != [2, 2, 3] } } }])
+    let coll0: Vec<LT> = vec![];
+    proto_vulcan!([for e in &coll0 { P3([qb], [], []) == qb }])
 }
 pub fn case_65(vars: &Vars) -> InferredGoal<DU, DE, Goal<DU, DE>> {
     let qa = vars.v[0].clone();
     let qb = vars.v[1].clone();
-    let coll0: Vec<LT> = vec![lterm!(1), lterm!(3)];
-    proto_vulcan!([for e in &coll0 { qb == ([e, qa], qa) }])
+    let coll0: LT = LT::from_vec(vec![lterm!(3)]);
+    proto_vulcan!([for e in &coll0 { conde { e == 1, true }, P3(3, 1, 1) == qa, qa == [1] }])
 }
 pub fn case_66(vars: &Vars) -> InferredGoal<DU, DE, Goal<DU, DE>> {
     let qa = vars.v[0].clone();
     let qb = vars.v[1].clone();
     let coll0: Vec<LT> = vec![];
-    proto_vulcan!([for e in &coll0 { (2, [_]) == 3 }])
+    proto_vulcan!([for e in &coll0 { conde { e == 1, true }, qb == [qa], true }])
 }
 pub fn case_67(vars: &Vars) -> InferredGoal<DU, DE, Goal<DU, DE>> {
     let qa = vars.v[0].clone();
     let qb = vars.v[1].clone();
-    let coll0: LT = LT::from_vec(vec![lterm!(2), lterm!([]), lterm!([[], 1])]);
-    proto_vulcan!([true, for e in &coll0 { qb == [], [[qa], e, [qa]] != qa }])
+    let coll0: Vec<LT> = vec![lterm!(1), lterm!([])];
+    proto_vulcan!([[1] == qa, for e in &coll0 { [e == ['b', _, qa]], |tz| { [3 | tz] != [3, 3], tz == [3] } }])
 }
 pub fn case_68(vars: &Vars) -> InferredGoal<DU, DE, Goal<DU, DE>> {
     let qa = vars.v[0].clone();
     let qb = vars.v[1].clone();
-    let coll0: Vec<LT> = vec![lterm!(1), qa.clone(), lterm!(2), lterm!(2)];
-    proto_vulcan!([qb == [2, 'b'], for e in &coll0 { conde { e == 3, true }, P3(2, qb, [e]) == e, [member(e, [3, 2, 2]), member(e, []), append(qb, qb, [3, 2])] }])
+    let coll0: LT = LT::from_vec(vec![lterm!([[], 1]), lterm!([1]), lterm!(1)]);
+    proto_vulcan!([for e in &coll0 { [[1, []] == qb, qa == "bc"] }])
 }
 pub fn case_69(vars: &Vars) -> InferredGoal<DU, DE, Goal<DU, DE>> {
     let qa = vars.v[0].clone();
     let qb = vars.v[1].clone();
-    let coll0: LT = LT::from_vec(vec![qa.clone(), qa.clone(), lterm!([[], 1])]);
-    proto_vulcan!([true, for e in &coll0 { conde { e == 2, true }, |t| { qa == [2, true, 1 | e], e == [['a', 2, qa], [], [true | qa]] }, [[]] == e }])
+    let coll0: Vec<LT> = vec![lterm!([]), lterm!([2])];
+    proto_vulcan!([for e in &coll0 { [[3 | qa] == qa, qb == [[[], 3 | 2], [3, qb, 2]]] }])
 }
 pub fn case_70(vars: &Vars) -> InferredGoal<DU, DE, Goal<DU, DE>> {
     let qa = vars.v[0].clone();
     let qb = vars.v[1].clone();
-    let coll0: LT = LT::from_vec(vec![lterm!([[], 2])]);
-    proto_vulcan!([for e in &coll0 { |x, z| {  }, e == e }])
+    let coll0: Vec<LT> = vec![lterm!([[], 2]), lterm!(2)];
+    proto_vulcan!([qa == ([], qb), for e in &coll0 { qa == [qa, 1, _] }])
 }
 pub fn case_71(vars: &Vars) -> InferredGoal<DU, DE, Goal<DU, DE>> {
     let qa = vars.v[0].clone();
     let qb = vars.v[1].clone();
-    let coll0: LT = LT::from_vec(vec![lterm!([2])]);
-    proto_vulcan!([_ == qb, for e in &coll0 { qb != ['a', _, _ | qa], qb == [[2, e, [] | qb] | [1, _]] }])
+    let coll0: Vec<LT> = vec![lterm!([2]), lterm!([]), lterm!([]), lterm!([1])];
+    proto_vulcan!([for e in &coll0 { conde { e == 3, true }, [qa == P3(3, 2, _), append(qb, qb, [2])] }])
 }
 pub fn case_72(vars: &Vars) -> InferredGoal<DU, DE, Goal<DU, DE>> {
     let qa = vars.v[0].clone();
     let qb = vars.v[1].clone();
-    let coll0: LT = LT::from_vec(vec![lterm!([])]);
-    proto_vulcan!([for e in &coll0 { [e == [], member(qa, [3, 2, 2]), qa != [e, [_, qb, qa]]] }])
+    let coll0: Vec<LT> = vec![lterm!([2]), lterm!([[], 1]), lterm!(1), lterm!(1)];
+    proto_vulcan!([for e in &coll0 { conde { e == 3, true }, qb == e }])
 }
 pub fn case_73(vars: &Vars) -> InferredGoal<DU, DE, Goal<DU, DE>> {
     let qa = vars.v[0].clone();
     let qb = vars.v[1].clone();
-    let coll0: LT = LT::from_vec(vec![lterm!([[], 1]), lterm!([[], 1]), qb.clone()]);
-    proto_vulcan!([qa == qb, for e in &coll0 { conde { e == 2, true }, |y| { y == 'b', "a" != qa } }])
+    let coll0: LT = LT::from_vec(vec![qa.clone(), lterm!([[], 2]), qb.clone()]);
+    proto_vulcan!([for e in &coll0 { conde { [qb == 1, 1 == qb] }, [[qb] == qb, qb != e] }])
 }
 pub fn case_74(vars: &Vars) -> InferredGoal<DU, DE, Goal<DU, DE>> {
     let qa = vars.v[0].clone();
     let qb = vars.v[1].clone();
-    let coll0: Vec<LT> = vec![qa.clone(), qa.clone()];
-    proto_vulcan!([for e in &coll0 { conde { e == 3, true }, qb == [e] }])
+    let coll0: LT = LT::from_vec(vec![lterm!(1)]);
+    proto_vulcan!([for e in &coll0 { conde { [qb == 1, qa == qb] } }])
 }
 pub fn case_75(vars: &Vars) -> InferredGoal<DU, DE, Goal<DU, DE>> {
     let qa = vars.v[0].clone();
     let qb = vars.v[1].clone();
-    let coll0: Vec<LT> = vec![qb.clone(), qb.clone()];
-    proto_vulcan!([for e in &coll0 { conde { e == 3, true }, conde { [append(qa, qb, [2, 2]), true], [1 == e, [_] == qb], ([3], [1, 1]) == e } }])
+    let coll0: Vec<LT> = vec![];
+    proto_vulcan!([for e in &coll0 { qa != [true, e, 2] }])
 }
 pub fn case_76(vars: &Vars) -> InferredGoal<DU, DE, Goal<DU, DE>> {
     let qa = vars.v[0].clone();
     let qb = vars.v[1].clone();
-    let coll0: LT = LT::from_vec(vec![lterm!([2]), lterm!([1]), lterm!([1])]);
-    proto_vulcan!([for e in &coll0 { conde { e == 3, true }, qa != (1, qa) }])
+    let coll0: LT = LT::from_vec(vec![lterm!([[], 1])]);
+    proto_vulcan!([for e in &coll0 { [] }])
 }
 pub fn case_77(vars: &Vars) -> InferredGoal<DU, DE, Goal<DU, DE>> {
     let qa = vars.v[0].clone();
     let qb = vars.v[1].clone();
-    let coll0: LT = LT::from_vec(vec![lterm!([2])]);
-    proto_vulcan!([|x, t| { x != _ }, for e in &coll0 { |z| { false, z == P3(3, 3, qa), false }, (1, qb) == qb }])
+    let coll0: Vec<LT> = vec![lterm!([[], 1]), lterm!([[], 1])];
+    proto_vulcan!([qb == [], for e in &coll0 { conde { e == 1, true }, |z| { P3([z], z, z) != z, [qb, 3 | qb] == 1 }, ['a', [qa, "bc", 2] | e] != e }])
 }
 pub fn case_78(vars: &Vars) -> InferredGoal<DU, DE, Goal<DU, DE>> {
     let qa = vars.v[0].clone();
     let qb = vars.v[1].clone();
-    let coll0: Vec<LT> = vec![lterm!([]), lterm!(1)];
-    proto_vulcan!([append(qb, qb, [1, 3]), for e in &coll0 { [qb, 2] != e }])
+    let coll0: LT = LT::from_vec(vec![lterm!([2])]);
+    proto_vulcan!([for e in &coll0 { conde { qb == [], _ == qa }, conde { [1] == e, e == [qb], |tz| { [3, 3 | tz] != [3, 3, 3, 1], tz == [3, 1] } } }])
 }
 pub fn case_79(vars: &Vars) -> InferredGoal<DU, DE, Goal<DU, DE>> {
     let qa = vars.v[0].clone();
     let qb = vars.v[1].clone();
-    let coll0: LT = LT::from_vec(vec![lterm!(2)]);
-    proto_vulcan!([P3(qb, qb, 3) == qb, for e in &coll0 { conde { e == 3, true }, [] == e, qa != [e, qb, 2] }])
+    let coll0: Vec<LT> = vec![lterm!([1]), lterm!([])];
+    proto_vulcan!([for e in &coll0 { |tz| { [1 | tz] != [1, 3], tz == [3] } }])
 }
 pub fn case_80(vars: &Vars) -> InferredGoal<DU, DE, Goal<DU, DE>> {
     let qa = vars.v[0].clone();
     let qb = vars.v[1].clone();
-    let coll0: Vec<LT> = vec![];
-    proto_vulcan!([(1, [[]]) == P3(3, [[], _], [3, []]), for e in &coll0 { qb == qb }])
+    let coll0: LT = LT::from_vec(vec![qa.clone()]);
+    proto_vulcan!([conde { [qa != [], qa == false], [append(qa, qa, [3, 2]), qb == qb], member(qa, [1, 3, 1]) }, for e in &coll0 { conde { e == 1, true }, |z| { qb == e }, member(e, [3, 3]) }])
 }
 pub fn case_81(vars: &Vars) -> InferredGoal<DU, DE, Goal<DU, DE>> {
     let qa = vars.v[0].clone();
     let qb = vars.v[1].clone();
-    let coll0: Vec<LT> = vec![lterm!([[], 2]), lterm!([[], 2])];
-    proto_vulcan!([for e in &coll0 { conde { e == 1, true }, |tz| { [2 | tz] != [2, 1, 3], tz == [1, 3] }, qb != 2 }])
+    let coll0: Vec<LT> = vec![lterm!([1]), qa.clone()];
+    proto_vulcan!([for e in &coll0 { e == [1, qa | qa], e == [2, [], 'b' | e] }])
 }
 pub fn case_82(vars: &Vars) -> InferredGoal<DU, DE, Goal<DU, DE>> {
     let qa = vars.v[0].clone();
     let qb = vars.v[1].clone();
-    let coll0: Vec<LT> = vec![];
-    proto_vulcan!([for e in &coll0 { |z| { P3([], _, [2, qa]) == z, e == qb, z == [[_, qb, "a"], [2, qb], _ | e] } }])
+    let coll0: Vec<LT> = vec![lterm!(3), lterm!(3), lterm!([[], 1]), lterm!([2])];
+    proto_vulcan!([false, for e in &coll0 { conde { e == 3, true }, conde { qb != [1, e, 2], [append(qb, e, [3]), "a" == e], [false | e] == qb }, conde { [], [e == e, e == [['a', qa, 2 | qb], [[]] | [e, 2]]], [append(e, qa, [2]), ([], e) == qb] } }])
 }
 pub fn case_83(vars: &Vars) -> InferredGoal<DU, DE, Goal<DU, DE>> {
     let qa = vars.v[0].clone();
     let qb = vars.v[1].clone();
-    let coll0: LT = LT::from_vec(vec![qb.clone(), qb.clone(), qb.clone()]);
-    proto_vulcan!([2 == qb, for e in &coll0 { conde { e == 2, true }, |x| { qa == _, qb == [e, _, _], true } }])
+    let coll0: Vec<LT> = vec![];
+    proto_vulcan!([for e in &coll0 { |t| {  } }])
 }
 pub fn case_84(vars: &Vars) -> InferredGoal<DU, DE, Goal<DU, DE>> {
     let qa = vars.v[0].clone();
     let qb = vars.v[1].clone();
-    let coll0: Vec<LT> = vec![];
-    proto_vulcan!([for e in &coll0 { (qa, [qa, 3]) == P3([2], qb, 3) }])
+    let coll0: Vec<LT> = vec![lterm!([1]), qb.clone()];
+    proto_vulcan!([|tz| { [1, 3, 3] != [1 | tz], tz == [3, 3] }, for e in &coll0 { conde { [member(qb, []), append(qa, e, [3, 1])] } }])
 }
 pub fn case_85(vars: &Vars) -> InferredGoal<DU, DE, Goal<DU, DE>> {
     let qa = vars.v[0].clone();
     let qb = vars.v[1].clone();
-    let coll0: LT = LT::from_vec(vec![lterm!([[], 2]), qa.clone(), qa.clone()]);
-    proto_vulcan!([for e in &coll0 { conde { e == 3, true }, P3(qa, [3], [3, []]) != qb }])
+    let coll0: Vec<LT> = vec![];
+    proto_vulcan!([for e in &coll0 { conde { e == 3, true }, qa == [qa, [qa, _, qb]], [[qa, qb]] == 1 }])
 }
 pub fn case_86(vars: &Vars) -> InferredGoal<DU, DE, Goal<DU, DE>> {
     let qa = vars.v[0].clone();
     let qb = vars.v[1].clone();
-    let coll0: LT = LT::from_vec(vec![lterm!([[], 1])]);
-    proto_vulcan!([for e in &coll0 { [[1, _, 'a' | e], [1], 2] != qb, conde { member(e, [1, 1]), [], 1 != e } }])
+    let coll0: LT = LT::from_vec(vec![lterm!(2)]);
+    proto_vulcan!([[["a"] | qa] == qa, for e in &coll0 { conde { e == 1, true }, qa == qb, [[], qa, qb] != false }])
 }
 pub fn case_87(vars: &Vars) -> InferredGoal<DU, DE, Goal<DU, DE>> {
     let qa = vars.v[0].clone();
     let qb = vars.v[1].clone();
-    let coll0: Vec<LT> = vec![];
-    proto_vulcan!([for e in &coll0 { conde { e == 1, true }, e == qa, |h| {  } }])
+    let coll0: Vec<LT> = vec![lterm!(1), lterm!([1])];
+    proto_vulcan!([|z| { true, qb == qa, [z, [[] | [qb, 1]], ["a", 2] | qa] == z }, for e in &coll0 { [(e, []) == 1, _ == e, [e, _, qa] == qa], [3, 3] == qa }])
 }
 pub fn case_88(vars: &Vars) -> InferredGoal<DU, DE, Goal<DU, DE>> {
     let qa = vars.v[0].clone();
     let qb = vars.v[1].clone();
     let coll0: Vec<LT> = vec![];
-    proto_vulcan!([for e in &coll0 { conde { e == 2, true }, [2, 'b', qb | qb] == qa }])
+    proto_vulcan!([qa == qb, for e in &coll0 { qa == [[2, 1, 1 | qa] | 1], [["a", 1], 2, [1, _]] == qb }])
 }
 pub fn case_89(vars: &Vars) -> InferredGoal<DU, DE, Goal<DU, DE>> {
     let qa = vars.v[0].clone();
     let qb = vars.v[1].clone();
     let coll0: Vec<LT> = vec![];
-    proto_vulcan!([conde { [member(qa, [1, 3, 3]), 2 == qb], [] }, for e in &coll0 { conde { e == 2, true }, qa == qa }])
+    proto_vulcan!([qa != ([], [3, 1]), for e in &coll0 { conde { e == 2, true }, [[[], e, 2 | qa] == qb, false], |tz| { [3, 3 | tz] != [3, 3, 2], tz == [2] } }])
 }
 pub fn case_90(vars: &Vars) -> InferredGoal<DU, DE, Goal<DU, DE>> {
     let qa = vars.v[0].clone();
     let qb = vars.v[1].clone();
-    let coll0: LT = LT::from_vec(vec![lterm!(2)]);
-    proto_vulcan!([true, for e in &coll0 { qa == [qb] }])
+    let coll0: LT = LT::from_vec(vec![lterm!([[], 1])]);
+    proto_vulcan!([for e in &coll0 { [qa == _, true != qb], 1 == ["bc", qb] }])
 }
 pub fn case_91(vars: &Vars) -> InferredGoal<DU, DE, Goal<DU, DE>> {
     let qa = vars.v[0].clone();
     let qb = vars.v[1].clone();
-    let coll0: Vec<LT> = vec![lterm!([]), lterm!([2]), lterm!([2]), lterm!(2)];
-    proto_vulcan!([for e in &coll0 { conde { e == 3, true }, |tz| { [2 | tz] != [2, 2, 2], tz == [2, 2] } }])
+    let coll0: LT = LT::from_vec(vec![lterm!([]), lterm!(3), lterm!(2)]);
+    proto_vulcan!([[2] == qa, for e in &coll0 { (_, qa) == e }])
 }
 pub fn case_92(vars: &Vars) -> InferredGoal<DU, DE, Goal<DU, DE>> {
     let qa = vars.v[0].clone();
     let qb = vars.v[1].clone();
     let coll0: Vec<LT> = vec![];
-    proto_vulcan!([P3([], 2, []) != qb, for e in &coll0 { conde { e == 1, true }, qb == qb, [qa != [e, _, _ | qa], [[qb, 3]] == qa] }])
+    proto_vulcan!([(_, qa) != qa, for e in &coll0 { true == qb }])
 }
 pub fn case_93(vars: &Vars) -> InferredGoal<DU, DE, Goal<DU, DE>> {
     let qa = vars.v[0].clone();
     let qb = vars.v[1].clone();
-    let coll0: Vec<LT> = vec![lterm!([]), lterm!(2)];
-    proto_vulcan!([for e in &coll0 { qa == [] }])
+    let coll0: Vec<LT> = vec![lterm!([[], 2]), lterm!([1])];
+    proto_vulcan!([for e in &coll0 { conde { e == 1, true }, conde { qb == ["a", 2, false], qb != [], [3 == [1, qa], e == [[], qb, qa]] } }])
 }
 pub fn case_94(vars: &Vars) -> InferredGoal<DU, DE, Goal<DU, DE>> {
     let qa = vars.v[0].clone();
     let qb = vars.v[1].clone();
-    let coll0: Vec<LT> = vec![lterm!([]), lterm!([])];
-    proto_vulcan!([qa == 1, for e in &coll0 { conde { e == 2, true }, conde { [], [[e] == qa, _ != qa] } }])
+    let coll0: LT = LT::from_vec(vec![lterm!([2])]);
+    proto_vulcan!([for e in &coll0 { [2, qb] == qa }])
 }
 pub fn case_95(vars: &Vars) -> InferredGoal<DU, DE, Goal<DU, DE>> {
     let qa = vars.v[0].clone();
     let qb = vars.v[1].clone();
-    let coll0: LT = LT::from_vec(vec![lterm!([[], 1])]);
-    proto_vulcan!([for e in &coll0 { P3(e, [e, 3], [2]) == qb }])
+    let coll0: LT = LT::from_vec(vec![qb.clone(), lterm!(1), lterm!(1)]);
+    proto_vulcan!([for e in &coll0 { qa != [[] | e] }])
 }
 pub fn case_96(vars: &Vars) -> InferredGoal<DU, DE, Goal<DU, DE>> {
     let qa = vars.v[0].clone();
     let qb = vars.v[1].clone();
-    let coll0: Vec<LT> = vec![lterm!(3), lterm!(3)];
-    proto_vulcan!([for e in &coll0 { conde { e == 1, true }, false, qa == 2 }])
+    let coll0: LT = LT::from_vec(vec![qb.clone(), lterm!(2), qa.clone()]);
+    proto_vulcan!([1 == _, for e in &coll0 { ["bc", qa, 2 | e] == qa }])
 }
 pub fn case_97(vars: &Vars) -> InferredGoal<DU, DE, Goal<DU, DE>> {
     let qa = vars.v[0].clone();
     let qb = vars.v[1].clone();
-    let coll0: LT = LT::from_vec(vec![lterm!(2), lterm!(1), lterm!([2])]);
-    proto_vulcan!([qa == 2, for e in &coll0 { qa != [qb, e, e | e], |h| {  } }])
+    let coll0: Vec<LT> = vec![lterm!([]), lterm!([])];
+    proto_vulcan!([for e in &coll0 { conde { e == 2, true }, |tz| { [1, 2, 3] != [1, 2 | tz], tz == [3] }, [2, qb, qa] == [[2 | qb], _, 3] }])
 }
 pub fn case_98(vars: &Vars) -> InferredGoal<DU, DE, Goal<DU, DE>> {
     let qa = vars.v[0].clone();
     let qb = vars.v[1].clone();
     let coll0: Vec<LT> = vec![];
-    proto_vulcan!([[true, [], qa] != qb, for e in &coll0 { true, qb == ([e, 1], 2) }])
+    proto_vulcan!([conde { [P3([[]], [qa], 3) == qa, (qa, _) != qa] }, for e in &coll0 { qb != [3, 1] }])
 }
 pub fn case_99(vars: &Vars) -> InferredGoal<DU, DE, Goal<DU, DE>> {
     let qa = vars.v[0].clone();
     let qb = vars.v[1].clone();
-    let coll0: LT = LT::from_vec(vec![lterm!(2)]);
-    proto_vulcan!([P3(qa, 1, 1) == qb, for e in &coll0 { conde { ["bc" == e, qb == 1], qa == [[], qa | e] }, qb == [2, qa, []] }])
+    let coll0: Vec<LT> = vec![lterm!(1), lterm!(3)];
+    proto_vulcan!([for e in &coll0 { conde { qb == ([], qb), [[["a"], [e, 1 | qa], ["a", e, 3 | qa]] == (qb, qb), (1, 3) != e] }, [] }])
 }
 pub fn case_100(vars: &Vars) -> InferredGoal<DU, DE, Goal<DU, DE>> {
     let qa = vars.v[0].clone();
     let qb = vars.v[1].clone();
-    let coll0: Vec<LT> = vec![];
-    proto_vulcan!([for e in &coll0 { e == [1, [1]] }])
+    let coll0: LT = LT::from_vec(vec![lterm!([])]);
+    proto_vulcan!([for e in &coll0 { |tz| { [3, 3 | tz] != [3, 3, 1], tz == [1] } }])
 }
 pub fn case_101(vars: &Vars) -> InferredGoal<DU, DE, Goal<DU, DE>> {
     let qa = vars.v[0].clone();
     let qb = vars.v[1].clone();
-    let coll0: Vec<LT> = vec![];
-    proto_vulcan!([for e in &coll0 { conde { e == 1, true }, [[_, _]] == [qb | [e]], |tz| { [1, 1] != [1 | tz], tz == [1] } }])
+    let coll0: LT = LT::from_vec(vec![lterm!([[], 2]), lterm!(2), lterm!([])]);
+    proto_vulcan!([[qb, _, qa] == 3, for e in &coll0 { conde { e == 2, true }, [["a" | qa] == qa, 1 == e, [3] == qb], qb == e }])
 }
 pub fn case_102(vars: &Vars) -> InferredGoal<DU, DE, Goal<DU, DE>> {
     let qa = vars.v[0].clone();
     let qb = vars.v[1].clone();
-    let coll0: Vec<LT> = vec![];
-    proto_vulcan!([[3, qb | qa] == qb, for e in &coll0 { |t, y| { false, e != 2 }, _ == [2, [qa, qa, e]] }])
+    let coll0: LT = LT::from_vec(vec![lterm!([[], 1])]);
+    proto_vulcan!([[2 != qb, qa != qa], for e in &coll0 { conde { e == 3, true }, [] == qb }])
 }
 pub fn case_103(vars: &Vars) -> InferredGoal<DU, DE, Goal<DU, DE>> {
     let qa = vars.v[0].clone();
     let qb = vars.v[1].clone();
     let coll0: Vec<LT> = vec![];
-    proto_vulcan!([for e in &coll0 { conde { e == 2, true }, |h| { e == ["a"], [false, qb, e] == e }, |x| { qa == ['b', 3, 3] } }])
+    proto_vulcan!([[qa == P3(qb, [], []), qb == [[qb, qa], [qb, [], qb], [qb]], [] != qa], for e in &coll0 { [1] != [[qb, "a", qa | e], [qa, e, 1] | qa], [append(qa, qa, []), qb != (1, 1)] }])
 }
 pub fn case_104(vars: &Vars) -> InferredGoal<DU, DE, Goal<DU, DE>> {
     let qa = vars.v[0].clone();
     let qb = vars.v[1].clone();
-    let coll0: LT = LT::from_vec(vec![lterm!(2), lterm!(3), lterm!(1)]);
-    proto_vulcan!([for e in &coll0 { true, ["bc", 2, "bc"] != qb }])
+    let coll0: Vec<LT> = vec![qb.clone(), lterm!(2)];
+    proto_vulcan!([for e in &coll0 { conde { e == 1, true }, e == [2, []], conde { qb == [[]], [qb == [e | qb], |tz| { [1, 1] != [1 | tz], tz == [1] }] } }])
 }
 pub fn case_105(vars: &Vars) -> InferredGoal<DU, DE, Goal<DU, DE>> {
     let qa = vars.v[0].clone();
     let qb = vars.v[1].clone();
-    let coll0: LT = LT::from_vec(vec![qb.clone()]);
-    proto_vulcan!([member(qa, []), for e in &coll0 { P3([[]], [3, qa], 3) != qb }])
+    let coll0: Vec<LT> = vec![];
+    proto_vulcan!([for e in &coll0 { conde { e == 2, true }, |x| { [[e], [qb, x], qa] == qb }, |x| { |tz| { tz == [3, 2], [3, 1, 3, 2] != [3, 1 | tz] } } }])
 }
 pub fn case_106(vars: &Vars) -> InferredGoal<DU, DE, Goal<DU, DE>> {
     let qa = vars.v[0].clone();
     let qb = vars.v[1].clone();
-    let coll0: Vec<LT> = vec![];
-    proto_vulcan!([|y, h| { qb == 1, false }, for e in &coll0 { [[2 | qa], e | qa] == qa, qb == P3(1, 1, [e]) }])
+    let coll0: Vec<LT> = vec![lterm!([1]), lterm!([1]), lterm!([[], 2]), qa.clone()];
+    proto_vulcan!([3 == qb, for e in &coll0 { conde { e == 2, true }, [false] }])
 }
 pub fn case_107(vars: &Vars) -> InferredGoal<DU, DE, Goal<DU, DE>> {
     let qa = vars.v[0].clone();
     let qb = vars.v[1].clone();
-    let coll0: LT = LT::from_vec(vec![lterm!([1])]);
-    proto_vulcan!([[], for e in &coll0 { conde { e == 3, true }, [[]] == qa }])
+    let coll0: Vec<LT> = vec![qa.clone(), qa.clone()];
+    proto_vulcan!([1 == qb, for e in &coll0 { conde { e == 1, true }, true, [[2, _] | qb] == false }])
 }
 pub fn case_108(vars: &Vars) -> InferredGoal<DU, DE, Goal<DU, DE>> {
     let qa = vars.v[0].clone();
     let qb = vars.v[1].clone();
-    let coll0: LT = LT::from_vec(vec![lterm!(3), lterm!(2), lterm!([])]);
-    proto_vulcan!([for e in &coll0 { conde { e == 3, true }, e == P3(1, [e], e), |h| { e == [h, 2, qa], [qb] == [[1, qb] | e] } }])
+    let coll0: Vec<LT> = vec![lterm!(3), lterm!(3)];
+    proto_vulcan!([for e in &coll0 { qb == [1, qb, qb], conde { [qb == [e | []], P3([[], e], [], e) == P3(_, _, 1)] } }])
 }
 pub fn case_109(vars: &Vars) -> InferredGoal<DU, DE, Goal<DU, DE>> {
     let qa = vars.v[0].clone();
     let qb = vars.v[1].clone();
-    let coll0: Vec<LT> = vec![];
-    proto_vulcan!([|z| {  }, for e in &coll0 { |t| { qa == [t, t, _ | 1], (1, qb) != qb } }])
+    let coll0: LT = LT::from_vec(vec![lterm!(2)]);
+    proto_vulcan!([for e in &coll0 { conde { e == 3, true }, |t, h| { (_, [_]) == e, h == h, qb == [t] } }])
 }
 pub fn case_110(vars: &Vars) -> InferredGoal<DU, DE, Goal<DU, DE>> {
     let qa = vars.v[0].clone();
     let qb = vars.v[1].clone();
-    let coll0: LT = LT::from_vec(vec![qb.clone(), lterm!(1), lterm!([])]);
-    proto_vulcan!([[|tz| { [1 | tz] != [1, 2, 3], tz == [2, 3] }, member(qa, [3, 3, 2])], for e in &coll0 { [] == qa }])
+    let coll0: Vec<LT> = vec![];
+    proto_vulcan!([[_] == 1, for e in &coll0 { conde { e == 1, true }, |t| { qb == qa, t == qb }, [e] == qa }])
 }
 pub fn case_111(vars: &Vars) -> InferredGoal<DU, DE, Goal<DU, DE>> {
     let qa = vars.v[0].clone();
     let qb = vars.v[1].clone();
-    let coll0: Vec<LT> = vec![lterm!([1]), lterm!([1])];
-    proto_vulcan!([|tz| { [1 | tz] != [1, 2, 1], tz == [2, 1] }, for e in &coll0 { qb == [qa], e != P3([_, []], [e], _) }])
+    let coll0: LT = LT::from_vec(vec![lterm!(2)]);
+    proto_vulcan!([for e in &coll0 { [e, 3, 3] == qb }])
 }
 pub fn case_112(vars: &Vars) -> InferredGoal<DU, DE, Goal<DU, DE>> {
     let qa = vars.v[0].clone();
     let qb = vars.v[1].clone();
-    let coll0: LT = LT::from_vec(vec![qa.clone(), lterm!([1]), lterm!([])]);
-    proto_vulcan!([for e in &coll0 { qa == qa, conde { [|tz| { [2, 2, 1] != [2 | tz], tz == [2, 1] }, (qb, [_, e]) == qb] } }])
+    let coll0: Vec<LT> = vec![lterm!([2]), lterm!([2])];
+    proto_vulcan!([for e in &coll0 { conde { e == 2, true }, |z| { 1 == ([e, 2], e), 1 == z, qa != e }, true }])
 }
 pub fn case_113(vars: &Vars) -> InferredGoal<DU, DE, Goal<DU, DE>> {
     let qa = vars.v[0].clone();
     let qb = vars.v[1].clone();
-    let coll0: Vec<LT> = vec![lterm!([2]), lterm!([2]), lterm!(1), lterm!([[], 2])];
-    proto_vulcan!([for e in &coll0 { conde { e == 2, true }, [], qa == ['a', qb] }])
+    let coll0: Vec<LT> = vec![lterm!([]), lterm!([[], 2])];
+    proto_vulcan!([for e in &coll0 { conde { e == 1, true }, |t| { [qa] == e, qa == [1, qb, qb] }, append(qa, qb, [2]) }])
 }
 pub fn case_114(vars: &Vars) -> InferredGoal<DU, DE, Goal<DU, DE>> {
     let qa = vars.v[0].clone();
     let qb = vars.v[1].clone();
-    let coll0: LT = LT::from_vec(vec![lterm!(2)]);
-    proto_vulcan!([3 == qa, for e in &coll0 { conde { e == 1, true }, [[], qa, 2] == qa, ["a", [] | e] == qb }])
+    let coll0: Vec<LT> = vec![lterm!(3), lterm!(2)];
+    proto_vulcan!([for e in &coll0 { ['b', 3] == qb, e != [[], _, 1] }])
 }
 pub fn case_115(vars: &Vars) -> InferredGoal<DU, DE, Goal<DU, DE>> {
     let qa = vars.v[0].clone();
     let qb = vars.v[1].clone();
-    let coll0: Vec<LT> = vec![];
-    proto_vulcan!([for e in &coll0 { conde { e == 3, true }, [] == qb, |z, h| {  } }])
+    let coll0: LT = LT::from_vec(vec![lterm!([])]);
+    proto_vulcan!([for e in &coll0 { ['a', 2] == _ }])
 }
 pub fn case_116(vars: &Vars) -> InferredGoal<DU, DE, Goal<DU, DE>> {
     let qa = vars.v[0].clone();
     let qb = vars.v[1].clone();
-    let coll0: Vec<LT> = vec![];
-    proto_vulcan!([[false, qa == 2], for e in &coll0 { conde { e == 1, true }, [append(e, e, [3, 3]), |tz| { tz == [1], [2, 3, 1] != [2, 3 | tz] }], conde { [member(qa, [2, 2]), e == qa] } }])
+    let coll0: Vec<LT> = vec![lterm!(1), lterm!(1), lterm!([[], 1]), lterm!([[], 1])];
+    proto_vulcan!([|z, t| { member(t, [1, 1]) }, for e in &coll0 { conde { e == 3, true }, conde { [member(qa, [3, 1, 1]), qb == [[qb, "a", 1], [1, 2, 1]]], [] } }])
 }
 pub fn case_117(vars: &Vars) -> InferredGoal<DU, DE, Goal<DU, DE>> {
     let qa = vars.v[0].clone();
     let qb = vars.v[1].clone();
     let coll0: Vec<LT> = vec![];
-    proto_vulcan!([for e in &coll0 { append(qb, qb, []), |x, z| { qa != P3(1, x, [_]) } }])
+    proto_vulcan!([[1 | qa] == qa, for e in &coll0 { |x, t| {  } }])
 }
 pub fn case_118(vars: &Vars) -> InferredGoal<DU, DE, Goal<DU, DE>> {
     let qa = vars.v[0].clone();
     let qb = vars.v[1].clone();
-    let coll0: Vec<LT> = vec![lterm!([]), lterm!([])];
-    proto_vulcan!([for e in &coll0 { |z, x| { qa == z, e == e, [1] == (3, []) } }])
+    let coll0: Vec<LT> = vec![lterm!([2]), lterm!([2])];
+    proto_vulcan!([P3([qa, qa], qb, _) == qb, for e in &coll0 { conde { e == 3, true }, qa == [_] }])
 }
 pub fn case_119(vars: &Vars) -> InferredGoal<DU, DE, Goal<DU, DE>> {
     let qa = vars.v[0].clone();
     let qb = vars.v[1].clone();
-    let coll0: Vec<LT> = vec![lterm!(1), qb.clone()];
-    proto_vulcan!([for e in &coll0 { qa != [qb] }])
+    let coll0: LT = LT::from_vec(vec![qa.clone(), qa.clone(), lterm!([])]);
+    proto_vulcan!([qb == [false | qb], for e in &coll0 { conde { [], [(3, e) == (qb, [_]), |tz| { tz == [1, 2], [3 | tz] != [3, 1, 2] }] }, e == [1 | qb] }])
 }
 pub fn case_120(vars: &Vars) -> InferredGoal<DU, DE, Goal<DU, DE>> {
     let qa = vars.v[0].clone();
     let qb = vars.v[1].clone();
-    let coll0: LT = LT::from_vec(vec![qa.clone()]);
-    proto_vulcan!([qa == qb, for e in &coll0 { conde { e == 2, true }, [[[]]] == e, |z| { P3(e, [[]], [1, 2]) == qb, e != [e, 1, qb | qa], P3(_, _, []) == qb } }])
+    let coll0: Vec<LT> = vec![];
+    proto_vulcan!([for e in &coll0 { [qa] == e, [true] }])
 }
 pub fn case_121(vars: &Vars) -> InferredGoal<DU, DE, Goal<DU, DE>> {
     let qa = vars.v[0].clone();
     let qb = vars.v[1].clone();
-    let coll0: Vec<LT> = vec![lterm!([[], 1]), lterm!([[], 1])];
-    proto_vulcan!([|y| { [] == qb, qa == P3([3], [[], 2], qa) }, for e in &coll0 { conde { e == 3, true }, qa == [2, [qa, [], e], _] }])
+    let coll0: Vec<LT> = vec![lterm!(2), lterm!(2)];
+    proto_vulcan!([for e in &coll0 { conde { e == 2, true }, conde { [true, true], member(qb, []) }, conde { [P3([qa], [], 2) == qb, qb != P3(_, [3], _)], e == _ } }])
 }
 pub fn case_122(vars: &Vars) -> InferredGoal<DU, DE, Goal<DU, DE>> {
     let qa = vars.v[0].clone();
     let qb = vars.v[1].clone();
-    let coll0: Vec<LT> = vec![lterm!([1]), lterm!([1])];
-    proto_vulcan!([for e in &coll0 { conde { e == 1, true }, ([_], [qa, []]) == qa }])
+    let coll0: LT = LT::from_vec(vec![lterm!([]), qa.clone(), lterm!([2])]);
+    proto_vulcan!([for e in &coll0 { conde { e == 2, true }, [member(qb, [1, 2])], qb != [qb, 2, 1 | qa] }])
 }
 pub fn case_123(vars: &Vars) -> InferredGoal<DU, DE, Goal<DU, DE>> {
     let qa = vars.v[0].clone();
     let qb = vars.v[1].clone();
-    let coll0: Vec<LT> = vec![];
-    proto_vulcan!([|x| { [1, qb, []] == x, qa == _ }, for e in &coll0 { [P3([qa], _, _) == 2, true], (e, []) == [] }])
+    let coll0: LT = LT::from_vec(vec![lterm!(3), lterm!([[], 2]), qa.clone()]);
+    proto_vulcan!([[qa] == qb, for e in &coll0 { [[qa], [e, e, 1 | qb]] != [2, [2, e, false] | 1], (e, 1) == qa }])
 }
 pub fn case_124(vars: &Vars) -> InferredGoal<DU, DE, Goal<DU, DE>> {
     let qa = vars.v[0].clone();
     let qb = vars.v[1].clone();
-    let coll0: Vec<LT> = vec![];
-    proto_vulcan!([qa != [2, 1], for e in &coll0 { conde { e == 3, true }, [2, qb, e] == qa, 2 == P3(_, [], [2]) }])
+    let coll0: LT = LT::from_vec(vec![lterm!([1]), lterm!([2]), lterm!([2])]);
+    proto_vulcan!([qa == ([[]], 2), for e in &coll0 { conde { e == 3, true }, [append(qa, qa, [])], conde { [e == qb, true], [true, false], [qa, qb] != qb } }])
 }
 pub fn case_125(vars: &Vars) -> InferredGoal<DU, DE, Goal<DU, DE>> {
     let qa = vars.v[0].clone();
     let qb = vars.v[1].clone();
-    let coll0: Vec<LT> = vec![];
-    proto_vulcan!([[_, 1] != qa, for e in &coll0 { conde { e == 2, true }, [qb] == e }])
+    let coll0: LT = LT::from_vec(vec![lterm!(1), lterm!([[], 1]), lterm!(2)]);
+    proto_vulcan!([for e in &coll0 { conde { e == 1, true }, |y, z| { P3(e, 2, y) != [[3, qb] | qb], y == [[1, qb], 1, ['a'] | 1], (1, 3) == qb }, 3 == qa }])
 }
 pub fn case_126(vars: &Vars) -> InferredGoal<DU, DE, Goal<DU, DE>> {
     let qa = vars.v[0].clone();
     let qb = vars.v[1].clone();
-    let coll0: LT = LT::from_vec(vec![lterm!([1])]);
-    proto_vulcan!([2 == qa, for e in &coll0 { |y, t| { P3(e, y, t) == qb } }])
+    let coll0: Vec<LT> = vec![lterm!(3), lterm!([2])];
+    proto_vulcan!([qb == [qa], for e in &coll0 { [[]] == qb }])
 }
 pub fn case_127(vars: &Vars) -> InferredGoal<DU, DE, Goal<DU, DE>> {
     let qa = vars.v[0].clone();
     let qb = vars.v[1].clone();
-    let coll0: Vec<LT> = vec![lterm!([[], 1]), lterm!([[], 1])];
-    proto_vulcan!([qb != P3([1], [], [qa, qa]), for e in &coll0 { conde { e == 3, true }, P3(2, [e, _], [[], []]) == 2 }])
+    let coll0: Vec<LT> = vec![qa.clone(), lterm!(3), lterm!(1), lterm!(1)];
+    proto_vulcan!([for e in &coll0 { conde { e == 1, true }, |x, z| { z == e, qb == [[2, z], 2 | x], append(z, qa, [1, 3]) } }])
 }
 pub fn case_128(vars: &Vars) -> InferredGoal<DU, DE, Goal<DU, DE>> {
     let qa = vars.v[0].clone();
     let qb = vars.v[1].clone();
-    let coll0: LT = LT::from_vec(vec![lterm!([])]);
-    proto_vulcan!([for e in &coll0 { [qa, [qa] | qa] == [2, 3] }])
+    let coll0: Vec<LT> = vec![lterm!([]), lterm!([[], 1]), lterm!([1]), lterm!([1])];
+    proto_vulcan!([[3, [], _ | []] == qa, for e in &coll0 { conde { e == 3, true }, [1, 3, []] == qb, |z| { member(qa, [3]), append(qb, qa, [1, 2]), member(qa, [1]) } }])
 }
 pub fn case_129(vars: &Vars) -> InferredGoal<DU, DE, Goal<DU, DE>> {
     let qa = vars.v[0].clone();
     let qb = vars.v[1].clone();
-    let coll0: LT = LT::from_vec(vec![lterm!(2)]);
-    proto_vulcan!([for e in &coll0 { |tz| { tz == [3, 3], [3, 2, 3, 3] != [3, 2 | tz] } }])
+    let coll0: LT = LT::from_vec(vec![lterm!([[], 2]), lterm!([[], 1]), lterm!([1])]);
+    proto_vulcan!([[[2], [qa | qa], [[]] | qb] == [qa], for e in &coll0 { [3, _, 1] == e, [[] | e] == e }])
 }
 pub fn case_130(vars: &Vars) -> InferredGoal<DU, DE, Goal<DU, DE>> {
     let qa = vars.v[0].clone();
     let qb = vars.v[1].clone();
     let coll0: Vec<LT> = vec![lterm!(2), lterm!(2)];
-    proto_vulcan!([conde { false, [member(qa, [2, 1, 3]), [2, [] | qa] == [[3, qa]]] }, for e in &coll0 { conde { e == 2, true }, P3(2, qb, 3) != qa }])
+    proto_vulcan!([for e in &coll0 { conde { e == 3, true }, true, qa != ([], 2) }])
 }
 pub fn case_131(vars: &Vars) -> InferredGoal<DU, DE, Goal<DU, DE>> {
     let qa = vars.v[0].clone();
     let qb = vars.v[1].clone();
-    let coll0: Vec<LT> = vec![qb.clone(), lterm!([2])];
-    proto_vulcan!([for e in &coll0 { conde { [qb == qb, e == e], ['a' == qa, append(qa, qb, [])] }, [[2] == 2] }])
+    let coll0: LT = LT::from_vec(vec![lterm!([1]), lterm!(1), lterm!(1)]);
+    proto_vulcan!([[append(qb, qa, [1, 3])], for e in &coll0 { conde { e == 3, true }, conde { [[[qa, qa, qb | []], 2] != e, qb == P3(_, 1, qa)] }, |tz| { tz == [2, 1], [2 | tz] != [2, 2, 1] } }])
 }
 pub fn case_132(vars: &Vars) -> InferredGoal<DU, DE, Goal<DU, DE>> {
     let qa = vars.v[0].clone();
     let qb = vars.v[1].clone();
-    let coll0: LT = LT::from_vec(vec![qa.clone(), qb.clone(), qb.clone()]);
-    proto_vulcan!([for e in &coll0 { conde { e == 3, true }, conde { e == [[2 | e]], [qb == e, e != P3([qb], qb, [qa, e])] } }])
+    let coll0: Vec<LT> = vec![];
+    proto_vulcan!([for e in &coll0 { P3(e, 1, _) == qb }])
 }
 pub fn case_133(vars: &Vars) -> InferredGoal<DU, DE, Goal<DU, DE>> {
     let qa = vars.v[0].clone();
     let qb = vars.v[1].clone();
-    let coll0: LT = LT::from_vec(vec![lterm!(2)]);
-    proto_vulcan!([for e in &coll0 { |tz| { [1, 1, 2, 2] != [1, 1 | tz], tz == [2, 2] } }])
+    let coll0: LT = LT::from_vec(vec![lterm!([]), lterm!([]), qa.clone()]);
+    proto_vulcan!([for e in &coll0 { e != P3(3, [qb, qb], [3]) }])
 }
 pub fn case_134(vars: &Vars) -> InferredGoal<DU, DE, Goal<DU, DE>> {
     let qa = vars.v[0].clone();
     let qb = vars.v[1].clone();
-    let coll0: Vec<LT> = vec![lterm!([]), lterm!([]), lterm!(1), lterm!(1)];
-    proto_vulcan!([qa == qa, for e in &coll0 { conde { e == 3, true }, conde { [append(e, qb, []), false] } }])
+    let coll0: Vec<LT> = vec![lterm!([1]), lterm!([[], 1])];
+    proto_vulcan!([for e in &coll0 { conde { e == 1, true }, ([], [1, 2]) == qb }])
 }
 pub fn case_135(vars: &Vars) -> InferredGoal<DU, DE, Goal<DU, DE>> {
     let qa = vars.v[0].clone();
     let qb = vars.v[1].clone();
-    let coll0: Vec<LT> = vec![];
-    proto_vulcan!([conde { [false, ([], [3, []]) == [[qa, qb], [1]]], false, append(qa, qb, [1]) }, for e in &coll0 { _ == e }])
+    let coll0: Vec<LT> = vec![lterm!([[], 1]), lterm!([[], 1])];
+    proto_vulcan!([[[3, qa, 1], [] | [[], true]] == P3([], qb, []), for e in &coll0 { conde { e == 2, true }, |y| { false, |tz| { [1 | tz] != [1, 2, 3], tz == [2, 3] }, true } }])
 }
 pub fn case_136(vars: &Vars) -> InferredGoal<DU, DE, Goal<DU, DE>> {
     let qa = vars.v[0].clone();
     let qb = vars.v[1].clone();
-    let coll0: Vec<LT> = vec![];
-    proto_vulcan!([|z| { [qb] == qb, append(qb, qb, []) }, for e in &coll0 { conde { e == 2, true }, [[_, "bc", false] == qa, |tz| { tz == [2, 2], [1, 2, 2, 2] != [1, 2 | tz] }, qb == [e]] }])
+    let coll0: LT = LT::from_vec(vec![lterm!([])]);
+    proto_vulcan!([for e in &coll0 { qa == [_, 2, 1] }])
 }
 pub fn case_137(vars: &Vars) -> InferredGoal<DU, DE, Goal<DU, DE>> {
     let qa = vars.v[0].clone();
     let qb = vars.v[1].clone();
-    let coll0: LT = LT::from_vec(vec![lterm!([[], 1]), lterm!([2]), qa.clone()]);
-    proto_vulcan!([[], for e in &coll0 { e == qa }])
+    let coll0: LT = LT::from_vec(vec![qb.clone()]);
+    proto_vulcan!([for e in &coll0 { [[3 | e] == e] }])
 }
 pub fn case_138(vars: &Vars) -> InferredGoal<DU, DE, Goal<DU, DE>> {
     let qa = vars.v[0].clone();
     let qb = vars.v[1].clone();
-    let coll0: LT = LT::from_vec(vec![qb.clone(), qb.clone(), lterm!(3)]);
-    proto_vulcan!([[([], qb) == qa, |tz| { tz == [1], [1, 1 | tz] != [1, 1, 1] }], for e in &coll0 { conde { e == 3, true }, [qb == [e], qb == P3(3, [3, 3], 1), e == [qb]] }])
+    let coll0: LT = LT::from_vec(vec![lterm!(1), lterm!(2), qa.clone()]);
+    proto_vulcan!([qa == ([qb], qa), for e in &coll0 { |y, z| { qa == [qa, 2], false, P3(1, [], qa) == y } }])
 }
 pub fn case_139(vars: &Vars) -> InferredGoal<DU, DE, Goal<DU, DE>> {
     let qa = vars.v[0].clone();
     let qb = vars.v[1].clone();
-    let coll0: Vec<LT> = vec![];
-    proto_vulcan!([for e in &coll0 { conde { e == 1, true }, [e != (2, _)] }])
+    let coll0: Vec<LT> = vec![lterm!([]), lterm!([])];
+    proto_vulcan!([for e in &coll0 { conde { e == 3, true }, |z| { qa == (e, qb), z != qa } }])
 }
 pub fn case_140(vars: &Vars) -> InferredGoal<DU, DE, Goal<DU, DE>> {
     let qa = vars.v[0].clone();
     let qb = vars.v[1].clone();
-    let coll0: LT = LT::from_vec(vec![lterm!(3), lterm!([[], 1]), lterm!(3)]);
-    proto_vulcan!([for e in &coll0 { [] }])
+    let coll0: LT = LT::from_vec(vec![lterm!([[], 2])]);
+    proto_vulcan!([for e in &coll0 { conde { e == 1, true }, P3(1, [2], [2, []]) != qb }])
 }
 pub fn case_141(vars: &Vars) -> InferredGoal<DU, DE, Goal<DU, DE>> {
     let qa = vars.v[0].clone();
     let qb = vars.v[1].clone();
-    let coll0: Vec<LT> = vec![];
-    proto_vulcan!([false, for e in &coll0 { conde { e == 3, true }, qb == [] }])
+    let coll0: LT = LT::from_vec(vec![lterm!(3)]);
+    proto_vulcan!([for e in &coll0 { |t| { e == [[_, [], _], [1, [], e]] }, conde { member(qa, [2, 2, 2]) } }])
 }
 pub fn case_142(vars: &Vars) -> InferredGoal<DU, DE, Goal<DU, DE>> {
     let qa = vars.v[0].clone();
     let qb = vars.v[1].clone();
-    let coll0: LT = LT::from_vec(vec![lterm!([[], 1])]);
-    proto_vulcan!([for e in &coll0 { [2, e] == qa }])
+    let coll0: LT = LT::from_vec(vec![qa.clone(), lterm!([2]), lterm!(3)]);
+    proto_vulcan!([for e in &coll0 { conde { [1, [qa, _], qb] != P3([e, _], [qb], [qa]), qb == qa, [qa == qb, _ == qb] }, [] != qa }])
 }
 pub fn case_143(vars: &Vars) -> InferredGoal<DU, DE, Goal<DU, DE>> {
     let qa = vars.v[0].clone();
     let qb = vars.v[1].clone();
-    let coll0: LT = LT::from_vec(vec![lterm!(3), lterm!([[], 2]), lterm!([[], 1])]);
-    proto_vulcan!([|tz| { tz == [3], [1, 2, 3] != [1, 2 | tz] }, for e in &coll0 { |z| { e == [_, [qa], [3, qb, e | qa] | z] }, P3([_, 3], qa, _) == 1 }])
+    let coll0: Vec<LT> = vec![lterm!(2), lterm!([[], 1])];
+    proto_vulcan!([for e in &coll0 { qb == e, conde { [], false } }])
 }
 pub fn case_144(vars: &Vars) -> InferredGoal<DU, DE, Goal<DU, DE>> {
     let qa = vars.v[0].clone();
     let qb = vars.v[1].clone();
-    let coll0: LT = LT::from_vec(vec![lterm!(2), qa.clone(), lterm!(3)]);
-    proto_vulcan!([qa == [qb, qa, true], for e in &coll0 { conde { e == 2, true }, e == [2, ['a'], 2 | qa], [[qb], 2, qa] != [[e] | qb] }])
+    let coll0: Vec<LT> = vec![lterm!([]), lterm!(3)];
+    proto_vulcan!([['a'] == qb, for e in &coll0 { P3(_, e, []) != qb, (e, []) == [qb, 2, qa] }])
 }
 pub fn case_145(vars: &Vars) -> InferredGoal<DU, DE, Goal<DU, DE>> {
     let qa = vars.v[0].clone();
     let qb = vars.v[1].clone();
-    let coll0: LT = LT::from_vec(vec![lterm!([1])]);
-    proto_vulcan!([for e in &coll0 { |tz| { [1, 1, 2, 3] != [1, 1 | tz], tz == [2, 3] }, e == e }])
+    let coll0: Vec<LT> = vec![];
+    proto_vulcan!([for e in &coll0 { conde { e == 2, true }, conde { append(qa, qa, [2, 1]), [e == 1, [qb, 'a', _] == qa], [true, [qa] == P3(qa, 1, [2])] } }])
 }
 pub fn case_146(vars: &Vars) -> InferredGoal<DU, DE, Goal<DU, DE>> {
     let qa = vars.v[0].clone();
     let qb = vars.v[1].clone();
-    let coll0: LT = LT::from_vec(vec![lterm!(1)]);
-    proto_vulcan!([for e in &coll0 { 3 == e }])
+    let coll0: Vec<LT> = vec![];
+    proto_vulcan!([for e in &coll0 { conde { e == 3, true }, false }])
 }
 pub fn case_147(vars: &Vars) -> InferredGoal<DU, DE, Goal<DU, DE>> {
     let x = vars.v[0].clone();
@@ -930,658 +930,659 @@ pub fn case_156(vars: &Vars) -> InferredGoal<DU, DE, Goal<DU, DE>> {
 }
 pub fn case_157(vars: &Vars) -> InferredGoal<DU, DE, Goal<DU, DE>> {
     let x = vars.v[0].clone();
-    proto_vulcan!([matche x { _ | z => { [member(x, [3, 2, 1]), x == [x, x]], [x | x] == x }, }])
+    proto_vulcan!([_ == x, matche [2] { [[1, 'a']] | [[y], [y], [y]] => [append(x, x, [3, 3]), [x != [2, x], append(x, x, [1, 3])]], }])
 }
 pub fn case_158(vars: &Vars) -> InferredGoal<DU, DE, Goal<DU, DE>> {
     let q = vars.v[0].clone();
     let x = vars.v[1].clone();
-    proto_vulcan!([[[2, "a"] == x], match [2 | x] { [_, [], t] => { |z| {  }, [[q] | q] == x }, 1 => [matchu q { _ | _ => { 2 == P3(x, q, 1), true }, }, member(q, [2, 3, 1])], }])
+    proto_vulcan!([|t, z| {  }, matcha x { [[1] | _] | P3([_], [], 1) => |tz| { [1, 2] != [1 | tz], tz == [2] }, [[h, [], z]] | [[_, x], [[], t], [x, _, x | _]] => , _ => [x == 7, x == 8], }])
 }
 pub fn case_159(vars: &Vars) -> InferredGoal<DU, DE, Goal<DU, DE>> {
     let x = vars.v[0].clone();
     let y = vars.v[1].clone();
-    proto_vulcan!([matchu x { "bc" | 1 => , Named { a: [3], b: t } => { member(x, [1, 1, 3]) }, }])
+    proto_vulcan!([match y { y | [[], [h, z | _]] => , [[t, false | y]] => , Named { a: t, b: y } => , }])
 }
 pub fn case_160(vars: &Vars) -> InferredGoal<DU, DE, Goal<DU, DE>> {
     let x = vars.v[0].clone();
-    proto_vulcan!([matcha x { [t] => , P3(_, 1, [[]]) => , }])
+    proto_vulcan!([true, match x { [[z, x, z], [true], _ | z] => [[append(x, z, [])], onceo { false }], }])
 }
 pub fn case_161(vars: &Vars) -> InferredGoal<DU, DE, Goal<DU, DE>> {
     let x = vars.v[0].clone();
-    let y = vars.v[1].clone();
-    proto_vulcan!([[y == (3, [_, 3])], match y { [[[], []], 'b', [t]] => { x == P3(x, [], t), x == [[1, y, _], [1, 2] | t] }, [[2]] => { true }, Named { a: h, b: [1] } => [append(x, y, [1]), onceo { x == ['a', 1 | x] }], }])
+    proto_vulcan!([matche x { P3([2, 1], 2, _) => conde { [true, P3(x, [], [_]) == x], false, [x == ([], [_, 3]), append(x, x, [1, 1])] }, P3(_, _, []) => [|y, z| { y != (z, 3), |tz| { tz == [2], [1, 2 | tz] != [1, 2, 2] }, z != [_] }, [_ | 1] != x], }])
 }
 pub fn case_162(vars: &Vars) -> InferredGoal<DU, DE, Goal<DU, DE>> {
-    let q = vars.v[0].clone();
-    let x = vars.v[1].clone();
-    proto_vulcan!([match 3 { P3(1, [], [2]) => , }])
+    let x = vars.v[0].clone();
+    let y = vars.v[1].clone();
+    proto_vulcan!([matche y { y => [[y, 2, 1 | 1], y] != x, x => [conde { [member(x, [3, 2, 2]), false] }, conde { [true, true == [3 | x]] }], }])
 }
 pub fn case_163(vars: &Vars) -> InferredGoal<DU, DE, Goal<DU, DE>> {
     let x = vars.v[0].clone();
-    proto_vulcan!([match x { 2 | [[1], [x, _], []] => , [[[], z, _ | z], [], [[]] | _] => [matchu x { Named { a: t, b: y } => { ([x, 2], [[], _]) != [1, [z], z] }, [[_, 2, 2 | 2] | _] => { [[2, 1, 2 | z], 1, [3]] == x, 1 != P3(z, [_, z], x) }, }, |x| { (_, [_, 3]) == x, |tz| { [1, 1 | tz] != [1, 1, 1], tz == [1] }, true }], [x] => x == 1, }])
+    proto_vulcan!([match x { [z, 2, false | t] => [[t == _]], P3(1, y, 1) | [z, [t, y | _], ['b', 2, y | _]] => { y == y, |t, z| { x == [y] } }, }])
 }
 pub fn case_164(vars: &Vars) -> InferredGoal<DU, DE, Goal<DU, DE>> {
-    let x = vars.v[0].clone();
-    let y = vars.v[1].clone();
-    proto_vulcan!([|t, h| { 1 == t, y == t }, matcha x { [[1], ["bc", 'a'], [[]] | _] => { [y, _, y] == y, ([], _) == x }, [[1 | x], [_, _], [1, _]] | [[x, 1], 2] => { onceo { [3, 2, x | x] == x }, x == [[x, 'b', false], [true, 3, x | x]] }, Named { a: _, b: t } => { x == [_, y], [] }, }])
+    let q = vars.v[0].clone();
+    let x = vars.v[1].clone();
+    proto_vulcan!([matche [q, 'b'] { _ => member(q, [1, 2, 3]), 1 => { q != [x, 2 | 3], |t| { [1, t | q] == x, [x, q] == x } }, y | Named { a: [_, []], b: [] } => [conde { q == (3, [3]), [[x | 1] == x, q != [x, 3, []]], [x != [q, [q, []]], 2 == x] }, |y, x| {  }], }])
 }
 pub fn case_165(vars: &Vars) -> InferredGoal<DU, DE, Goal<DU, DE>> {
     let x = vars.v[0].clone();
     let y = vars.v[1].clone();
-    proto_vulcan!([y != P3([_], _, y), matchu x { Named { a: _, b: [1, z] } => condu { [([], y) == y, [_ | x] != y], true }, t => , _ => , }])
+    proto_vulcan!([conda { [[1, x] == x, y == [3]], [[1, 1], [2 | [y]], [x, x, 'b']] == ([x, x], x) }, matcha x { true | t => , }])
 }
 pub fn case_166(vars: &Vars) -> InferredGoal<DU, DE, Goal<DU, DE>> {
-    let x = vars.v[0].clone();
-    let y = vars.v[1].clone();
-    proto_vulcan!([matcha y { _ => [x == ['b', 2, [y | y] | x], matcha y { Named { a: h, b: 3 } | [[[]], 2 | h] => { x == [2, y] }, P3(h, [_, y], [2, x]) => { x != 1, x != [_, x | x] }, [[y, false, _ | _], ['b', 'a', 2], false] => { x == P3(x, 1, 2) }, }], Named { a: y, b: [_, _] } => , }])
+    let q = vars.v[0].clone();
+    let x = vars.v[1].clone();
+    proto_vulcan!([conde { [], false, [x == (x, q), q == [[], 1, 'a']] }, matcha 2 { [[z, z, [] | 3], [1], [[], y, h]] | _ => { conde { [[3, 1, x]] == x, [|tz| { [3 | tz] != [3, 1], tz == [1] }, q != [[q, _], [[], _, _ | x], 1 | [[]]]] }, [[x, x, x | q], [] | q] == x }, }])
 }
 pub fn case_167(vars: &Vars) -> InferredGoal<DU, DE, Goal<DU, DE>> {
-    let x = vars.v[0].clone();
-    proto_vulcan!([|tz| { tz == [3], [1 | tz] != [1, 3] }, matcha [2, _, x] { _ | Named { a: 3, b: 3 } => , 1 => { false, [x, x] == x }, }])
+    let q = vars.v[0].clone();
+    let x = vars.v[1].clone();
+    proto_vulcan!([conde { [["bc"] == x, x == [_, q]], [false, [1] == x] }, match q { [2] | [[], x] => |tz| { tz == [3], [2, 1 | tz] != [2, 1, 3] }, _ => [q == 7, q == 8], }])
 }
 pub fn case_168(vars: &Vars) -> InferredGoal<DU, DE, Goal<DU, DE>> {
-    let x = vars.v[0].clone();
-    proto_vulcan!([condu { [x != [_, x], [3] == x], [x == _, x == [3]], x != [[x], [[], 2]] }, matche x { 3 | 1 => { condu { member(x, [1, 1]), [x] == x, x == [1] }, [2, _] == _ }, 2 => , }])
+    let q = vars.v[0].clone();
+    let x = vars.v[1].clone();
+    proto_vulcan!([matcha q { [[h, t, y | x]] | [h] => , P3([z], y, z) => , P3([[], []], 2, _) | [[_ | [y]], [x, 2, 3], [z, 3, x]] => { [|tz| { tz == [1], [2, 1] != [2 | tz] }], conda { [q == [[1 | [1, q]], 2], q == q] } }, }])
 }
 pub fn case_169(vars: &Vars) -> InferredGoal<DU, DE, Goal<DU, DE>> {
     let x = vars.v[0].clone();
-    proto_vulcan!([matchu x { h => { [] }, h => { |t| { append(h, t, [2, 3]), [1, 1, true] != h, member(x, []) } }, }])
+    proto_vulcan!([matchu x { [[1], [h, 3 | 2]] => |z| { z != (2, _), ['a', 1] == x, z == 1 }, [h, [[], _, 1]] => , _ => { x == 7, x == 8 }, }])
 }
 pub fn case_170(vars: &Vars) -> InferredGoal<DU, DE, Goal<DU, DE>> {
-    let q = vars.v[0].clone();
-    let x = vars.v[1].clone();
-    proto_vulcan!([|t| { P3(t, 1, [_, 3]) == t, false, true }, matchu q { _ => [2] == q, }])
+    let x = vars.v[0].clone();
+    proto_vulcan!([conda { [|tz| { [3, 2 | tz] != [3, 2, 3, 3], tz == [3, 3] }, [[[], _], x | x] == x], true, [1] == x }, match x { 1 => true, }])
 }
 pub fn case_171(vars: &Vars) -> InferredGoal<DU, DE, Goal<DU, DE>> {
     let x = vars.v[0].clone();
-    proto_vulcan!([match x { [3, y | h] => { P3(_, [y], [x]) == y, [3, x, x] == y }, _ | [[3, h, h]] => , _ => { true, ['a' != x] }, }])
+    let y = vars.v[1].clone();
+    proto_vulcan!([|h| { [y, 3 | h] == y, false }, matchu x { 3 | [] => , t | ["a", 3 | [z]] => { conda { [append(y, y, [3]), x != [[y, [], 3 | y], 3, ['a']]], |tz| { tz == [3], [2 | tz] != [2, 3] }, [1 == x, [y, 2 | y] == y] } }, }])
 }
 pub fn case_172(vars: &Vars) -> InferredGoal<DU, DE, Goal<DU, DE>> {
-    let q = vars.v[0].clone();
-    let x = vars.v[1].clone();
-    proto_vulcan!([matcha q { _ => { x == 7, x == 8 }, [[t, [], t], h, y] => , }])
+    let x = vars.v[0].clone();
+    let y = vars.v[1].clone();
+    proto_vulcan!([match [2, x, 1 | y] { _ => , [[[], 3, 1], [3, "bc", _]] | _ => [onceo { x == [[x, x, x], [y, x]] }, matchu x { _ | _ => { member(x, [1, 2, 3]) }, ['b', 3, []] | _ => [2 == y, true], _ => { (_, _) == 2 }, }], }])
 }
 pub fn case_173(vars: &Vars) -> InferredGoal<DU, DE, Goal<DU, DE>> {
     let x = vars.v[0].clone();
-    let y = vars.v[1].clone();
-    proto_vulcan!([matcha x { _ => member(y, [1, 2, 3]), _ => , }])
+    proto_vulcan!([|t| { [t, t, x] != t, [false, _] == t }, match x { P3([[]], z, []) => [[], member(x, [])], Named { a: 3, b: [[]] } => { member(x, []), 1 != x }, _ => , }])
 }
 pub fn case_174(vars: &Vars) -> InferredGoal<DU, DE, Goal<DU, DE>> {
-    let q = vars.v[0].clone();
-    let x = vars.v[1].clone();
-    proto_vulcan!([matcha q { _ => { q == 7, q == 8 }, Named { a: z, b: [1] } | 2 => , 2 => { [] == x, conde { append(q, q, []) } }, }])
-}
-pub fn case_175(vars: &Vars) -> InferredGoal<DU, DE, Goal<DU, DE>> {
     let x = vars.v[0].clone();
     let y = vars.v[1].clone();
-    proto_vulcan!([conde { [[[], x | ["a", 'a']] != x, x == [_, y]], [[[[], 3, 3], 2] != y, [x, 2, 2 | x] == y] }, matchu x { [[t, _, 1 | y]] => { |y| { append(x, y, [3]), y == (2, [_]) } }, }])
+    proto_vulcan!([matche x { x => conde { [false, false], [], x != [[1, 3], [3, 3], y] }, ['a'] => x != [[]], [[t | _], x] => [[]], }])
+}
+pub fn case_175(vars: &Vars) -> InferredGoal<DU, DE, Goal<DU, DE>> {
+    let q = vars.v[0].clone();
+    let x = vars.v[1].clone();
+    proto_vulcan!([[['a' | q], [q], 1] == 1, match 1 { [z | _] => matcha q { [[1 | []], _ | z] => , [y, 2, [h, t, 2]] => false, }, [[], [h, 'b'], [t, 2, 2] | [[], x]] | Named { a: [], b: _ } => [|t, x| { q != [t], 1 == q }, q != 1], }])
 }
 pub fn case_176(vars: &Vars) -> InferredGoal<DU, DE, Goal<DU, DE>> {
     let q = vars.v[0].clone();
     let x = vars.v[1].clone();
-    proto_vulcan!([match [q, 3] { false | y => , x => { matche x { [[x, 1, 1 | 'a'], [t, y, _]] | Named { a: [], b: 1 } => { ([], [_]) == q, q != ([], [[], 1]) }, } }, P3(y, z, h) => { h == P3([], 3, _) }, }])
+    proto_vulcan!([|x| { true, _ == 3 }, matchu [2] { P3(_, [_], z) | _ => { |h, y| { h != [y | h], (3, y) != y, [[1 | q], [], [2, 3, 'a']] != h }, |t| { |tz| { tz == [3], [3, 3] != [3 | tz] } } }, }])
 }
 pub fn case_177(vars: &Vars) -> InferredGoal<DU, DE, Goal<DU, DE>> {
-    let q = vars.v[0].clone();
-    let x = vars.v[1].clone();
-    proto_vulcan!([[[q] != x, q == []], matcha x { 1 => |h| { x != P3([], h, [3, []]), member(q, [1]) }, _ => member(x, [1, 2, 3]), }])
+    let x = vars.v[0].clone();
+    proto_vulcan!([x == x, matchu x { x => { conde { [x == [x], _ == [1, x, x]] }, true == x }, }])
 }
 pub fn case_178(vars: &Vars) -> InferredGoal<DU, DE, Goal<DU, DE>> {
-    let q = vars.v[0].clone();
-    let x = vars.v[1].clone();
-    proto_vulcan!([matche x { [z | [t]] => { [t, 1] == q }, 'a' => , _ => { q == 7, q == 8 }, }])
+    let x = vars.v[0].clone();
+    let y = vars.v[1].clone();
+    proto_vulcan!([match y { P3(x, 3, x) => { conde { [], [[1, 2] == x, x != [y | x]] }, [[2, y, 'b'] != y, y != x] }, [['b', 2 | _], [x, 1] | t] | Named { a: 1, b: 1 } => , }])
 }
 pub fn case_179(vars: &Vars) -> InferredGoal<DU, DE, Goal<DU, DE>> {
     let x = vars.v[0].clone();
-    proto_vulcan!([x != x, matche [3, 2, 3 | [x, x]] { P3(y, _, x) => [|tz| { tz == [1], [1, 2, 1] != [1, 2 | tz] }, true], }])
+    let y = vars.v[1].clone();
+    proto_vulcan!([matchu x { [[false, _, y | y], ['b', z, 1], 2] | [1, [3 | h]] => , }])
 }
 pub fn case_180(vars: &Vars) -> InferredGoal<DU, DE, Goal<DU, DE>> {
-    let q = vars.v[0].clone();
-    let x = vars.v[1].clone();
-    proto_vulcan!([matchu x { 2 | [[2 | _], [z, h] | [y]] => [|t| { append(q, x, []) }, match x { [[2, [], 2], h] => , _ => x == x, [1, true, h] | 3 => [append(x, x, [1, 1]), [x, 3, q] == q], }], y => [[[x, x] == y, y != P3([y], [], q)], (1, [x]) == x], }])
+    let x = vars.v[0].clone();
+    proto_vulcan!([matche x { [[1, h, [] | z], ['a', y, t | z], 1 | [h, h]] => [[y == t, [2, x, x] == t, x != [2, _, z]]], Named { a: x, b: _ } => , _ => { match x { _ => member(x, [1, 2, 3]), _ => , [[], [x], _] => { |tz| { tz == [2, 2], [3, 2 | tz] != [3, 2, 2, 2] }, false }, } }, }])
 }
 pub fn case_181(vars: &Vars) -> InferredGoal<DU, DE, Goal<DU, DE>> {
-    let x = vars.v[0].clone();
-    let y = vars.v[1].clone();
-    proto_vulcan!([matche x { Named { a: [1], b: [] } => { [x == y], matchu y { [1, [3, 1 | [z]], h] => { member(y, []) }, 2 => { y == [_, 3 | x], [[]] == x }, } }, 3 => [onceo { P3([y, 3], [], 3) == y }, |x, h| { [h, ["a", []]] != y, member(h, [3, 3, 3]) }], }])
+    let q = vars.v[0].clone();
+    let x = vars.v[1].clone();
+    proto_vulcan!([|t| { q == P3(1, q, 2), |tz| { tz == [1], [1, 1, 1] != [1, 1 | tz] } }, matchu x { [[1, 2], [_], [x, 2]] => , [[y, y]] => , P3([_], [[]], h) | "bc" => { onceo { x == [_] }, |y| { q != [1, x], member(q, [1]), y == q } }, }])
 }
 pub fn case_182(vars: &Vars) -> InferredGoal<DU, DE, Goal<DU, DE>> {
     let x = vars.v[0].clone();
     let y = vars.v[1].clone();
-    proto_vulcan!([conde { x != x, [(2, y) != y, member(y, [])] }, matche [_, true, _] { [[z, y, 1] | t] => conde { ['a' == t, y != t], [], [] }, y => { [2, _, x] == [2, [y, y]] }, 3 => conda { [true, y != [1, x, x | y]] }, }])
+    proto_vulcan!([|y| { true }, matcha x { [[] | x] => , x | [_] => , _ => { member(y, [1, 2, 3]) }, }])
 }
 pub fn case_183(vars: &Vars) -> InferredGoal<DU, DE, Goal<DU, DE>> {
     let x = vars.v[0].clone();
-    proto_vulcan!([onceo { x == [x, _, true] }, matchu x { _ => { x == 7, x == 8 }, }])
+    let y = vars.v[1].clone();
+    proto_vulcan!([matchu x { [[], [[], x] | [z, h]] => { P3(y, 1, 1) != x, x != _ }, y => , }])
 }
 pub fn case_184(vars: &Vars) -> InferredGoal<DU, DE, Goal<DU, DE>> {
     let x = vars.v[0].clone();
     let y = vars.v[1].clone();
-    proto_vulcan!([matchu [2] { [[[]], y, [false | [2]]] => , }])
+    proto_vulcan!([|h| { h != [1, h, 2], (y, 3) == x }, matchu [3, 1] { _ => { member(y, [1, 2, 3]) }, [[h, [], [] | _], [y, h, z], 1] => , [[_, z, t], [false], [z, 'a', "bc" | z]] => , }])
 }
 pub fn case_185(vars: &Vars) -> InferredGoal<DU, DE, Goal<DU, DE>> {
     let q = vars.v[0].clone();
     let x = vars.v[1].clone();
-    proto_vulcan!([matcha q { _ => member(x, [1, 2, 3]), }])
+    proto_vulcan!([P3(1, [], x) != q, matche q { t => , }])
 }
 pub fn case_186(vars: &Vars) -> InferredGoal<DU, DE, Goal<DU, DE>> {
-    let x = vars.v[0].clone();
-    proto_vulcan!([conde { true, [x != 1, |tz| { tz == [3], [3 | tz] != [3, 3] }] }, matcha 3 { _ => member(x, [1, 2, 3]), }])
+    let q = vars.v[0].clone();
+    let x = vars.v[1].clone();
+    proto_vulcan!([matchu 1 { _ => [x == 7, x == 8], true | [[z, 2, _ | h]] => , }])
 }
 pub fn case_187(vars: &Vars) -> InferredGoal<DU, DE, Goal<DU, DE>> {
-    let q = vars.v[0].clone();
-    let x = vars.v[1].clone();
-    proto_vulcan!([match q { [[z]] => , _ => { q == 7, q == 8 }, }])
-}
-pub fn case_188(vars: &Vars) -> InferredGoal<DU, DE, Goal<DU, DE>> {
-    let q = vars.v[0].clone();
-    let x = vars.v[1].clone();
-    proto_vulcan!([|z| { P3([q, z], [q], [z, _]) == z, [] == x }, match q { Named { a: _, b: _ } | [2] => { [false, 3 == x], x == [q, [q, q, []]] }, _ => [q == 7, q == 8], }])
-}
-pub fn case_189(vars: &Vars) -> InferredGoal<DU, DE, Goal<DU, DE>> {
-    let q = vars.v[0].clone();
-    let x = vars.v[1].clone();
-    proto_vulcan!([q != q, matche x { x => onceo { true }, }])
-}
-pub fn case_190(vars: &Vars) -> InferredGoal<DU, DE, Goal<DU, DE>> {
-    let q = vars.v[0].clone();
-    let x = vars.v[1].clone();
-    proto_vulcan!([matcha q { [[y], [2 | t], [x, 2, 1]] => conde { [], [[] == t, x == [x, x | x]], [] }, }])
-}
-pub fn case_191(vars: &Vars) -> InferredGoal<DU, DE, Goal<DU, DE>> {
     let x = vars.v[0].clone();
     let y = vars.v[1].clone();
-    proto_vulcan!([matchu [2, []] { _ => , [_, [1 | 3], [1 | x]] => matche x { [[true, 2, 'b']] => { y == P3([], y, []) }, 2 | [[1, 1]] => member(x, [1, 2]), 3 => , }, }])
+    proto_vulcan!([onceo { false }, matchu y { [y] | [[t | _], t] => , }])
+}
+pub fn case_188(vars: &Vars) -> InferredGoal<DU, DE, Goal<DU, DE>> {
+    let x = vars.v[0].clone();
+    let y = vars.v[1].clone();
+    proto_vulcan!([x == [], matchu y { [[1, _, z]] => , _ => , }])
+}
+pub fn case_189(vars: &Vars) -> InferredGoal<DU, DE, Goal<DU, DE>> {
+    let x = vars.v[0].clone();
+    proto_vulcan!([matchu x { 'a' => { [|tz| { tz == [1, 2], [1, 2, 1, 2] != [1, 2 | tz] }, member(x, [2, 3]), |tz| { tz == [2, 2], [2, 3, 2, 2] != [2, 3 | tz] }], condu { [append(x, x, [2, 3]), |tz| { tz == [2, 1], [1, 1, 2, 1] != [1, 1 | tz] }], [[x, [] | x] == x, false] } }, Named { a: [[], z], b: [1, t] } => { match t { h => , P3([h], 1, [z, y]) => , Named { a: z, b: [x] } => { true == [z, z | z], z != [2, z | t] }, }, [] }, }])
+}
+pub fn case_190(vars: &Vars) -> InferredGoal<DU, DE, Goal<DU, DE>> {
+    let x = vars.v[0].clone();
+    proto_vulcan!([|h| { append(x, h, []) }, matchu [x] { _ => , [[x, t | _] | _] => , 3 | Named { a: [], b: [] } => [matcha x { 2 => [x == [[x | ['a', x]]], 1 != x], P3(1, _, z) => [z != [z, 3, 2 | [x, "bc"]], member(x, [])], _ => { |tz| { [1, 1, 2, 1] != [1, 1 | tz], tz == [2, 1] } }, }, append(x, x, [])], }])
+}
+pub fn case_191(vars: &Vars) -> InferredGoal<DU, DE, Goal<DU, DE>> {
+    let q = vars.v[0].clone();
+    let x = vars.v[1].clone();
+    proto_vulcan!([matcha [q, _] { [_, h | x] => [conde { x != P3(_, 3, [_, h]), [P3(3, [3, _], [2]) != h, [x, 3] == 'a'] }, x == [[2, false, _], [x, x]]], }])
 }
 pub fn case_192(vars: &Vars) -> InferredGoal<DU, DE, Goal<DU, DE>> {
     let x = vars.v[0].clone();
-    let y = vars.v[1].clone();
-    proto_vulcan!([[x == [[], x, y]], matcha x { [] | _ => [true, y == x], }])
+    proto_vulcan!([matchu x { [] => { conde { [] } }, [[t], h] => |y, z| { z == 1, _ != t, [1] == y }, _ => [matche x { 2 | 2 => { false }, _ => [_] == x, [[z, 1, t]] => { z != [3, x, 2], append(x, x, [2]) }, }, x == 1], }])
 }
 pub fn case_193(vars: &Vars) -> InferredGoal<DU, DE, Goal<DU, DE>> {
-    let x = vars.v[0].clone();
-    let y = vars.v[1].clone();
-    proto_vulcan!([matche x { P3(z, t, h) => { matchu [h] { [[t, z, 1], [1, h] | x] | [2, x, ['b', 2 | ["a"]]] => member(x, [1, 3, 1]), }, y != 3 }, Named { a: [1], b: x } => [[[_, x, 1 | 2]] == x, x == [x, y, y]], [['a'] | _] => , }])
-}
-pub fn case_194(vars: &Vars) -> InferredGoal<DU, DE, Goal<DU, DE>> {
     let q = vars.v[0].clone();
     let x = vars.v[1].clone();
-    proto_vulcan!([(3, [2, x]) != q, matchu x { h => |y| { y == _, (3, [h]) == x }, y => { [false, "bc" | x] == y }, [[_, 1 | _], [h, 1 | z], x | _] => matchu x { [['b', [], []], z, [2, _]] => , P3([], [x], 2) | [3, [2 | z] | t] => true, z => , }, }])
+    proto_vulcan!([matche [_ | x] { P3(_, t, _) | [[h, 2, _], x, t] => , t | [[t], [2 | _], [y, 'a']] => q != 3, _ | [[x, x, x | [2, h]], 2, ["bc"]] => { q == [[_, 1 | false], [q], [_, []] | q], conde { [[q | q] == q, q == P3(1, q, 3)], [[_], [1, _ | q], q] == q } }, }])
+}
+pub fn case_194(vars: &Vars) -> InferredGoal<DU, DE, Goal<DU, DE>> {
+    let x = vars.v[0].clone();
+    let y = vars.v[1].clone();
+    proto_vulcan!([matche y { _ => member(x, [1, 2, 3]), }])
 }
 pub fn case_195(vars: &Vars) -> InferredGoal<DU, DE, Goal<DU, DE>> {
     let x = vars.v[0].clone();
-    proto_vulcan!([x == 1, matchu x { _ | [[x, 1], [h, 2], [t] | [y, y]] => , [z, [z, h, []]] => matcha 3 { P3(_, 2, z) => x == h, }, }])
+    let y = vars.v[1].clone();
+    proto_vulcan!([conde { [member(x, [2, 2, 3]), x != [y, y]], [x != [[y], 3 | []], |tz| { [1, 2, 3, 1] != [1, 2 | tz], tz == [3, 1] }], P3([x, 3], x, 3) == x }, matcha x { [[z], h | 1] => { append(h, x, [2]), [] }, }])
 }
 pub fn case_196(vars: &Vars) -> InferredGoal<DU, DE, Goal<DU, DE>> {
     let x = vars.v[0].clone();
     let y = vars.v[1].clone();
-    proto_vulcan!([matcha y { [h] => conde { append(y, h, [1]), true }, }])
+    proto_vulcan!([false, match x { [[t, 3]] => [x == 3, [y != 1, member(x, []), y == 3]], }])
 }
 pub fn case_197(vars: &Vars) -> InferredGoal<DU, DE, Goal<DU, DE>> {
     let x = vars.v[0].clone();
     let y = vars.v[1].clone();
-    proto_vulcan!([matche x { [[h | z] | t] => [[2] != ([z, 2], 2), matchu z { 1 => false, [[_, t], [x, 3 | y], _ | [true, y]] => { [t, _, [y]] == [['a', y, 3], h], append(x, x, []) }, [[x] | _] => , }], t => , }])
+    proto_vulcan!([condu { y == P3(2, [], [y]) }, matchu y { [z, [1, [], x | z], [z, 2] | z] => |tz| { tz == [3], [2, 3] != [2 | tz] }, }])
 }
 pub fn case_198(vars: &Vars) -> InferredGoal<DU, DE, Goal<DU, DE>> {
     let x = vars.v[0].clone();
-    let y = vars.v[1].clone();
-    proto_vulcan!([match y { [[1], [2, _], [z]] => [[], conde { [append(z, y, [1, 3]), [[x, _], [3, 2, 'b'] | x] == y], true, [x == z, [] == y] }], }])
+    proto_vulcan!([matcha x { [1 | z] => , }])
 }
 pub fn case_199(vars: &Vars) -> InferredGoal<DU, DE, Goal<DU, DE>> {
     let x = vars.v[0].clone();
-    let y = vars.v[1].clone();
-    proto_vulcan!([condu { [y == [2, 2 | x], P3(2, x, [y]) == y] }, matchu x { 2 => x == x, }])
+    proto_vulcan!([x == 1, matcha x { 1 => , }])
 }
 pub fn case_200(vars: &Vars) -> InferredGoal<DU, DE, Goal<DU, DE>> {
     let x = vars.v[0].clone();
-    proto_vulcan!([[x == [], x != [x, 2, x]], matcha x { [[[], h], [_ | x], true] => { append(x, h, []) }, _ => { x == 7, x == 8 }, _ | [[x, false | y], z, [t | x] | _] => , }])
+    let y = vars.v[1].clone();
+    proto_vulcan!([match x { Named { a: _, b: z } | h => [y != y, 2 == x], }])
 }
 pub fn case_201(vars: &Vars) -> InferredGoal<DU, DE, Goal<DU, DE>> {
-    let x = vars.v[0].clone();
-    proto_vulcan!([|h| { [1] == x, x == [x, h] }, matcha x { P3(y, 1, []) => { [y == [[_], [x | y]], y == [[], y], false], x == 1 }, }])
+    let q = vars.v[0].clone();
+    let x = vars.v[1].clone();
+    proto_vulcan!([q == [x, q], match [_, "bc", 1 | q] { [[3]] => { member(q, [2]), x == false }, [] => matchu x { P3(h, x, y) => { x != y }, }, [] => { member(x, [2, 1, 1]) }, }])
 }
 pub fn case_202(vars: &Vars) -> InferredGoal<DU, DE, Goal<DU, DE>> {
     let x = vars.v[0].clone();
     let y = vars.v[1].clone();
-    proto_vulcan!([matchu y { "a" => { |y, x| {  }, false }, _ => { member(x, [1, 2, 3]) }, t => { matche t { y => , [[t, z, []], ["a", y] | [h]] => [[2] == y, 1 == y], [[], [x, t], [] | _] => , } }, }])
+    proto_vulcan!([matcha y { 1 => { true, |y, t| { false, [] == t } }, false => { y == [_, y, 3 | y], |h, y| { false, x == y, append(h, h, []) } }, [[_, t, 'a'], [3, 1, 1], [2, _ | _]] => , }])
 }
 pub fn case_203(vars: &Vars) -> InferredGoal<DU, DE, Goal<DU, DE>> {
     let x = vars.v[0].clone();
     let y = vars.v[1].clone();
-    proto_vulcan!([matchu y { 2 => { x == ([y, []], y), |y| { y != y, [_] != y, |tz| { tz == [1], [1, 1] != [1 | tz] } } }, [[h, 1], [[], h], [2, 3, []]] | [z, [t]] => [conde { x == [y, true, x] }, |tz| { [1, 1 | tz] != [1, 1, 2], tz == [2] }], [["bc", h, 3], [t, 2, t | _], 'b' | ["bc", 1]] => [x == 2, [y, _] != h], }])
+    proto_vulcan!([matche x { _ => [[false, |tz| { tz == [2, 2], [3, 2, 2, 2] != [3, 2 | tz] }]], }])
 }
 pub fn case_204(vars: &Vars) -> InferredGoal<DU, DE, Goal<DU, DE>> {
-    let x = vars.v[0].clone();
-    proto_vulcan!([matche [x] { P3(_, x, _) => , _ => matchu x { [x, [1, y, []]] => [(2, x) == x, [1, x, [] | x] == x], }, _ | [[1, t]] => { conde { member(x, [3]), x != ([[], x], 2), [append(x, x, [1]), x == [x, x, x]] }, 3 == x }, }])
+    let q = vars.v[0].clone();
+    let x = vars.v[1].clone();
+    proto_vulcan!([|x| { false, false }, matchu x { _ => { |x| { [[], q | x] != x } }, }])
 }
 pub fn case_205(vars: &Vars) -> InferredGoal<DU, DE, Goal<DU, DE>> {
     let x = vars.v[0].clone();
-    proto_vulcan!([onceo { |tz| { [3, 3 | tz] != [3, 3, 1], tz == [1] } }, match [[]] { 2 => { matchu x { [h, [y, _], 1] => [[x] == y, |tz| { [2, 2, 2] != [2 | tz], tz == [2, 2] }], _ | _ => [true, 2 != x], }, x == x }, }])
+    proto_vulcan!([|x| { member(x, [2, 2]) }, matchu [true | x] { [1, [y, 2 | t], [t | t] | h] | P3(1, y, z) => { append(x, y, [3]) }, }])
 }
 pub fn case_206(vars: &Vars) -> InferredGoal<DU, DE, Goal<DU, DE>> {
-    let q = vars.v[0].clone();
-    let x = vars.v[1].clone();
-    proto_vulcan!([matcha x { [x, [], x | x] => |t, y| { x == y, x == ['b'], q == 1 }, }])
+    let x = vars.v[0].clone();
+    let y = vars.v[1].clone();
+    proto_vulcan!([matchu x { _ => { x == 7, x == 8 }, Named { a: [[]], b: [] } | [[1, x], _, [1, "bc", x]] => false, }])
 }
 pub fn case_207(vars: &Vars) -> InferredGoal<DU, DE, Goal<DU, DE>> {
     let x = vars.v[0].clone();
-    proto_vulcan!([match x { 2 | ['b'] => [[([x, x], []) != x, P3([], [], x) == [x, ["a"]]]], _ => { member(x, [1, 2, 3]) }, }])
+    let y = vars.v[1].clone();
+    proto_vulcan!([matcha 3 { [_] => { [([], [y, _]) == [[3, 2, 3], [1], [1, _] | x], y == x, x == x] }, [[y | z], [_ | x]] => , ["bc", [[]], 3] | [[]] => [x] == [2], }])
 }
 pub fn case_208(vars: &Vars) -> InferredGoal<DU, DE, Goal<DU, DE>> {
     let x = vars.v[0].clone();
-    proto_vulcan!([matche x { [["a"]] => , }])
+    proto_vulcan!([matcha x { _ => member(x, [1, 2, 3]), [[_], x] => [matcha x { [y, 2, [false] | x] => { member(y, [2, 3, 2]), true }, [[x, y], t, [2]] => , z | 1 => , }, [x, "bc" | x] != [[1, x | x], _]], }])
 }
 pub fn case_209(vars: &Vars) -> InferredGoal<DU, DE, Goal<DU, DE>> {
     let q = vars.v[0].clone();
     let x = vars.v[1].clone();
-    proto_vulcan!([|x, t| {  }, matche [2, q] { [x] => [[[['a'] | x] == x], |t, y| { t != [[y, 3] | x] }], }])
+    proto_vulcan!([condu { [x == _, q != x], [2 | x] == x }, match x { [[1, 'a' | x]] | [[2, t]] => { 1 == q }, 2 => x == (q, q), t => [[1] == q, [[[2]] == P3([2, x], _, [3]), [1, t] == q]], }])
 }
 pub fn case_210(vars: &Vars) -> InferredGoal<DU, DE, Goal<DU, DE>> {
-    let x = vars.v[0].clone();
-    let y = vars.v[1].clone();
-    proto_vulcan!([(1, [2]) == y, matche x { x => [[], matcha x { [[y, [] | x]] => , [[x, h, false | _], [z], [h, 3, 'b']] => , }], [[z | [_]], [], [z, true, 2 | t] | y] | h => { conda { _ == x, 1 != [[x, 2, "bc"], [3, x] | x], [append(x, x, [3]), false] }, matchu x { [t, [1 | _], h | _] => { t == (_, 1), x == [t, 3] }, } }, 3 => { true, x == [y, _, 1] }, }])
+    let q = vars.v[0].clone();
+    let x = vars.v[1].clone();
+    proto_vulcan!([[true, x, 3 | x] != x, match x { Named { a: t, b: [z] } => , }])
 }
 pub fn case_211(vars: &Vars) -> InferredGoal<DU, DE, Goal<DU, DE>> {
-    let q = vars.v[0].clone();
-    let x = vars.v[1].clone();
-    proto_vulcan!([matchu q { P3([], 2, []) | [["bc"], [z, 2, false | [t, 1]], [z, h]] => q != _, [t] => { t != [x, 2 | t], true }, }])
+    let x = vars.v[0].clone();
+    proto_vulcan!([[false, [[], [], []] != x, append(x, x, [])], matcha x { P3(2, z, []) => onceo { z != _ }, Named { a: [], b: 3 } => [[_ | x], [[], 2, x]] == x, }])
 }
 pub fn case_212(vars: &Vars) -> InferredGoal<DU, DE, Goal<DU, DE>> {
-    let q = vars.v[0].clone();
-    let x = vars.v[1].clone();
-    proto_vulcan!([[q] == q, matcha q { [1, _] => [1, q, [] | q] == 3, [[2, [] | ["a"]]] | _ => , [[2, z, t]] | P3([y, _], [z], h) => { |h, t| { true } }, }])
+    let x = vars.v[0].clone();
+    proto_vulcan!([matchu x { ['a'] => , }])
 }
 pub fn case_213(vars: &Vars) -> InferredGoal<DU, DE, Goal<DU, DE>> {
     let x = vars.v[0].clone();
-    proto_vulcan!([matchu x { [t | _] => { [] }, }])
+    proto_vulcan!([matcha x { [_ | _] => , P3([], 3, 2) => false, Named { a: _, b: _ } => { x != [3, x, 2] }, }])
 }
 pub fn case_214(vars: &Vars) -> InferredGoal<DU, DE, Goal<DU, DE>> {
-    let x = vars.v[0].clone();
-    let y = vars.v[1].clone();
-    proto_vulcan!([[_, [], []] == x, matchu y { Named { a: 3, b: [] } => [|z| { z == z, z == [_, 1, x] }, |y, t| { [_] == y }], }])
+    let q = vars.v[0].clone();
+    let x = vars.v[1].clone();
+    proto_vulcan!([matchu x { [[[], 1], 2] => x == P3([x, x], _, 3), Named { a: x, b: z } => , }])
 }
 pub fn case_215(vars: &Vars) -> InferredGoal<DU, DE, Goal<DU, DE>> {
     let x = vars.v[0].clone();
-    let y = vars.v[1].clone();
-    proto_vulcan!([matchu x { [[x], y, [] | t] | _ => , z | t => [conda { [false, y == P3([], _, [[]])] }, [x != (x, [[]]), 3 != y, [3, y] == y]], [[3 | x] | _] => [[[false, x] != x, y == [x]], |tz| { [1 | tz] != [1, 2], tz == [2] }], }])
+    proto_vulcan!([x != _, matchu x { Named { a: _, b: 3 } | [[1]] => [member(x, [1]), true], [true, [_, 2, 2]] => { match x { [[t | x], [h, [], x], [false, y]] | [h] => h != (h, []), [[3], [x, false], 1 | [2]] => , }, matchu x { [y, [t, _ | x]] => { member(t, []) }, } }, [z, 1, [_]] => , }])
 }
 pub fn case_216(vars: &Vars) -> InferredGoal<DU, DE, Goal<DU, DE>> {
     let q = vars.v[0].clone();
     let x = vars.v[1].clone();
-    proto_vulcan!([|h| { [] == h, q != [[3, _, x]], P3(h, [x], [h, []]) != ([3, _], _) }, matcha q { _ => member(q, [1, 2, 3]), }])
+    proto_vulcan!([conde { [|tz| { tz == [2], [2, 2] != [2 | tz] }, q == 1], [true, [[2 | x], 2] == q], false }, match [q, 2] { 2 => |y, h| { member(x, [1]), true }, }])
 }
 pub fn case_217(vars: &Vars) -> InferredGoal<DU, DE, Goal<DU, DE>> {
     let q = vars.v[0].clone();
     let x = vars.v[1].clone();
-    proto_vulcan!([matchu [true, 'b' | []] { [[], y, ['b' | z]] => { |y| { member(q, [1, 3]) } }, }])
+    proto_vulcan!([[[x, [], q] == q], matchu q { h => { h != [1, 1 | h], matchu x { _ => { member(h, [1, 2, 3]) }, _ => member(q, [1, 2, 3]), } }, _ | [h] => , }])
 }
 pub fn case_218(vars: &Vars) -> InferredGoal<DU, DE, Goal<DU, DE>> {
-    let x = vars.v[0].clone();
-    proto_vulcan!([onceo { x == [x | x] }, matcha x { [1, [h, false], 1 | x] => , }])
+    let q = vars.v[0].clone();
+    let x = vars.v[1].clone();
+    proto_vulcan!([matcha 1 { _ | [[2] | true] => [[q == [[], 2, _ | x], append(x, x, []), [2, _, 3] == x]], }])
 }
 pub fn case_219(vars: &Vars) -> InferredGoal<DU, DE, Goal<DU, DE>> {
-    let q = vars.v[0].clone();
-    let x = vars.v[1].clone();
-    proto_vulcan!([matchu q { x => , "bc" => , }])
+    let x = vars.v[0].clone();
+    let y = vars.v[1].clone();
+    proto_vulcan!([x == [], matchu y { P3(1, _, 2) => conde { [1 == 2, true], [y != [_], true], [] }, }])
 }
 pub fn case_220(vars: &Vars) -> InferredGoal<DU, DE, Goal<DU, DE>> {
-    let x = vars.v[0].clone();
-    proto_vulcan!([false, matchu x { [3, [2, 2, t], [1, "a", 3 | [2, y]]] => , Named { a: y, b: 1 } => { P3(x, [y, 1], [y]) == x }, }])
+    let q = vars.v[0].clone();
+    let x = vars.v[1].clone();
+    proto_vulcan!([match _ { [_, 2, 2 | _] => { q == [q, _], match x { [[_], [1, 3, [] | _] | y] => { P3(3, x, [[], 3]) != x, q == [y, y | y] }, _ => { member(q, [1, 2, 3]) }, } }, _ => , }])
 }
 pub fn case_221(vars: &Vars) -> InferredGoal<DU, DE, Goal<DU, DE>> {
-    let q = vars.v[0].clone();
-    let x = vars.v[1].clone();
-    proto_vulcan!([|y, t| {  }, match [3, x | q] { _ => , [[h, 1, 2], 3, [2, 2 | 2] | "a"] => [[[[]] == q], x == 1], P3(2, _, 2) => { onceo { q == q }, [1, 2, x] != 3 }, }])
+    let x = vars.v[0].clone();
+    proto_vulcan!([[x] == x, matcha [1, _, []] { [3] => { member(x, []) }, }])
 }
 pub fn case_222(vars: &Vars) -> InferredGoal<DU, DE, Goal<DU, DE>> {
-    let q = vars.v[0].clone();
-    let x = vars.v[1].clone();
-    proto_vulcan!([|y| { q != [q, 3, x | y], y == [x, _ | y] }, matchu x { _ | P3([[]], _, [2]) => , 3 | t => , [[z, 1 | 3], 1, [x, 2, _] | t] => , }])
+    let x = vars.v[0].clone();
+    let y = vars.v[1].clone();
+    proto_vulcan!([[] == ([_, y], []), match x { x => { [[[], x], [1, _, y] | x] != [x, y], [['b' | y], [2, y, x]] == [2] }, t => [|x| {  }, [P3(3, [], _) == x, t == [[2, [], 'b'], [y, 3, 1]], P3(t, x, [_, []]) != y]], P3(x, [x], y) => conde { [[], y] == y, [y == [y, false, x], y == y] }, }])
 }
 pub fn case_223(vars: &Vars) -> InferredGoal<DU, DE, Goal<DU, DE>> {
     let q = vars.v[0].clone();
     let x = vars.v[1].clone();
-    proto_vulcan!([[[q, 1 | x] == x, member(x, [2, 2]), member(q, [3, 2, 1])], matcha x { _ => , }])
+    proto_vulcan!([matcha x { t | _ => { [false, [true] == q, [2, [] | q] == q] }, }])
 }
 pub fn case_224(vars: &Vars) -> InferredGoal<DU, DE, Goal<DU, DE>> {
-    let x = vars.v[0].clone();
-    let y = vars.v[1].clone();
-    proto_vulcan!([[2, x] != x, matchu y { _ => , }])
+    let q = vars.v[0].clone();
+    let x = vars.v[1].clone();
+    proto_vulcan!([|y| { (x, []) == x }, matche x { _ | Named { a: 2, b: [] } => , }])
 }
 pub fn case_225(vars: &Vars) -> InferredGoal<DU, DE, Goal<DU, DE>> {
-    let x = vars.v[0].clone();
-    let y = vars.v[1].clone();
-    proto_vulcan!([[y != y, member(y, [])], matchu y { [["bc", 2, z] | t] | h => [y != x, conde { [false, x == y] }], }])
+    let q = vars.v[0].clone();
+    let x = vars.v[1].clone();
+    proto_vulcan!([matche x { P3(1, 2, h) => [|x| { [[], x | h] != h, false }, q == 1], z => P3([x, _], [], 2) != q, Named { a: _, b: z } => , }])
 }
 pub fn case_226(vars: &Vars) -> InferredGoal<DU, DE, Goal<DU, DE>> {
     let x = vars.v[0].clone();
-    proto_vulcan!([matcha x { [[3 | y]] => , P3(z, 1, 3) => [conde { [x == P3([_, x], [[], 3], []), append(z, x, [3, 1])] }, x == [x]], }])
+    proto_vulcan!([match x { z => , P3([2, h], z, 1) => [condu { [[[2, []]] == [[z, z, h | h], [1, 1]], [[], _] == 3], x != [[x, 2, h], h], [append(h, h, [3]), [x, x] != h] }, |h, z| { [[], z, _] == h, member(h, [3]), z == z }], }])
 }
 pub fn case_227(vars: &Vars) -> InferredGoal<DU, DE, Goal<DU, DE>> {
-    let q = vars.v[0].clone();
-    let x = vars.v[1].clone();
-    proto_vulcan!([matche x { [[], [2, 3]] => , }])
+    let x = vars.v[0].clone();
+    let y = vars.v[1].clone();
+    proto_vulcan!([x == (1, _), matchu x { _ => { [(x, [[], _]) == x] }, _ => [y == 7, y == 8], }])
 }
 pub fn case_228(vars: &Vars) -> InferredGoal<DU, DE, Goal<DU, DE>> {
     let x = vars.v[0].clone();
-    proto_vulcan!([matche x { _ => [x == 7, x == 8], _ | ["a", h, 1 | _] => { condu { [member(x, []), member(x, [1])], [append(x, x, [2]), [1, [], [1, _, 1 | x] | [3, x]] == [x, x | x]] } }, [[y | _], _, [_ | _] | x] => { [false, append(x, x, [2])], conde { P3(y, [_, y], x) != y } }, }])
+    let y = vars.v[1].clone();
+    proto_vulcan!([[x == (2, 1)], match [] { h => , }])
 }
 pub fn case_229(vars: &Vars) -> InferredGoal<DU, DE, Goal<DU, DE>> {
-    let x = vars.v[0].clone();
-    let y = vars.v[1].clone();
-    proto_vulcan!([matcha y { [[[], [], z | h], z, ['a', 2]] | Named { a: 3, b: 1 } => { [P3([], [_], 3) != x, [[y, _]] == x, false] }, }])
-}
-pub fn case_230(vars: &Vars) -> InferredGoal<DU, DE, Goal<DU, DE>> {
     let q = vars.v[0].clone();
     let x = vars.v[1].clone();
-    proto_vulcan!([true, match x { _ => [append(q, q, [3]), matchu q { [3, [_, x | y]] => , }], Named { a: y, b: [] } => [true, x == [_, "a", y | x]], _ => x == [x, q], }])
+    proto_vulcan!([[2, [_, x, q], q] == x, matche q { _ => { x != (_, q), |z, y| { false } }, [[[], 'a', 2], "bc"] => false, P3(2, _, [[]]) => q == [2, q, 2], }])
+}
+pub fn case_230(vars: &Vars) -> InferredGoal<DU, DE, Goal<DU, DE>> {
+    let x = vars.v[0].clone();
+    proto_vulcan!([x == x, match x { [[]] => { x == [[]], [x != P3(x, [[]], [[], 3])] }, _ => { x == 7, x == 8 }, [[2, 2], [2, x, 1], 2] => { conde { [true, append(x, x, [1, 3])], [x != [x | x], x != P3(x, x, x)], |tz| { [3, 2, 1] != [3 | tz], tz == [2, 1] } } }, }])
 }
 pub fn case_231(vars: &Vars) -> InferredGoal<DU, DE, Goal<DU, DE>> {
     let q = vars.v[0].clone();
     let x = vars.v[1].clone();
-    proto_vulcan!([matche x { z => , _ | P3(x, [h, t], _) => [q == q, conda { [q != q, q != P3([q, []], q, [2, q])], [(3, q) == q, [[2]] != "bc"], [q != [q, 2, 2], q == 1] }], h => { [[h | x] == x, _ == q] }, }])
+    proto_vulcan!([matche x { _ => { member(x, [1, 2, 3]) }, "bc" => { append(q, x, [1]), [[_, [] | [_, x]] != [[_, _, 2 | q] | _], q == q] }, [[3], [2, _, 2]] => , }])
 }
 pub fn case_232(vars: &Vars) -> InferredGoal<DU, DE, Goal<DU, DE>> {
     let x = vars.v[0].clone();
-    let y = vars.v[1].clone();
-    proto_vulcan!([matche x { 2 | t => matche y { y => , [[x, 1], [1]] | h => , _ | [y, [t], 1] => , }, }])
+    proto_vulcan!([matche x { [h] | P3(2, 1, h) => [2 == x, match x { [] => [false, x == P3([2], _, [])], [[z, y], [x | 2]] => { x == 1 }, [[y]] | [] => , }], [x, [2, []]] => , [[z | _] | z] | [[t, t | x], 3 | z] => matchu z { _ | h => { 3 == z, member(z, [3, 2]) }, [[_, h | t] | y] | P3([], [z], [x]) => , _ => { z == 7, z == 8 }, }, }])
 }
 pub fn case_233(vars: &Vars) -> InferredGoal<DU, DE, Goal<DU, DE>> {
-    let q = vars.v[0].clone();
-    let x = vars.v[1].clone();
-    proto_vulcan!([x == [2, 3, q], matcha q { P3([], [_], [y, 3]) | [false | x] => [matchu q { _ | [[], 2, [t | _]] => { [[q], [q, "a"], [q, [], _]] != P3([2], q, []) }, }, condu { [q] == q }], [[z], [], [h, false]] => onceo { x != [['b', 1, []], [], false] }, }])
+    let x = vars.v[0].clone();
+    proto_vulcan!([[x] == 2, matche x { P3(2, 1, _) => [matche x { [h] => h == "a", }, conde { [x == [3], append(x, x, [2, 1])], [] }], [[] | y] => { [[_, [], 2], [x], x] == [2, x, 1 | x], |y| { true, y != _, y == [[]] } }, }])
 }
 pub fn case_234(vars: &Vars) -> InferredGoal<DU, DE, Goal<DU, DE>> {
     let q = vars.v[0].clone();
     let x = vars.v[1].clone();
-    proto_vulcan!([x == q, matchu x { [_, [z, _] | _] => , }])
+    proto_vulcan!([x != ["bc" | q], match q { P3(3, z, 2) | y => [matche x { [[x, _, 3], [], [x, true | h]] | _ => { [["a", q] | q] == q, P3(q, [q], 1) == q }, [[1, 1, []], [x | _], 'b'] => { x == (x, q), q == 1 }, y => , }, conde { append(x, x, [2, 2]), [] }], Named { a: 1, b: [] } => { matche q { [_] => [x != "bc", |tz| { [3, 1, 2, 1] != [3, 1 | tz], tz == [2, 1] }], }, ([], 2) == q }, }])
 }
 pub fn case_235(vars: &Vars) -> InferredGoal<DU, DE, Goal<DU, DE>> {
-    let x = vars.v[0].clone();
-    proto_vulcan!([matchu x { P3([], 2, 3) => { matcha x { _ | [['b', 'a', []], _] => { x == [1, x | x] }, P3(h, 3, 3) => |tz| { [2, 1, 3, 3] != [2, 1 | tz], tz == [3, 3] }, [[t, h]] | [h] => h != 2, }, x == 1 }, }])
-}
-pub fn case_236(vars: &Vars) -> InferredGoal<DU, DE, Goal<DU, DE>> {
     let q = vars.v[0].clone();
     let x = vars.v[1].clone();
-    proto_vulcan!([|y, z| { false, x != x }, matche q { 'a' => [[[[q], 3, q] == x]], [[z, []], [1, 'a', y] | _] => x == _, [[_, true]] => , }])
+    proto_vulcan!([P3([[]], _, 3) == q, matchu 3 { 1 => { |tz| { tz == [3, 2], [3, 3 | tz] != [3, 3, 3, 2] }, conde { [false, true] } }, Named { a: 3, b: [y] } => [member(y, [1, 1]), []], }])
+}
+pub fn case_236(vars: &Vars) -> InferredGoal<DU, DE, Goal<DU, DE>> {
+    let x = vars.v[0].clone();
+    let y = vars.v[1].clone();
+    proto_vulcan!([match y { [y | []] => [onceo { append(y, y, [1]) }, conde { [member(x, [1]), y == [2]], true, ['b' != 1, [y, 2 | y] == y] }], [true] => , }])
 }
 pub fn case_237(vars: &Vars) -> InferredGoal<DU, DE, Goal<DU, DE>> {
-    let x = vars.v[0].clone();
-    proto_vulcan!([matche [2, 'a', _ | x] { ["bc", [], [y | t]] | [[y], [t, x, 1]] => , }])
+    let q = vars.v[0].clone();
+    let x = vars.v[1].clone();
+    proto_vulcan!([conda { member(q, []) }, matche [1] { _ => { x == 7, x == 8 }, }])
 }
 pub fn case_238(vars: &Vars) -> InferredGoal<DU, DE, Goal<DU, DE>> {
-    let x = vars.v[0].clone();
-    proto_vulcan!([2 != x, matche x { _ => member(x, [1, 2, 3]), }])
+    let q = vars.v[0].clone();
+    let x = vars.v[1].clone();
+    proto_vulcan!([matche q { [3, ["bc", 2 | [1]]] | t => , _ => { |y| { append(q, q, [1]), true } }, }])
 }
 pub fn case_239(vars: &Vars) -> InferredGoal<DU, DE, Goal<DU, DE>> {
-    let x = vars.v[0].clone();
-    proto_vulcan!([|x| { x != (_, [x]), [_ | ['a']] == [['a', "a", x] | x], x == ([x, 1], _) }, matche x { 2 | [[_, z], false, [h | []] | _] => [|y| { false, false, [x | x] != y }, |z| { member(x, [2]), z != [x | x], x == [] }], [[y, 3, z] | z] => , }])
+    let q = vars.v[0].clone();
+    let x = vars.v[1].clone();
+    proto_vulcan!([match q { y | [2, [x, 2, z]] => { q == q }, [[1, h, z] | _] | [[] | t] => { |tz| { tz == [1], [2, 2 | tz] != [2, 2, 1] }, x != x }, [["a", 1], [z], 1] => [1 == x, onceo { q == 2 }], }])
 }
 pub fn case_240(vars: &Vars) -> InferredGoal<DU, DE, Goal<DU, DE>> {
     let x = vars.v[0].clone();
-    proto_vulcan!([match x { P3([t, 2], [[], _], h) | Named { a: t, b: t } => { conde { false, t != [t, 1, x | x], [1, 1] == t } }, [[t | x], [1, 3], [1, 1]] => matchu x { _ => { t == 7, t == 8 }, }, [3, [x, x], 'a'] => , }])
+    proto_vulcan!([matche x { h => { [x, h, _] == h }, _ => { x == 7, x == 8 }, }])
 }
 pub fn case_241(vars: &Vars) -> InferredGoal<DU, DE, Goal<DU, DE>> {
     let x = vars.v[0].clone();
-    let y = vars.v[1].clone();
-    proto_vulcan!([[], matchu y { [[t, _, 1], ["bc"]] => { match y { [[h, x], t, [2]] | _ => , _ => { member(y, [1, 2, 3]) }, } }, [[t | _], t] => , }])
+    proto_vulcan!([x == P3([[], x], _, 1), match 3 { ["a"] => { x == x, match x { Named { a: [], b: y } | [[x], [y], _] => [y == y, append(y, y, [3])], } }, 1 => [conda { [member(x, [3, 1]), x == [x, x, _]], 2 == x }, conde { |tz| { [3 | tz] != [3, 1], tz == [1] }, [x == ['a', 'b', _], |tz| { tz == [1], [2, 3, 1] != [2, 3 | tz] }], [3, x, 'b'] != x }], [[[] | [true]], [y, x, 2] | t] => { |h| { false, false, [[y, _, 1], h, [x | x]] == x } }, }])
 }
 pub fn case_242(vars: &Vars) -> InferredGoal<DU, DE, Goal<DU, DE>> {
     let q = vars.v[0].clone();
     let x = vars.v[1].clone();
-    proto_vulcan!([|x| { ([], x) == [1], x == x, q == [2, _, 3] }, matchu true { _ => { member(q, [1, 2, 3]) }, [] => { [["bc", [], 1] | [x, x]] == 2, matchu q { 'b' => { [_, x | q] != x }, _ => [q == 7, q == 8], } }, }])
+    proto_vulcan!([match x { [[h, x, []]] => [onceo { [] == x }, q == [["bc", h, 'a'] | x]], }])
 }
 pub fn case_243(vars: &Vars) -> InferredGoal<DU, DE, Goal<DU, DE>> {
     let x = vars.v[0].clone();
     let y = vars.v[1].clone();
-    proto_vulcan!([append(y, x, []), matche 2 { 1 => { matcha x { [[z | t], y, [z, [], 3]] => z == [1, z], _ => , [[_]] | [[[], z, z | h]] => , } }, 1 => , }])
+    proto_vulcan!([conda { [[[1, y, 3]] != P3([[]], 2, [2]), true] }, matchu y { [x] | _ => , _ => { conde { [[]] != y, [] } }, }])
 }
 pub fn case_244(vars: &Vars) -> InferredGoal<DU, DE, Goal<DU, DE>> {
-    let x = vars.v[0].clone();
-    let y = vars.v[1].clone();
-    proto_vulcan!([matche x { _ => { member(x, [1, 2, 3]) }, _ => [y == 7, y == 8], }])
+    let q = vars.v[0].clone();
+    let x = vars.v[1].clone();
+    proto_vulcan!([q == ([], [_, []]), matcha "a" { [[x, x, 2 | z], [3, t, t], [2]] => [condu { z == [[1, 1 | x]], [q == [_, x], x == [2, false]], [[], z, q] == z }, (1, _) == t], [false] => [|h, z| { z == [[2], "a"], (x, 3) == q }, |tz| { [2, 2, 2] != [2, 2 | tz], tz == [2] }], }])
 }
 pub fn case_245(vars: &Vars) -> InferredGoal<DU, DE, Goal<DU, DE>> {
     let x = vars.v[0].clone();
-    let y = vars.v[1].clone();
-    proto_vulcan!([matchu x { [[3, z, 2], [2, y, y | h], h] => { [h, 2] == y, |h| { [[_, [], _ | y]] != _, x == [x, y, h] } }, }])
+    proto_vulcan!([matcha x { [[], [_, z, y | 1] | _] => , }])
 }
 pub fn case_246(vars: &Vars) -> InferredGoal<DU, DE, Goal<DU, DE>> {
-    let x = vars.v[0].clone();
-    proto_vulcan!([[false, 2, [] | x] == x, matcha x { [true, [z, "bc", y] | _] => [y == z, matcha z { _ | Named { a: [y, 3], b: [_, []] } => { false }, _ => { z == 7, z == 8 }, Named { a: 1, b: [] } => append(x, y, [1]), }], t => , 3 => { matcha x { _ => [x == 7, x == 8], } }, }])
+    let q = vars.v[0].clone();
+    let x = vars.v[1].clone();
+    proto_vulcan!([matcha q { P3([_], _, 2) => , }])
 }
 pub fn case_247(vars: &Vars) -> InferredGoal<DU, DE, Goal<DU, DE>> {
     let x = vars.v[0].clone();
     let y = vars.v[1].clone();
-    proto_vulcan!([[true, true | _] == y, match x { x | P3(_, 1, y) => , [[1, z], [t, h, z] | x] => { match [z, 1, _ | z] { [[z | _], h] => , _ => [h != ["a", 2], |tz| { tz == [1, 3], [3, 1, 3] != [3 | tz] }], _ | _ => [x == 7, x == 8], } }, [[1]] => { [[3 | y] != P3(x, [], y), [] == y], [[_ | 'b'], [2, y], [x, "a", 2] | x] == [3, 2, x | y] }, }])
+    proto_vulcan!([matche x { 3 => , _ | t => |h, z| { y == (3, 1), y == y, (3, z) != [[h, z], ['a', []] | 2] }, [3, [x, 2], [2]] | [[[], y, _], ["bc"], [2, y]] => , }])
 }
 pub fn case_248(vars: &Vars) -> InferredGoal<DU, DE, Goal<DU, DE>> {
     let x = vars.v[0].clone();
     let y = vars.v[1].clone();
-    proto_vulcan!([matchu [y | x] { P3([], [], h) | _ => { P3([], 2, y) == [true, y | y] }, }])
+    proto_vulcan!([matcha x { [z, [1, 1, z], t] => [[_ == x]], }])
 }
 pub fn case_249(vars: &Vars) -> InferredGoal<DU, DE, Goal<DU, DE>> {
     let x = vars.v[0].clone();
     let y = vars.v[1].clone();
-    proto_vulcan!([matchu x { Named { a: _, b: [] } => [[_, 1, x], x, x] == [y], [[h, 2], 2 | t] => , [[_ | z], [[], 2, 2], x] => , }])
+    proto_vulcan!([[1, x, [] | []] == x, matcha x { _ => { member(x, [1, 2, 3]) }, }])
 }
 pub fn case_250(vars: &Vars) -> InferredGoal<DU, DE, Goal<DU, DE>> {
     let x = vars.v[0].clone();
-    proto_vulcan!([member(x, [3, 2, 3]), match x { _ | [[1, []], [[] | z]] => { ([2], _) == x }, [z, []] => { conde { x != z, [[[2, [], x], [1, _ | z], 'b'] == z, append(x, x, [])] } }, _ | [[], 1, _ | t] => [[x == [[], 2, 3], P3(x, 2, []) == x]], }])
+    let y = vars.v[1].clone();
+    proto_vulcan!([matcha y { Named { a: [], b: [_, []] } => { true, [[x], [_, y | x]] == x }, _ | [y, [x, false | h], [z]] => , }])
 }
 pub fn case_251(vars: &Vars) -> InferredGoal<DU, DE, Goal<DU, DE>> {
     let q = vars.v[0].clone();
     let x = vars.v[1].clone();
-    proto_vulcan!([match x { [[z, _, _], [y], [x, z, _]] | [[x, x, y]] => [x == [_], condu { (_, []) != x, [x == _, false] }], _ => { onceo { [x, 1] == q } }, [3, [1] | _] => { [2, 1 | [[], q]] != q }, }])
+    proto_vulcan!([matcha [] { _ | [[x, _, z | [true, z]], [1, 1]] => , [t, t, [[]] | h] => { [] == (1, h) }, }])
 }
 pub fn case_252(vars: &Vars) -> InferredGoal<DU, DE, Goal<DU, DE>> {
-    let q = vars.v[0].clone();
-    let x = vars.v[1].clone();
-    proto_vulcan!([matchu x { P3([1, y], [_, []], 2) | [[z], [1, t, []], h | h] => , _ => [conda { _ != q, |tz| { tz == [3, 2], [3, 3, 2] != [3 | tz] } }, |t, y| { [[3, q]] == q }], _ => [q == 7, q == 8], }])
+    let x = vars.v[0].clone();
+    proto_vulcan!([x == x, matchu x { _ | _ => { 3 == x, true }, x | [h, 2, [y, x, 2]] => matchu x { _ => [x == 7, x == 8], Named { a: 3, b: [2, z] } => , }, x => , }])
 }
 pub fn case_253(vars: &Vars) -> InferredGoal<DU, DE, Goal<DU, DE>> {
     let q = vars.v[0].clone();
     let x = vars.v[1].clone();
-    proto_vulcan!([matcha x { _ => [q == 7, q == 8], [[3, y]] => [[q, "a"], [3, "a", [] | y], y | q] != x, _ => member(x, [1, 2, 3]), }])
+    proto_vulcan!([matcha q { x => { matchu [[]] { [2] => , [[_], [z, [], t | 'a'], 'b'] => { true, 1 == P3([1], t, x) }, }, [q == [x, []]] }, [t] | Named { a: [3], b: x } => { [] }, [[x], [x | z]] | [[2, x, y], [[], _]] => { conde { x == x } }, }])
 }
 pub fn case_254(vars: &Vars) -> InferredGoal<DU, DE, Goal<DU, DE>> {
     let x = vars.v[0].clone();
     let y = vars.v[1].clone();
-    proto_vulcan!([y != y, matcha y { [h, [[], h, false | _], [_]] => , 3 => [[[x]] == 2, (3, [x]) == y], ['a', [[] | [x, false]]] | true => |y| {  }, }])
+    proto_vulcan!([[x, y, [] | y] == x, matchu y { _ | Named { a: [3, x], b: [1, t] } => [|x| { member(y, [2]) }, |h| { y == h, [h, y] == [["bc", [], 1 | h] | h], (_, y) == h }], }])
 }
 pub fn case_255(vars: &Vars) -> InferredGoal<DU, DE, Goal<DU, DE>> {
     let x = vars.v[0].clone();
     let y = vars.v[1].clone();
-    proto_vulcan!([|z| { true }, matcha [1, _] { Named { a: 3, b: z } => , 'a' => , }])
+    proto_vulcan!([x == [3, y, []], matcha x { [] => { false, [[y, "bc", []] != x, [x, [], []] == x] }, [z, [t, "a", 1 | z], [z]] => , }])
 }
 pub fn case_256(vars: &Vars) -> InferredGoal<DU, DE, Goal<DU, DE>> {
     let q = vars.v[0].clone();
     let x = vars.v[1].clone();
-    proto_vulcan!([matchu x { [[t, x]] | _ => false == q, }])
+    proto_vulcan!([x == [3 | x], matche x { ['a', [1, h], [x, _]] => { [_, x, x | h] == P3(_, [_], 2), onceo { [x | h] == [3, [h, h, x]] } }, [] => , h => , }])
 }
 pub fn case_257(vars: &Vars) -> InferredGoal<DU, DE, Goal<DU, DE>> {
     let x = vars.v[0].clone();
     let y = vars.v[1].clone();
-    proto_vulcan!([matcha x { [2, [[], 2]] => [2, x] == y, _ => [y == 7, y == 8], }])
+    proto_vulcan!([matcha x { _ => , P3(h, 2, y) => [h == P3(x, y, 1), false], _ => condu { append(x, x, [1]) }, }])
 }
 pub fn case_258(vars: &Vars) -> InferredGoal<DU, DE, Goal<DU, DE>> {
     let x = vars.v[0].clone();
-    let y = vars.v[1].clone();
-    proto_vulcan!([x == [1, 2, 1], matcha y { [[x, []], [y, 3], [t] | h] => [conde { [x == x, x == P3(_, x, [])], ([t], []) == t }, y == ([x], y)], }])
+    proto_vulcan!([matcha x { Named { a: _, b: x } | _ => , t | 'b' => [|t| { 1 == [false, t], t == t, append(x, x, [3, 1]) }, append(x, x, [1])], [[3 | x], [_]] => |z, x| { false }, }])
 }
 pub fn case_259(vars: &Vars) -> InferredGoal<DU, DE, Goal<DU, DE>> {
-    let x = vars.v[0].clone();
-    let y = vars.v[1].clone();
-    proto_vulcan!([matche y { 'a' => { [([_, x], []) != x, true, ([y, x], _) != [2, y, 2]] }, [[[]], 2] | [[x, false], x] => [match y { _ | _ => [member(y, []), member(y, [3])], h => , }, y != [2 | y]], [y] => [[y] != y, conde { [(1, [y]) != x, false != x], [y != [1, 3, x | []], (2, [_, y]) == y], [] }], }])
+    let q = vars.v[0].clone();
+    let x = vars.v[1].clone();
+    proto_vulcan!([matche q { [[1, h] | t] => { |h| { true, q == [x | q], P3(t, 3, [_]) != t }, true }, _ => conde { [], [q == x, [[x, []]] == q] }, [[2], ['b']] | _ => [matcha x { z => , [[x, 1, x] | t] => { 3 == t, t == x }, _ => { member(x, [1, 2, 3]) }, }, |z| {  }], }])
 }
 pub fn case_260(vars: &Vars) -> InferredGoal<DU, DE, Goal<DU, DE>> {
     let x = vars.v[0].clone();
-    let y = vars.v[1].clone();
-    proto_vulcan!([matcha x { P3(3, 2, t) => append(x, t, []), }])
+    proto_vulcan!([|tz| { tz == [1], [2, 1, 1] != [2, 1 | tz] }, match x { 1 => , }])
 }
 pub fn case_261(vars: &Vars) -> InferredGoal<DU, DE, Goal<DU, DE>> {
     let x = vars.v[0].clone();
-    let y = vars.v[1].clone();
-    proto_vulcan!([match [x] { Named { a: 2, b: _ } => { y == [[], [1, 2, x] | x] }, [2, t] => , }])
+    proto_vulcan!([condu { [|tz| { tz == [2, 1], [2, 3 | tz] != [2, 3, 2, 1] }, x != [x, true | [x]]], [x == [[x, 1], [x, x]], x != 3], [append(x, x, [3, 3]), [[], _, x] != x] }, matche [_ | x] { 1 | [[[], t]] => , P3(3, y, z) | [[_, h]] => , }])
 }
 pub fn case_262(vars: &Vars) -> InferredGoal<DU, DE, Goal<DU, DE>> {
     let x = vars.v[0].clone();
-    proto_vulcan!([matcha x { [[y, []], _ | _] | _ => member(x, [1]), }])
+    let y = vars.v[1].clone();
+    proto_vulcan!([[true, 3, y] == y, matchu x { [["a", t, 2], [_], [z, "a", 1]] => , _ => { conde { [[3, 2, _ | y] == x, true], [y == x, y == [[y, y], _, [x]]] }, [y, y, 2] == y }, }])
 }
 pub fn case_263(vars: &Vars) -> InferredGoal<DU, DE, Goal<DU, DE>> {
     let x = vars.v[0].clone();
-    proto_vulcan!([[3, x] == x, matchu x { y | 2 => { matchu x { 2 => , } }, [[[] | [t, z]] | _] => [[_, [] | z] == z, |tz| { [1 | tz] != [1, 2, 3], tz == [2, 3] }], Named { a: 1, b: t } => { conde { |tz| { [1, 3] != [1 | tz], tz == [3] } } }, }])
+    let y = vars.v[1].clone();
+    proto_vulcan!([3 == y, matche [x, x] { _ => [x == 7, x == 8], }])
 }
 pub fn case_264(vars: &Vars) -> InferredGoal<DU, DE, Goal<DU, DE>> {
-    let x = vars.v[0].clone();
-    let y = vars.v[1].clone();
-    proto_vulcan!([conde { [x == P3([_, 1], 2, [2, 2]), |tz| { tz == [1, 2], [3 | tz] != [3, 1, 2] }] }, matcha y { [[t, 1 | [t, []]], 1] | _ => , }])
+    let q = vars.v[0].clone();
+    let x = vars.v[1].clone();
+    proto_vulcan!([q == [[false, 3], q], matchu x { P3(z, 3, 3) => , y => { [true, 2 | x] == q, [[] | x] == x }, 2 | [[3, 2 | z], y | x] => { [append(q, q, [2, 2]), member(q, [1, 1])] }, }])
 }
 pub fn case_265(vars: &Vars) -> InferredGoal<DU, DE, Goal<DU, DE>> {
-    let x = vars.v[0].clone();
-    proto_vulcan!([matcha x { P3([_, []], 3, 2) | x => , [[y, z, h], [_, z, "a"], [1, y, 2]] | [2, [2, _], [true] | ['a', _]] => , [['b', h], h, [h | y]] => true, }])
+    let q = vars.v[0].clone();
+    let x = vars.v[1].clone();
+    proto_vulcan!([[[1, x, 2 | [true]], x, [] | q] != (2, x), matchu [x] { _ => { |h, z| { true, member(z, []), |tz| { tz == [1], [2, 1, 1] != [2, 1 | tz] } } }, Named { a: 2, b: 3 } => { x == (x, 1) }, P3(_, [], [h]) | [y, [t], [h, t]] => , }])
 }
 pub fn case_266(vars: &Vars) -> InferredGoal<DU, DE, Goal<DU, DE>> {
     let q = vars.v[0].clone();
     let x = vars.v[1].clone();
-    proto_vulcan!([conde { true, [[[x, "a", 1]] == q, [_] == false] }, match q { t => , _ => { x == 7, x == 8 }, }])
+    proto_vulcan!([[append(x, q, [1, 3]), append(x, q, [])], match q { [z, [3, 2]] => , }])
 }
 pub fn case_267(vars: &Vars) -> InferredGoal<DU, DE, Goal<DU, DE>> {
     let x = vars.v[0].clone();
-    proto_vulcan!([matcha _ { "a" => { [member(x, [2]), x != x, false] }, }])
+    proto_vulcan!([match [[], x, 3 | x] { _ => { member(x, [1, 2, 3]) }, _ | [] => , }])
 }
 pub fn case_268(vars: &Vars) -> InferredGoal<DU, DE, Goal<DU, DE>> {
-    let x = vars.v[0].clone();
-    let y = vars.v[1].clone();
-    proto_vulcan!([match x { P3([], [3, []], _) => , }])
+    let q = vars.v[0].clone();
+    let x = vars.v[1].clone();
+    proto_vulcan!([match x { [[h, x | h], [x]] => , _ => { member(q, [1, 2, 3]) }, }])
 }
 pub fn case_269(vars: &Vars) -> InferredGoal<DU, DE, Goal<DU, DE>> {
     let x = vars.v[0].clone();
-    proto_vulcan!([[member(x, [3, 1, 1]), x == x], match [] { [[1, z], [x, []], z | h] => { z == ["bc", h], [[_, [x, h, z | h], 3 | x] == x, z == ["a" | z], [x, z] == x] }, [[1, [], z]] => { matcha z { z | [[t | z], x, [t]] => [1 != (z, _), z == z], }, conde { [x != [_ | [_, z]], x != [[], x]], append(z, z, [3, 3]), x == ([], _) } }, _ => { member(x, [1, 2, 3]) }, }])
+    let y = vars.v[1].clone();
+    proto_vulcan!([match [y, x, _ | x] { [[2], [false, z, t | t] | _] => , }])
 }
 pub fn case_270(vars: &Vars) -> InferredGoal<DU, DE, Goal<DU, DE>> {
-    let x = vars.v[0].clone();
-    let y = vars.v[1].clone();
-    proto_vulcan!([|tz| { tz == [3, 2], [2, 1, 3, 2] != [2, 1 | tz] }, matche y { [[x, _, z | t]] => , }])
+    let q = vars.v[0].clone();
+    let x = vars.v[1].clone();
+    proto_vulcan!([matche q { ["bc", ['b', 2], [2, t]] => { conde { [member(t, [2]), append(t, x, [])] }, [member(q, [2, 2, 1]), false] }, P3(_, [1, _], []) => [[[1, x | []] == q, [] != [[3, 1 | 3]]]], [_, t] | ['a', [1, []] | [x]] => , }])
 }
 pub fn case_271(vars: &Vars) -> InferredGoal<DU, DE, Goal<DU, DE>> {
-    let q = vars.v[0].clone();
-    let x = vars.v[1].clone();
-    proto_vulcan!([matchu x { [[y | 2]] => { onceo { y == (_, []) }, ["a", 2, y] == q }, }])
+    let x = vars.v[0].clone();
+    proto_vulcan!([P3(x, [3], [x]) == x, matche x { _ => [x == 7, x == 8], }])
 }
 pub fn case_272(vars: &Vars) -> InferredGoal<DU, DE, Goal<DU, DE>> {
-    let q = vars.v[0].clone();
-    let x = vars.v[1].clone();
-    proto_vulcan!([matche x { [[z, z], [y, 'b'], [[]]] => matcha x { 3 | [[z, t | h] | _] => , h => { append(z, z, [3]) }, _ => { false }, }, 3 | x => { [], [q, q, q] == ([q], [3, q]) }, _ => member(x, [1, 2, 3]), }])
-}
-pub fn case_273(vars: &Vars) -> InferredGoal<DU, DE, Goal<DU, DE>> {
     let x = vars.v[0].clone();
     let y = vars.v[1].clone();
-    proto_vulcan!([_ == x, matchu y { 3 => [|t, h| {  }, x == 'b'], }])
+    proto_vulcan!([|y, h| { 3 == x, true }, match x { [z] => { z != [2, "a"], |z, t| { 2 == y } }, _ => member(y, [1, 2, 3]), }])
+}
+pub fn case_273(vars: &Vars) -> InferredGoal<DU, DE, Goal<DU, DE>> {
+    let q = vars.v[0].clone();
+    let x = vars.v[1].clone();
+    proto_vulcan!([matcha x { P3(2, _, _) => , }])
 }
 pub fn case_274(vars: &Vars) -> InferredGoal<DU, DE, Goal<DU, DE>> {
     let x = vars.v[0].clone();
-    let y = vars.v[1].clone();
-    proto_vulcan!([matche y { Named { a: [], b: t } => matcha x { P3(y, 3, 1) => [y == ([x, t], t), member(y, [2])], }, Named { a: [3], b: z } => matche 1 { Named { a: [3], b: [h, _] } => , ['b', y, [2]] => member(x, [2, 2, 3]), [[_, [], 1], [2], [z, 1] | 1] => { append(z, z, [3]), 'b' != y }, }, P3(3, x, h) => [[h == [2, h, _], _ == h]], }])
+    proto_vulcan!([match x { [[1, t | x], 1, [y, 3, 1 | x]] => , [[[]], [h, 2, 2] | y] | [2, [2, []]] => { (x, 2) != x, x != [2, 1, _] }, [] => { P3(x, _, [x, _]) != x, append(x, x, []) }, }])
 }
 pub fn case_275(vars: &Vars) -> InferredGoal<DU, DE, Goal<DU, DE>> {
-    let q = vars.v[0].clone();
-    let x = vars.v[1].clone();
-    proto_vulcan!([|x, z| { |tz| { tz == [3], [1 | tz] != [1, 3] }, true }, matchu q { _ => { matchu [1, "a" | q] { [false, [x | y]] | _ => P3(3, [], 3) == q, [_, [z] | _] => ['b', []] == q, _ => [q == 7, q == 8], } }, }])
+    let x = vars.v[0].clone();
+    let y = vars.v[1].clone();
+    proto_vulcan!([P3(_, x, []) != _, matchu x { [[3, 2, h | x], [[], _]] => , }])
 }
 pub fn case_276(vars: &Vars) -> InferredGoal<DU, DE, Goal<DU, DE>> {
     let q = vars.v[0].clone();
     let x = vars.v[1].clone();
-    proto_vulcan!([q == [3, 2], matche q { h => h == P3([q, q], x, q), }])
+    proto_vulcan!([[member(x, [3]), false, q == x], matche q { _ | z => { [q != (x, [q]), (3, q) == x, append(x, x, [3, 2])], |h, z| {  } }, P3([[], t], _, 3) => |h, t| { x == P3([], h, []) }, }])
 }
 pub fn case_277(vars: &Vars) -> InferredGoal<DU, DE, Goal<DU, DE>> {
     let x = vars.v[0].clone();
-    proto_vulcan!([matcha x { 1 => , }])
+    proto_vulcan!([x != x, match x { t => { condu { x == [t, 2, t | t], true, [t] != x }, [x, 2, t | t] == t }, t => { [t == 1] }, }])
 }
 pub fn case_278(vars: &Vars) -> InferredGoal<DU, DE, Goal<DU, DE>> {
     let x = vars.v[0].clone();
-    proto_vulcan!([true, matcha x { [[]] => , [[[], t], [[], h], [1, z]] => { P3(x, _, 1) == ([2, h], [[], []]), match t { [[1, x]] | [[1]] => , y => , } }, [[t, [] | x], [y, []], z] => , }])
+    proto_vulcan!([member(x, [2]), matche [2, x, x] { Named { a: [1, []], b: [_, _] } => { x == P3([], _, x), x == P3([x], [], [x, _]) }, P3([], z, [h]) => [[h == [2, z], [] == x]], [[z, 1, []], [h, "a"], [h, 1]] => { |y, z| { true } }, }])
 }
 pub fn case_279(vars: &Vars) -> InferredGoal<DU, DE, Goal<DU, DE>> {
     let q = vars.v[0].clone();
     let x = vars.v[1].clone();
-    proto_vulcan!([q == P3(_, [1, x], x), matche [q] { [[1, 1, h]] => [conde { [], [|tz| { [1, 1, 3] != [1 | tz], tz == [1, 3] }, member(x, [3, 3, 2])], x == (1, 1) }, conde { [member(x, [1, 3]), 1 == x], [] }], }])
+    proto_vulcan!([|tz| { tz == [2], [1, 2] != [1 | tz] }, matche q { _ | x => { false == q, conda { false, [false, [[q, _], _] == q], [[q, q] | q] != q } }, }])
 }
 pub fn case_280(vars: &Vars) -> InferredGoal<DU, DE, Goal<DU, DE>> {
-    let x = vars.v[0].clone();
-    let y = vars.v[1].clone();
-    proto_vulcan!([|tz| { tz == [3, 2], [2, 3, 2] != [2 | tz] }, match y { [[_ | x], [h] | h] | [[z, 2], [2, 2, t] | h] => , Named { a: 1, b: 3 } | P3(x, 1, 2) => , [3, [z, _, y | x]] => { x == z }, }])
+    let q = vars.v[0].clone();
+    let x = vars.v[1].clone();
+    proto_vulcan!([matchu q { y => append(q, x, [1]), _ => { q == 7, q == 8 }, }])
 }
 pub fn case_281(vars: &Vars) -> InferredGoal<DU, DE, Goal<DU, DE>> {
     let x = vars.v[0].clone();
-    proto_vulcan!([matchu x { P3(3, 1, _) => |z| { x == [[]], true }, }])
+    let y = vars.v[1].clone();
+    proto_vulcan!([matche y { [[t], h | _] => { onceo { x == [] }, matche y { z => , [[true, _], [_, y, []], 'a' | _] => { [y | t] != x, h == [false, y, _] }, 2 => { t == P3([[]], [_], []), [[t | h], [_ | y]] == x }, } }, }])
 }
 pub fn case_282(vars: &Vars) -> InferredGoal<DU, DE, Goal<DU, DE>> {
     let x = vars.v[0].clone();
     let y = vars.v[1].clone();
-    proto_vulcan!([match x { t => , }])
+    proto_vulcan!([match y { P3([_, _], [], z) => z == y, P3(1, t, [1]) => { conde { [|tz| { [1, 2 | tz] != [1, 2, 2, 3], tz == [2, 3] }, [] == x], [1, x] == P3([x], _, t), [[[], t, [] | t] | x] == [x, y, t] }, conde { |tz| { tz == [3, 1], [3, 3, 1] != [3 | tz] }, append(x, x, [2]), [['b', 1] == t, append(y, t, [1])] } }, _ => member(y, [1, 2, 3]), }])
 }
 pub fn case_283(vars: &Vars) -> InferredGoal<DU, DE, Goal<DU, DE>> {
-    let q = vars.v[0].clone();
-    let x = vars.v[1].clone();
-    proto_vulcan!([matchu x { Named { a: [h, _], b: 3 } | _ => conde { x == [], q != P3([], 1, 1), [|tz| { tz == [3, 2], [2, 1 | tz] != [2, 1, 3, 2] }, member(q, [2])] }, true => conde { [] == q, 2 == q, [false, [3, q] != q] }, }])
+    let x = vars.v[0].clone();
+    proto_vulcan!([matchu 1 { ['a', [_], _] => , }])
 }
 pub fn case_284(vars: &Vars) -> InferredGoal<DU, DE, Goal<DU, DE>> {
     let x = vars.v[0].clone();
-    let y = vars.v[1].clone();
-    proto_vulcan!([matche x { P3([], 2, t) | 1 => matchu x { [_, [], false] => , }, [[2, 1], y, [1, 1, 3] | _] => matche [x] { _ => [y == 7, y == 8], _ | [t, [] | x] => , }, _ => { _ == y, matche y { [false] => y == [x, y | y], z | [1, [x, [], h], [y]] => , } }, }])
+    proto_vulcan!([|h, z| { h == x }, matche x { [2] => { matcha x { [[]] => false, }, [|tz| { tz == [1, 3], [3 | tz] != [3, 1, 3] }, (x, x) == x] }, [2, []] => , [[t, y], [3, h | t], [2, 2, []]] => { append(y, t, [2, 2]), [h, _, y] == [x, 2, _] }, }])
 }
 pub fn case_285(vars: &Vars) -> InferredGoal<DU, DE, Goal<DU, DE>> {
     let x = vars.v[0].clone();
-    proto_vulcan!([|t, z| { [t] != x }, matche x { P3(1, t, 3) => , }])
+    proto_vulcan!([matcha x { y => , [[], [z, h]] | x => , h => { 2 == h }, }])
 }
 pub fn case_286(vars: &Vars) -> InferredGoal<DU, DE, Goal<DU, DE>> {
-    let x = vars.v[0].clone();
-    proto_vulcan!([x != [x], match 2 { [[_, z], [[], 1, 1]] | [[2, 1, 3]] => { 2 == x }, _ => { |y| { |tz| { tz == [2, 2], [1, 2, 2] != [1 | tz] }, _ == x, y == (2, []) } }, }])
-}
-pub fn case_287(vars: &Vars) -> InferredGoal<DU, DE, Goal<DU, DE>> {
-    let x = vars.v[0].clone();
-    let y = vars.v[1].clone();
-    proto_vulcan!([|t| { t != [1, x, 1], [[t, 1, [] | y], [x], _ | t] == t }, matcha x { P3(y, [t, x], [3, h]) => [|y| {  }, |z, x| { |tz| { [3, 3, 1] != [3 | tz], tz == [3, 1] } }], }])
-}
-pub fn case_288(vars: &Vars) -> InferredGoal<DU, DE, Goal<DU, DE>> {
     let q = vars.v[0].clone();
     let x = vars.v[1].clone();
-    proto_vulcan!([P3([1, []], [1], []) == x, matche x { 1 => { condu { [false, 2 == q], 1 == q, |tz| { tz == [1, 3], [3, 3, 1, 3] != [3, 3 | tz] } } }, }])
+    proto_vulcan!([x == [q, x], matchu q { P3(1, h, [[], h]) => { matcha q { _ => { h == 7, h == 8 }, _ | [[false, t]] => [[h, q | []], [h, _] | q] == [x, _], } }, }])
+}
+pub fn case_287(vars: &Vars) -> InferredGoal<DU, DE, Goal<DU, DE>> {
+    let q = vars.v[0].clone();
+    let x = vars.v[1].clone();
+    proto_vulcan!([matche x { [[[]]] => { [x, 2, x] == q }, x => , }])
+}
+pub fn case_288(vars: &Vars) -> InferredGoal<DU, DE, Goal<DU, DE>> {
+    let x = vars.v[0].clone();
+    proto_vulcan!([match x { [[t, 2 | _], [[]], [3]] => , }])
 }
 pub fn case_289(vars: &Vars) -> InferredGoal<DU, DE, Goal<DU, DE>> {
     let x = vars.v[0].clone();
-    proto_vulcan!([x == x, match x { z => { condu { [z] == x }, |y, z| { [] == z, z != [[]], P3(z, 3, [y]) == z } }, _ => { member(x, [1, 2, 3]) }, }])
+    proto_vulcan!([matchu [x] { [[], 'a', "a"] => { [x == ([[], x], x), false], conde { x != [x, 2 | x], [2, [x, 1 | x] | []] == x, [1 != 2, x == 1] } }, _ => { [true, 1, x] != x }, }])
 }
 pub fn case_290(vars: &Vars) -> InferredGoal<DU, DE, Goal<DU, DE>> {
-    let q = vars.v[0].clone();
-    let x = vars.v[1].clone();
-    proto_vulcan!([match 1 { h => [[h != [x, q, h]], q == [[2, q | x], [2 | h], ["a", 'a', 3]]], [[z, []], [[]], [t, t, _] | t] => [[q == q, [["bc"], [_, x, x] | t] == x, z == P3(x, _, 3)]], }])
+    let x = vars.v[0].clone();
+    proto_vulcan!([matchu x { _ => { x == 7, x == 8 }, _ => member(x, [1, 2, 3]), }])
 }
 pub fn case_291(vars: &Vars) -> InferredGoal<DU, DE, Goal<DU, DE>> {
     let x = vars.v[0].clone();
-    proto_vulcan!([matche x { [3, ['a'], _] => , }])
+    let y = vars.v[1].clone();
+    proto_vulcan!([matche y { _ => , }])
 }
 pub fn case_292(vars: &Vars) -> InferredGoal<DU, DE, Goal<DU, DE>> {
-    let q = vars.v[0].clone();
-    let x = vars.v[1].clone();
-    proto_vulcan!([false, match [2, 1, 2] { _ | [2, [[], 1 | t] | h] => , }])
+    let x = vars.v[0].clone();
+    proto_vulcan!([match 1 { P3(z, [], 2) => [[z == ([z], x), [] == [x], x == z]], y => [|h, x| { x == [3, "bc", 3 | x] }, matchu y { P3(1, [[]], [[], y]) => { true }, [[_]] => { true }, [h, [1, 2]] => , }], }])
 }
 pub fn case_293(vars: &Vars) -> InferredGoal<DU, DE, Goal<DU, DE>> {
-    let x = vars.v[0].clone();
-    proto_vulcan!([|tz| { [1, 2, 2] != [1 | tz], tz == [2, 2] }, matchu [x, 2, 2] { [[y, y, 2], t, 1 | [x]] | [[z, t | h] | x] => [conde { P3([x], _, 3) == P3([], x, []), [1] == x }, (1, 3) == t], _ => conde { [], [x == P3(2, [2, _], 2), true], P3([3], [x, 3], [[]]) == 3 }, [[t, "a"], 'a' | x] => [true, t != P3(2, x, 1)], }])
+    let q = vars.v[0].clone();
+    let x = vars.v[1].clone();
+    proto_vulcan!([match x { [[[], t, []]] => { condu { t != ([t, x], []) } }, Named { a: [3], b: 1 } => { |x| { false } }, }])
 }
 pub fn case_294(vars: &Vars) -> InferredGoal<DU, DE, Goal<DU, DE>> {
-    let x = vars.v[0].clone();
-    proto_vulcan!([x == [], matcha x { t => { true }, }])
+    let q = vars.v[0].clone();
+    let x = vars.v[1].clone();
+    proto_vulcan!([x == [x, 2 | q], matchu [[], q, x | x] { [[t, y | h], t, [_ | _] | t] => [conde { [y == 2, x == ([], [])], [y == P3(x, _, 3), [[], q, x] == y] }, conde { [false, append(h, t, [2])], [[[], []]] == ["bc", _ | x] }], }])
 }
 pub fn case_295(vars: &Vars) -> InferredGoal<DU, DE, Goal<DU, DE>> {
-    let x = vars.v[0].clone();
-    proto_vulcan!([true, match x { [[y, 'b']] => matchu x { Named { a: 3, b: h } | P3(_, [1, x], 2) => , [] => P3(x, [y, 3], [1]) == x, [[2, 2, _ | z], [2, [] | [_]]] => , }, }])
+    let q = vars.v[0].clone();
+    let x = vars.v[1].clone();
+    proto_vulcan!([matche x { Named { a: [y, h], b: _ } => { P3([], [_, 3], h) != [[1, q, 3 | h], [1, q, y | x]] }, P3([1, 1], y, _) => , }])
 }
 pub fn case_296(vars: &Vars) -> InferredGoal<DU, DE, Goal<DU, DE>> {
-    let x = vars.v[0].clone();
-    proto_vulcan!([([], x) == x, matcha x { [['a', [] | 3], [[], t | _], x | h] | [t, false] => , 2 => { [[2, []] != x], member(x, [1, 2]) }, }])
+    let q = vars.v[0].clone();
+    let x = vars.v[1].clone();
+    proto_vulcan!([|x, y| { [] == 2, 1 == x, P3([], 2, _) != [x | x] }, matchu q { z => { ([], _) != x, [z, q, x] != z }, }])
 }
 pub fn case_297(vars: &Vars) -> InferredGoal<DU, DE, Goal<DU, DE>> {
     let x = vars.v[0].clone();
@@ -1631,656 +1632,663 @@ pub fn case_306(vars: &Vars) -> InferredGoal<DU, DE, Goal<DU, DE>> {
 pub fn case_307(vars: &Vars) -> InferredGoal<DU, DE, Goal<DU, DE>> {
     let q = vars.v[0].clone();
     let x = vars.v[1].clone();
-    proto_vulcan!([member(x, []), [([[]], [x]) == q, |t, z| { |h| { 1 == x }, t != x }], { let c__: InferredGoal<DU, DE, Goal<DU, DE>> = proto_vulcan_closure!(|yy| { conde { [q == [yy | _], yy == 1], [q == [_, yy | _], yy == 2] } }); let g__: Goal<DU, DE> = ::proto_vulcan::GoalCast::cast_into(c__); let r__: InferredGoal<DU, DE, Goal<DU, DE>> = proto_vulcan!([g__.clone(), g__]); r__ }])
+    proto_vulcan!([|t| { q != (1, x), t == P3([q], q, [_]) }])
 }
 pub fn case_308(vars: &Vars) -> InferredGoal<DU, DE, Goal<DU, DE>> {
-    let q = vars.v[0].clone();
-    let x = vars.v[1].clone();
-    proto_vulcan!([|y| { y != 2, |z| { append(z, y, [2, 2]), q == _ }, x == [x, 2 | q] }, |tz| { tz == [1, 2], [3, 1, 1, 2] != [3, 1 | tz] }])
+    let x = vars.v[0].clone();
+    let y = vars.v[1].clone();
+    proto_vulcan!([conda { conde { x == [x, [y, x, 2]], |x, t| {  }, onceo { [y] == y } }, (_, [x]) == x, true }])
 }
 pub fn case_309(vars: &Vars) -> InferredGoal<DU, DE, Goal<DU, DE>> {
     let q = vars.v[0].clone();
     let x = vars.v[1].clone();
-    proto_vulcan!([conde { [[[], q | q] != x, 3 == q], |t, h| { conde { [[2], [[], 1, 1], [t, 3]] == [1], q != [_, [t, h], [false]], _ == x }, conde { t == [_], false, h == 1 } } }, P3([], 3, q) == q, |tz| { tz == [2], [3 | tz] != [3, 2] }])
+    proto_vulcan!([[], { let c__: InferredGoal<DU, DE, Goal<DU, DE>> = proto_vulcan_closure!(|yy| { conde { [q == [yy | _], yy == 1], [q == [_, yy | _], yy == 2] } }); let g__: Goal<DU, DE> = ::proto_vulcan::GoalCast::cast_into(c__); let r__: InferredGoal<DU, DE, Goal<DU, DE>> = proto_vulcan!([g__.clone(), g__]); r__ }])
 }
 pub fn case_310(vars: &Vars) -> InferredGoal<DU, DE, Goal<DU, DE>> {
-    let x = vars.v[0].clone();
-    let y = vars.v[1].clone();
-    proto_vulcan!([conda { [P3([2, x], x, 2) == [[], y, []], P3(1, [], 2) == y], |tz| { tz == [1, 3], [2, 2, 1, 3] != [2, 2 | tz] } }])
+    let q = vars.v[0].clone();
+    let x = vars.v[1].clone();
+    proto_vulcan!([onceo { [q, 1] == x }, x == 1, q == [1, x, x]])
 }
 pub fn case_311(vars: &Vars) -> InferredGoal<DU, DE, Goal<DU, DE>> {
     let x = vars.v[0].clone();
-    let y = vars.v[1].clone();
-    proto_vulcan!([condu { 2 == [x] }, |h, t| { [x, y] == P3(t, [t], [t]), |z, t| { [x] == x, member(t, []) }, [] }, condu { [[[3, y, 1], x | x] == y, [[]] == [x | y]], [append(x, y, [3]), [[1, y, x | [2]], y | x] == x] }])
+    proto_vulcan!([x != 2, [|x| { 'a' == x }, conde { [x == 3, onceo { x == (2, _) }], 1 != x, [onceo { (1, _) == x }, [3] == x] }], x == "bc"])
 }
 pub fn case_312(vars: &Vars) -> InferredGoal<DU, DE, Goal<DU, DE>> {
-    let x = vars.v[0].clone();
-    let y = vars.v[1].clone();
-    proto_vulcan!([[[1], [_, _, _], 1] == [1, 2, y | 1], |h| { conde { [[2, 1], 'b'] == P3([_, 2], [3, []], _), [conde { [2 != [y], x != [y]], [] }, y == [[2, "a", []], [h | x]]], |t, y| { x == [t, _], x != [3, 1, h | x] } } }])
+    let q = vars.v[0].clone();
+    let x = vars.v[1].clone();
+    proto_vulcan!([[] == q, [q, 3] == x, { let c__: InferredGoal<DU, DE, Goal<DU, DE>> = proto_vulcan_closure!(|yy| { conde { [x == [yy | _], yy == 1], [x == [_, yy | _], yy == 2] } }); let g__: Goal<DU, DE> = ::proto_vulcan::GoalCast::cast_into(c__); let r__: InferredGoal<DU, DE, Goal<DU, DE>> = proto_vulcan!([g__.clone(), g__]); r__ }])
 }
 pub fn case_313(vars: &Vars) -> InferredGoal<DU, DE, Goal<DU, DE>> {
     let q = vars.v[0].clone();
     let x = vars.v[1].clone();
-    proto_vulcan!([[[2], [q]] != ["a"], closure { q == q }])
+    proto_vulcan!([q == q, [x | _] == x, closure { [[onceo { append(x, q, [1]) }, x == 3]] }])
 }
 pub fn case_314(vars: &Vars) -> InferredGoal<DU, DE, Goal<DU, DE>> {
-    let x = vars.v[0].clone();
-    let y = vars.v[1].clone();
-    proto_vulcan!([|y| { |h| {  } }, closure { x == 2 }])
+    let q = vars.v[0].clone();
+    let x = vars.v[1].clone();
+    proto_vulcan!([q == [q, 3, _], [3] == q])
 }
 pub fn case_315(vars: &Vars) -> InferredGoal<DU, DE, Goal<DU, DE>> {
-    let x = vars.v[0].clone();
-    proto_vulcan!([conda { [append(x, x, [1]), []], [conda { [|tz| { [2, 1 | tz] != [2, 1, 1, 3], tz == [1, 3] }, |tz| { [3 | tz] != [3, 2], tz == [2] }], [conde { [P3([x, []], x, 2) == x, [3] != x], [true, (x, x) == x] }, x != P3(_, 2, 3)] }, true], [conde { [], [], [P3(x, x, _) != x, conde { [1, x, x] == x, true }] }, 2 == [x]] }, conde { [[]], x != [[], x, "bc"], [_ == x, [x] == x] }])
+    let q = vars.v[0].clone();
+    let x = vars.v[1].clone();
+    proto_vulcan!([(_, [[]]) == q, x == P3(2, [x, q], []), closure { [[x != [_], [[x, 1] | q] != q], |t| { [[t, t], [_, _, x]] == q }] }])
 }
 pub fn case_316(vars: &Vars) -> InferredGoal<DU, DE, Goal<DU, DE>> {
     let x = vars.v[0].clone();
-    proto_vulcan!([[_, [], [x, _]] == 2, |t| {  }, conda { |x, h| { conde { h == P3(x, [x, x], _) }, x == h, [h == [x | x], member(x, []), [[] | h] == [[h], [3], [x | x] | h]] } }])
+    let y = vars.v[1].clone();
+    proto_vulcan!([|h, x| { onceo { true }, h == x, member(y, [3, 3]) }])
 }
 pub fn case_317(vars: &Vars) -> InferredGoal<DU, DE, Goal<DU, DE>> {
     let q = vars.v[0].clone();
     let x = vars.v[1].clone();
-    proto_vulcan!([[1, q, [q, 3, []]] == q, append(x, x, [2]), |y, h| { [], |y, x| {  }, |h| { (3, q) == [[[], h, false], [h]], false } }])
+    proto_vulcan!([|t| { [q, 2] == t }, x == P3([], [1], [2, []])])
 }
 pub fn case_318(vars: &Vars) -> InferredGoal<DU, DE, Goal<DU, DE>> {
     let x = vars.v[0].clone();
-    proto_vulcan!([|y| {  }, x == x])
+    let y = vars.v[1].clone();
+    proto_vulcan!([[x, 2, x] == x, onceo { |z| { x == [1], [] } }, closure { [[3 != x, [[x] != x], [3, x] == y]] }])
 }
 pub fn case_319(vars: &Vars) -> InferredGoal<DU, DE, Goal<DU, DE>> {
     let x = vars.v[0].clone();
     let y = vars.v[1].clone();
-    proto_vulcan!([[[x, y]] == [[1, [] | y], [], ['a', 1, _]], ([], [x]) == x, conda { |t, y| { conde { [], y != y }, onceo { [_, _] == t }, [1, 1, _ | 1] == y }, (3, [x, x]) == y }])
+    proto_vulcan!([[1, y, 2] != x, |h| { [y] == y, y != h, [h == [y, 1, "bc"], append(x, h, [3, 1])] }, member(y, [2, 1, 2])])
 }
 pub fn case_320(vars: &Vars) -> InferredGoal<DU, DE, Goal<DU, DE>> {
-    let x = vars.v[0].clone();
-    let y = vars.v[1].clone();
-    proto_vulcan!([(3, x) == x, [x, _] == x, { let c__: InferredGoal<DU, DE, Goal<DU, DE>> = proto_vulcan_closure!(|yy| { conde { [x == [yy | _], yy == 1], [x == [_, yy | _], yy == 2] } }); let g__: Goal<DU, DE> = ::proto_vulcan::GoalCast::cast_into(c__); let r__: InferredGoal<DU, DE, Goal<DU, DE>> = proto_vulcan!([g__.clone(), g__]); r__ }])
-}
-pub fn case_321(vars: &Vars) -> InferredGoal<DU, DE, Goal<DU, DE>> {
-    let x = vars.v[0].clone();
-    let y = vars.v[1].clone();
-    proto_vulcan!([x != [y, x, x], [[], [], [[y], x, [x]] != y]])
-}
-pub fn case_322(vars: &Vars) -> InferredGoal<DU, DE, Goal<DU, DE>> {
-    let x = vars.v[0].clone();
-    let y = vars.v[1].clone();
-    proto_vulcan!([[_, y, "a"] == y, y == (x, x), { let c__: InferredGoal<DU, DE, Goal<DU, DE>> = proto_vulcan_closure!([|yy| { conde { [y == [yy | _], yy == 1], [y == [_, yy | _], yy == 2] } }, onceo { true }]); let g__: Goal<DU, DE> = ::proto_vulcan::GoalCast::cast_into(c__); let r__: InferredGoal<DU, DE, Goal<DU, DE>> = proto_vulcan!([g__.clone(), g__]); r__ }])
-}
-pub fn case_323(vars: &Vars) -> InferredGoal<DU, DE, Goal<DU, DE>> {
     let q = vars.v[0].clone();
     let x = vars.v[1].clone();
-    proto_vulcan!([conda { x != 2 }, |x| { [q, x] == q, q == [1, x, false | x], conde { [[q, _, x] != q, |h| { h != [q] }], [false, x == [_, "bc", q]], [condu { false, [q != _, q == x], [true == [], x == [_, x, x | x]] }, true] } }, false])
+    proto_vulcan!([q == [x, x], 1 != x])
+}
+pub fn case_321(vars: &Vars) -> InferredGoal<DU, DE, Goal<DU, DE>> {
+    let q = vars.v[0].clone();
+    let x = vars.v[1].clone();
+    proto_vulcan!([[], _ == q])
+}
+pub fn case_322(vars: &Vars) -> InferredGoal<DU, DE, Goal<DU, DE>> {
+    let q = vars.v[0].clone();
+    let x = vars.v[1].clone();
+    proto_vulcan!([q == [[true], q], member(x, []), |t, h| { onceo { |t, z| { 2 != x, P3(_, 1, 3) == q, 3 == [1] } }, [|t, h| {  }, 2 == q, |z| {  }] }])
+}
+pub fn case_323(vars: &Vars) -> InferredGoal<DU, DE, Goal<DU, DE>> {
+    let x = vars.v[0].clone();
+    proto_vulcan!([x == [2, 3], x != [[], 1, x]])
 }
 pub fn case_324(vars: &Vars) -> InferredGoal<DU, DE, Goal<DU, DE>> {
     let x = vars.v[0].clone();
-    proto_vulcan!([true, |y, t| { [] == [1, 3, 1] }, |x| { [], x == P3(x, [[], 3], [x]), [x] != x }])
+    proto_vulcan!([conde { false, [x == [[]], conde { [conde { [member(x, []), [_] == x] }, 'a' == x], P3([x, 3], [_, _], _) == x }], [[[_]] == x, false] }, member(x, [2, 1])])
 }
 pub fn case_325(vars: &Vars) -> InferredGoal<DU, DE, Goal<DU, DE>> {
-    let x = vars.v[0].clone();
-    let y = vars.v[1].clone();
-    proto_vulcan!([|tz| { tz == [3, 1], [3 | tz] != [3, 3, 1] }, y == [y, 2]])
-}
-pub fn case_326(vars: &Vars) -> InferredGoal<DU, DE, Goal<DU, DE>> {
-    let x = vars.v[0].clone();
-    proto_vulcan!([x == 2, { let c__: InferredGoal<DU, DE, Goal<DU, DE>> = proto_vulcan_closure!([|yy| { conde { [x == [yy | _], yy == 1], [x == [_, yy | _], yy == 2] } }, false]); let g__: Goal<DU, DE> = ::proto_vulcan::GoalCast::cast_into(c__); let r__: InferredGoal<DU, DE, Goal<DU, DE>> = proto_vulcan!([g__.clone(), g__]); r__ }])
-}
-pub fn case_327(vars: &Vars) -> InferredGoal<DU, DE, Goal<DU, DE>> {
     let q = vars.v[0].clone();
     let x = vars.v[1].clone();
-    proto_vulcan!([[x != [[q, [], q], 1 | q], |y| { true, q == [[x, q]] }, [|x, h| { (3, x) == q }]], |z, t| { t == _ }, |h| { q == [[], q], conde { [[member(h, []), false, q == (2, 2)], true], [|t, y| { y == [_, 1, x | q], q == [[3], [q, 1], [t, 1] | q], t == [x | 2] }, |t, h| { h == h, h == [1], ([], [3, []]) == x }], [] }, [[q | q] | q] == [2] }])
+    proto_vulcan!([|x, z| { [], ([[]], x) == x }, condu { [_ != x, |h, z| { true, conde { append(h, q, [3, 2]) }, [q, 1, 2] != x }], [conde { |t| { append(q, q, []), (t, [1]) == t }, [|h, x| { q == [x, [] | x] }, |z| {  }], [[1, 2] == q, conde { [append(q, q, [2]), member(x, [3])], [[2, 'a' | [q]] == x, q == "bc"], [[], [], x | q] == q }] }, false], q != [[q, x, x], [_, 3 | x], [[], _, 3] | x] }, closure { [[], [] == q] }])
+}
+pub fn case_326(vars: &Vars) -> InferredGoal<DU, DE, Goal<DU, DE>> {
+    let q = vars.v[0].clone();
+    let x = vars.v[1].clone();
+    proto_vulcan!([conde { [], q == [q, _, q], |y, x| { q == y, condu { [_ | x] == x, [x == y, [[], y, x] == x] } } }, (_, 1) == [], ([], q) == q, { let c__: InferredGoal<DU, DE, Goal<DU, DE>> = proto_vulcan_closure!(|yy| { conde { [q == [yy | _], yy == 1], [q == [_, yy | _], yy == 2] } }); let g__: Goal<DU, DE> = ::proto_vulcan::GoalCast::cast_into(c__); let r__: InferredGoal<DU, DE, Goal<DU, DE>> = proto_vulcan!([g__.clone(), g__]); r__ }])
+}
+pub fn case_327(vars: &Vars) -> InferredGoal<DU, DE, Goal<DU, DE>> {
+    let x = vars.v[0].clone();
+    let y = vars.v[1].clone();
+    proto_vulcan!([|y, x| { ([x], y) == y, conde { |t, z| { t != [[], 1, 3] }, conde { member(y, [1]), 'a' == y }, member(x, [3, 1, 1]) }, y == 2 }, closure { [|tz| { tz == [3], [3, 3] != [3 | tz] }, [y] != y] }])
 }
 pub fn case_328(vars: &Vars) -> InferredGoal<DU, DE, Goal<DU, DE>> {
     let x = vars.v[0].clone();
-    let y = vars.v[1].clone();
-    proto_vulcan!([(2, [y, 2]) == []])
+    proto_vulcan!([x == "a"])
 }
 pub fn case_329(vars: &Vars) -> InferredGoal<DU, DE, Goal<DU, DE>> {
-    let q = vars.v[0].clone();
-    let x = vars.v[1].clone();
-    proto_vulcan!([conde { [], [[[x, [] | q], [q, 3 | 1] | q] == x, |tz| { tz == [2], [1 | tz] != [1, 2] }], false }, [1, [q, x, 1] | q] == _])
+    let x = vars.v[0].clone();
+    let y = vars.v[1].clone();
+    proto_vulcan!([|x| { x == y, y == [2, y, [true]] }])
 }
 pub fn case_330(vars: &Vars) -> InferredGoal<DU, DE, Goal<DU, DE>> {
     let q = vars.v[0].clone();
     let x = vars.v[1].clone();
-    proto_vulcan!([true, conde { conde { [q, 2 | x] != q, [false, conde { [x != 3, x == x], [q == [x, x], q == 2] }], [[[q | q] != q, P3([x, _], [q, 2], [q]) != [x], q == q]] }, [P3(_, x, 1) == x, []], |x| { |z| { false }, [|tz| { [1 | tz] != [1, 1, 3], tz == [1, 3] }] } }])
+    proto_vulcan!([|h, z| { member(q, [2, 2, 1]), |tz| { [1, 2, 3, 2] != [1, 2 | tz], tz == [3, 2] } }])
 }
 pub fn case_331(vars: &Vars) -> InferredGoal<DU, DE, Goal<DU, DE>> {
     let q = vars.v[0].clone();
     let x = vars.v[1].clone();
-    proto_vulcan!([conde { [[member(x, [1]), [|tz| { tz == [3], [1, 1 | tz] != [1, 1, 3] }, x != 1], ([_], q) == x]], [[[x, q], [2, [], q]] == [_], |h| { P3([h], [], [2, 2]) == q, |tz| { [2 | tz] != [2, 1, 2], tz == [1, 2] }, onceo { q == [1] } }], [q == "a", 1 == P3(q, _, [[], x])] }, q == [2, []], { let c__: InferredGoal<DU, DE, Goal<DU, DE>> = proto_vulcan_closure!([|yy| { conde { [q == [yy | _], yy == 1], [q == [_, yy | _], yy == 2] } }, |x, t| { 2 == t, _ == x, false }]); let g__: Goal<DU, DE> = ::proto_vulcan::GoalCast::cast_into(c__); let r__: InferredGoal<DU, DE, Goal<DU, DE>> = proto_vulcan!([g__.clone(), g__]); r__ }])
+    proto_vulcan!([conde { [|t| { |y, z| { [[] | q] == z, |tz| { [3 | tz] != [3, 1], tz == [1] }, [[3, t], [2 | x], [x] | [1, []]] == 1 } }, conde { [conde { [append(x, q, []), q != [x]], [[[x, [], 1 | q], [q | q]] == x, x != [[], false]], [x == P3([_], q, q), |tz| { tz == [3, 1], [2 | tz] != [2, 3, 1] }] }, true], conde { [1, 1, _] == x, false } }] }, [3, 2] != [1, q, q], |y, z| { z == [q | z], condu { |x, y| { member(x, []), x == [1] }, [[y, 1 | z] == 2, |h, y| { [[], z, x] == h, [2] == [x, [[], 1] | y] }] } }])
 }
 pub fn case_332(vars: &Vars) -> InferredGoal<DU, DE, Goal<DU, DE>> {
     let x = vars.v[0].clone();
     let y = vars.v[1].clone();
-    proto_vulcan!([append(x, y, [2]), |z| { append(x, x, []), ([_, 2], y) != x, |x| {  } }, P3(2, _, []) == _])
+    proto_vulcan!([y != 3, |y| { onceo { [[member(y, [2, 1])]] } }, y == [[y, "a", y], []]])
 }
 pub fn case_333(vars: &Vars) -> InferredGoal<DU, DE, Goal<DU, DE>> {
     let q = vars.v[0].clone();
     let x = vars.v[1].clone();
-    proto_vulcan!([|x| { [x == 3, conde { [x == P3(_, 1, 2), q != x], [|tz| { tz == [3, 3], [1 | tz] != [1, 3, 3] }, P3(x, [], x) != x], [q != [2 | _], [q] == [[x, 2, "bc"]]] }, x == [1, q]], 3 == q, conde { [], [true, x] == x } }, |z| { z == [1, "a" | true], z == P3([z], 1, 2), z == 2 }])
+    proto_vulcan!([|h| { onceo { |y| { |tz| { [3, 1, 1] != [3 | tz], tz == [1, 1] }, x != [[_ | q] | x] } } }, 1 != q, [[1] == q]])
 }
 pub fn case_334(vars: &Vars) -> InferredGoal<DU, DE, Goal<DU, DE>> {
     let x = vars.v[0].clone();
-    proto_vulcan!([|h| { [|y, z| { [h | 1] != y, (h, 3) == y, [_, 1, "bc"] == [2, [y, 2, []], _] }, |x, y| { |tz| { [1 | tz] != [1, 3], tz == [3] }, member(y, [3, 2]) }], [[[x, h], 1] != x, |z| { member(x, []), [[false, 1, h]] == h, |tz| { [3, 3 | tz] != [3, 3, 1, 1], tz == [1, 1] } }] }, closure { |t, z| { (1, []) == t, [1, _, 1] == z } }])
+    proto_vulcan!([[1 | x] == x, ([1, 2], []) == x, [] == x, { let c__: InferredGoal<DU, DE, Goal<DU, DE>> = proto_vulcan_closure!([|yy| { conde { [x == [yy | _], yy == 1], [x == [_, yy | _], yy == 2] } }, |h, z| { z == [z, 1, _ | x], 'a' != x, h != ([[]], z) }]); let g__: Goal<DU, DE> = ::proto_vulcan::GoalCast::cast_into(c__); let r__: InferredGoal<DU, DE, Goal<DU, DE>> = proto_vulcan!([g__.clone(), g__]); r__ }])
 }
 pub fn case_335(vars: &Vars) -> InferredGoal<DU, DE, Goal<DU, DE>> {
     let x = vars.v[0].clone();
     let y = vars.v[1].clone();
-    proto_vulcan!([|tz| { [1, 1, 3] != [1 | tz], tz == [1, 3] }])
+    proto_vulcan!([y == [[y, 'b']], [[y, 1], [2, false], 2] == "a", [|h| { |z| { ([[]], 1) == h, [y, 2] == ['a'], member(y, [2]) }, |x| { |tz| { tz == [2], [3, 2] != [3 | tz] }, |tz| { [3, 2 | tz] != [3, 2, 2], tz == [2] }, y == [h, x | h] }, |t| { member(h, [1, 1]), h != [_] } }, y == [y, "bc", 1 | x], [_, 3] == y], closure { [[], [1, y, 1], [3 | y] | y] == x }])
 }
 pub fn case_336(vars: &Vars) -> InferredGoal<DU, DE, Goal<DU, DE>> {
-    let q = vars.v[0].clone();
-    let x = vars.v[1].clone();
-    proto_vulcan!([conde { |t| { append(q, q, [2, 2]) }, [member(q, []), conde { |tz| { [2, 1, 3, 3] != [2, 1 | tz], tz == [3, 3] }, [condu { x == [[]] }, member(q, [1])] }] }, q == (1, x), [|x| { x == x, [x == [false, x], x == ([3], [q])], (3, [1, 3]) == q }, conde { conde { 2 == q, [x == [q, q], P3([[], 1], [q, x], [q]) == x], member(q, []) }, true }, conde { [q == q, [[[], 2, 1] | x] == [3 | q]], |z| {  }, [[3 | x], [x, 2]] == x }], closure { x != 2 }])
+    let x = vars.v[0].clone();
+    proto_vulcan!([[[x, 2 | x], [2, x | x]] == x, closure { [[[], _] != x, x == x] }])
 }
 pub fn case_337(vars: &Vars) -> InferredGoal<DU, DE, Goal<DU, DE>> {
-    let x = vars.v[0].clone();
-    let y = vars.v[1].clone();
-    proto_vulcan!([x != ([_], [3]), x == [y, y], x == ([[], y], []), closure { (y, []) == x }])
-}
-pub fn case_338(vars: &Vars) -> InferredGoal<DU, DE, Goal<DU, DE>> {
-    let x = vars.v[0].clone();
-    let y = vars.v[1].clone();
-    proto_vulcan!([true, conde { |z, t| { t == [_ | z], P3([], _, t) == t }, |t| { t == [[1], [y, 2, t | y], [2, "a"]], |x| { y == x, |tz| { tz == [3, 1], [2, 2 | tz] != [2, 2, 3, 1] } }, [x != y, true != [2, []]] } }, conde { [[false, 1] == P3([], _, [[], 1]), [3] == x], [] }])
-}
-pub fn case_339(vars: &Vars) -> InferredGoal<DU, DE, Goal<DU, DE>> {
     let q = vars.v[0].clone();
     let x = vars.v[1].clone();
-    proto_vulcan!([conde { |t, z| { z == 1, [t, t] == t }, _ == x }, { let c__: InferredGoal<DU, DE, Goal<DU, DE>> = proto_vulcan_closure!([|yy| { conde { [q == [yy | _], yy == 1], [q == [_, yy | _], yy == 2] } }, q == 1]); let g__: Goal<DU, DE> = ::proto_vulcan::GoalCast::cast_into(c__); let r__: InferredGoal<DU, DE, Goal<DU, DE>> = proto_vulcan!([g__.clone(), g__]); r__ }])
+    proto_vulcan!([|z| { |h| { condu { [(q, q) != x, (_, [2, []]) != x], [[[2, 1, h], h] != [q], [2] == h], true } } }, closure { [_ != q, x == (x, [1])] }])
+}
+pub fn case_338(vars: &Vars) -> InferredGoal<DU, DE, Goal<DU, DE>> {
+    let q = vars.v[0].clone();
+    let x = vars.v[1].clone();
+    proto_vulcan!([conde { q == q, [condu { conde { [append(q, q, [1]), false] }, [|t, h| { q == [2] }, |tz| { tz == [1, 3], [1, 1, 3] != [1 | tz] }], [|h| { h != [_, _], [2, q, 3 | h] != h, member(x, [3, 2]) }, append(x, q, [3, 2])] }, ([x, q], 3) != x] }])
+}
+pub fn case_339(vars: &Vars) -> InferredGoal<DU, DE, Goal<DU, DE>> {
+    let x = vars.v[0].clone();
+    let y = vars.v[1].clone();
+    proto_vulcan!([conda { x == P3(3, y, _), [[]] }, [x, 3] == y, |y| { [y == P3(2, 1, [y, _]), onceo { append(x, x, []) }] }])
 }
 pub fn case_340(vars: &Vars) -> InferredGoal<DU, DE, Goal<DU, DE>> {
     let x = vars.v[0].clone();
     let y = vars.v[1].clone();
-    proto_vulcan!([[|tz| { tz == [1, 1], [1, 2, 1, 1] != [1, 2 | tz] }, conde { |tz| { [1 | tz] != [1, 3, 3], tz == [3, 3] }, [|tz| { [2 | tz] != [2, 2, 1], tz == [2, 1] }, x == y] }, [x == (_, 2), ([], 3) != y]], onceo { |z| { [2, x | x] == z, x != 3 } }, closure { y == [y | x] }])
+    proto_vulcan!([|tz| { [1, 3, 1] != [1 | tz], tz == [3, 1] }, onceo { |x| { |z| { ([2, []], []) == x, false } } }, [2, _, x | 1] == x])
 }
 pub fn case_341(vars: &Vars) -> InferredGoal<DU, DE, Goal<DU, DE>> {
     let x = vars.v[0].clone();
-    proto_vulcan!([conde { [false, x == [3, false]], [x != [_ | 3], x == 2], [onceo { 2 != x }, x == [3]] }, onceo { x == x }])
+    proto_vulcan!([|x, y| { [conde { [], member(x, [3, 1]), [member(x, [1, 3]), true] }, |x, z| { P3([], _, _) == x, true, [[] | 3] == x }, |x| { ["a", x, _ | y] != [[1], [1, [], x], [3, 1]], |tz| { [2, 1 | tz] != [2, 1, 2, 1], tz == [2, 1] } }], true, (x, [[]]) != x }, x != x, x == _])
 }
 pub fn case_342(vars: &Vars) -> InferredGoal<DU, DE, Goal<DU, DE>> {
-    let q = vars.v[0].clone();
-    let x = vars.v[1].clone();
-    proto_vulcan!([q == P3(_, [3, x], _), condu { [|t, h| {  }, x != q], [false, |h| {  }], [|y| { P3([1], x, [q]) == x, |tz| { [2, 1, 1] != [2, 1 | tz], tz == [1] } }, x == 1] }])
+    let x = vars.v[0].clone();
+    proto_vulcan!([[|z| { [z | x] != x, [z, z | x] != x, (1, _) == x }, conda { [[], conde { [[[1, x, []], 2 | x] == x, [x] == x], false, [[x, _ | _] == x, x != P3(3, x, [[], x])] }] }, x == P3(3, 1, x)], [x, [1, x, 2], []] == x, onceo { [[onceo { |tz| { [3 | tz] != [3, 1], tz == [1] } }]] }, { let c__: InferredGoal<DU, DE, Goal<DU, DE>> = proto_vulcan_closure!([|yy| { conde { [x == [yy | _], yy == 1], [x == [_, yy | _], yy == 2] } }, onceo { [_, x, x | x] == x }]); let g__: Goal<DU, DE> = ::proto_vulcan::GoalCast::cast_into(c__); let r__: InferredGoal<DU, DE, Goal<DU, DE>> = proto_vulcan!([g__.clone(), g__]); r__ }])
 }
 pub fn case_343(vars: &Vars) -> InferredGoal<DU, DE, Goal<DU, DE>> {
     let x = vars.v[0].clone();
-    proto_vulcan!([_ != P3(x, [], _), 1 == x, [[3, 1, 2], [1, _, 1 | 3]] == x, closure { [[_] == x, |t| { t == t }] }])
+    proto_vulcan!([[onceo { |z| { x == z, z == _, [1, true, true] == [[[]] | _] } }], conde { [], P3([3], [[]], 3) == x, conde { [|x, h| { member(h, []), member(h, [3]), true }, x == [2]], [P3([3], _, x) == [x | x], condu { [false, [[], x | x] == [x | x]], x == [] }], [x == true, x == [[x], x, [x]]] } }, ["a", 2] == x])
 }
 pub fn case_344(vars: &Vars) -> InferredGoal<DU, DE, Goal<DU, DE>> {
     let x = vars.v[0].clone();
-    let y = vars.v[1].clone();
-    proto_vulcan!([|h| { append(y, h, []) }, [] == [[_, x, 3 | [y, x]]]])
+    proto_vulcan!([[|t| { |t, x| { (_, []) == [[2, t, x | t], t, t], x != ['a', 3 | x], 1 == x }, [2, 2] != x }], [2, x | x] == P3(_, [3, 1], 3)])
 }
 pub fn case_345(vars: &Vars) -> InferredGoal<DU, DE, Goal<DU, DE>> {
     let x = vars.v[0].clone();
-    proto_vulcan!([[_] != x, |y| { [member(x, [1, 1])], conde { [[y == y, y != [[y, _, 2]], ["bc", 2, y] == x]], true }, (x, _) == x }, x == P3([1], _, 2), closure { [x == [true, x], [_ | x] == x] }])
+    let y = vars.v[1].clone();
+    proto_vulcan!([1 == y])
 }
 pub fn case_346(vars: &Vars) -> InferredGoal<DU, DE, Goal<DU, DE>> {
-    let q = vars.v[0].clone();
-    let x = vars.v[1].clone();
-    proto_vulcan!([[[[q == [x, 1, true]], P3([x, _], 1, [x, 1]) != x], true, |t| {  }], 2 == x, |t| {  }])
+    let x = vars.v[0].clone();
+    let y = vars.v[1].clone();
+    proto_vulcan!([[[2, x], y | y] == y, |x| {  }, onceo { |y, t| { t == [[1, y]], (t, []) != y } }])
 }
 pub fn case_347(vars: &Vars) -> InferredGoal<DU, DE, Goal<DU, DE>> {
     let x = vars.v[0].clone();
-    proto_vulcan!([[2, 1] == x])
+    proto_vulcan!([condu { [[[], x | x], [x, 2, 2]] == [1], [[], ['a', x, []] == x] }, x == 2, { let c__: InferredGoal<DU, DE, Goal<DU, DE>> = proto_vulcan_closure!(|yy| { conde { [x == [yy | _], yy == 1], [x == [_, yy | _], yy == 2] } }); let g__: Goal<DU, DE> = ::proto_vulcan::GoalCast::cast_into(c__); let r__: InferredGoal<DU, DE, Goal<DU, DE>> = proto_vulcan!([g__.clone(), g__]); r__ }])
 }
 pub fn case_348(vars: &Vars) -> InferredGoal<DU, DE, Goal<DU, DE>> {
     let q = vars.v[0].clone();
     let x = vars.v[1].clone();
-    proto_vulcan!([conda { |tz| { tz == [1], [3, 3 | tz] != [3, 3, 1] }, [[['a', _ | q] == x, x == [q], conde { [[q, []] == x, append(x, q, [2, 1])], [member(x, [2, 3, 2]), q == [[q, 1, q], [3, [], x], [1, x, 2]]] }], conde { x == P3(q, [_, q], []) }] }, false, [[], x, 1 | x] == q])
+    proto_vulcan!([conde { conde { [|tz| { [1, 2 | tz] != [1, 2, 3, 2], tz == [3, 2] }, true], [x != [3, "a", q | q], |h, z| {  }], [q == [2, 1, 2], |z| { P3(_, [q, 3], []) == 2, append(q, x, [3, 2]) }] }, [], [[x == [q], P3([3], [], _) == P3(3, x, 2), |tz| { tz == [2, 2], [3, 3 | tz] != [3, 3, 2, 2] }]] }])
 }
 pub fn case_349(vars: &Vars) -> InferredGoal<DU, DE, Goal<DU, DE>> {
-    let q = vars.v[0].clone();
-    let x = vars.v[1].clone();
-    proto_vulcan!([|h| { [], q == [1 | []], |h| { h == 3, |tz| { [3, 3, 3] != [3 | tz], tz == [3, 3] } } }, closure { [conde { conde { [x == (3, q), x == (q, x)], [3] == x, true } }, x != [[], q, 2 | x]] }])
+    let x = vars.v[0].clone();
+    let y = vars.v[1].clone();
+    proto_vulcan!([conde { true, [|t| { member(t, []) }, x == [x, 1]], [conde { [[y != ([1], y)], |h| { true, append(x, y, [2, 3]), y == x }] }, conde { |z, y| { [[x, y, x]] == [[y, x | y], [2, z, 3]], false == x, z == _ }, |x| { x == ["bc", x, x | x], [x | x] == y, [false, y] == y }, [y, 1 | y] == [[]] }] }, closure { [2 == [y, [[], 2, x]], |y| {  }] }])
 }
 pub fn case_350(vars: &Vars) -> InferredGoal<DU, DE, Goal<DU, DE>> {
-    let x = vars.v[0].clone();
-    proto_vulcan!([conde { conde { (x, x) == [x, [], []], [true, x == "a"], |z| { x == P3(_, x, _), x == [[z, "bc", _ | x]] } } }, (_, [[], []]) == x, conde { [[["bc", x], [x | x] | x] == x, member(x, [3])], [false, x | x] != x }])
+    let q = vars.v[0].clone();
+    let x = vars.v[1].clone();
+    proto_vulcan!([q != x, [q == x]])
 }
 pub fn case_351(vars: &Vars) -> InferredGoal<DU, DE, Goal<DU, DE>> {
     let x = vars.v[0].clone();
     let y = vars.v[1].clone();
-    proto_vulcan!([conde { [conde { [], [x == ([2, 2], x), y != [x, x, true]] }, y == y] }])
+    proto_vulcan!([[x, y, 3] != x])
 }
 pub fn case_352(vars: &Vars) -> InferredGoal<DU, DE, Goal<DU, DE>> {
-    let q = vars.v[0].clone();
-    let x = vars.v[1].clone();
-    proto_vulcan!([|tz| { tz == [3, 3], [3, 1 | tz] != [3, 1, 3, 3] }, conde { [x == [_], |y, h| { y == x }], [] }, true, closure { conda { onceo { x != [x, q] }, [|y| { true, x == 1 }, 2 == x], [[true, "bc", 1] == x, |h| { x == h, (_, h) == q, false == q }] } }])
+    let x = vars.v[0].clone();
+    proto_vulcan!([x != x])
 }
 pub fn case_353(vars: &Vars) -> InferredGoal<DU, DE, Goal<DU, DE>> {
     let x = vars.v[0].clone();
-    let y = vars.v[1].clone();
-    proto_vulcan!([|h, t| { h == "a", h != ([h], []) }])
+    proto_vulcan!([2 != x, conda { [[condu { x == [1] }], |x, y| { x != x, member(x, [1, 1]), onceo { x == [[], _] } }], [false, |x| {  }], [conde { [], [], conde { x == [x, [], 3] } }, [|tz| { [2 | tz] != [2, 3], tz == [3] }]] }, conde { [true, [conde { [x == x, x == ['b']], x == [[x, false, x | x]], [[[2]] == 2, member(x, [2])] }]], [x == [2, [[], x, 1]], [[], 1, 1] != [2]], [[onceo { false }], |y| { y == ([], x) }] }, { let c__: InferredGoal<DU, DE, Goal<DU, DE>> = proto_vulcan_closure!([|yy| { conde { [x == [yy | _], yy == 1], [x == [_, yy | _], yy == 2] } }, 3 == x]); let g__: Goal<DU, DE> = ::proto_vulcan::GoalCast::cast_into(c__); let r__: InferredGoal<DU, DE, Goal<DU, DE>> = proto_vulcan!([g__.clone(), g__]); r__ }])
 }
 pub fn case_354(vars: &Vars) -> InferredGoal<DU, DE, Goal<DU, DE>> {
-    let q = vars.v[0].clone();
-    let x = vars.v[1].clone();
-    proto_vulcan!([x == 1, condu { [onceo { [true | x] != q }, [[], [], _ | x] == q], [(_, x) != x, conde { [conde { [] }, [[], "bc" | q] == x], conde { false, member(q, [1]) } }], [q == q, x == q] }])
+    let x = vars.v[0].clone();
+    let y = vars.v[1].clone();
+    proto_vulcan!([conde { [1 != [_, [2, "a", x] | x], false], [P3(x, x, [_, y]) == y, x != [[]]], true }, closure { [|tz| { [2 | tz] != [2, 1, 1], tz == [1, 1] }, y == y] }])
 }
 pub fn case_355(vars: &Vars) -> InferredGoal<DU, DE, Goal<DU, DE>> {
     let x = vars.v[0].clone();
-    proto_vulcan!([|z| { [] }, { let c__: InferredGoal<DU, DE, Goal<DU, DE>> = proto_vulcan_closure!(|yy| { conde { [x == [yy | _], yy == 1], [x == [_, yy | _], yy == 2] } }); let g__: Goal<DU, DE> = ::proto_vulcan::GoalCast::cast_into(c__); let r__: InferredGoal<DU, DE, Goal<DU, DE>> = proto_vulcan!([g__.clone(), g__]); r__ }])
+    let y = vars.v[1].clone();
+    proto_vulcan!([x != [y, []], [1] == y, |tz| { [1, 3 | tz] != [1, 3, 1, 2], tz == [1, 2] }])
 }
 pub fn case_356(vars: &Vars) -> InferredGoal<DU, DE, Goal<DU, DE>> {
     let x = vars.v[0].clone();
-    let y = vars.v[1].clone();
-    proto_vulcan!([|y| { ["bc"] == y, [|y| {  }, conda { P3(y, [3], [x, 1]) == y, (y, _) == y }, condu { P3(1, y, y) == x, [y, [], y | y] == y, [x != y, x == x] }] }, x == [[], false], false, { let c__: InferredGoal<DU, DE, Goal<DU, DE>> = proto_vulcan_closure!([|yy| { conde { [x == [yy | _], yy == 1], [x == [_, yy | _], yy == 2] } }, conda { false, [(1, [[], y]) != x, y == [2]], x != y }]); let g__: Goal<DU, DE> = ::proto_vulcan::GoalCast::cast_into(c__); let r__: InferredGoal<DU, DE, Goal<DU, DE>> = proto_vulcan!([g__.clone(), g__]); r__ }])
+    proto_vulcan!([[x] == x])
 }
 pub fn case_357(vars: &Vars) -> InferredGoal<DU, DE, Goal<DU, DE>> {
     let q = vars.v[0].clone();
     let x = vars.v[1].clone();
-    proto_vulcan!([|tz| { tz == [2], [3, 2, 2] != [3, 2 | tz] }])
+    proto_vulcan!([2 == q, condu { [|t, z| { conde { [x == [2], 2 == t], [[t, q] == z, member(x, [])], [[z, [q], [1 | t] | t] == t, append(t, z, [])] }, [_ | t] == z, |t| {  } }, [[2, x, q], [], [2, [], q | 'b'] | x] != [2, "a"]], |h, y| { [1, _, y | q] == [false] } }, P3([], _, _) != [_, 3]])
 }
 pub fn case_358(vars: &Vars) -> InferredGoal<DU, DE, Goal<DU, DE>> {
     let q = vars.v[0].clone();
     let x = vars.v[1].clone();
-    proto_vulcan!([q == P3(1, [x], 2)])
+    proto_vulcan!([true, { let c__: InferredGoal<DU, DE, Goal<DU, DE>> = proto_vulcan_closure!([|yy| { conde { [x == [yy | _], yy == 1], [x == [_, yy | _], yy == 2] } }, q != P3(x, 3, [3, _])]); let g__: Goal<DU, DE> = ::proto_vulcan::GoalCast::cast_into(c__); let r__: InferredGoal<DU, DE, Goal<DU, DE>> = proto_vulcan!([g__.clone(), g__]); r__ }])
 }
 pub fn case_359(vars: &Vars) -> InferredGoal<DU, DE, Goal<DU, DE>> {
-    let q = vars.v[0].clone();
-    let x = vars.v[1].clone();
-    proto_vulcan!([[1, x, 'a'] == x, conda { q == P3(x, [1], []) }, |h| { |tz| { [2, 2 | tz] != [2, 2, 3], tz == [3] } }, { let c__: InferredGoal<DU, DE, Goal<DU, DE>> = proto_vulcan_closure!(|yy| { conde { [q == [yy | _], yy == 1], [q == [_, yy | _], yy == 2] } }); let g__: Goal<DU, DE> = ::proto_vulcan::GoalCast::cast_into(c__); let r__: InferredGoal<DU, DE, Goal<DU, DE>> = proto_vulcan!([g__.clone(), g__]); r__ }])
+    let x = vars.v[0].clone();
+    let y = vars.v[1].clone();
+    proto_vulcan!([onceo { (2, 2) == y }, P3(y, [], [y]) == x, y == x, { let c__: InferredGoal<DU, DE, Goal<DU, DE>> = proto_vulcan_closure!(|yy| { conde { [x == [yy | _], yy == 1], [x == [_, yy | _], yy == 2] } }); let g__: Goal<DU, DE> = ::proto_vulcan::GoalCast::cast_into(c__); let r__: InferredGoal<DU, DE, Goal<DU, DE>> = proto_vulcan!([g__.clone(), g__]); r__ }])
 }
 pub fn case_360(vars: &Vars) -> InferredGoal<DU, DE, Goal<DU, DE>> {
     let x = vars.v[0].clone();
     let y = vars.v[1].clone();
-    proto_vulcan!([y == [[3, x, 1 | [1, x]], [y, 3]], |tz| { [3, 2, 1, 2] != [3, 2 | tz], tz == [1, 2] }, [[1, 2], [x, 'a'] | x] != x])
+    proto_vulcan!([member(y, [2, 2, 1]), x == (_, []), conde { [conde { y == [3, 1], [|h, z| { |tz| { tz == [1], [1, 2, 1] != [1, 2 | tz] }, x == h }, [y == x, member(x, [])]], [x] == x }, append(x, x, [1, 2])], [] }])
 }
 pub fn case_361(vars: &Vars) -> InferredGoal<DU, DE, Goal<DU, DE>> {
     let x = vars.v[0].clone();
     let y = vars.v[1].clone();
-    proto_vulcan!([x == y, y != x, y != P3([x, y], 2, [])])
+    proto_vulcan!([[1] == x])
 }
 pub fn case_362(vars: &Vars) -> InferredGoal<DU, DE, Goal<DU, DE>> {
     let x = vars.v[0].clone();
-    proto_vulcan!([true])
+    let y = vars.v[1].clone();
+    proto_vulcan!([["a", 1, 1] == x, { let c__: InferredGoal<DU, DE, Goal<DU, DE>> = proto_vulcan_closure!([|yy| { conde { [y == [yy | _], yy == 1], [y == [_, yy | _], yy == 2] } }, [[]] != [3, 1]]); let g__: Goal<DU, DE> = ::proto_vulcan::GoalCast::cast_into(c__); let r__: InferredGoal<DU, DE, Goal<DU, DE>> = proto_vulcan!([g__.clone(), g__]); r__ }])
 }
 pub fn case_363(vars: &Vars) -> InferredGoal<DU, DE, Goal<DU, DE>> {
     let x = vars.v[0].clone();
-    proto_vulcan!([[] == x, closure { conda { [_ == P3(x, 3, []), |y| { |tz| { [3, 3] != [3 | tz], tz == [3] } }], [[false], P3([x], x, x) == x], [append(x, x, [3, 2]), member(x, [3, 2])] } }])
+    let y = vars.v[1].clone();
+    proto_vulcan!([conde { [], (x, 1) == y }, y == y, closure { [x == ([y, _], []), [true, false, |t, z| {  }]] }])
 }
 pub fn case_364(vars: &Vars) -> InferredGoal<DU, DE, Goal<DU, DE>> {
     let x = vars.v[0].clone();
     let y = vars.v[1].clone();
-    proto_vulcan!([y == y, conde { y == [1], condu { [[y, 2 | 1], y, _] == 3 } }])
+    proto_vulcan!([|tz| { [2, 3, 3] != [2 | tz], tz == [3, 3] }, [true, 1, 1] == [y, [1, _, x], [y, 1 | y]]])
 }
 pub fn case_365(vars: &Vars) -> InferredGoal<DU, DE, Goal<DU, DE>> {
     let q = vars.v[0].clone();
     let x = vars.v[1].clone();
-    proto_vulcan!([|x, z| { z == [], conde { [conde { [[_, x | [2]] == x, P3(3, [x, x], [3]) == x], [true, q != [1, 2, q]] }, 2 != 3], x == x, |tz| { tz == [3, 1], [3 | tz] != [3, 3, 1] } } }, append(x, x, [2])])
+    proto_vulcan!([onceo { onceo { conde { [q != q, true], [], (x, q) == x } } }])
 }
 pub fn case_366(vars: &Vars) -> InferredGoal<DU, DE, Goal<DU, DE>> {
-    let q = vars.v[0].clone();
-    let x = vars.v[1].clone();
-    proto_vulcan!([x != [q, [_, [], q]], member(q, [3]), { let c__: InferredGoal<DU, DE, Goal<DU, DE>> = proto_vulcan_closure!([|yy| { conde { [q == [yy | _], yy == 1], [q == [_, yy | _], yy == 2] } }, [1, [1, 2, []], [_, q, x] | [_]] == x]); let g__: Goal<DU, DE> = ::proto_vulcan::GoalCast::cast_into(c__); let r__: InferredGoal<DU, DE, Goal<DU, DE>> = proto_vulcan!([g__.clone(), g__]); r__ }])
+    let x = vars.v[0].clone();
+    proto_vulcan!([x == (_, 2), x == 2, closure { ["a" != x, conde { false }] }])
 }
 pub fn case_367(vars: &Vars) -> InferredGoal<DU, DE, Goal<DU, DE>> {
     let x = vars.v[0].clone();
-    proto_vulcan!([x == P3([[]], 2, _), conde { x == [1], |y| { conde { [[x, 2] == x, [true, 'b' | x] == x], [y | y] == y }, |z, h| { [_, 1] == y, P3([], y, 1) == z }, |y, x| { x == [_], |tz| { [2, 1] != [2 | tz], tz == [1] }, _ != x } }, [[x, 2] == x, x == []] }, closure { ["bc" == x, [x | true] != x] }])
+    let y = vars.v[1].clone();
+    proto_vulcan!([conde { [x == x, conde { [] == y }] }, onceo { false }, P3([1, y], x, 2) == y, closure { [|t| { [[x, y]] == t }, 3 == y] }])
 }
 pub fn case_368(vars: &Vars) -> InferredGoal<DU, DE, Goal<DU, DE>> {
-    let x = vars.v[0].clone();
-    proto_vulcan!([(_, x) != x, |tz| { [1, 1, 1] != [1, 1 | tz], tz == [1] }, true, { let c__: InferredGoal<DU, DE, Goal<DU, DE>> = proto_vulcan_closure!(|yy| { conde { [x == [yy | _], yy == 1], [x == [_, yy | _], yy == 2] } }); let g__: Goal<DU, DE> = ::proto_vulcan::GoalCast::cast_into(c__); let r__: InferredGoal<DU, DE, Goal<DU, DE>> = proto_vulcan!([g__.clone(), g__]); r__ }])
+    let q = vars.v[0].clone();
+    let x = vars.v[1].clone();
+    proto_vulcan!([conde { [x == x, x != [1, [] | 3]], [conde { x == (1, 1), [conda { [append(x, x, []), q != [1, true, 3]], [append(x, q, [1, 3]), true], [[q, x, q | q] == x, |tz| { tz == [3, 3], [2, 3, 3] != [2 | tz] }] }, append(q, x, [])] }, 3 != x], P3(1, x, []) == q }, { let c__: InferredGoal<DU, DE, Goal<DU, DE>> = proto_vulcan_closure!([|yy| { conde { [x == [yy | _], yy == 1], [x == [_, yy | _], yy == 2] } }, x != P3([], [3, []], q)]); let g__: Goal<DU, DE> = ::proto_vulcan::GoalCast::cast_into(c__); let r__: InferredGoal<DU, DE, Goal<DU, DE>> = proto_vulcan!([g__.clone(), g__]); r__ }])
 }
 pub fn case_369(vars: &Vars) -> InferredGoal<DU, DE, Goal<DU, DE>> {
     let q = vars.v[0].clone();
     let x = vars.v[1].clone();
-    proto_vulcan!([|tz| { [3 | tz] != [3, 1, 1], tz == [1, 1] }, x == 3])
+    proto_vulcan!([conde { [q != x, onceo { 1 == x }], [conde { [] }, |tz| { [3 | tz] != [3, 1], tz == [1] }], _ == [[q, _], [2]] }, |y, t| { member(x, [1, 2]) }, conde { P3(q, x, q) == q, [2 == [3, q], conde { [|z, y| { q == [2, y, 1 | x], append(y, q, []), append(x, z, [2, 2]) }, |t| { false, member(q, [2]) }], [x == [[], [2], x], _ == x] }], [q == 'b', q == [2]] }])
 }
 pub fn case_370(vars: &Vars) -> InferredGoal<DU, DE, Goal<DU, DE>> {
     let x = vars.v[0].clone();
-    proto_vulcan!([|x| { |t| { false == [[x], [2, 1, 1]], x == P3(x, 1, _) }, P3(2, [1, []], _) == [x, ['b', x, []]] }, onceo { 2 == 3 }, conda { x != (_, 3) }])
+    let y = vars.v[1].clone();
+    proto_vulcan!([3 != [x, [true, x]], conde { [[[x, [], 2], [y, [], []], [1, 1, _ | x] | x] == y, y != y], [], [onceo { conde { |tz| { tz == [2], [3 | tz] != [3, 2] }, [x == x, y == ([], 1)], ([[], []], [y, _]) == y } }, condu { [[], [_ | x] | y] == y, [y == P3(y, [y, []], 1), member(x, [])], [[[y, y, x], [1, _, 3]] == x, conda { [1] == y, x == 2, y != (y, x) }] }] }])
 }
 pub fn case_371(vars: &Vars) -> InferredGoal<DU, DE, Goal<DU, DE>> {
     let x = vars.v[0].clone();
-    proto_vulcan!([x == [['b', x, true]], x == x])
+    let y = vars.v[1].clone();
+    proto_vulcan!([y == y, [['a', "a" | y], [y, x], [y, x, x] | []] != y, x == y])
 }
 pub fn case_372(vars: &Vars) -> InferredGoal<DU, DE, Goal<DU, DE>> {
     let x = vars.v[0].clone();
-    proto_vulcan!([P3(x, 3, 2) == x, |x| { [1, x, 1 | x] == x, x == [_] }, closure { [[|h| {  }, [[x], [x, 2], x] == x], onceo { conda { x != [_, [] | 3] } }] }])
+    let y = vars.v[1].clone();
+    proto_vulcan!([conde { [], [y == x, |x| { |tz| { [1, 3 | tz] != [1, 3, 1, 2], tz == [1, 2] } }], true }, [y, y, 2 | y] != 1, |x, y| { P3(_, [[], x], 2) == [[x]], |t, x| { x == 3 }, y == x }])
 }
 pub fn case_373(vars: &Vars) -> InferredGoal<DU, DE, Goal<DU, DE>> {
-    let x = vars.v[0].clone();
-    let y = vars.v[1].clone();
-    proto_vulcan!([[false, 1, y | x] != y, member(x, [2]), y == 'b'])
+    let q = vars.v[0].clone();
+    let x = vars.v[1].clone();
+    proto_vulcan!([x != []])
 }
 pub fn case_374(vars: &Vars) -> InferredGoal<DU, DE, Goal<DU, DE>> {
-    let x = vars.v[0].clone();
-    proto_vulcan!([conde { _ == x, [[[["bc", _], x] != x, member(x, [1, 3, 1]), onceo { x != 2 }]], x != [x, 1, 2] }, |y, z| { |h, y| { h == _ } }])
+    let q = vars.v[0].clone();
+    let x = vars.v[1].clone();
+    proto_vulcan!([onceo { ([q], [[], 3]) == q }, closure { |tz| { [2 | tz] != [2, 2, 2], tz == [2, 2] } }])
 }
 pub fn case_375(vars: &Vars) -> InferredGoal<DU, DE, Goal<DU, DE>> {
     let x = vars.v[0].clone();
     let y = vars.v[1].clone();
-    proto_vulcan!([y == 2, member(x, []), false])
+    proto_vulcan!([member(y, [1, 1, 1]), member(x, [1, 2, 3]), |y| { conde { [], member(y, [1, 1]) }, [3, x | x] == y }])
 }
 pub fn case_376(vars: &Vars) -> InferredGoal<DU, DE, Goal<DU, DE>> {
     let x = vars.v[0].clone();
-    proto_vulcan!([3 == x, member(x, [1])])
+    let y = vars.v[1].clone();
+    proto_vulcan!([|y, x| {  }, |z| { true, [[_ | y] == [x], |tz| { [1, 1] != [1 | tz], tz == [1] }, onceo { |tz| { [1, 2 | tz] != [1, 2, 2, 1], tz == [2, 1] } }], [y | y] == z }, _ == y])
 }
 pub fn case_377(vars: &Vars) -> InferredGoal<DU, DE, Goal<DU, DE>> {
     let x = vars.v[0].clone();
-    proto_vulcan!([x == [x], { let c__: InferredGoal<DU, DE, Goal<DU, DE>> = proto_vulcan_closure!(|yy| { conde { [x == [yy | _], yy == 1], [x == [_, yy | _], yy == 2] } }); let g__: Goal<DU, DE> = ::proto_vulcan::GoalCast::cast_into(c__); let r__: InferredGoal<DU, DE, Goal<DU, DE>> = proto_vulcan!([g__.clone(), g__]); r__ }])
+    proto_vulcan!([[[], [], 2] == x, |t, z| {  }])
 }
 pub fn case_378(vars: &Vars) -> InferredGoal<DU, DE, Goal<DU, DE>> {
     let x = vars.v[0].clone();
-    proto_vulcan!([|tz| { tz == [3], [1, 3, 3] != [1, 3 | tz] }, [[], |t| { |z| { true }, t == t }, x != x]])
+    let y = vars.v[1].clone();
+    proto_vulcan!([[['a', "a"], y | y] == y, conde { |y, h| {  }, [conde { |x, y| { [3, []] == x, |tz| { tz == [2], [3, 1 | tz] != [3, 1, 2] } }, [3, 1] == y }, |z, y| { [2 | y] != z, [true, member(z, [2]), x == P3(2, [], [])], |tz| { [3 | tz] != [3, 1], tz == [1] } }] }, true, closure { [x, 2, x] != y }])
 }
 pub fn case_379(vars: &Vars) -> InferredGoal<DU, DE, Goal<DU, DE>> {
     let x = vars.v[0].clone();
-    let y = vars.v[1].clone();
-    proto_vulcan!([|t| { |x| { (x, 1) == y, false, onceo { member(y, [1, 3]) } }, [|z| { t == [z, t, x], x == [_, _, [_, 1, x]], member(z, [1, 3, 3]) }, conda { [x != (y, []), false], [[1 | x] == t, |tz| { [3, 3 | tz] != [3, 3, 2], tz == [2] }] }, P3([2], 3, x) == x] }])
+    proto_vulcan!([|tz| { [3 | tz] != [3, 3, 2], tz == [3, 2] }])
 }
 pub fn case_380(vars: &Vars) -> InferredGoal<DU, DE, Goal<DU, DE>> {
-    let q = vars.v[0].clone();
-    let x = vars.v[1].clone();
-    proto_vulcan!([|h| { conde { [conda { [[1, 2, 3 | x] == h, [false, [], x | q] == h], [[[_, h], [_, h] | [q]] == h, member(q, [3])], [append(h, x, [1, 2]), false == h] }, onceo { append(h, x, []) }], conda { P3(3, _, [x, 1]) == 2, [] == x, [(x, q) == q, _ == q] }, [x == [2, x | q], false] } }, q == x, x == [x | q]])
+    let x = vars.v[0].clone();
+    let y = vars.v[1].clone();
+    proto_vulcan!([[[y | x], [1] | y] != x, y == y])
 }
 pub fn case_381(vars: &Vars) -> InferredGoal<DU, DE, Goal<DU, DE>> {
-    let q = vars.v[0].clone();
-    let x = vars.v[1].clone();
-    proto_vulcan!([|t| { [(t, _) != x, conde { [append(q, q, [2]), [t | x] != q], x == ([q, x], []) }], |y| { P3([], 1, [y, 1]) == q }, conde { [[(t, [_]) != t, member(t, [3, 2, 2]), [x, q] == q]], [|h| { (3, q) == [[1 | [x]], [t], q], true == x }, |h| { [1, 2] == x, h != [_, x], P3(x, [], [2, _]) != x }], [q, x, false] != x } }, true, q == x, closure { [3, ['b' | x], [3, "bc" | q] | x] != [[x, _, 2 | x], [_, q, 1], [_, q, _ | x]] }])
+    let x = vars.v[0].clone();
+    proto_vulcan!([|z| { z == [], [x, z] == [[x, x, 3]] }, closure { |y| { x != [y, 1] } }])
 }
 pub fn case_382(vars: &Vars) -> InferredGoal<DU, DE, Goal<DU, DE>> {
-    let q = vars.v[0].clone();
-    let x = vars.v[1].clone();
-    proto_vulcan!([conde { [x == (1, _), [2, _, q] == x], [[P3(x, 2, [_, 2]) != x, conde { [member(q, []), [[], 2 | 3] == x], [|tz| { [2 | tz] != [2, 1, 2], tz == [1, 2] }, true], [[2, q, q], [], q] == q }, [[[[], 2, _ | x], [3, 2, q], [2]] != q]]], [] }])
+    let x = vars.v[0].clone();
+    proto_vulcan!([2 == [1, [x]], closure { |t, y| { conde { [|tz| { [2, 2 | tz] != [2, 2, 3, 2], tz == [3, 2] }, 1 == y], |tz| { tz == [2, 1], [3, 1, 2, 1] != [3, 1 | tz] } }, |tz| { tz == [2, 3], [1, 1, 2, 3] != [1, 1 | tz] }, [x, y | t] == t } }])
 }
 pub fn case_383(vars: &Vars) -> InferredGoal<DU, DE, Goal<DU, DE>> {
     let x = vars.v[0].clone();
     let y = vars.v[1].clone();
-    proto_vulcan!([[[_, 1, 1 | y], 1] == x, y == 1, closure { [[P3([1], x, y) != x]] }])
+    proto_vulcan!([1 != [[], 1, [3, 1 | x] | []], append(x, x, [1, 1])])
 }
 pub fn case_384(vars: &Vars) -> InferredGoal<DU, DE, Goal<DU, DE>> {
-    let q = vars.v[0].clone();
-    let x = vars.v[1].clone();
-    proto_vulcan!([[[condu { [1] == q, [[x, 2 | x] == x, [2] == q], q == P3(1, [1], x) }], [conde { 1 != [3, 1, q] }], [[], x] == q], [] == q, closure { |t, y| { [true], ['a' | y] == t } }])
+    let x = vars.v[0].clone();
+    proto_vulcan!([x == [_], conde { x == P3(_, 1, [x]), x == [[], ["a", x], x], [[[x, []] == x, [1, x, []] != x, |t| {  }]] }, [2, 1, [] | x] == x])
 }
 pub fn case_385(vars: &Vars) -> InferredGoal<DU, DE, Goal<DU, DE>> {
     let x = vars.v[0].clone();
-    proto_vulcan!([P3(x, _, _) == x, [x == [2, x, 1]], false])
+    let y = vars.v[1].clone();
+    proto_vulcan!([condu { |x, z| { |t| { member(y, [1, 1, 3]), member(z, [3, 3, 3]) }, conde { [[] == y, x == y], [|tz| { tz == [3, 3], [1, 3, 3] != [1 | tz] }, x == 1] } }, [2] != x }])
 }
 pub fn case_386(vars: &Vars) -> InferredGoal<DU, DE, Goal<DU, DE>> {
-    let x = vars.v[0].clone();
-    proto_vulcan!([([1], [1]) == x, closure { [conda { |z, h| { append(x, h, []), x == [2, 'b' | 'a'], h == h } }, |h| { x == (3, h), onceo { ["bc", x, x | 1] == h } }] }])
+    let q = vars.v[0].clone();
+    let x = vars.v[1].clone();
+    proto_vulcan!([|z, x| { conde { [[2] == z, q == [1, 3, []]], [x != P3(z, x, z), |t| { q == [[_, x, []]] }], [] } }])
 }
 pub fn case_387(vars: &Vars) -> InferredGoal<DU, DE, Goal<DU, DE>> {
     let x = vars.v[0].clone();
-    proto_vulcan!([false, [conda { [] != [3, [2, []]], [[x, x] == x, conde { [x, 2] == x, [[x, false, false], [[], 1], x] == x }] }]])
+    proto_vulcan!([x == false, |t, x| { x == x, condu { [[member(x, [2, 3])]], false, [x == ['a'], |tz| { [3, 1, 3] != [3 | tz], tz == [1, 3] }] }, |x| { x == ['b'], true != x } }, { let c__: InferredGoal<DU, DE, Goal<DU, DE>> = proto_vulcan_closure!([|yy| { conde { [x == [yy | _], yy == 1], [x == [_, yy | _], yy == 2] } }, |z, t| { t != (x, [z, _]), [[2], [z, [], x | t]] == t, |tz| { [3, 2, 2] != [3, 2 | tz], tz == [2] } }]); let g__: Goal<DU, DE> = ::proto_vulcan::GoalCast::cast_into(c__); let r__: InferredGoal<DU, DE, Goal<DU, DE>> = proto_vulcan!([g__.clone(), g__]); r__ }])
 }
 pub fn case_388(vars: &Vars) -> InferredGoal<DU, DE, Goal<DU, DE>> {
     let q = vars.v[0].clone();
     let x = vars.v[1].clone();
-    proto_vulcan!([[x == 3, conde { q == 1, onceo { _ != [q | x] } }]])
+    proto_vulcan!([x == P3([1, []], x, []), [[_ | x], [3, x, x], 2 | q] != x, x != [q, q]])
 }
 pub fn case_389(vars: &Vars) -> InferredGoal<DU, DE, Goal<DU, DE>> {
     let x = vars.v[0].clone();
-    let y = vars.v[1].clone();
-    proto_vulcan!([[y == x, |z| { |x, y| { y == (_, []), z != [[y, 1, [] | z], _, z] } }]])
+    proto_vulcan!([[1, x] == [[1, _] | [false, x]]])
 }
 pub fn case_390(vars: &Vars) -> InferredGoal<DU, DE, Goal<DU, DE>> {
     let x = vars.v[0].clone();
     let y = vars.v[1].clone();
-    proto_vulcan!([x == _, ["a", y, y | y] == x, y == [2]])
+    proto_vulcan!([[['b', 2, y], [_, x, y | x]] != x, P3([y, 2], [x, []], [y]) == x, |x, y| { |tz| { [2 | tz] != [2, 3, 2], tz == [3, 2] } }, { let c__: InferredGoal<DU, DE, Goal<DU, DE>> = proto_vulcan_closure!([|yy| { conde { [y == [yy | _], yy == 1], [y == [_, yy | _], yy == 2] } }, [true]]); let g__: Goal<DU, DE> = ::proto_vulcan::GoalCast::cast_into(c__); let r__: InferredGoal<DU, DE, Goal<DU, DE>> = proto_vulcan!([g__.clone(), g__]); r__ }])
 }
 pub fn case_391(vars: &Vars) -> InferredGoal<DU, DE, Goal<DU, DE>> {
-    let q = vars.v[0].clone();
-    let x = vars.v[1].clone();
-    proto_vulcan!([conda { append(x, x, [2]), [q == 1, |z, x| { onceo { member(q, []) }, false }], q == [[], 1, 2 | x] }, true, |y| { conde { [conde { y == y }, [false, q == [y, [q], y]]], [false, member(x, [2, 1])], append(x, y, [1]) }, [[_, q, y | q], [_], q] == q }])
+    let x = vars.v[0].clone();
+    proto_vulcan!([3 == x])
 }
 pub fn case_392(vars: &Vars) -> InferredGoal<DU, DE, Goal<DU, DE>> {
     let q = vars.v[0].clone();
     let x = vars.v[1].clone();
-    proto_vulcan!([true, |h, x| { x == P3(1, h, 3), [[x], [1] | x] == [2, [[], []]] }, q != [2, "a"]])
+    proto_vulcan!([_ == x, ['a', q, 'a'] == [[1, 2, 3 | q], [x | q], [1]]])
 }
 pub fn case_393(vars: &Vars) -> InferredGoal<DU, DE, Goal<DU, DE>> {
     let x = vars.v[0].clone();
     let y = vars.v[1].clone();
-    proto_vulcan!([y == [y]])
+    proto_vulcan!([condu { [y == ([], y), [2, [x | x]] != P3(3, 2, [])] }, y == x])
 }
 pub fn case_394(vars: &Vars) -> InferredGoal<DU, DE, Goal<DU, DE>> {
-    let x = vars.v[0].clone();
-    proto_vulcan!([[x != x, x == [["bc"], [1, 3, 1 | x]], |y| { conda { _ == y }, [x != [y], P3(_, 1, [3]) == x, y != 1] }], [[], x, "bc"] == x, closure { conde { [|z| { [1] != x }, [[x, x, x | [_]] == x]], (_, [1, x]) == x, |t, x| { t == ([], 2), [[]] == [3, t], append(x, x, [3]) } } }])
+    let q = vars.v[0].clone();
+    let x = vars.v[1].clone();
+    proto_vulcan!([['a'] == q, closure { [x == q, ([[], x], 3) == q] }])
 }
 pub fn case_395(vars: &Vars) -> InferredGoal<DU, DE, Goal<DU, DE>> {
     let q = vars.v[0].clone();
     let x = vars.v[1].clone();
-    proto_vulcan!([[x | q] == x, q == q, conde { [|tz| { tz == [1], [1, 3 | tz] != [1, 3, 1] }, q != 2], [[3] == q, [([], _) == q]], 3 != x }])
+    proto_vulcan!([[] == q, ([3, q], []) == q, q == [1, [] | x]])
 }
 pub fn case_396(vars: &Vars) -> InferredGoal<DU, DE, Goal<DU, DE>> {
     let x = vars.v[0].clone();
     let y = vars.v[1].clone();
-    proto_vulcan!([onceo { append(x, y, [3, 3]) }, [y == P3(3, [y], [[]]), P3([_], _, []) == x, |x, t| { x != 2, [y, y, y | x] == [y, y], member(x, [1, 1]) }]])
+    proto_vulcan!([onceo { [[2], [1] | [x]] == ([], 3) }, onceo { conde { onceo { true }, [] } }, |y, z| { |z| { |x| { z == x, x != z, [[], 1] == y }, [true, y != [[], x], append(y, x, [1])], |x| { [y, [[], 1, x], [z, y, z | z]] == P3([x], [x], 1) } } }])
 }
 pub fn case_397(vars: &Vars) -> InferredGoal<DU, DE, Goal<DU, DE>> {
     let x = vars.v[0].clone();
-    proto_vulcan!([|h, y| { h != [_], conde { [x == x, conde { [x == [[x, 2, 3], [x], 2], 1 == h], [h == P3([[]], [[], []], 3), 1 != x], false }] } }, [condu { x == true, [conda { [append(x, x, [1]), member(x, [1])] }, [_, 2] == [x]] }], closure { [false, [|tz| { [1, 3, 2] != [1 | tz], tz == [3, 2] }]] }])
+    proto_vulcan!([[onceo { |z| { [[z, 2, 1], x, z | [z]] == [true, []], false, (x, [3]) == x } }, |t| { |x, y| { false, (2, 1) == y } }]])
 }
 pub fn case_398(vars: &Vars) -> InferredGoal<DU, DE, Goal<DU, DE>> {
     let x = vars.v[0].clone();
-    proto_vulcan!([x != [2], conde { [[_, 1 | x] == x, x == [3, x, 2]], [P3(3, 1, [1, _]) == x, conde { true }], onceo { P3([_], [x], x) == x } }])
+    proto_vulcan!([onceo { [2 | x] == x }, [|tz| { tz == [2, 2], [3, 2, 2] != [3 | tz] }, x != [[_, x, x], [[]] | [2, x]]]])
 }
 pub fn case_399(vars: &Vars) -> InferredGoal<DU, DE, Goal<DU, DE>> {
-    let x = vars.v[0].clone();
-    let y = vars.v[1].clone();
-    proto_vulcan!([append(y, x, [2, 3]), y == x, P3(y, [], 1) == y])
+    let q = vars.v[0].clone();
+    let x = vars.v[1].clone();
+    proto_vulcan!([conde { [[[q, x] == x, []], condu { x != [[] | [x]], onceo { append(q, x, [2, 3]) }, conda { q != [[q], [3, 2 | q], [2, 1, q] | x] } }], conde { q == x, |x| { true, |tz| { tz == [3], [2, 3, 3] != [2, 3 | tz] }, x == [[q, q], [2 | q], [true]] } } }, conde { [], _ == x }, (1, x) == x])
 }
 pub fn case_400(vars: &Vars) -> InferredGoal<DU, DE, Goal<DU, DE>> {
     let x = vars.v[0].clone();
     let y = vars.v[1].clone();
-    proto_vulcan!([false, |t, z| { onceo { conde { |tz| { tz == [1], [2, 1] != [2 | tz] }, [P3(_, 3, 1) == x, z == [t, x, _]], t == P3([], [_, _], [1, 3]) } }, conda { [[y == y, append(t, t, [1])], conda { true, [[]] == x, y == x }], [z | t] == z, y == [[z, 2 | y], [z, "bc", []]] }, append(t, x, []) }, |z, y| { |z, h| { [|tz| { [3, 1, 2, 2] != [3, 1 | tz], tz == [2, 2] }, y == h] }, |tz| { [1, 1, 3, 1] != [1, 1 | tz], tz == [3, 1] }, [2, z | z] != y }])
+    proto_vulcan!([|tz| { tz == [1, 1], [2, 3 | tz] != [2, 3, 1, 1] }])
 }
 pub fn case_401(vars: &Vars) -> InferredGoal<DU, DE, Goal<DU, DE>> {
     let x = vars.v[0].clone();
-    proto_vulcan!([x == P3(_, _, 2)])
+    proto_vulcan!([P3(x, [], x) == x, x != P3(x, [[], 1], x), [x != [1]]])
 }
 pub fn case_402(vars: &Vars) -> InferredGoal<DU, DE, Goal<DU, DE>> {
-    let x = vars.v[0].clone();
-    proto_vulcan!([conda { [[["bc", x] | x] == x, [x == [x, 3], P3(x, [], x) == x, ([1], [2]) == [x, true, 2 | 2]]], [x == false, conde { [[[x, x, x]] != [1, 1, x | x], append(x, x, [])], [x == [], x != [[], x]], conda { x == [[], x, 2], x == P3([_], 1, [[]]), false } }] }, { let c__: InferredGoal<DU, DE, Goal<DU, DE>> = proto_vulcan_closure!([|yy| { conde { [x == [yy | _], yy == 1], [x == [_, yy | _], yy == 2] } }, true]); let g__: Goal<DU, DE> = ::proto_vulcan::GoalCast::cast_into(c__); let r__: InferredGoal<DU, DE, Goal<DU, DE>> = proto_vulcan!([g__.clone(), g__]); r__ }])
+    let q = vars.v[0].clone();
+    let x = vars.v[1].clone();
+    proto_vulcan!([[append(q, x, [3]), |z| {  }, conde { [q == P3([], [3], [[]]), |x| { (_, [x, x]) == x }] }]])
 }
 pub fn case_403(vars: &Vars) -> InferredGoal<DU, DE, Goal<DU, DE>> {
     let q = vars.v[0].clone();
     let x = vars.v[1].clone();
-    proto_vulcan!([x != 2, [[], q] == x, |tz| { [2, 1, 1, 1] != [2, 1 | tz], tz == [1, 1] }])
+    proto_vulcan!([[|t| { onceo { [] == [[1, _ | t], [2, x]] }, |y| { [[]] != q, y == [1, q] }, conde { [x == [x, 2, x], [2, 2 | x] == x], x != t, [q != q, ([t], 3) == x] } }, [q, 2, 2 | q] == x], append(x, q, [2, 2]), closure { [P3([x], [q], [_, _]) == 3, [[q, x] != [[q, [], x | x], [x, _ | q] | 2]]] }])
 }
 pub fn case_404(vars: &Vars) -> InferredGoal<DU, DE, Goal<DU, DE>> {
-    let x = vars.v[0].clone();
-    proto_vulcan!([member(x, [3, 1]), |tz| { [1, 2 | tz] != [1, 2, 3, 2], tz == [3, 2] }, onceo { conde { conde { [member(x, [3, 2, 1]), |tz| { tz == [1], [3, 1] != [3 | tz] }], [x == [2, x, x | x], P3([], [_, 3], 2) != x], append(x, x, [2, 3]) }, [] == x } }])
+    let q = vars.v[0].clone();
+    let x = vars.v[1].clone();
+    proto_vulcan!([conde { q == [[2 | 2], [_ | x]], [|h, t| { P3(x, h, _) != t, t == [q, 1, "a" | t] }, x == []] }, [2, q, "a" | x] == q, closure { [|x| { q == q, q == P3([x, x], [], _), x == [2, x | x] }, member(q, [1, 1, 1])] }])
 }
 pub fn case_405(vars: &Vars) -> InferredGoal<DU, DE, Goal<DU, DE>> {
     let q = vars.v[0].clone();
     let x = vars.v[1].clone();
-    proto_vulcan!([q == [1, [], 1], |z| { x == x, |t| { |y| { false }, 1 != x, |z| { |tz| { [3 | tz] != [3, 1, 1], tz == [1, 1] } } } }, [[_, q, 3], [3, []], q] == q])
+    proto_vulcan!([x == q, q == q])
 }
 pub fn case_406(vars: &Vars) -> InferredGoal<DU, DE, Goal<DU, DE>> {
-    let q = vars.v[0].clone();
-    let x = vars.v[1].clone();
-    proto_vulcan!([q == [x], |y, t| { |tz| { [3, 2] != [3 | tz], tz == [2] }, |y, z| { t != [1, x | x] } }, [q == q, append(x, q, [])], { let c__: InferredGoal<DU, DE, Goal<DU, DE>> = proto_vulcan_closure!([|yy| { conde { [x == [yy | _], yy == 1], [x == [_, yy | _], yy == 2] } }, [member(x, [3, 3])]]); let g__: Goal<DU, DE> = ::proto_vulcan::GoalCast::cast_into(c__); let r__: InferredGoal<DU, DE, Goal<DU, DE>> = proto_vulcan!([g__.clone(), g__]); r__ }])
+    let x = vars.v[0].clone();
+    proto_vulcan!([|z| { x == [x, z], P3(z, [], 2) == x }, append(x, x, [1, 3])])
 }
 pub fn case_407(vars: &Vars) -> InferredGoal<DU, DE, Goal<DU, DE>> {
     let q = vars.v[0].clone();
     let x = vars.v[1].clone();
-    proto_vulcan!([x == [3, q, 1], conde { |x, z| { z == [[], [] | q] }, condu { [P3([q], [], [q, q]) == x, conde { q != P3(_, 2, []), [] }], x == (x, x), [|x| { x == q, x == 2 }, q == [["a", x, true | q]]] }, [x != [3, 'b'], |y| { ([1, q], [x, 3]) == y, x == [q, 3, 1] }] }, |z| { 2 == q, |x, h| { [h, h, [] | z] == x, [true] == x } }])
+    proto_vulcan!([x == P3(q, q, x), 1 == x, { let c__: InferredGoal<DU, DE, Goal<DU, DE>> = proto_vulcan_closure!(|yy| { conde { [q == [yy | _], yy == 1], [q == [_, yy | _], yy == 2] } }); let g__: Goal<DU, DE> = ::proto_vulcan::GoalCast::cast_into(c__); let r__: InferredGoal<DU, DE, Goal<DU, DE>> = proto_vulcan!([g__.clone(), g__]); r__ }])
 }
 pub fn case_408(vars: &Vars) -> InferredGoal<DU, DE, Goal<DU, DE>> {
     let x = vars.v[0].clone();
-    proto_vulcan!([x == (1, x), P3(x, x, 1) == x, onceo { [x, x | x] == x }])
+    let y = vars.v[1].clone();
+    proto_vulcan!([[_ != y, y == [y, 3]], y == [_], { let c__: InferredGoal<DU, DE, Goal<DU, DE>> = proto_vulcan_closure!([|yy| { conde { [y == [yy | _], yy == 1], [y == [_, yy | _], yy == 2] } }, [[], x] != x]); let g__: Goal<DU, DE> = ::proto_vulcan::GoalCast::cast_into(c__); let r__: InferredGoal<DU, DE, Goal<DU, DE>> = proto_vulcan!([g__.clone(), g__]); r__ }])
 }
 pub fn case_409(vars: &Vars) -> InferredGoal<DU, DE, Goal<DU, DE>> {
     let x = vars.v[0].clone();
-    proto_vulcan!([|y| { conde { [[x != (x, 3), ["a" | x] == y, y != [2, y, _]]] }, ([], _) == P3([], x, [3]) }, [], 1 == x])
+    let y = vars.v[1].clone();
+    proto_vulcan!([append(y, x, [2]), P3(2, [x], x) != [y, 'a', _], y != P3(2, _, [[]])])
 }
 pub fn case_410(vars: &Vars) -> InferredGoal<DU, DE, Goal<DU, DE>> {
-    let q = vars.v[0].clone();
-    let x = vars.v[1].clone();
-    proto_vulcan!([false, { let c__: InferredGoal<DU, DE, Goal<DU, DE>> = proto_vulcan_closure!([|yy| { conde { [q == [yy | _], yy == 1], [q == [_, yy | _], yy == 2] } }, [member(q, [2, 1])]]); let g__: Goal<DU, DE> = ::proto_vulcan::GoalCast::cast_into(c__); let r__: InferredGoal<DU, DE, Goal<DU, DE>> = proto_vulcan!([g__.clone(), g__]); r__ }])
+    let x = vars.v[0].clone();
+    proto_vulcan!([onceo { member(x, [1]) }, { let c__: InferredGoal<DU, DE, Goal<DU, DE>> = proto_vulcan_closure!(|yy| { conde { [x == [yy | _], yy == 1], [x == [_, yy | _], yy == 2] } }); let g__: Goal<DU, DE> = ::proto_vulcan::GoalCast::cast_into(c__); let r__: InferredGoal<DU, DE, Goal<DU, DE>> = proto_vulcan!([g__.clone(), g__]); r__ }])
 }
 pub fn case_411(vars: &Vars) -> InferredGoal<DU, DE, Goal<DU, DE>> {
-    let q = vars.v[0].clone();
-    let x = vars.v[1].clone();
-    proto_vulcan!([append(x, x, [2]), { let c__: InferredGoal<DU, DE, Goal<DU, DE>> = proto_vulcan_closure!(|yy| { conde { [q == [yy | _], yy == 1], [q == [_, yy | _], yy == 2] } }); let g__: Goal<DU, DE> = ::proto_vulcan::GoalCast::cast_into(c__); let r__: InferredGoal<DU, DE, Goal<DU, DE>> = proto_vulcan!([g__.clone(), g__]); r__ }])
+    let x = vars.v[0].clone();
+    let y = vars.v[1].clone();
+    proto_vulcan!([member(y, [])])
 }
 pub fn case_412(vars: &Vars) -> InferredGoal<DU, DE, Goal<DU, DE>> {
     let x = vars.v[0].clone();
     let y = vars.v[1].clone();
-    proto_vulcan!([|tz| { [2, 2, 1] != [2, 2 | tz], tz == [1] }, closure { [x == [[2, 2, 2], [], [[], 1, x | y] | y], [[x]] != y] }])
+    proto_vulcan!([conde { [[true], [[]] == x], [x != y, [2, y, 3] == y] }, [x == P3(3, 3, 1)], x == [[]]])
 }
 pub fn case_413(vars: &Vars) -> InferredGoal<DU, DE, Goal<DU, DE>> {
-    let q = vars.v[0].clone();
-    let x = vars.v[1].clone();
-    proto_vulcan!([conde { |x, t| { |z, h| { [2, t, h] == t, z == [true | t], [x] == x }, false, [] != [1, [2, 'a', x], 1 | t] }, [|y| { |tz| { tz == [1, 3], [3, 1, 1, 3] != [3, 1 | tz] } }, false], P3([], 2, x) == x }, |y, z| { [[y, y], z | q] == (1, _), |h, x| { x == z, 3 == h }, true }, { let c__: InferredGoal<DU, DE, Goal<DU, DE>> = proto_vulcan_closure!(|yy| { conde { [x == [yy | _], yy == 1], [x == [_, yy | _], yy == 2] } }); let g__: Goal<DU, DE> = ::proto_vulcan::GoalCast::cast_into(c__); let r__: InferredGoal<DU, DE, Goal<DU, DE>> = proto_vulcan!([g__.clone(), g__]); r__ }])
+    let x = vars.v[0].clone();
+    proto_vulcan!([[onceo { conde { [[2] == x, x == [3]] } }]])
 }
 pub fn case_414(vars: &Vars) -> InferredGoal<DU, DE, Goal<DU, DE>> {
     let x = vars.v[0].clone();
-    proto_vulcan!([x != [1, x | x], true])
+    proto_vulcan!([x == (x, [x]), [x] == x, [x == ['a'], [2] == x, P3(3, [], _) == x]])
 }
 pub fn case_415(vars: &Vars) -> InferredGoal<DU, DE, Goal<DU, DE>> {
     let x = vars.v[0].clone();
-    let y = vars.v[1].clone();
-    proto_vulcan!([y != P3(_, 3, [3, 1]), onceo { ["a"] != x }, y == 2])
+    proto_vulcan!([false, |t, h| { conde { [onceo { [[], [], h] == x }, |tz| { [3, 2] != [3 | tz], tz == [2] }], x != false, [t == P3(t, [_, _], []), [true, [h, 1 | t] == P3(h, x, x), P3([], _, h) == x]] }, [[], h, 2] == x, |y| { (1, []) != 3, conde { |tz| { tz == [1, 1], [2, 2 | tz] != [2, 2, 1, 1] } }, (x, []) == x } }, [[]] != 2, { let c__: InferredGoal<DU, DE, Goal<DU, DE>> = proto_vulcan_closure!([|yy| { conde { [x == [yy | _], yy == 1], [x == [_, yy | _], yy == 2] } }, _ == x]); let g__: Goal<DU, DE> = ::proto_vulcan::GoalCast::cast_into(c__); let r__: InferredGoal<DU, DE, Goal<DU, DE>> = proto_vulcan!([g__.clone(), g__]); r__ }])
 }
 pub fn case_416(vars: &Vars) -> InferredGoal<DU, DE, Goal<DU, DE>> {
-    let q = vars.v[0].clone();
-    let x = vars.v[1].clone();
-    proto_vulcan!([q == [x, 2], x == [q, q, []], x != 3])
-}
-pub fn case_417(vars: &Vars) -> InferredGoal<DU, DE, Goal<DU, DE>> {
     let x = vars.v[0].clone();
     let y = vars.v[1].clone();
-    proto_vulcan!([x == [], |h, z| { h != [1, z, _] }, closure { (1, y) == [] }])
+    proto_vulcan!([(1, 2) != [3 | [x]]])
+}
+pub fn case_417(vars: &Vars) -> InferredGoal<DU, DE, Goal<DU, DE>> {
+    let q = vars.v[0].clone();
+    let x = vars.v[1].clone();
+    proto_vulcan!([[(1, x) != x, member(x, [3, 1]), conde { x == (_, [[]]), [|t| { q == q }, x == q] }]])
 }
 pub fn case_418(vars: &Vars) -> InferredGoal<DU, DE, Goal<DU, DE>> {
     let x = vars.v[0].clone();
-    proto_vulcan!([[[x, x]] == x])
+    let y = vars.v[1].clone();
+    proto_vulcan!([append(y, x, [3, 2])])
 }
 pub fn case_419(vars: &Vars) -> InferredGoal<DU, DE, Goal<DU, DE>> {
-    let q = vars.v[0].clone();
-    let x = vars.v[1].clone();
-    proto_vulcan!([[x, 3, 2 | x] != [[q, 2, 'b'], [_, 1, x | x] | [q]], P3(x, q, 1) == q, [[3, x], 1] == [2]])
+    let x = vars.v[0].clone();
+    proto_vulcan!([|y| { [] }, true, [_] == x])
 }
 pub fn case_420(vars: &Vars) -> InferredGoal<DU, DE, Goal<DU, DE>> {
-    let x = vars.v[0].clone();
-    proto_vulcan!([([], []) == x, condu { [[x | x], [3], 2] == x, [false, [], x] == x, [true, 2] == 1 }, |z| { [x != [x, x | z], [2, x] == x, 2 == x], [([x], x) != (x, z), conde { [member(x, [2, 1, 1]), x == true], [true, "a" == [[_], z]] }], onceo { |t| { ([[], 1], 1) == [[t]] } } }, { let c__: InferredGoal<DU, DE, Goal<DU, DE>> = proto_vulcan_closure!(|yy| { conde { [x == [yy | _], yy == 1], [x == [_, yy | _], yy == 2] } }); let g__: Goal<DU, DE> = ::proto_vulcan::GoalCast::cast_into(c__); let r__: InferredGoal<DU, DE, Goal<DU, DE>> = proto_vulcan!([g__.clone(), g__]); r__ }])
+    let q = vars.v[0].clone();
+    let x = vars.v[1].clone();
+    proto_vulcan!([[[[]], [[], x | x], true | [x, _]] == q])
 }
 pub fn case_421(vars: &Vars) -> InferredGoal<DU, DE, Goal<DU, DE>> {
     let x = vars.v[0].clone();
-    proto_vulcan!([[[x], [x, _, 2]] == x, [2, _, x] == 2, [["bc" | x], false | []] == [[x | [1, 3]] | x]])
+    let y = vars.v[1].clone();
+    proto_vulcan!([x == x, member(x, [2, 1, 2])])
 }
 pub fn case_422(vars: &Vars) -> InferredGoal<DU, DE, Goal<DU, DE>> {
     let x = vars.v[0].clone();
-    let y = vars.v[1].clone();
-    proto_vulcan!([x == (x, 2), x == false, { let c__: InferredGoal<DU, DE, Goal<DU, DE>> = proto_vulcan_closure!(|yy| { conde { [x == [yy | _], yy == 1], [x == [_, yy | _], yy == 2] } }); let g__: Goal<DU, DE> = ::proto_vulcan::GoalCast::cast_into(c__); let r__: InferredGoal<DU, DE, Goal<DU, DE>> = proto_vulcan!([g__.clone(), g__]); r__ }])
+    proto_vulcan!([[[]] == x, x == [[x], [[], x], []]])
 }
 pub fn case_423(vars: &Vars) -> InferredGoal<DU, DE, Goal<DU, DE>> {
     let x = vars.v[0].clone();
-    proto_vulcan!([conde { [[], append(x, x, [2])], [x == (2, 3), x != P3([[], 1], [x], _)], [|h| { h == h, [[_, h | h], 2] == x, h == [_] }, conde { [|x, h| { [[_], [[], x, _ | x] | x] == [[_, 'a'], [], [h, 2] | x] }, [x, [], _] == x], [[|tz| { [1 | tz] != [1, 2, 3], tz == [2, 3] }, [x] == [2, _ | x], P3(3, 1, x) == ([], [_])], P3([x], x, []) == x], x == "bc" }] }, false, false])
+    let y = vars.v[1].clone();
+    proto_vulcan!([x == ([1, _], [y, 1]), append(y, y, [3, 1]), closure { [|z, y| { [[1], _] == [], [[] == y] }, y == y] }])
 }
 pub fn case_424(vars: &Vars) -> InferredGoal<DU, DE, Goal<DU, DE>> {
     let q = vars.v[0].clone();
     let x = vars.v[1].clone();
-    proto_vulcan!([conde { [P3(_, _, q) == q, [1 == [[x, 3 | "bc"]]]], [x == P3(x, 2, []), P3([q, 3], 2, x) == 2] }, onceo { |t| { _ == q } }, x == [2, false]])
+    proto_vulcan!([|tz| { [1, 3, 3] != [1, 3 | tz], tz == [3] }])
 }
 pub fn case_425(vars: &Vars) -> InferredGoal<DU, DE, Goal<DU, DE>> {
     let x = vars.v[0].clone();
-    let y = vars.v[1].clone();
-    proto_vulcan!([[false, 1 | y] != y])
+    proto_vulcan!([[x, x, 3] == P3([2, 1], x, 1), x != [x, 3, x], closure { onceo { condu { [member(x, [3, 1]), x == (_, [2])], x == [2], [x == [[false, x, "bc" | x], [false, 1], ['b', _ | x] | x], x == x] } } }])
 }
 pub fn case_426(vars: &Vars) -> InferredGoal<DU, DE, Goal<DU, DE>> {
     let x = vars.v[0].clone();
-    proto_vulcan!([x != [[x], [x, _ | x], x | x], x == [["a", 'a', []], [x, x, x], [[]]], [x != x], { let c__: InferredGoal<DU, DE, Goal<DU, DE>> = proto_vulcan_closure!(|yy| { conde { [x == [yy | _], yy == 1], [x == [_, yy | _], yy == 2] } }); let g__: Goal<DU, DE> = ::proto_vulcan::GoalCast::cast_into(c__); let r__: InferredGoal<DU, DE, Goal<DU, DE>> = proto_vulcan!([g__.clone(), g__]); r__ }])
+    proto_vulcan!([[condu { onceo { member(x, [3]) }, x == [x, 'a', 2 | 2], [|x| { x != 1 }, P3(x, [1], [[], x]) == x] }, member(x, [2, 1, 2]), |tz| { tz == [2], [3 | tz] != [3, 2] }], x == [3, [x, x, 'b'] | 2], { let c__: InferredGoal<DU, DE, Goal<DU, DE>> = proto_vulcan_closure!([|yy| { conde { [x == [yy | _], yy == 1], [x == [_, yy | _], yy == 2] } }, false]); let g__: Goal<DU, DE> = ::proto_vulcan::GoalCast::cast_into(c__); let r__: InferredGoal<DU, DE, Goal<DU, DE>> = proto_vulcan!([g__.clone(), g__]); r__ }])
 }
 pub fn case_427(vars: &Vars) -> InferredGoal<DU, DE, Goal<DU, DE>> {
-    let q = vars.v[0].clone();
-    let x = vars.v[1].clone();
-    proto_vulcan!([[[q, _] == x, |tz| { tz == [3], [3, 3] != [3 | tz] }], P3(3, _, 2) != q, { let c__: InferredGoal<DU, DE, Goal<DU, DE>> = proto_vulcan_closure!(|yy| { conde { [q == [yy | _], yy == 1], [q == [_, yy | _], yy == 2] } }); let g__: Goal<DU, DE> = ::proto_vulcan::GoalCast::cast_into(c__); let r__: InferredGoal<DU, DE, Goal<DU, DE>> = proto_vulcan!([g__.clone(), g__]); r__ }])
+    let x = vars.v[0].clone();
+    proto_vulcan!([|y| { ['a'] == y, onceo { y == (x, []) }, conde { [y != [1 | y], y == [y, 2 | y]], |h, y| { [_ | h] == x, [[1, 2], [h | [1, []]]] == P3([], _, _), y == [_, 3, 2 | [x, y]] } } }, |t| { 1 == [2, [t, t | []], [t]], append(t, t, []) }, closure { false }])
 }
 pub fn case_428(vars: &Vars) -> InferredGoal<DU, DE, Goal<DU, DE>> {
     let q = vars.v[0].clone();
     let x = vars.v[1].clone();
-    proto_vulcan!([member(q, [])])
+    proto_vulcan!([[1] != [x, 2], closure { q == x }])
 }
 pub fn case_429(vars: &Vars) -> InferredGoal<DU, DE, Goal<DU, DE>> {
     let x = vars.v[0].clone();
-    proto_vulcan!([x == (_, [_]), [[]] != x, x == [2 | x]])
+    let y = vars.v[1].clone();
+    proto_vulcan!([[[1, y], [x, 2 | [x]], ['b'] | y] == [[y]], closure { [|h| { |h, x| { false, append(h, h, []), 1 == y } }, |t, h| { t == [[] | x] }] }])
 }
 pub fn case_430(vars: &Vars) -> InferredGoal<DU, DE, Goal<DU, DE>> {
     let x = vars.v[0].clone();
     let y = vars.v[1].clone();
-    proto_vulcan!([conde { conde { [], [1] == x, [] }, [member(x, [2, 1]), conda { [[]], [condu { false }, [_, 3] != y], [y == [y], |h| { y == h, [3] != [[1, h, 2], 1 | h] }] }] }, |z| { (3, y) == P3(x, 1, [z, y]) }])
+    proto_vulcan!([x == ([2, 2], x)])
 }
 pub fn case_431(vars: &Vars) -> InferredGoal<DU, DE, Goal<DU, DE>> {
-    let x = vars.v[0].clone();
-    proto_vulcan!([conde { [[x, true]] != [[], 'b' | x] }])
+    let q = vars.v[0].clone();
+    let x = vars.v[1].clone();
+    proto_vulcan!([conde { q == [[_ | q]], conda { q != [1] }, [x, 1, 1] != x }, x != [1, [3, [], "bc"]], q == [_, 2]])
 }
 pub fn case_432(vars: &Vars) -> InferredGoal<DU, DE, Goal<DU, DE>> {
-    let x = vars.v[0].clone();
-    let y = vars.v[1].clone();
-    proto_vulcan!([false, ([], y) == x])
+    let q = vars.v[0].clone();
+    let x = vars.v[1].clone();
+    proto_vulcan!([[[x, false, x | x] | q] == ['a']])
 }
 pub fn case_433(vars: &Vars) -> InferredGoal<DU, DE, Goal<DU, DE>> {
     let x = vars.v[0].clone();
-    proto_vulcan!([[[_, [], true | x], [x, []], _] != x, |tz| { [1 | tz] != [1, 3, 2], tz == [3, 2] }])
+    let y = vars.v[1].clone();
+    proto_vulcan!([onceo { onceo { x == (1, x) } }, |x, t| { |z| { 2 == t } }, [conde { |z| { x == ["bc" | y] }, [2 != x, [[2, [], 3 | x], x | [y, []]] != P3(1, 3, x)] }, onceo { conde { [[_] == y, |tz| { tz == [3, 1], [2, 2 | tz] != [2, 2, 3, 1] }], [[2]] == [_, [x, y | y], 'b'], [] } }, |tz| { tz == [2], [3, 2 | tz] != [3, 2, 2] }]])
 }
 pub fn case_434(vars: &Vars) -> InferredGoal<DU, DE, Goal<DU, DE>> {
-    let q = vars.v[0].clone();
-    let x = vars.v[1].clone();
-    proto_vulcan!([|tz| { [1, 3 | tz] != [1, 3, 1], tz == [1] }, onceo { true }, conda { [|h, t| {  }, [q, 1 | x] == x], q == _, [true, conde { conde { q != q, (_, []) == 3 } }] }])
+    let x = vars.v[0].clone();
+    let y = vars.v[1].clone();
+    proto_vulcan!([[x == _]])
 }
 pub fn case_435(vars: &Vars) -> InferredGoal<DU, DE, Goal<DU, DE>> {
     let x = vars.v[0].clone();
-    let y = vars.v[1].clone();
-    proto_vulcan!([|h, x| {  }])
+    proto_vulcan!([false, conda { [3] == x, 2 == x }, [condu { [[x] == x, |tz| { [1 | tz] != [1, 2], tz == [2] }] }, |y| { conde { true, (y, 1) == x } }], closure { x == [x, 1 | x] }])
 }
 pub fn case_436(vars: &Vars) -> InferredGoal<DU, DE, Goal<DU, DE>> {
     let x = vars.v[0].clone();
-    proto_vulcan!([|tz| { tz == [1], [2, 3, 1] != [2, 3 | tz] }, [|t| { |y| { [t, t, 2] == t }, |t| { P3(2, [], 2) == x, ["a", x] != x, member(t, []) } }, |y| {  }]])
+    let y = vars.v[1].clone();
+    proto_vulcan!([[x] != x])
 }
 pub fn case_437(vars: &Vars) -> InferredGoal<DU, DE, Goal<DU, DE>> {
     let x = vars.v[0].clone();
-    let y = vars.v[1].clone();
-    proto_vulcan!([[[x, [] | 1]] != [true, 2, x], [[]], [] == [_, [1, y, y | x]], closure { [[[], 1, y] == x, []] }])
+    proto_vulcan!([[[], conda { [x == [1, 2], |x| { [x] != x, false, P3(1, x, x) == x }], [conde { [x == [false], x == [_, x, x | x]], [3, []] == x, [([], [2]) == x, x != (x, [[]])] }, [x | x] == x] }], |y, z| { [[2, y]] == x, onceo { |x, z| { [[y | z], [2, z], [3] | x] == [z, [x, 1, z] | y], [] == y } }, [] == x }, closure { |h| { |z, x| { true }, [h == [], P3(1, h, [1]) != x] } }])
 }
 pub fn case_438(vars: &Vars) -> InferredGoal<DU, DE, Goal<DU, DE>> {
-    let x = vars.v[0].clone();
-    let y = vars.v[1].clone();
-    proto_vulcan!([conde { [[1, 2 | x] == x, member(y, [2])], [2 == [[2, 1, [] | y]], y != [x, 1]] }, { let c__: InferredGoal<DU, DE, Goal<DU, DE>> = proto_vulcan_closure!([|yy| { conde { [y == [yy | _], yy == 1], [y == [_, yy | _], yy == 2] } }, y != x]); let g__: Goal<DU, DE> = ::proto_vulcan::GoalCast::cast_into(c__); let r__: InferredGoal<DU, DE, Goal<DU, DE>> = proto_vulcan!([g__.clone(), g__]); r__ }])
+    let q = vars.v[0].clone();
+    let x = vars.v[1].clone();
+    proto_vulcan!([3 == x])
 }
 pub fn case_439(vars: &Vars) -> InferredGoal<DU, DE, Goal<DU, DE>> {
     let x = vars.v[0].clone();
-    proto_vulcan!([|y| { true }, 1 != [x, 2], closure { |tz| { [2, 3, 1] != [2 | tz], tz == [3, 1] } }])
+    let y = vars.v[1].clone();
+    proto_vulcan!([(3, 1) == 1, P3([3], [y], y) == x, false])
 }
 pub fn case_440(vars: &Vars) -> InferredGoal<DU, DE, Goal<DU, DE>> {
-    let x = vars.v[0].clone();
-    proto_vulcan!([[x == x]])
-}
-pub fn case_441(vars: &Vars) -> InferredGoal<DU, DE, Goal<DU, DE>> {
-    let x = vars.v[0].clone();
-    let y = vars.v[1].clone();
-    proto_vulcan!([true, [y, [x, false, "a"], [2, y | 1]] != x, conde { [condu { onceo { y == x }, conde { x == [[], [], x | x] } }, append(x, x, [2])], [[|y, t| {  }]], [P3([], y, 1) != x, [|tz| { [2, 3 | tz] != [2, 3, 2], tz == [2] }, |t| { P3(x, [], x) == x }, x == [2, x]]] }])
-}
-pub fn case_442(vars: &Vars) -> InferredGoal<DU, DE, Goal<DU, DE>> {
     let q = vars.v[0].clone();
     let x = vars.v[1].clone();
-    proto_vulcan!([conde { [|tz| { tz == [1], [2, 1, 1] != [2, 1 | tz] }, |tz| { tz == [2], [2, 2 | tz] != [2, 2, 2] }] }, |x, t| { onceo { |x, h| { true, false } }, P3([2], _, _) == 2, |z| { |z, t| { x == t, append(x, t, [3]), |tz| { tz == [1, 2], [2, 3, 1, 2] != [2, 3 | tz] } } } }, q != [[2, q, x]]])
+    proto_vulcan!([|t, z| { 'a' != t }, x == q, closure { q == q }])
+}
+pub fn case_441(vars: &Vars) -> InferredGoal<DU, DE, Goal<DU, DE>> {
+    let q = vars.v[0].clone();
+    let x = vars.v[1].clone();
+    proto_vulcan!([conde { [q != P3([], [2, []], _), q == [3, []]], |y, t| { conda { [false, t == y], [[2] != 3, [_, 1 | t] != [[_], 2]] }, y == [[x, x | t], ["a"]], _ != [2, [q, true, [] | q]] } }, { let c__: InferredGoal<DU, DE, Goal<DU, DE>> = proto_vulcan_closure!([|yy| { conde { [q == [yy | _], yy == 1], [q == [_, yy | _], yy == 2] } }, false]); let g__: Goal<DU, DE> = ::proto_vulcan::GoalCast::cast_into(c__); let r__: InferredGoal<DU, DE, Goal<DU, DE>> = proto_vulcan!([g__.clone(), g__]); r__ }])
+}
+pub fn case_442(vars: &Vars) -> InferredGoal<DU, DE, Goal<DU, DE>> {
+    let x = vars.v[0].clone();
+    proto_vulcan!([conde { [conde { [true, [x == [[1, 2, x | x], [x, _ | x], [x]], x != [[], 1 | x]]], [|h| { x == h }, |t, h| { h == 2, member(h, [1, 2, 1]), t == [[2, x, _]] }] }, [[[[3, 1], [3, 1, true]] == x, P3([2, x], [2], x) != x, x == []], |tz| { tz == [3, 1], [3, 3, 3, 1] != [3, 3 | tz] }, |t| { x == 'b', append(t, t, []) }]] }, [P3([x], x, [_, _]) == x, x == [x, x, x]], closure { true }])
 }
 pub fn case_443(vars: &Vars) -> InferredGoal<DU, DE, Goal<DU, DE>> {
     let q = vars.v[0].clone();
     let x = vars.v[1].clone();
-    proto_vulcan!([conde { [q == [[_, x] | [q, 3]], conde { [q == [x, [q, x, 'b'], q], P3(_, 1, _) == x], [condu { [x == ([[], _], 3), [[_, q], x, [_, x, 1 | q]] == x], x == P3([_], 3, q) }, [x, 3 | x] == q], P3(x, [2], 3) == x }], [conde { conde { [true, q != 3], append(x, x, [3, 3]) }, false }, [1] != q] }, x == q])
+    proto_vulcan!([[[[], 1 | q], [q, x] | x] != (1, []), { let c__: InferredGoal<DU, DE, Goal<DU, DE>> = proto_vulcan_closure!([|yy| { conde { [x == [yy | _], yy == 1], [x == [_, yy | _], yy == 2] } }, |tz| { tz == [1], [2, 3 | tz] != [2, 3, 1] }]); let g__: Goal<DU, DE> = ::proto_vulcan::GoalCast::cast_into(c__); let r__: InferredGoal<DU, DE, Goal<DU, DE>> = proto_vulcan!([g__.clone(), g__]); r__ }])
 }
 pub fn case_444(vars: &Vars) -> InferredGoal<DU, DE, Goal<DU, DE>> {
     let x = vars.v[0].clone();
     let y = vars.v[1].clone();
-    proto_vulcan!([|z| { x == [1, z | 2] }, y == y, [y != [[_]], [], y == [x]], { let c__: InferredGoal<DU, DE, Goal<DU, DE>> = proto_vulcan_closure!([|yy| { conde { [y == [yy | _], yy == 1], [y == [_, yy | _], yy == 2] } }, conde { P3(_, y, [_, []]) == y, [[[[]], [2 | x], x] == x, x == [3, y]], [y == 1, false] }]); let g__: Goal<DU, DE> = ::proto_vulcan::GoalCast::cast_into(c__); let r__: InferredGoal<DU, DE, Goal<DU, DE>> = proto_vulcan!([g__.clone(), g__]); r__ }])
+    proto_vulcan!([|tz| { [3, 1 | tz] != [3, 1, 2, 2], tz == [2, 2] }, closure { [onceo { append(x, x, [3]) }, y != [y, [], 1]] }])
 }
 pub fn case_445(vars: &Vars) -> InferredGoal<DU, DE, Goal<DU, DE>> {
     let q = vars.v[0].clone();
     let x = vars.v[1].clone();
-    proto_vulcan!([|x| { |tz| { tz == [1, 2], [1, 1, 2] != [1 | tz] }, x == x, q == (3, x) }, conde { [P3([3], 3, [[]]) != q, x == 3] }, onceo { x == [3, q] }])
+    proto_vulcan!([|tz| { [3, 2 | tz] != [3, 2, 2, 1], tz == [2, 1] }, { let c__: InferredGoal<DU, DE, Goal<DU, DE>> = proto_vulcan_closure!(|yy| { conde { [x == [yy | _], yy == 1], [x == [_, yy | _], yy == 2] } }); let g__: Goal<DU, DE> = ::proto_vulcan::GoalCast::cast_into(c__); let r__: InferredGoal<DU, DE, Goal<DU, DE>> = proto_vulcan!([g__.clone(), g__]); r__ }])
 }
 pub fn case_446(vars: &Vars) -> InferredGoal<DU, DE, Goal<DU, DE>> {
     let x = vars.v[0].clone();
     let y = vars.v[1].clone();
-    proto_vulcan!([conda { [[] != P3(x, [2], _), x == []], [[]] }, conda { [|z, t| { [1, y, t] == z, [member(x, [1, 3]), t == ["a", []]] }, 1 == x] }])
+    proto_vulcan!([([x, []], y) == y])
 }
 pub fn case_447(vars: &Vars) -> InferredGoal<DU, DE, Goal<DU, DE>> {
     let x = vars.v[0].clone();
@@ -2317,1007 +2325,867 @@ pub fn case_454(vars: &Vars) -> InferredGoal<DU, DE, Goal<DU, DE>> {
 }
 pub fn case_455(vars: &Vars) -> InferredGoal<DU, DE, Goal<DU, DE>> {
     let x = vars.v[0].clone();
-    let y = vars.v[1].clone();
-    proto_vulcan!([true, 2 != ['a', [y, x]], conde { [false == [2], |tz| { [1 | tz] != [1, 1], tz == [1] }], [[y != 1, |y, t| {  }, ([[]], x) == [[], 1, []]]], conde { [x != (x, []), |t| { [x | t] == x, append(x, y, []) }], [[true, true, y != y]] } }])
+    proto_vulcan!([1 == x, append(x, x, []), ['a', 3, 1] != x, closure { [match [1, x, x] { z | 2 => { |h, y| { append(h, h, []), true } }, 1 => [match x { _ => member(x, [1, 2, 3]), }, x == ["bc" | x]], Named { a: 1, b: [t, h] } => { |y, t| { [[h, t, _ | x], 1, [[], _, 2 | t]] == P3(t, x, t) }, matche t { [[z, 2], [2, true], [h, "a"]] => { x == ["a" | h] }, h => , _ | _ => member(h, [1, 2, 3]), } }, }, match [_, x, x | x] { y => P3([x, x], [], 2) == x, _ => { member(x, [2, 1, 2]), x == x }, }] }])
 }
 pub fn case_456(vars: &Vars) -> InferredGoal<DU, DE, Goal<DU, DE>> {
     let x = vars.v[0].clone();
-    let y = vars.v[1].clone();
-    proto_vulcan!([true, 2 != ['a', [y, x]], conde { [false == [2], |tz| { [1 | tz] != [1, 1], tz == [1] }], [[y != 1, |y, t| {  }, ([[]], x) == [[], 1, []]]], conde { [x != (x, []), |fresh_name_9| { [x | fresh_name_9] == x, append(x, y, []) }], [[true, true, y != y]] } }])
+    proto_vulcan!([1 == x, append(x, x, []), ['a', 3, 1] != x, closure { [match [1, x, x] { z | 2 => { |fresh_name_9, y| { append(fresh_name_9, fresh_name_9, []), true } }, 1 => [match x { _ => member(x, [1, 2, 3]), }, x == ["bc" | x]], Named { a: 1, b: [t, h] } => { |y, t| { [[h, t, _ | x], 1, [[], _, 2 | t]] == P3(t, x, t) }, matche t { [[z, 2], [2, true], [h, "a"]] => { x == ["a" | h] }, h => , _ | _ => member(h, [1, 2, 3]), } }, }, match [_, x, x | x] { y => P3([x, x], [], 2) == x, _ => { member(x, [2, 1, 2]), x == x }, }] }])
 }
 pub fn case_457(vars: &Vars) -> InferredGoal<DU, DE, Goal<DU, DE>> {
     let x = vars.v[0].clone();
-    let y = vars.v[1].clone();
-    proto_vulcan!([matche [3, "a" | y] { [y] | [[x, _, 1]] => , [3, [3, y, h | y]] => [[[y, h, h], [x | y] | y] == 'b', P3([2, h], y, [_, x]) != y], P3([], z, 3) => , }, |h, x| { ["bc", "a", []] != y, [member(y, []), match [3, _] { [3, 2] | _ => , z | [[2, t, 1], [2, "bc" | _]] => , _ => { h != h, P3(2, 3, 2) == (y, [y]) }, }] }, match y { _ => { x == 1 }, _ | [["a", _, 1 | y]] => , [z, [z, h, "bc"] | t] | [] => { 2 != y }, }])
+    proto_vulcan!([matche [false, x, 2] { [[y, 2 | z], h] => , P3(x, [[]], [1, _]) => , h => { [x == x, conde { x == P3([[], h], h, x) }, ([], [x, 1]) != h] }, }, |t| { [x == [[2, _ | t], 'a', x]], true, match [t | t] { _ | 3 => , } }, [[] | [false, x]] == x, { let c__: InferredGoal<DU, DE, Goal<DU, DE>> = proto_vulcan_closure!(|yy| { conde { [x == [yy | _], yy == 1], [x == [_, yy | _], yy == 2] } }); let g__: Goal<DU, DE> = ::proto_vulcan::GoalCast::cast_into(c__); let r__: InferredGoal<DU, DE, Goal<DU, DE>> = proto_vulcan!([g__.clone(), g__]); r__ }])
 }
 pub fn case_458(vars: &Vars) -> InferredGoal<DU, DE, Goal<DU, DE>> {
     let x = vars.v[0].clone();
-    let y = vars.v[1].clone();
-    proto_vulcan!([matche [3, "a" | y] { [y] | [[x, _, 1]] => , [3, [3, fresh_name_9, h | fresh_name_9]] => [[[fresh_name_9, h, h], [x | fresh_name_9] | fresh_name_9] == 'b', P3([2, h], fresh_name_9, [_, x]) != fresh_name_9], P3([], z, 3) => , }, |h, x| { ["bc", "a", []] != y, [member(y, []), match [3, _] { [3, 2] | _ => , z | [[2, t, 1], [2, "bc" | _]] => , _ => { h != h, P3(2, 3, 2) == (y, [y]) }, }] }, match y { _ => { x == 1 }, _ | [["a", _, 1 | y]] => , [z, [z, h, "bc"] | t] | [] => { 2 != y }, }])
+    proto_vulcan!([matche [false, x, 2] { [[y, 2 | z], h] => , P3(x, [[]], [1, _]) => , h => { [x == x, conde { x == P3([[], h], h, x) }, ([], [x, 1]) != h] }, }, |fresh_name_9| { [x == [[2, _ | fresh_name_9], 'a', x]], true, match [fresh_name_9 | fresh_name_9] { _ | 3 => , } }, [[] | [false, x]] == x, { let c__: InferredGoal<DU, DE, Goal<DU, DE>> = proto_vulcan_closure!(|yy| { conde { [x == [yy | _], yy == 1], [x == [_, yy | _], yy == 2] } }); let g__: Goal<DU, DE> = ::proto_vulcan::GoalCast::cast_into(c__); let r__: InferredGoal<DU, DE, Goal<DU, DE>> = proto_vulcan!([g__.clone(), g__]); r__ }])
 }
 pub fn case_459(vars: &Vars) -> InferredGoal<DU, DE, Goal<DU, DE>> {
     let x = vars.v[0].clone();
-    proto_vulcan!([match x { [[true], [t], z] => { conde { [], [[[2, 1, 3] == x], match [2, 1 | 'b'] { [3, ["a", 3, x], [[], 'b'] | _] => , y => { false }, }], [conde { [false, x == ['a', 2]], t == x }, [z | z] == t] }, [conde { [[1, 3, x] == x, [['b'], [3] | t] == (x, 3)] }] }, _ => , }, [match x { Named { a: [], b: _ } => { x == [x | x], [1 | x] == x }, P3(t, [x, []], []) => [matche x { ["bc", [z | [z]], [[], h, []] | x] => , _ | P3([_], _, 3) => member(t, []), }, x != true], y => , }]])
+    let y = vars.v[1].clone();
+    proto_vulcan!([conde { [[match x { [[y]] | [["bc", _ | h], 2, [t, [], z]] => [member(x, [1, 3, 2]), P3([[]], [[], []], 2) == x], }, [] == 2, member(y, [])], matche [1, []] { Named { a: 1, b: 2 } => , }], P3(x, 2, _) == y, x == ['b'] }, |t| { [matche t { _ => { t == 7, t == 8 }, _ => { t == 7, t == 8 }, _ => { member(y, [1, 2, 3]) }, }, |h, t| { h != [true, y, 3] }, y == P3([], t, 3)], |h, y| {  } }])
 }
 pub fn case_460(vars: &Vars) -> InferredGoal<DU, DE, Goal<DU, DE>> {
     let x = vars.v[0].clone();
-    proto_vulcan!([match x { [[true], [t], z] => { conde { [], [[[2, 1, 3] == x], match [2, 1 | 'b'] { [3, ["a", 3, fresh_name_9], [[], 'b'] | _] => , y => { false }, }], [conde { [false, x == ['a', 2]], t == x }, [z | z] == t] }, [conde { [[1, 3, x] == x, [['b'], [3] | t] == (x, 3)] }] }, _ => , }, [match x { Named { a: [], b: _ } => { x == [x | x], [1 | x] == x }, P3(t, [x, []], []) => [matche x { ["bc", [z | [z]], [[], h, []] | x] => , _ | P3([_], _, 3) => member(t, []), }, x != true], y => , }]])
+    let y = vars.v[1].clone();
+    proto_vulcan!([conde { [[match x { [[y]] | [["bc", _ | h], 2, [t, [], z]] => [member(x, [1, 3, 2]), P3([[]], [[], []], 2) == x], }, [] == 2, member(y, [])], matche [1, []] { Named { a: 1, b: 2 } => , }], P3(x, 2, _) == y, x == ['b'] }, |t| { [matche t { _ => { t == 7, t == 8 }, _ => { t == 7, t == 8 }, _ => { member(y, [1, 2, 3]) }, }, |h, fresh_name_9| { h != [true, y, 3] }, y == P3([], t, 3)], |h, y| {  } }])
 }
 pub fn case_461(vars: &Vars) -> InferredGoal<DU, DE, Goal<DU, DE>> {
-    let q = vars.v[0].clone();
-    let x = vars.v[1].clone();
-    proto_vulcan!([q != P3([3, x], 3, [1, 2]), [_, 2, 1] == q, |h| { |h, z| { h == [h, 1, 3 | 1], |tz| { [1 | tz] != [1, 1], tz == [1] } } }])
+    let x = vars.v[0].clone();
+    let y = vars.v[1].clone();
+    proto_vulcan!([match x { [[x, 2], y, [3] | h] => { (y, _) != y }, [_, x] => [x | 3] != y, t => { matche t { P3([1], 2, [_, 3]) => , } }, }, |y, z| { match [z, _, y] { [[2] | _] | t => { [_, z | x] != 2 }, P3(2, _, 1) => [P3(1, [2, 3], 3) == x, y == [z, "a", _]], } }, 3 == y])
 }
 pub fn case_462(vars: &Vars) -> InferredGoal<DU, DE, Goal<DU, DE>> {
-    let q = vars.v[0].clone();
-    let x = vars.v[1].clone();
-    proto_vulcan!([q != P3([3, x], 3, [1, 2]), [_, 2, 1] == q, |fresh_name_9| { |h, z| { h == [h, 1, 3 | 1], |tz| { [1 | tz] != [1, 1], tz == [1] } } }])
+    let x = vars.v[0].clone();
+    let y = vars.v[1].clone();
+    proto_vulcan!([match x { [[x, 2], y, [3] | h] => { (y, _) != y }, [_, fresh_name_9] => [fresh_name_9 | 3] != y, t => { matche t { P3([1], 2, [_, 3]) => , } }, }, |y, z| { match [z, _, y] { [[2] | _] | t => { [_, z | x] != 2 }, P3(2, _, 1) => [P3(1, [2, 3], 3) == x, y == [z, "a", _]], } }, 3 == y])
 }
 pub fn case_463(vars: &Vars) -> InferredGoal<DU, DE, Goal<DU, DE>> {
     let x = vars.v[0].clone();
-    proto_vulcan!([|h| { |t| { ([1], [x, 3]) == t, |tz| { [1, 1] != [1 | tz], tz == [1] } }, [|t| { h == P3([1], 2, 2) }, matche x { [[2, 2, 1 | 3], [x, true, "bc"]] => [x == x, true], }, [[h, _, x]] == [['b', 1, 3], 2, ['b', _, 2] | x]], [_, h] == [2] }, 3 == [1, x | x]])
+    proto_vulcan!([(_, x) == _, x != 2, |tz| { [3 | tz] != [3, 1], tz == [1] }])
 }
 pub fn case_464(vars: &Vars) -> InferredGoal<DU, DE, Goal<DU, DE>> {
     let x = vars.v[0].clone();
-    proto_vulcan!([|h| { |t| { ([1], [x, 3]) == t, |fresh_name_9| { [1, 1] != [1 | fresh_name_9], fresh_name_9 == [1] } }, [|t| { h == P3([1], 2, 2) }, matche x { [[2, 2, 1 | 3], [x, true, "bc"]] => [x == x, true], }, [[h, _, x]] == [['b', 1, 3], 2, ['b', _, 2] | x]], [_, h] == [2] }, 3 == [1, x | x]])
+    proto_vulcan!([(_, x) == _, x != 2, |fresh_name_9| { [3 | fresh_name_9] != [3, 1], fresh_name_9 == [1] }])
 }
 pub fn case_465(vars: &Vars) -> InferredGoal<DU, DE, Goal<DU, DE>> {
-    let x = vars.v[0].clone();
-    let y = vars.v[1].clone();
-    proto_vulcan!([match x { Named { a: [_, z], b: y } => P3([], x, 1) == y, }, [[]] == y])
+    let q = vars.v[0].clone();
+    let x = vars.v[1].clone();
+    proto_vulcan!([[q != [1, 'a'], [conde { [], x == [1], [[[] | [[], q]] == ['a' | q], true] }], [matche "bc" { "bc" | t => x == [2, []], }, [[1, []] == q], [x != [2, [x, x], ["a", _, [] | 2]]]]], false, { let c__: InferredGoal<DU, DE, Goal<DU, DE>> = proto_vulcan_closure!(|yy| { conde { [x == [yy | _], yy == 1], [x == [_, yy | _], yy == 2] } }); let g__: Goal<DU, DE> = ::proto_vulcan::GoalCast::cast_into(c__); let r__: InferredGoal<DU, DE, Goal<DU, DE>> = proto_vulcan!([g__.clone(), g__]); r__ }])
 }
 pub fn case_466(vars: &Vars) -> InferredGoal<DU, DE, Goal<DU, DE>> {
-    let x = vars.v[0].clone();
-    let y = vars.v[1].clone();
-    proto_vulcan!([match x { Named { a: [_, fresh_name_9], b: y } => P3([], x, 1) == y, }, [[]] == y])
+    let q = vars.v[0].clone();
+    let x = vars.v[1].clone();
+    proto_vulcan!([[q != [1, 'a'], [conde { [], x == [1], [[[] | [[], q]] == ['a' | q], true] }], [matche "bc" { "bc" | t => x == [2, []], }, [[1, []] == q], [x != [2, [x, x], ["a", _, [] | 2]]]]], false, { let c__: InferredGoal<DU, DE, Goal<DU, DE>> = proto_vulcan_closure!(|fresh_name_9| { conde { [x == [fresh_name_9 | _], fresh_name_9 == 1], [x == [_, fresh_name_9 | _], fresh_name_9 == 2] } }); let g__: Goal<DU, DE> = ::proto_vulcan::GoalCast::cast_into(c__); let r__: InferredGoal<DU, DE, Goal<DU, DE>> = proto_vulcan!([g__.clone(), g__]); r__ }])
 }
 pub fn case_467(vars: &Vars) -> InferredGoal<DU, DE, Goal<DU, DE>> {
-    let q = vars.v[0].clone();
-    let x = vars.v[1].clone();
-    proto_vulcan!([conde { [|y| { 3 == P3([], _, _) }, match x { [[_, h, h], 3, [h, y | []]] | [[[] | _], [x | x], "bc" | z] => , }], [|tz| { [3 | tz] != [3, 2], tz == [2] }, append(x, x, [2])] }, [x, q, q | x] != x, closure { conde { |h| { member(h, []), x == h }, [[P3(3, 3, [2, 1]) != [true, x, _ | x]]] } }])
+    let x = vars.v[0].clone();
+    let y = vars.v[1].clone();
+    proto_vulcan!([matche y { _ => [y == 7, y == 8], _ => [x == 7, x == 8], Named { a: _, b: [] } => [P3(1, [], 1) == y, |tz| { tz == [1], [2, 1] != [2 | tz] }], }, { let c__: InferredGoal<DU, DE, Goal<DU, DE>> = proto_vulcan_closure!(|yy| { conde { [y == [yy | _], yy == 1], [y == [_, yy | _], yy == 2] } }); let g__: Goal<DU, DE> = ::proto_vulcan::GoalCast::cast_into(c__); let r__: InferredGoal<DU, DE, Goal<DU, DE>> = proto_vulcan!([g__.clone(), g__]); r__ }])
 }
 pub fn case_468(vars: &Vars) -> InferredGoal<DU, DE, Goal<DU, DE>> {
-    let q = vars.v[0].clone();
-    let x = vars.v[1].clone();
-    proto_vulcan!([conde { [|y| { 3 == P3([], _, _) }, match x { [[_, h, h], 3, [h, y | []]] | [[[] | _], [x | x], "bc" | z] => , }], [|fresh_name_9| { [3 | fresh_name_9] != [3, 2], fresh_name_9 == [2] }, append(x, x, [2])] }, [x, q, q | x] != x, closure { conde { |h| { member(h, []), x == h }, [[P3(3, 3, [2, 1]) != [true, x, _ | x]]] } }])
+    let x = vars.v[0].clone();
+    let y = vars.v[1].clone();
+    proto_vulcan!([matche y { _ => [y == 7, y == 8], _ => [x == 7, x == 8], Named { a: _, b: [] } => [P3(1, [], 1) == y, |fresh_name_9| { fresh_name_9 == [1], [2, 1] != [2 | fresh_name_9] }], }, { let c__: InferredGoal<DU, DE, Goal<DU, DE>> = proto_vulcan_closure!(|yy| { conde { [y == [yy | _], yy == 1], [y == [_, yy | _], yy == 2] } }); let g__: Goal<DU, DE> = ::proto_vulcan::GoalCast::cast_into(c__); let r__: InferredGoal<DU, DE, Goal<DU, DE>> = proto_vulcan!([g__.clone(), g__]); r__ }])
 }
 pub fn case_469(vars: &Vars) -> InferredGoal<DU, DE, Goal<DU, DE>> {
-    let q = vars.v[0].clone();
-    let x = vars.v[1].clone();
-    proto_vulcan!([[x] == [[true, 'a', [] | [x, 'a']], q, [3]], _ == x, member(q, [1, 1, 2]), { let c__: InferredGoal<DU, DE, Goal<DU, DE>> = proto_vulcan_closure!([|yy| { conde { [q == [yy | _], yy == 1], [q == [_, yy | _], yy == 2] } }, member(q, [])]); let g__: Goal<DU, DE> = ::proto_vulcan::GoalCast::cast_into(c__); let r__: InferredGoal<DU, DE, Goal<DU, DE>> = proto_vulcan!([g__.clone(), g__]); r__ }])
+    let x = vars.v[0].clone();
+    proto_vulcan!([|t, h| {  }, [[x, x, x], [x, x | x], [x | x] | x] == 1, conde { [], |y| {  }, [] }, closure { [match x { _ => member(x, [1, 2, 3]), }, ([x], [1, x]) != _] }])
 }
 pub fn case_470(vars: &Vars) -> InferredGoal<DU, DE, Goal<DU, DE>> {
-    let q = vars.v[0].clone();
-    let x = vars.v[1].clone();
-    proto_vulcan!([[x] == [[true, 'a', [] | [x, 'a']], q, [3]], _ == x, member(q, [1, 1, 2]), { let c__: InferredGoal<DU, DE, Goal<DU, DE>> = proto_vulcan_closure!([|fresh_name_9| { conde { [q == [fresh_name_9 | _], fresh_name_9 == 1], [q == [_, fresh_name_9 | _], fresh_name_9 == 2] } }, member(q, [])]); let g__: Goal<DU, DE> = ::proto_vulcan::GoalCast::cast_into(c__); let r__: InferredGoal<DU, DE, Goal<DU, DE>> = proto_vulcan!([g__.clone(), g__]); r__ }])
+    let x = vars.v[0].clone();
+    proto_vulcan!([|t, h| {  }, [[x, x, x], [x, x | x], [x | x] | x] == 1, conde { [], |fresh_name_9| {  }, [] }, closure { [match x { _ => member(x, [1, 2, 3]), }, ([x], [1, x]) != _] }])
 }
 pub fn case_471(vars: &Vars) -> InferredGoal<DU, DE, Goal<DU, DE>> {
     let x = vars.v[0].clone();
-    let y = vars.v[1].clone();
-    proto_vulcan!([[x != P3(_, [], _)], [x == [[], 2, x | y]], conde { [_, _ | []] != y, |tz| { tz == [1], [1, 1, 1] != [1, 1 | tz] } }])
+    proto_vulcan!([|t| {  }, match x { _ | _ => { member(x, [1, 2, 3]) }, }, 1 == x])
 }
 pub fn case_472(vars: &Vars) -> InferredGoal<DU, DE, Goal<DU, DE>> {
     let x = vars.v[0].clone();
-    let y = vars.v[1].clone();
-    proto_vulcan!([[x != P3(_, [], _)], [x == [[], 2, x | y]], conde { [_, _ | []] != y, |fresh_name_9| { fresh_name_9 == [1], [1, 1, 1] != [1, 1 | fresh_name_9] } }])
+    proto_vulcan!([|fresh_name_9| {  }, match x { _ | _ => { member(x, [1, 2, 3]) }, }, 1 == x])
 }
 pub fn case_473(vars: &Vars) -> InferredGoal<DU, DE, Goal<DU, DE>> {
     let q = vars.v[0].clone();
     let x = vars.v[1].clone();
-    proto_vulcan!([matche q { [[_ | y] | _] => , [[_, _, h]] => |t| { false, match h { [z] => q == _, }, |tz| { [2, 1, 2, 2] != [2, 1 | tz], tz == [2, 2] } }, }, conde { [[true, match x { x => [[x, "bc", _] == [[[] | x], [x, 'b'], [x, x, 2] | x], x == [x, 1, _ | x]], h => , _ => , }]] }])
+    proto_vulcan!([x != [1 | q], |tz| { [3 | tz] != [3, 1], tz == [1] }, false])
 }
 pub fn case_474(vars: &Vars) -> InferredGoal<DU, DE, Goal<DU, DE>> {
     let q = vars.v[0].clone();
     let x = vars.v[1].clone();
-    proto_vulcan!([matche q { [[_ | y] | _] => , [[_, _, h]] => |t| { false, match h { [z] => q == _, }, |tz| { [2, 1, 2, 2] != [2, 1 | tz], tz == [2, 2] } }, }, conde { [[true, match x { fresh_name_9 => [[fresh_name_9, "bc", _] == [[[] | fresh_name_9], [fresh_name_9, 'b'], [fresh_name_9, fresh_name_9, 2] | fresh_name_9], fresh_name_9 == [fresh_name_9, 1, _ | fresh_name_9]], h => , _ => , }]] }])
+    proto_vulcan!([x != [1 | q], |fresh_name_9| { [3 | fresh_name_9] != [3, 1], fresh_name_9 == [1] }, false])
 }
 pub fn case_475(vars: &Vars) -> InferredGoal<DU, DE, Goal<DU, DE>> {
     let x = vars.v[0].clone();
-    proto_vulcan!([match [[], 2] { [[2], [[], z | x], z | y] => [x == P3([2], [_], [x]), false], P3([_], [], z) => z != [3 | z], }, { let c__: InferredGoal<DU, DE, Goal<DU, DE>> = proto_vulcan_closure!(|yy| { conde { [x == [yy | _], yy == 1], [x == [_, yy | _], yy == 2] } }); let g__: Goal<DU, DE> = ::proto_vulcan::GoalCast::cast_into(c__); let r__: InferredGoal<DU, DE, Goal<DU, DE>> = proto_vulcan!([g__.clone(), g__]); r__ }])
+    proto_vulcan!([member(x, [2, 1, 2]), closure { [append(x, x, [1]), match x { Named { a: 1, b: y } => { [[x, y] == x, false, x != ([2], _)] }, }] }])
 }
 pub fn case_476(vars: &Vars) -> InferredGoal<DU, DE, Goal<DU, DE>> {
     let x = vars.v[0].clone();
-    proto_vulcan!([match [[], 2] { [[2], [[], z | x], z | y] => [x == P3([2], [_], [x]), false], P3([_], [], fresh_name_9) => fresh_name_9 != [3 | fresh_name_9], }, { let c__: InferredGoal<DU, DE, Goal<DU, DE>> = proto_vulcan_closure!(|yy| { conde { [x == [yy | _], yy == 1], [x == [_, yy | _], yy == 2] } }); let g__: Goal<DU, DE> = ::proto_vulcan::GoalCast::cast_into(c__); let r__: InferredGoal<DU, DE, Goal<DU, DE>> = proto_vulcan!([g__.clone(), g__]); r__ }])
+    proto_vulcan!([member(x, [2, 1, 2]), closure { [append(x, x, [1]), match x { Named { a: 1, b: fresh_name_9 } => { [[x, fresh_name_9] == x, false, x != ([2], _)] }, }] }])
 }
 pub fn case_477(vars: &Vars) -> InferredGoal<DU, DE, Goal<DU, DE>> {
     let q = vars.v[0].clone();
     let x = vars.v[1].clone();
-    proto_vulcan!([member(x, [2, 1, 2]), |t, z| { [z, [x, true]] == P3(_, _, 1), |h, z| { x == [1 | "bc"] }, x == [2, t | q] }])
+    proto_vulcan!([[[_ | x]] == [1, q], [[conde { [[[] | x] == x, _ == q], [x == P3([], 1, [1, x]), [] == [_]], [[3] == q, x == (q, x)] }, [append(x, x, []), [false] == ([], 1)]]], |y| { true, 1 == y, match q { P3(y, [], [_]) => { x == [_, q] }, [h] | _ => { _ == y, y == [2, y | y] }, } }])
 }
 pub fn case_478(vars: &Vars) -> InferredGoal<DU, DE, Goal<DU, DE>> {
     let q = vars.v[0].clone();
     let x = vars.v[1].clone();
-    proto_vulcan!([member(x, [2, 1, 2]), |t, z| { [z, [x, true]] == P3(_, _, 1), |h, fresh_name_9| { x == [1 | "bc"] }, x == [2, t | q] }])
+    proto_vulcan!([[[_ | x]] == [1, q], [[conde { [[[] | x] == x, _ == q], [x == P3([], 1, [1, x]), [] == [_]], [[3] == q, x == (q, x)] }, [append(x, x, []), [false] == ([], 1)]]], |fresh_name_9| { true, 1 == fresh_name_9, match q { P3(y, [], [_]) => { x == [_, q] }, [h] | _ => { _ == fresh_name_9, fresh_name_9 == [2, fresh_name_9 | fresh_name_9] }, } }])
 }
 pub fn case_479(vars: &Vars) -> InferredGoal<DU, DE, Goal<DU, DE>> {
     let x = vars.v[0].clone();
-    proto_vulcan!([conde { [matche x { [[z, x, z], [_, [], t], [[], x | z]] => , x => x == 2, y => [([_], [2]) == x, |h| { y == h, false }], }, [[[], x | x], []] == x], [x != [["a"]], ([], _) == x] }, [conde { [x == ([_], x), [[x, 3, true], [x]] == x], [[true, x] != P3([], x, [1, 1]), x != [x | 2]], [] }, true != x, |t, h| { |t| { append(t, t, []), false }, false }]])
+    proto_vulcan!([|tz| { tz == [3, 3], [2, 1, 3, 3] != [2, 1 | tz] }, |x, y| { [3 | []] != x, [], conde { [conde { x == [3, x, x], append(y, x, [2, 1]), [3, 2 | x] == x }, match y { 1 => x == 1, }], matche [] { _ => { y == 7, y == 8 }, [[h, [], t | z], 2 | _] => h == [_, h, _], } } }, closure { [conde { [P3([1, x], [], [_, []]) == x, conde { [true == x, (2, 3) != (_, 1)], [x, _, x | x] == x, [false, x == ["bc", [x, 2, x], 3 | x]] }], [|tz| { [1, 2, 1, 3] != [1, 2 | tz], tz == [1, 3] }, |z| { [[x, x, z]] == x }] }, [[x == x]]] }])
 }
 pub fn case_480(vars: &Vars) -> InferredGoal<DU, DE, Goal<DU, DE>> {
     let x = vars.v[0].clone();
-    proto_vulcan!([conde { [matche x { [[z, x, z], [_, [], fresh_name_9], [[], x | z]] => , x => x == 2, y => [([_], [2]) == x, |h| { y == h, false }], }, [[[], x | x], []] == x], [x != [["a"]], ([], _) == x] }, [conde { [x == ([_], x), [[x, 3, true], [x]] == x], [[true, x] != P3([], x, [1, 1]), x != [x | 2]], [] }, true != x, |t, h| { |t| { append(t, t, []), false }, false }]])
+    proto_vulcan!([|tz| { tz == [3, 3], [2, 1, 3, 3] != [2, 1 | tz] }, |fresh_name_9, y| { [3 | []] != fresh_name_9, [], conde { [conde { fresh_name_9 == [3, fresh_name_9, fresh_name_9], append(y, fresh_name_9, [2, 1]), [3, 2 | fresh_name_9] == fresh_name_9 }, match y { 1 => fresh_name_9 == 1, }], matche [] { _ => { y == 7, y == 8 }, [[h, [], t | z], 2 | _] => h == [_, h, _], } } }, closure { [conde { [P3([1, x], [], [_, []]) == x, conde { [true == x, (2, 3) != (_, 1)], [x, _, x | x] == x, [false, x == ["bc", [x, 2, x], 3 | x]] }], [|tz| { [1, 2, 1, 3] != [1, 2 | tz], tz == [1, 3] }, |z| { [[x, x, z]] == x }] }, [[x == x]]] }])
 }
 pub fn case_481(vars: &Vars) -> InferredGoal<DU, DE, Goal<DU, DE>> {
-    let q = vars.v[0].clone();
-    let x = vars.v[1].clone();
-    proto_vulcan!([q == [], { let c__: InferredGoal<DU, DE, Goal<DU, DE>> = proto_vulcan_closure!(|yy| { conde { [q == [yy | _], yy == 1], [q == [_, yy | _], yy == 2] } }); let g__: Goal<DU, DE> = ::proto_vulcan::GoalCast::cast_into(c__); let r__: InferredGoal<DU, DE, Goal<DU, DE>> = proto_vulcan!([g__.clone(), g__]); r__ }])
+    let x = vars.v[0].clone();
+    proto_vulcan!([[[_ | x], 3 | x] == x, matche x { t => P3(t, x, t) == x, }, { let c__: InferredGoal<DU, DE, Goal<DU, DE>> = proto_vulcan_closure!([|yy| { conde { [x == [yy | _], yy == 1], [x == [_, yy | _], yy == 2] } }, conde { |tz| { tz == [3, 2], [2, 3, 2] != [2 | tz] }, [[x, 2 | x] != (x, _), 2 != x] }]); let g__: Goal<DU, DE> = ::proto_vulcan::GoalCast::cast_into(c__); let r__: InferredGoal<DU, DE, Goal<DU, DE>> = proto_vulcan!([g__.clone(), g__]); r__ }])
 }
 pub fn case_482(vars: &Vars) -> InferredGoal<DU, DE, Goal<DU, DE>> {
-    let q = vars.v[0].clone();
-    let x = vars.v[1].clone();
-    proto_vulcan!([q == [], { let c__: InferredGoal<DU, DE, Goal<DU, DE>> = proto_vulcan_closure!(|fresh_name_9| { conde { [q == [fresh_name_9 | _], fresh_name_9 == 1], [q == [_, fresh_name_9 | _], fresh_name_9 == 2] } }); let g__: Goal<DU, DE> = ::proto_vulcan::GoalCast::cast_into(c__); let r__: InferredGoal<DU, DE, Goal<DU, DE>> = proto_vulcan!([g__.clone(), g__]); r__ }])
+    let x = vars.v[0].clone();
+    proto_vulcan!([[[_ | x], 3 | x] == x, matche x { t => P3(t, x, t) == x, }, { let c__: InferredGoal<DU, DE, Goal<DU, DE>> = proto_vulcan_closure!([|fresh_name_9| { conde { [x == [fresh_name_9 | _], fresh_name_9 == 1], [x == [_, fresh_name_9 | _], fresh_name_9 == 2] } }, conde { |tz| { tz == [3, 2], [2, 3, 2] != [2 | tz] }, [[x, 2 | x] != (x, _), 2 != x] }]); let g__: Goal<DU, DE> = ::proto_vulcan::GoalCast::cast_into(c__); let r__: InferredGoal<DU, DE, Goal<DU, DE>> = proto_vulcan!([g__.clone(), g__]); r__ }])
 }
 pub fn case_483(vars: &Vars) -> InferredGoal<DU, DE, Goal<DU, DE>> {
     let q = vars.v[0].clone();
     let x = vars.v[1].clone();
-    proto_vulcan!([|t| { matche x { _ => member(t, [1, 2, 3]), x => [|t| { ([2, 3], 1) != x, [t, []] != [[x, []]], t == [[_], x, [t]] }, conde { [1 == x, [['b', 'b'], [_, [], 3 | x], [t, t, x]] == x], q != "a" }], }, [2, 2 | t] == [x, 'b' | t], q == P3(x, q, []) }, (x, [[], x]) == q, matche x { [[2 | h]] => , 1 => , Named { a: t, b: 3 } | z => , }])
+    proto_vulcan!([conde { [|z| { matche z { [1, h, ['a', t, 'a' | x]] => { |tz| { tz == [1, 2], [2, 1 | tz] != [2, 1, 1, 2] }, [_, [], _] == [[[]]] }, }, ['b'] == z }, |t, h| { [[[]], [3, []] | x] == q }], |y| { y == 2, |h| { member(y, []), h != P3([y], h, [x, []]), true } }, [[], q, q] == x }, [x, 2, "a" | x] == [1, [x] | x]])
 }
 pub fn case_484(vars: &Vars) -> InferredGoal<DU, DE, Goal<DU, DE>> {
     let q = vars.v[0].clone();
     let x = vars.v[1].clone();
-    proto_vulcan!([|t| { matche x { _ => member(t, [1, 2, 3]), x => [|t| { ([2, 3], 1) != x, [t, []] != [[x, []]], t == [[_], x, [t]] }, conde { [1 == x, [['b', 'b'], [_, [], 3 | x], [t, t, x]] == x], q != "a" }], }, [2, 2 | t] == [x, 'b' | t], q == P3(x, q, []) }, (x, [[], x]) == q, matche x { [[2 | fresh_name_9]] => , 1 => , Named { a: t, b: 3 } | z => , }])
+    proto_vulcan!([conde { [|z| { matche z { [1, h, ['a', t, 'a' | x]] => { |tz| { tz == [1, 2], [2, 1 | tz] != [2, 1, 1, 2] }, [_, [], _] == [[[]]] }, }, ['b'] == z }, |t, h| { [[[]], [3, []] | x] == q }], |y| { y == 2, |fresh_name_9| { member(y, []), fresh_name_9 != P3([y], fresh_name_9, [x, []]), true } }, [[], q, q] == x }, [x, 2, "a" | x] == [1, [x] | x]])
 }
 pub fn case_485(vars: &Vars) -> InferredGoal<DU, DE, Goal<DU, DE>> {
     let x = vars.v[0].clone();
-    proto_vulcan!([[[]] == x, conde { [match x { _ | P3(3, [t], _) => , _ => , [] | _ => matche [3, x | x] { false | _ => { true }, "bc" => { [2] == x }, [[_, []], t, [t, z, 3 | h]] => , }, }, member(x, [])], [[append(x, x, [3, 2]), match [2] { _ | [[y, _, t], [_, 1, 1]] => , [[x], 1] | 'a' => , t | [[h], ['b' | 1]] => { |tz| { tz == [3, 1], [1, 3, 1] != [1 | tz] }, x == [[_, 2]] }, }, x != P3(x, [x, 3], [])]], [P3(1, 2, [3, x]) == _, match [x, 'b'] { 'b' | _ => [matche 1 { [] => { [false, [], 2] == ["a"] }, [[2, _, z]] => , }, |x, h| { P3(1, h, h) != x }], }] }])
+    let y = vars.v[1].clone();
+    proto_vulcan!([y == x, match [x, _, _] { [2, [y, 2, 1], [_, h, 1]] => , _ => [[|z| { true, |tz| { [3 | tz] != [3, 1, 2], tz == [1, 2] }, false }, match x { 3 => , [[x, x, y] | 1] | 1 => , }, |x, t| { t != ['a', 1], [["bc"], [x, y, y | 2] | y] == [[3]], t == x }], x == x], [[x]] => , }, |tz| { tz == [2], [3 | tz] != [3, 2] }])
 }
 pub fn case_486(vars: &Vars) -> InferredGoal<DU, DE, Goal<DU, DE>> {
     let x = vars.v[0].clone();
-    proto_vulcan!([[[]] == x, conde { [match x { _ | P3(3, [t], _) => , _ => , [] | _ => matche [3, x | x] { false | _ => { true }, "bc" => { [2] == x }, [[_, []], t, [t, z, 3 | h]] => , }, }, member(x, [])], [[append(x, x, [3, 2]), match [2] { _ | [[y, _, t], [_, 1, 1]] => , [[x], 1] | 'a' => , t | [[h], ['b' | 1]] => { |tz| { tz == [3, 1], [1, 3, 1] != [1 | tz] }, x == [[_, 2]] }, }, x != P3(x, [x, 3], [])]], [P3(1, 2, [3, x]) == _, match [x, 'b'] { 'b' | _ => [matche 1 { [] => { [false, [], 2] == ["a"] }, [[2, _, z]] => , }, |fresh_name_9, h| { P3(1, h, h) != fresh_name_9 }], }] }])
+    let y = vars.v[1].clone();
+    proto_vulcan!([y == x, match [x, _, _] { [2, [fresh_name_9, 2, 1], [_, h, 1]] => , _ => [[|z| { true, |tz| { [3 | tz] != [3, 1, 2], tz == [1, 2] }, false }, match x { 3 => , [[x, x, y] | 1] | 1 => , }, |x, t| { t != ['a', 1], [["bc"], [x, y, y | 2] | y] == [[3]], t == x }], x == x], [[x]] => , }, |tz| { tz == [2], [3 | tz] != [3, 2] }])
 }
 pub fn case_487(vars: &Vars) -> InferredGoal<DU, DE, Goal<DU, DE>> {
-    let q = vars.v[0].clone();
-    let x = vars.v[1].clone();
-    proto_vulcan!([|t, y| { [matche t { [] => [append(t, q, [2]), t == 3], x => , _ => { t == 7, t == 8 }, }], true, [3, [_, "a", q], [_, x]] == [2, y, 2 | x] }, match q { P3(_, 2, [2, 3]) => { [|h, z| { false, false, |tz| { [2, 1 | tz] != [2, 1, 2, 1], tz == [2, 1] } }, conde { [['b', q] == q, member(x, [2, 2, 2])], [x, x | false] == ([], []) }] }, [[1, z, 1 | t], x, y] | [_, t | _] => [|tz| { [1, 1, 3, 2] != [1, 1 | tz], tz == [3, 2] }, P3(_, t, 3) == t], y => , }, false])
+    let x = vars.v[0].clone();
+    let y = vars.v[1].clone();
+    proto_vulcan!([true, { let c__: InferredGoal<DU, DE, Goal<DU, DE>> = proto_vulcan_closure!(|yy| { conde { [y == [yy | _], yy == 1], [y == [_, yy | _], yy == 2] } }); let g__: Goal<DU, DE> = ::proto_vulcan::GoalCast::cast_into(c__); let r__: InferredGoal<DU, DE, Goal<DU, DE>> = proto_vulcan!([g__.clone(), g__]); r__ }])
 }
 pub fn case_488(vars: &Vars) -> InferredGoal<DU, DE, Goal<DU, DE>> {
-    let q = vars.v[0].clone();
-    let x = vars.v[1].clone();
-    proto_vulcan!([|fresh_name_9, y| { [matche fresh_name_9 { [] => [append(fresh_name_9, q, [2]), fresh_name_9 == 3], x => , _ => { fresh_name_9 == 7, fresh_name_9 == 8 }, }], true, [3, [_, "a", q], [_, x]] == [2, y, 2 | x] }, match q { P3(_, 2, [2, 3]) => { [|h, z| { false, false, |tz| { [2, 1 | tz] != [2, 1, 2, 1], tz == [2, 1] } }, conde { [['b', q] == q, member(x, [2, 2, 2])], [x, x | false] == ([], []) }] }, [[1, z, 1 | t], x, y] | [_, t | _] => [|tz| { [1, 1, 3, 2] != [1, 1 | tz], tz == [3, 2] }, P3(_, t, 3) == t], y => , }, false])
+    let x = vars.v[0].clone();
+    let y = vars.v[1].clone();
+    proto_vulcan!([true, { let c__: InferredGoal<DU, DE, Goal<DU, DE>> = proto_vulcan_closure!(|fresh_name_9| { conde { [y == [fresh_name_9 | _], fresh_name_9 == 1], [y == [_, fresh_name_9 | _], fresh_name_9 == 2] } }); let g__: Goal<DU, DE> = ::proto_vulcan::GoalCast::cast_into(c__); let r__: InferredGoal<DU, DE, Goal<DU, DE>> = proto_vulcan!([g__.clone(), g__]); r__ }])
 }
 pub fn case_489(vars: &Vars) -> InferredGoal<DU, DE, Goal<DU, DE>> {
-    let q = vars.v[0].clone();
-    let x = vars.v[1].clone();
-    proto_vulcan!([P3(x, x, 1) == x, |t, h| { true, [3] != h, |t| { matche h { _ => [t == P3(_, [[]], t), [x, 1] != x], }, match t { Named { a: [], b: 2 } | t => { [x | x] != x, h == [[], 2, true | x] }, } } }, [2, [_, 1 | q] | 1] == [[x], [2 | q]], { let c__: InferredGoal<DU, DE, Goal<DU, DE>> = proto_vulcan_closure!([|yy| { conde { [x == [yy | _], yy == 1], [x == [_, yy | _], yy == 2] } }, |x, h| { member(x, [3]) }]); let g__: Goal<DU, DE> = ::proto_vulcan::GoalCast::cast_into(c__); let r__: InferredGoal<DU, DE, Goal<DU, DE>> = proto_vulcan!([g__.clone(), g__]); r__ }])
+    let x = vars.v[0].clone();
+    let y = vars.v[1].clone();
+    proto_vulcan!([append(y, y, [3, 1]), conde { matche 1 { [["bc"]] => { [] }, [['a', 1]] => matche x { [1] => , }, [[[], h, y], z, [t, z, [] | h]] => z == (3, []), }, [[match [3] { [1 | y] => [member(x, [3]), member(y, [2])], y => { y == ([_], [1, 2]), |tz| { [1, 1, 1, 1] != [1, 1 | tz], tz == [1, 1] } }, }, [[true] | x] == ([2], _)], [2] == _] }])
 }
 pub fn case_490(vars: &Vars) -> InferredGoal<DU, DE, Goal<DU, DE>> {
-    let q = vars.v[0].clone();
-    let x = vars.v[1].clone();
-    proto_vulcan!([P3(x, x, 1) == x, |t, fresh_name_9| { true, [3] != fresh_name_9, |t| { matche fresh_name_9 { _ => [t == P3(_, [[]], t), [x, 1] != x], }, match t { Named { a: [], b: 2 } | t => { [x | x] != x, fresh_name_9 == [[], 2, true | x] }, } } }, [2, [_, 1 | q] | 1] == [[x], [2 | q]], { let c__: InferredGoal<DU, DE, Goal<DU, DE>> = proto_vulcan_closure!([|yy| { conde { [x == [yy | _], yy == 1], [x == [_, yy | _], yy == 2] } }, |x, h| { member(x, [3]) }]); let g__: Goal<DU, DE> = ::proto_vulcan::GoalCast::cast_into(c__); let r__: InferredGoal<DU, DE, Goal<DU, DE>> = proto_vulcan!([g__.clone(), g__]); r__ }])
+    let x = vars.v[0].clone();
+    let y = vars.v[1].clone();
+    proto_vulcan!([append(y, y, [3, 1]), conde { matche 1 { [["bc"]] => { [] }, [['a', 1]] => matche x { [1] => , }, [[[], h, y], z, [t, z, [] | h]] => z == (3, []), }, [[match [3] { [1 | fresh_name_9] => [member(x, [3]), member(fresh_name_9, [2])], y => { y == ([_], [1, 2]), |tz| { [1, 1, 1, 1] != [1, 1 | tz], tz == [1, 1] } }, }, [[true] | x] == ([2], _)], [2] == _] }])
 }
 pub fn case_491(vars: &Vars) -> InferredGoal<DU, DE, Goal<DU, DE>> {
     let q = vars.v[0].clone();
     let x = vars.v[1].clone();
-    proto_vulcan!([x != [[] | q], |h| { |tz| { [1 | tz] != [1, 1, 3], tz == [1, 3] }, |x| { [q, x, x] == q, [q == [1, x | h], (h, 2) == x] }, q == P3(2, q, h) }, closure { P3(3, 1, []) != [x, [3 | x] | [x, x]] }])
+    proto_vulcan!([|y| { 2 == q }, [matche [q, 1] { [[y, 'a'] | y] => { y == [q], (y, 1) != ["a" | q] }, }], q == []])
 }
 pub fn case_492(vars: &Vars) -> InferredGoal<DU, DE, Goal<DU, DE>> {
     let q = vars.v[0].clone();
     let x = vars.v[1].clone();
-    proto_vulcan!([x != [[] | q], |h| { |fresh_name_9| { [1 | fresh_name_9] != [1, 1, 3], fresh_name_9 == [1, 3] }, |x| { [q, x, x] == q, [q == [1, x | h], (h, 2) == x] }, q == P3(2, q, h) }, closure { P3(3, 1, []) != [x, [3 | x] | [x, x]] }])
+    proto_vulcan!([|y| { 2 == q }, [matche [q, 1] { [[fresh_name_9, 'a'] | fresh_name_9] => { fresh_name_9 == [q], (fresh_name_9, 1) != ["a" | q] }, }], q == []])
 }
 pub fn case_493(vars: &Vars) -> InferredGoal<DU, DE, Goal<DU, DE>> {
     let x = vars.v[0].clone();
     let y = vars.v[1].clone();
-    proto_vulcan!([y == ([], [_, x]), matche x { y => , [[y, _ | z], ["a", [], t], 3 | 1] => { |x, h| { x != y } }, }, y == []])
+    proto_vulcan!([matche x { 2 => { match [false, y] { [] => , _ => (2, 1) == P3([[]], 3, [[], y]), _ => , }, [[]] == y }, _ => { match x { 2 => , [t | _] | y => |t| { 1 == x }, false => { [y == [true, 3, x | y], member(x, [3, 2, 1]), "a" == y] }, } }, }, x != [_, y], [matche x { [[z], z, 1] => [[append(z, y, [1, 3]), y != z, z == 1]], 'b' | _ => { match x { _ | [false] => |tz| { [1, 2 | tz] != [1, 2, 2, 1], tz == [2, 1] }, [2, z] | [[] | h] => (_, y) == x, [] | _ => , } }, }], { let c__: InferredGoal<DU, DE, Goal<DU, DE>> = proto_vulcan_closure!([|yy| { conde { [y == [yy | _], yy == 1], [y == [_, yy | _], yy == 2] } }, [1, _] == y]); let g__: Goal<DU, DE> = ::proto_vulcan::GoalCast::cast_into(c__); let r__: InferredGoal<DU, DE, Goal<DU, DE>> = proto_vulcan!([g__.clone(), g__]); r__ }])
 }
 pub fn case_494(vars: &Vars) -> InferredGoal<DU, DE, Goal<DU, DE>> {
     let x = vars.v[0].clone();
     let y = vars.v[1].clone();
-    proto_vulcan!([y == ([], [_, x]), matche x { fresh_name_9 => , [[y, _ | z], ["a", [], t], 3 | 1] => { |x, h| { x != y } }, }, y == []])
+    proto_vulcan!([matche x { 2 => { match [false, y] { [] => , _ => (2, 1) == P3([[]], 3, [[], y]), _ => , }, [[]] == y }, _ => { match x { 2 => , [t | _] | y => |t| { 1 == x }, false => { [y == [true, 3, x | y], member(x, [3, 2, 1]), "a" == y] }, } }, }, x != [_, y], [matche x { [[fresh_name_9], fresh_name_9, 1] => [[append(fresh_name_9, y, [1, 3]), y != fresh_name_9, fresh_name_9 == 1]], 'b' | _ => { match x { _ | [false] => |tz| { [1, 2 | tz] != [1, 2, 2, 1], tz == [2, 1] }, [2, z] | [[] | h] => (_, y) == x, [] | _ => , } }, }], { let c__: InferredGoal<DU, DE, Goal<DU, DE>> = proto_vulcan_closure!([|yy| { conde { [y == [yy | _], yy == 1], [y == [_, yy | _], yy == 2] } }, [1, _] == y]); let g__: Goal<DU, DE> = ::proto_vulcan::GoalCast::cast_into(c__); let r__: InferredGoal<DU, DE, Goal<DU, DE>> = proto_vulcan!([g__.clone(), g__]); r__ }])
 }
 pub fn case_495(vars: &Vars) -> InferredGoal<DU, DE, Goal<DU, DE>> {
     let x = vars.v[0].clone();
-    proto_vulcan!([x == [x, x, [] | []], [|x, t| { t == P3(1, t, t), [t | x] != x, P3([x], t, x) != x }, match x { [[1], [z] | x] | 3 => , 2 => , [[h]] | _ => { false }, }, matche x { _ => [x] != [x, 2], _ => { member(x, [1, 2, 3]) }, [[[], 1 | _], [1, z]] => { |z, t| { member(z, [3, 1, 2]), z == [z, [x, [], z] | x] }, matche 2 { [[_], [t, "a"]] => { false }, false => , } }, }], [x] != x, closure { [|z| { matche z { P3([h, h], [y, 3], []) | [['a'], [z, 'a'], [t] | x] => , _ => member(z, [1, 2, 3]), }, [z, _, 3] != x, |z| { _ == x, z == [2, [] | z] } }, [[_, 1 | x], [x, 'b'] | x] == x] }])
+    let y = vars.v[1].clone();
+    proto_vulcan!([|y| { conde { [], [conde { 'b' != x, ([2], _) == [[2], [[], y, y], 3] }, match x { _ => [y == 7, y == 8], }] }, matche y { [[y], z] => { |h| {  } }, Named { a: h, b: h } | "bc" => { conde { [y == (2, []), y != [false, [], y]], _ == x, member(y, []) }, |tz| { tz == [3], [1, 2, 3] != [1, 2 | tz] } }, } }, match y { [x] => { conde { x != 2, [append(y, x, [1]), x != [3, x, 3]], [x == x, [1] == x] } }, }, |tz| { [3, 3] != [3 | tz], tz == [3] }])
 }
 pub fn case_496(vars: &Vars) -> InferredGoal<DU, DE, Goal<DU, DE>> {
     let x = vars.v[0].clone();
-    proto_vulcan!([x == [x, x, [] | []], [|x, t| { t == P3(1, t, t), [t | x] != x, P3([x], t, x) != x }, match x { [[1], [z] | x] | 3 => , 2 => , [[h]] | _ => { false }, }, matche x { _ => [x] != [x, 2], _ => { member(x, [1, 2, 3]) }, [[[], 1 | _], [1, z]] => { |z, t| { member(z, [3, 1, 2]), z == [z, [x, [], z] | x] }, matche 2 { [[_], [t, "a"]] => { false }, false => , } }, }], [x] != x, closure { [|fresh_name_9| { matche fresh_name_9 { P3([h, h], [y, 3], []) | [['a'], [z, 'a'], [t] | x] => , _ => member(fresh_name_9, [1, 2, 3]), }, [fresh_name_9, _, 3] != x, |z| { _ == x, z == [2, [] | z] } }, [[_, 1 | x], [x, 'b'] | x] == x] }])
+    let y = vars.v[1].clone();
+    proto_vulcan!([|fresh_name_9| { conde { [], [conde { 'b' != x, ([2], _) == [[2], [[], fresh_name_9, fresh_name_9], 3] }, match x { _ => [fresh_name_9 == 7, fresh_name_9 == 8], }] }, matche fresh_name_9 { [[y], z] => { |h| {  } }, Named { a: h, b: h } | "bc" => { conde { [fresh_name_9 == (2, []), fresh_name_9 != [false, [], fresh_name_9]], _ == x, member(fresh_name_9, []) }, |tz| { tz == [3], [1, 2, 3] != [1, 2 | tz] } }, } }, match y { [x] => { conde { x != 2, [append(y, x, [1]), x != [3, x, 3]], [x == x, [1] == x] } }, }, |tz| { [3, 3] != [3 | tz], tz == [3] }])
 }
 pub fn case_497(vars: &Vars) -> InferredGoal<DU, DE, Goal<DU, DE>> {
     let x = vars.v[0].clone();
     let y = vars.v[1].clone();
-    proto_vulcan!([x == 1, [2] != y, [conde { conde { [|tz| { [2, 2] != [2 | tz], tz == [2] }, false], [[y, 3, 2 | x] != x, [y, 2, x] == 1], [] } }, x == ['b', x, y]], closure { [([3], x) != x, [|h| { x == 'a', x == [y, 1, h], 1 == x }]] }])
+    proto_vulcan!([|h, z| { conde { z == _, [[[[2, x] | y] != z], [[]] != z] }, conde { [[] == x, |t| { z == [false, [], 2 | y] }], [member(x, []), matche h { [[z, 1, 1], [_, 3, []] | x] | _ => [(2, h) == y, [_, h, []] != y], _ | [[], false, [3 | _]] => { ['b'] == (y, 2) }, [[_], [2 | []], ['b', 3, z]] => { x == x }, }], |x, h| {  } } }, [|t| { x != [x], [x, [] | t] == y }, member(x, [3, 3]), [y, x, 1 | y] == x]])
 }
 pub fn case_498(vars: &Vars) -> InferredGoal<DU, DE, Goal<DU, DE>> {
     let x = vars.v[0].clone();
     let y = vars.v[1].clone();
-    proto_vulcan!([x == 1, [2] != y, [conde { conde { [|fresh_name_9| { [2, 2] != [2 | fresh_name_9], fresh_name_9 == [2] }, false], [[y, 3, 2 | x] != x, [y, 2, x] == 1], [] } }, x == ['b', x, y]], closure { [([3], x) != x, [|h| { x == 'a', x == [y, 1, h], 1 == x }]] }])
+    proto_vulcan!([|h, z| { conde { z == _, [[[[2, x] | y] != z], [[]] != z] }, conde { [[] == x, |t| { z == [false, [], 2 | y] }], [member(x, []), matche h { [[z, 1, 1], [_, 3, []] | x] | _ => [(2, h) == y, [_, h, []] != y], _ | [[], false, [3 | _]] => { ['b'] == (y, 2) }, [[_], [2 | []], ['b', 3, z]] => { x == x }, }], |x, h| {  } } }, [|fresh_name_9| { x != [x], [x, [] | fresh_name_9] == y }, member(x, [3, 3]), [y, x, 1 | y] == x]])
 }
 pub fn case_499(vars: &Vars) -> InferredGoal<DU, DE, Goal<DU, DE>> {
     let q = vars.v[0].clone();
     let x = vars.v[1].clone();
-    proto_vulcan!([q == (x, []), match x { [[z, t], [h], [_] | y] => { conde { [[y == P3([3, 2], 3, [1]), h != 2, member(z, [])], matche h { _ | _ => , h => { 'b' == z }, [_ | _] => false, }], [z | y] == x, q == z }, |tz| { tz == [2], [2, 2] != [2 | tz] } }, }])
+    proto_vulcan!([q != [q, _, x], |z| {  }, { let c__: InferredGoal<DU, DE, Goal<DU, DE>> = proto_vulcan_closure!([|yy| { conde { [q == [yy | _], yy == 1], [q == [_, yy | _], yy == 2] } }, 2 == [[x | [2, []]], q]]); let g__: Goal<DU, DE> = ::proto_vulcan::GoalCast::cast_into(c__); let r__: InferredGoal<DU, DE, Goal<DU, DE>> = proto_vulcan!([g__.clone(), g__]); r__ }])
 }
 pub fn case_500(vars: &Vars) -> InferredGoal<DU, DE, Goal<DU, DE>> {
     let q = vars.v[0].clone();
     let x = vars.v[1].clone();
-    proto_vulcan!([q == (x, []), match x { [[z, t], [fresh_name_9], [_] | y] => { conde { [[y == P3([3, 2], 3, [1]), fresh_name_9 != 2, member(z, [])], matche fresh_name_9 { _ | _ => , h => { 'b' == z }, [_ | _] => false, }], [z | y] == x, q == z }, |tz| { tz == [2], [2, 2] != [2 | tz] } }, }])
+    proto_vulcan!([q != [q, _, x], |fresh_name_9| {  }, { let c__: InferredGoal<DU, DE, Goal<DU, DE>> = proto_vulcan_closure!([|yy| { conde { [q == [yy | _], yy == 1], [q == [_, yy | _], yy == 2] } }, 2 == [[x | [2, []]], q]]); let g__: Goal<DU, DE> = ::proto_vulcan::GoalCast::cast_into(c__); let r__: InferredGoal<DU, DE, Goal<DU, DE>> = proto_vulcan!([g__.clone(), g__]); r__ }])
 }
 pub fn case_501(vars: &Vars) -> InferredGoal<DU, DE, Goal<DU, DE>> {
     let q = vars.v[0].clone();
     let x = vars.v[1].clone();
-    proto_vulcan!([match q { _ | [[x | _] | t] => q == 'a', }, closure { [|y| { y != (y, _), [[y, 2, x], [1, 3, 2 | false], q | y] == x, q == [[_], [2 | q]] }, P3([_], [_], _) != q] }])
+    proto_vulcan!([P3(1, [], [_]) != (2, []), |z| { [] }, q == q, closure { [conde { [2 != x, |z, t| { true, P3([x], 2, 2) != q, member(q, [2, 1, 3]) }], [match q { [_, y] => [] == [[1, q, 1]], [[[] | t], [h, t, y]] | [[false, 1, x], [1]] => , _ => P3([], [x, x], x) != [], }, |z, h| { q != [x, [h], [true]] }], [] }, |x| { q == 2, x != [[], 3 | x], q == [1] }] }])
 }
 pub fn case_502(vars: &Vars) -> InferredGoal<DU, DE, Goal<DU, DE>> {
     let q = vars.v[0].clone();
     let x = vars.v[1].clone();
-    proto_vulcan!([match q { _ | [[x | _] | t] => q == 'a', }, closure { [|fresh_name_9| { fresh_name_9 != (fresh_name_9, _), [[fresh_name_9, 2, x], [1, 3, 2 | false], q | fresh_name_9] == x, q == [[_], [2 | q]] }, P3([_], [_], _) != q] }])
+    proto_vulcan!([P3(1, [], [_]) != (2, []), |z| { [] }, q == q, closure { [conde { [2 != x, |z, t| { true, P3([x], 2, 2) != q, member(q, [2, 1, 3]) }], [match q { [_, fresh_name_9] => [] == [[1, q, 1]], [[[] | t], [h, t, y]] | [[false, 1, x], [1]] => , _ => P3([], [x, x], x) != [], }, |z, h| { q != [x, [h], [true]] }], [] }, |x| { q == 2, x != [[], 3 | x], q == [1] }] }])
 }
 pub fn case_503(vars: &Vars) -> InferredGoal<DU, DE, Goal<DU, DE>> {
-    let x = vars.v[0].clone();
-    let y = vars.v[1].clone();
-    proto_vulcan!([x == x, matche x { P3([], [t, _], y) => , Named { a: _, b: t } => y != "a", h | t => , }, closure { [[x, ["bc", [] | [2]], [3]] != [y, []], 1 == [x, 3, [] | _]] }])
+    let q = vars.v[0].clone();
+    let x = vars.v[1].clone();
+    proto_vulcan!([q == [[[]], [q]], |t| { matche x { P3([[]], [_, h], []) => [[true, _, x] != q, matche x { [true | false] => , _ => { x == 7, x == 8 }, }], [['a', y | y], [_, 1]] => , }, t == [[2, 3, [] | 3], t, [2, x, _]] }, match x { _ => , _ => conde { x == P3([], 1, 2), match x { _ => { q == 7, q == 8 }, [1] => { |tz| { [2, 3, 2] != [2, 3 | tz], tz == [2] }, [1] != x }, } }, }])
 }
 pub fn case_504(vars: &Vars) -> InferredGoal<DU, DE, Goal<DU, DE>> {
-    let x = vars.v[0].clone();
-    let y = vars.v[1].clone();
-    proto_vulcan!([x == x, matche x { P3([], [t, _], fresh_name_9) => , Named { a: _, b: t } => y != "a", h | t => , }, closure { [[x, ["bc", [] | [2]], [3]] != [y, []], 1 == [x, 3, [] | _]] }])
+    let q = vars.v[0].clone();
+    let x = vars.v[1].clone();
+    proto_vulcan!([q == [[[]], [q]], |t| { matche x { P3([[]], [_, h], []) => [[true, _, x] != q, matche x { [true | false] => , _ => { x == 7, x == 8 }, }], [['a', y | y], [_, 1]] => , }, t == [[2, 3, [] | 3], t, [2, x, _]] }, match x { _ => , _ => conde { x == P3([], 1, 2), match x { _ => { q == 7, q == 8 }, [1] => { |fresh_name_9| { [2, 3, 2] != [2, 3 | fresh_name_9], fresh_name_9 == [2] }, [1] != x }, } }, }])
 }
 pub fn case_505(vars: &Vars) -> InferredGoal<DU, DE, Goal<DU, DE>> {
     let x = vars.v[0].clone();
-    proto_vulcan!([match [x, 2] { _ | _ => { member(x, [1, 2, 3]) }, _ => [x == 7, x == 8], t | [[2, 1, x], "bc", [true]] => , }, [x != P3(1, [2], [_]), x != [x, x, 1], [matche x { Named { a: y, b: [3] } => { y == P3(2, 3, [[]]), y != (y, y) }, }]]])
+    let y = vars.v[1].clone();
+    proto_vulcan!([|tz| { [3 | tz] != [3, 3, 1], tz == [3, 1] }, closure { matche y { [[_, y, [] | [_, 1]], [z, 1 | [2, t]]] => [t] == z, [_, [h, 1]] | ["a", 2] => |h, y| { 1 == x }, [[z, 2 | y], h] => [member(y, []), h == 2], } }])
 }
 pub fn case_506(vars: &Vars) -> InferredGoal<DU, DE, Goal<DU, DE>> {
     let x = vars.v[0].clone();
-    proto_vulcan!([match [x, 2] { _ | _ => { member(x, [1, 2, 3]) }, _ => [x == 7, x == 8], t | [[2, 1, x], "bc", [true]] => , }, [x != P3(1, [2], [_]), x != [x, x, 1], [matche x { Named { a: fresh_name_9, b: [3] } => { fresh_name_9 == P3(2, 3, [[]]), fresh_name_9 != (fresh_name_9, fresh_name_9) }, }]]])
+    let y = vars.v[1].clone();
+    proto_vulcan!([|tz| { [3 | tz] != [3, 3, 1], tz == [3, 1] }, closure { matche y { [[_, y, [] | [_, 1]], [fresh_name_9, 1 | [2, t]]] => [t] == fresh_name_9, [_, [h, 1]] | ["a", 2] => |h, y| { 1 == x }, [[z, 2 | y], h] => [member(y, []), h == 2], } }])
 }
 pub fn case_507(vars: &Vars) -> InferredGoal<DU, DE, Goal<DU, DE>> {
-    let q = vars.v[0].clone();
-    let x = vars.v[1].clone();
-    proto_vulcan!([conde { [[[x, q, q], x, [_] | x] != P3([1], 1, _), |x, y| { conde { [[3, 'b', [y, q]] == q, [2, y] == x], [true] == q }, 1 == y }], |z| { ([], x) != P3(q, [q, 2], []) } }])
+    let x = vars.v[0].clone();
+    proto_vulcan!([[conde { ["bc" != x, x == _], [x | x] == x }, true], [x != x], conde { |t, x| { match [1, 2] { 2 | 'b' => , [[z] | 1] => , _ | _ => , } }, |z| { [[_, 1, 1 | x] == [1, 2, z], member(x, [])], match [2] { [[z, z, false]] => , _ | P3(x, 3, 3) => { P3(_, z, [3, 2]) == z }, Named { a: [_, 3], b: [y] } => , } } }, { let c__: InferredGoal<DU, DE, Goal<DU, DE>> = proto_vulcan_closure!([|yy| { conde { [x == [yy | _], yy == 1], [x == [_, yy | _], yy == 2] } }, |z| { |tz| { tz == [1, 1], [3 | tz] != [3, 1, 1] } }]); let g__: Goal<DU, DE> = ::proto_vulcan::GoalCast::cast_into(c__); let r__: InferredGoal<DU, DE, Goal<DU, DE>> = proto_vulcan!([g__.clone(), g__]); r__ }])
 }
 pub fn case_508(vars: &Vars) -> InferredGoal<DU, DE, Goal<DU, DE>> {
-    let q = vars.v[0].clone();
-    let x = vars.v[1].clone();
-    proto_vulcan!([conde { [[[x, q, q], x, [_] | x] != P3([1], 1, _), |x, y| { conde { [[3, 'b', [y, q]] == q, [2, y] == x], [true] == q }, 1 == y }], |fresh_name_9| { ([], x) != P3(q, [q, 2], []) } }])
+    let x = vars.v[0].clone();
+    proto_vulcan!([[conde { ["bc" != x, x == _], [x | x] == x }, true], [x != x], conde { |t, x| { match [1, 2] { 2 | 'b' => , [[z] | 1] => , _ | _ => , } }, |z| { [[_, 1, 1 | x] == [1, 2, z], member(x, [])], match [2] { [[z, z, false]] => , _ | P3(x, 3, 3) => { P3(_, z, [3, 2]) == z }, Named { a: [_, 3], b: [y] } => , } } }, { let c__: InferredGoal<DU, DE, Goal<DU, DE>> = proto_vulcan_closure!([|yy| { conde { [x == [yy | _], yy == 1], [x == [_, yy | _], yy == 2] } }, |fresh_name_9| { |tz| { tz == [1, 1], [3 | tz] != [3, 1, 1] } }]); let g__: Goal<DU, DE> = ::proto_vulcan::GoalCast::cast_into(c__); let r__: InferredGoal<DU, DE, Goal<DU, DE>> = proto_vulcan!([g__.clone(), g__]); r__ }])
 }
 pub fn case_509(vars: &Vars) -> InferredGoal<DU, DE, Goal<DU, DE>> {
-    let q = vars.v[0].clone();
-    let x = vars.v[1].clone();
-    proto_vulcan!([x == P3([[], x], [], [_]), [3 == x, [conde { |tz| { tz == [1, 3], [1, 1, 1, 3] != [1, 1 | tz] }, _ != q, false }, x == x, q != [2, 2 | q]], matche q { _ => { q == [1] }, 1 => [[]], }], closure { [[conde { [], [] }]] }])
+    let x = vars.v[0].clone();
+    let y = vars.v[1].clone();
+    proto_vulcan!([|x, y| { conde { |h, z| { [_] == z, |tz| { [3, 2, 1, 1] != [3, 2 | tz], tz == [1, 1] } }, conde { [], x == 'b' } } }, [matche x { P3(1, _, []) => { [y == [y | 3], append(y, x, [])] }, }, matche x { P3(_, x, []) => { matche x { [x, [t | _], y | h] => { true }, _ => [member(x, [3]), x == [_]], _ => { [y, [1, 3, 'a' | x], [[], 2]] != P3(2, 1, x), x == "bc" }, } }, }], y == [x], { let c__: InferredGoal<DU, DE, Goal<DU, DE>> = proto_vulcan_closure!([|yy| { conde { [y == [yy | _], yy == 1], [y == [_, yy | _], yy == 2] } }, [y == (y, 3), y != P3(_, [], [2, []])]]); let g__: Goal<DU, DE> = ::proto_vulcan::GoalCast::cast_into(c__); let r__: InferredGoal<DU, DE, Goal<DU, DE>> = proto_vulcan!([g__.clone(), g__]); r__ }])
 }
 pub fn case_510(vars: &Vars) -> InferredGoal<DU, DE, Goal<DU, DE>> {
-    let q = vars.v[0].clone();
-    let x = vars.v[1].clone();
-    proto_vulcan!([x == P3([[], x], [], [_]), [3 == x, [conde { |fresh_name_9| { fresh_name_9 == [1, 3], [1, 1, 1, 3] != [1, 1 | fresh_name_9] }, _ != q, false }, x == x, q != [2, 2 | q]], matche q { _ => { q == [1] }, 1 => [[]], }], closure { [[conde { [], [] }]] }])
+    let x = vars.v[0].clone();
+    let y = vars.v[1].clone();
+    proto_vulcan!([|x, y| { conde { |h, z| { [_] == z, |tz| { [3, 2, 1, 1] != [3, 2 | tz], tz == [1, 1] } }, conde { [], x == 'b' } } }, [matche x { P3(1, _, []) => { [y == [y | 3], append(y, x, [])] }, }, matche x { P3(_, fresh_name_9, []) => { matche fresh_name_9 { [x, [t | _], y | h] => { true }, _ => [member(fresh_name_9, [3]), fresh_name_9 == [_]], _ => { [y, [1, 3, 'a' | fresh_name_9], [[], 2]] != P3(2, 1, fresh_name_9), fresh_name_9 == "bc" }, } }, }], y == [x], { let c__: InferredGoal<DU, DE, Goal<DU, DE>> = proto_vulcan_closure!([|yy| { conde { [y == [yy | _], yy == 1], [y == [_, yy | _], yy == 2] } }, [y == (y, 3), y != P3(_, [], [2, []])]]); let g__: Goal<DU, DE> = ::proto_vulcan::GoalCast::cast_into(c__); let r__: InferredGoal<DU, DE, Goal<DU, DE>> = proto_vulcan!([g__.clone(), g__]); r__ }])
 }
 pub fn case_511(vars: &Vars) -> InferredGoal<DU, DE, Goal<DU, DE>> {
-    let q = vars.v[0].clone();
-    let x = vars.v[1].clone();
-    proto_vulcan!([conde { q == P3(3, q, q), [P3(3, [x, x], 1) == x, matche x { [_, [h, x, []]] => [|x| { h != ([_, q], _), ["a", x | [q, 2]] != h, member(x, [1, 2, 1]) }, q == ['a', x]], [[3, t, t], ['b', _ | _], [3 | _] | t] => , _ => { x == 7, x == 8 }, }] }])
+    let x = vars.v[0].clone();
+    proto_vulcan!([conde { [|tz| { tz == [1], [2 | tz] != [2, 1] }, matche [x] { [[y | _], 1] => true, P3(2, [_], 3) => , }] }, 2 == x, ([], [_]) != P3(1, [[], 3], [[]])])
 }
 pub fn case_512(vars: &Vars) -> InferredGoal<DU, DE, Goal<DU, DE>> {
-    let q = vars.v[0].clone();
-    let x = vars.v[1].clone();
-    proto_vulcan!([conde { q == P3(3, q, q), [P3(3, [x, x], 1) == x, matche x { [_, [h, x, []]] => [|x| { h != ([_, q], _), ["a", x | [q, 2]] != h, member(x, [1, 2, 1]) }, q == ['a', x]], [[3, fresh_name_9, fresh_name_9], ['b', _ | _], [3 | _] | fresh_name_9] => , _ => { x == 7, x == 8 }, }] }])
+    let x = vars.v[0].clone();
+    proto_vulcan!([conde { [|tz| { tz == [1], [2 | tz] != [2, 1] }, matche [x] { [[fresh_name_9 | _], 1] => true, P3(2, [_], 3) => , }] }, 2 == x, ([], [_]) != P3(1, [[], 3], [[]])])
 }
 pub fn case_513(vars: &Vars) -> InferredGoal<DU, DE, Goal<DU, DE>> {
-    let q = vars.v[0].clone();
-    let x = vars.v[1].clone();
-    proto_vulcan!([q == P3([[], []], 3, x), matche x { 2 | [h] => [_] == x, }, { let c__: InferredGoal<DU, DE, Goal<DU, DE>> = proto_vulcan_closure!(|yy| { conde { [x == [yy | _], yy == 1], [x == [_, yy | _], yy == 2] } }); let g__: Goal<DU, DE> = ::proto_vulcan::GoalCast::cast_into(c__); let r__: InferredGoal<DU, DE, Goal<DU, DE>> = proto_vulcan!([g__.clone(), g__]); r__ }])
+    let x = vars.v[0].clone();
+    proto_vulcan!([[_, [], 3 | ["a"]] != x, closure { conde { [conde { x == [x], [member(x, [1, 1]), true], [2, 1 | x] == x }, P3([2, _], [x], x) == x], match x { [[_ | 1]] => { x == [3, 2], x != x }, P3(1, [], x) => , ['b'] => [P3([], 3, []) == x, x == [[x, x | [x, x]]]], }, x == ['b' | x] } }])
 }
 pub fn case_514(vars: &Vars) -> InferredGoal<DU, DE, Goal<DU, DE>> {
-    let q = vars.v[0].clone();
-    let x = vars.v[1].clone();
-    proto_vulcan!([q == P3([[], []], 3, x), matche x { 2 | [h] => [_] == x, }, { let c__: InferredGoal<DU, DE, Goal<DU, DE>> = proto_vulcan_closure!(|fresh_name_9| { conde { [x == [fresh_name_9 | _], fresh_name_9 == 1], [x == [_, fresh_name_9 | _], fresh_name_9 == 2] } }); let g__: Goal<DU, DE> = ::proto_vulcan::GoalCast::cast_into(c__); let r__: InferredGoal<DU, DE, Goal<DU, DE>> = proto_vulcan!([g__.clone(), g__]); r__ }])
+    let x = vars.v[0].clone();
+    proto_vulcan!([[_, [], 3 | ["a"]] != x, closure { conde { [conde { x == [x], [member(x, [1, 1]), true], [2, 1 | x] == x }, P3([2, _], [x], x) == x], match x { [[_ | 1]] => { x == [3, 2], x != x }, P3(1, [], fresh_name_9) => , ['b'] => [P3([], 3, []) == x, x == [[x, x | [x, x]]]], }, x == ['b' | x] } }])
 }
 pub fn case_515(vars: &Vars) -> InferredGoal<DU, DE, Goal<DU, DE>> {
-    let q = vars.v[0].clone();
-    let x = vars.v[1].clone();
-    proto_vulcan!([|x, z| { "a" == x, [matche q { [[[], 1, 1 | t], []] => [append(q, q, []), |tz| { tz == [2, 3], [1, 2, 3] != [1 | tz] }], [[_, 3]] => , [[z, y, 1 | x], 2] | [[2], [3, y, z | [y, y]]] => member(q, []), }] }, |tz| { tz == [2, 2], [3, 2, 2] != [3 | tz] }, conde { true, |x, z| { [] == x, conde { [P3(3, 1, q) == q, true], q == [[x, q, x | x], [[], x], []], q == 1 } } }, { let c__: InferredGoal<DU, DE, Goal<DU, DE>> = proto_vulcan_closure!([|yy| { conde { [x == [yy | _], yy == 1], [x == [_, yy | _], yy == 2] } }, q == 3]); let g__: Goal<DU, DE> = ::proto_vulcan::GoalCast::cast_into(c__); let r__: InferredGoal<DU, DE, Goal<DU, DE>> = proto_vulcan!([g__.clone(), g__]); r__ }])
+    let x = vars.v[0].clone();
+    proto_vulcan!([P3(_, [], 2) == x, conde { [|y| { |h| { true, member(x, [3]), [x, 1, 2] == 1 } }, matche x { x => { |h| { P3(_, _, x) != x, x == [2, []], h == P3([x], 3, _) } }, }], [[match x { [h, x] => { ([3], [h, _]) == x }, }], ['a', [2, x], 1] == x] }, [x == x, [[2, x, []], [2], [3, x]] == x]])
 }
 pub fn case_516(vars: &Vars) -> InferredGoal<DU, DE, Goal<DU, DE>> {
-    let q = vars.v[0].clone();
-    let x = vars.v[1].clone();
-    proto_vulcan!([|x, z| { "a" == x, [matche q { [[[], 1, 1 | t], []] => [append(q, q, []), |tz| { tz == [2, 3], [1, 2, 3] != [1 | tz] }], [[_, 3]] => , [[z, y, 1 | x], 2] | [[2], [3, y, z | [y, y]]] => member(q, []), }] }, |tz| { tz == [2, 2], [3, 2, 2] != [3 | tz] }, conde { true, |fresh_name_9, z| { [] == fresh_name_9, conde { [P3(3, 1, q) == q, true], q == [[fresh_name_9, q, fresh_name_9 | fresh_name_9], [[], fresh_name_9], []], q == 1 } } }, { let c__: InferredGoal<DU, DE, Goal<DU, DE>> = proto_vulcan_closure!([|yy| { conde { [x == [yy | _], yy == 1], [x == [_, yy | _], yy == 2] } }, q == 3]); let g__: Goal<DU, DE> = ::proto_vulcan::GoalCast::cast_into(c__); let r__: InferredGoal<DU, DE, Goal<DU, DE>> = proto_vulcan!([g__.clone(), g__]); r__ }])
+    let x = vars.v[0].clone();
+    proto_vulcan!([P3(_, [], 2) == x, conde { [|y| { |h| { true, member(x, [3]), [x, 1, 2] == 1 } }, matche x { x => { |h| { P3(_, _, x) != x, x == [2, []], h == P3([x], 3, _) } }, }], [[match x { [h, fresh_name_9] => { ([3], [h, _]) == fresh_name_9 }, }], ['a', [2, x], 1] == x] }, [x == x, [[2, x, []], [2], [3, x]] == x]])
 }
 pub fn case_517(vars: &Vars) -> InferredGoal<DU, DE, Goal<DU, DE>> {
-    let q = vars.v[0].clone();
-    let x = vars.v[1].clone();
-    proto_vulcan!([[x == P3(q, x, 2), [2, [] | x] == q, conde { [[_, x, q], 2, x] == q, [|t, x| { [x, [] | x] != "bc", x == [2, false, 3] }, [x == x, x == [x, x, 1], [[], 2 | [1]] == q]] }], x == ([3], _), { let c__: InferredGoal<DU, DE, Goal<DU, DE>> = proto_vulcan_closure!(|yy| { conde { [q == [yy | _], yy == 1], [q == [_, yy | _], yy == 2] } }); let g__: Goal<DU, DE> = ::proto_vulcan::GoalCast::cast_into(c__); let r__: InferredGoal<DU, DE, Goal<DU, DE>> = proto_vulcan!([g__.clone(), g__]); r__ }])
+    let x = vars.v[0].clone();
+    let y = vars.v[1].clone();
+    proto_vulcan!([(1, x) == ([], _), matche [1, []] { [t, t, 2 | []] => { |y| { t == 1, |x, y| { [y, 'a'] == t, false, [y, 2, 1] == t } }, |t| { y != [2 | x], |x| { x != [[1, y, []], y, []], P3(_, [], t) == P3([_, y], [2, y], 3), t == 2 } } }, [h, x, [x] | _] | [[_, y, "bc" | _]] => , }])
 }
 pub fn case_518(vars: &Vars) -> InferredGoal<DU, DE, Goal<DU, DE>> {
-    let q = vars.v[0].clone();
-    let x = vars.v[1].clone();
-    proto_vulcan!([[x == P3(q, x, 2), [2, [] | x] == q, conde { [[_, x, q], 2, x] == q, [|t, fresh_name_9| { [fresh_name_9, [] | fresh_name_9] != "bc", fresh_name_9 == [2, false, 3] }, [x == x, x == [x, x, 1], [[], 2 | [1]] == q]] }], x == ([3], _), { let c__: InferredGoal<DU, DE, Goal<DU, DE>> = proto_vulcan_closure!(|yy| { conde { [q == [yy | _], yy == 1], [q == [_, yy | _], yy == 2] } }); let g__: Goal<DU, DE> = ::proto_vulcan::GoalCast::cast_into(c__); let r__: InferredGoal<DU, DE, Goal<DU, DE>> = proto_vulcan!([g__.clone(), g__]); r__ }])
+    let x = vars.v[0].clone();
+    let y = vars.v[1].clone();
+    proto_vulcan!([(1, x) == ([], _), matche [1, []] { [t, t, 2 | []] => { |fresh_name_9| { t == 1, |x, y| { [y, 'a'] == t, false, [y, 2, 1] == t } }, |t| { y != [2 | x], |x| { x != [[1, y, []], y, []], P3(_, [], t) == P3([_, y], [2, y], 3), t == 2 } } }, [h, x, [x] | _] | [[_, y, "bc" | _]] => , }])
 }
 pub fn case_519(vars: &Vars) -> InferredGoal<DU, DE, Goal<DU, DE>> {
-    let x = vars.v[0].clone();
-    proto_vulcan!([x == [x], matche x { [[t, x, x], [h], [z | 2]] => { [2, x, []] != z, z == z }, P3(2, [t, 1], 1) => { true }, [[_], [3, "bc", 2 | z]] => [z == x, x != P3(z, 3, 2)], }, match 3 { _ | h => { [x, 1] != x }, x | 1 => , [[1], [[], 2, 3], ["a", 2, t]] | [[1, x, _], [y, 2]] => , }, { let c__: InferredGoal<DU, DE, Goal<DU, DE>> = proto_vulcan_closure!([|yy| { conde { [x == [yy | _], yy == 1], [x == [_, yy | _], yy == 2] } }, conde { x == [1, 1, x | 2], [x == 1, [x | x] == x] }]); let g__: Goal<DU, DE> = ::proto_vulcan::GoalCast::cast_into(c__); let r__: InferredGoal<DU, DE, Goal<DU, DE>> = proto_vulcan!([g__.clone(), g__]); r__ }])
+    let q = vars.v[0].clone();
+    let x = vars.v[1].clone();
+    proto_vulcan!([conde { [x == [[_, x, 2], [x, _, q], [q, [] | 2] | 3], 2 == q], [[x != P3([], x, [])], [matche q { [[1 | [[], _]], [_, y, 2], h | h] | [[_, h, 2 | y], [[]] | _] => ([_, _], _) == q, x | [[x, x], y] => [[[], x | x] != x, [[2], [3, [], _], [x, true, x]] != x], }, conde { true, [], [q, q] == x }]], false }, conde { [|z, h| { |x, z| { [3] == z } }, match x { [2] => { conde { [append(q, q, [2]), false] }, matche 'a' { Named { a: 2, b: z } => [q == x, false], false => { [2, x] == q }, } }, t => { t == t }, [[z, x, _]] => , }], [match [] { [[2, _, [] | h], h, [_]] => { x == 1, conde { [h == [q | 3], x == [[]]], [[3] == h, false], false } }, Named { a: _, b: y } | true => x == [q, 3, [] | [q]], }, q == 2], [|t| { |x| { false, x == _, t == 2 }, _ == t, match t { _ => , _ => [q == 7, q == 8], _ => { t == 7, t == 8 }, } }, matche [q] { [[2], 1, [[], t | z]] | _ => , y => match x { z => { true }, t => , }, }] }, true])
 }
 pub fn case_520(vars: &Vars) -> InferredGoal<DU, DE, Goal<DU, DE>> {
-    let x = vars.v[0].clone();
-    proto_vulcan!([x == [x], matche x { [[t, x, x], [h], [z | 2]] => { [2, x, []] != z, z == z }, P3(2, [fresh_name_9, 1], 1) => { true }, [[_], [3, "bc", 2 | z]] => [z == x, x != P3(z, 3, 2)], }, match 3 { _ | h => { [x, 1] != x }, x | 1 => , [[1], [[], 2, 3], ["a", 2, t]] | [[1, x, _], [y, 2]] => , }, { let c__: InferredGoal<DU, DE, Goal<DU, DE>> = proto_vulcan_closure!([|yy| { conde { [x == [yy | _], yy == 1], [x == [_, yy | _], yy == 2] } }, conde { x == [1, 1, x | 2], [x == 1, [x | x] == x] }]); let g__: Goal<DU, DE> = ::proto_vulcan::GoalCast::cast_into(c__); let r__: InferredGoal<DU, DE, Goal<DU, DE>> = proto_vulcan!([g__.clone(), g__]); r__ }])
+    let q = vars.v[0].clone();
+    let x = vars.v[1].clone();
+    proto_vulcan!([conde { [x == [[_, x, 2], [x, _, q], [q, [] | 2] | 3], 2 == q], [[x != P3([], x, [])], [matche q { [[1 | [[], _]], [_, y, 2], h | h] | [[_, h, 2 | y], [[]] | _] => ([_, _], _) == q, x | [[x, x], y] => [[[], x | x] != x, [[2], [3, [], _], [x, true, x]] != x], }, conde { true, [], [q, q] == x }]], false }, conde { [|z, h| { |x, z| { [3] == z } }, match x { [2] => { conde { [append(q, q, [2]), false] }, matche 'a' { Named { a: 2, b: z } => [q == x, false], false => { [2, x] == q }, } }, t => { t == t }, [[z, fresh_name_9, _]] => , }], [match [] { [[2, _, [] | h], h, [_]] => { x == 1, conde { [h == [q | 3], x == [[]]], [[3] == h, false], false } }, Named { a: _, b: y } | true => x == [q, 3, [] | [q]], }, q == 2], [|t| { |x| { false, x == _, t == 2 }, _ == t, match t { _ => , _ => [q == 7, q == 8], _ => { t == 7, t == 8 }, } }, matche [q] { [[2], 1, [[], t | z]] | _ => , y => match x { z => { true }, t => , }, }] }, true])
 }
 pub fn case_521(vars: &Vars) -> InferredGoal<DU, DE, Goal<DU, DE>> {
-    let x = vars.v[0].clone();
-    let y = vars.v[1].clone();
-    proto_vulcan!([matche x { [[1]] | P3([y], z, z) => [[1, x] == x, (x, x) == x], }, |tz| { tz == [1, 2], [1, 1 | tz] != [1, 1, 1, 2] }, |y, h| { h == _, [[2, y | 'a'] != y] }])
+    let q = vars.v[0].clone();
+    let x = vars.v[1].clone();
+    proto_vulcan!([_ == ['a', _], false, { let c__: InferredGoal<DU, DE, Goal<DU, DE>> = proto_vulcan_closure!(|yy| { conde { [x == [yy | _], yy == 1], [x == [_, yy | _], yy == 2] } }); let g__: Goal<DU, DE> = ::proto_vulcan::GoalCast::cast_into(c__); let r__: InferredGoal<DU, DE, Goal<DU, DE>> = proto_vulcan!([g__.clone(), g__]); r__ }])
 }
 pub fn case_522(vars: &Vars) -> InferredGoal<DU, DE, Goal<DU, DE>> {
-    let x = vars.v[0].clone();
-    let y = vars.v[1].clone();
-    proto_vulcan!([matche x { [[1]] | P3([y], z, z) => [[1, x] == x, (x, x) == x], }, |fresh_name_9| { fresh_name_9 == [1, 2], [1, 1 | fresh_name_9] != [1, 1, 1, 2] }, |y, h| { h == _, [[2, y | 'a'] != y] }])
+    let q = vars.v[0].clone();
+    let x = vars.v[1].clone();
+    proto_vulcan!([_ == ['a', _], false, { let c__: InferredGoal<DU, DE, Goal<DU, DE>> = proto_vulcan_closure!(|fresh_name_9| { conde { [x == [fresh_name_9 | _], fresh_name_9 == 1], [x == [_, fresh_name_9 | _], fresh_name_9 == 2] } }); let g__: Goal<DU, DE> = ::proto_vulcan::GoalCast::cast_into(c__); let r__: InferredGoal<DU, DE, Goal<DU, DE>> = proto_vulcan!([g__.clone(), g__]); r__ }])
 }
 pub fn case_523(vars: &Vars) -> InferredGoal<DU, DE, Goal<DU, DE>> {
-    let x = vars.v[0].clone();
-    let y = vars.v[1].clone();
-    proto_vulcan!([conde { [], |x| { [[x, _] == y], conde { [[y, false, _ | [x]], x | y] == ["a", 2], 2 == P3([_, 3], 1, 3), member(x, [3]) }, [1, x | y] == [[y], 'b' | x] }, [|tz| { [1, 3 | tz] != [1, 3, 3, 3], tz == [3, 3] }, |h, x| { |y| { x != [_, 'a', []] }, true }] }, x == P3(_, y, [_]), |z| { 'b' != z, match y { [3, [1 | x]] | _ => { matche z { [[h], [x], 1] => , _ => { y == 7, y == 8 }, _ => [z == 7, z == 8], } }, } }])
+    let q = vars.v[0].clone();
+    let x = vars.v[1].clone();
+    proto_vulcan!([match q { _ => { member(x, [1, 2, 3]) }, h | [2] => conde { [|z, x| { false, false }, [q, q, q | _] == q], [|t, y| { true, false, [] == y }, x == x], |tz| { [3 | tz] != [3, 2], tz == [2] } }, Named { a: z, b: [] } => , }, conde { [x == x, x == ([1, _], q)], [append(q, x, []), ["bc" | q] == q], [|t| { |x, y| { true }, conde { [(x, [2]) != q, |tz| { [2, 1 | tz] != [2, 1, 3], tz == [3] }], [false, x == q] }, true }, x == P3([1, []], _, 2)] }, append(q, x, []), { let c__: InferredGoal<DU, DE, Goal<DU, DE>> = proto_vulcan_closure!(|yy| { conde { [q == [yy | _], yy == 1], [q == [_, yy | _], yy == 2] } }); let g__: Goal<DU, DE> = ::proto_vulcan::GoalCast::cast_into(c__); let r__: InferredGoal<DU, DE, Goal<DU, DE>> = proto_vulcan!([g__.clone(), g__]); r__ }])
 }
 pub fn case_524(vars: &Vars) -> InferredGoal<DU, DE, Goal<DU, DE>> {
-    let x = vars.v[0].clone();
-    let y = vars.v[1].clone();
-    proto_vulcan!([conde { [], |x| { [[x, _] == y], conde { [[y, false, _ | [x]], x | y] == ["a", 2], 2 == P3([_, 3], 1, 3), member(x, [3]) }, [1, x | y] == [[y], 'b' | x] }, [|tz| { [1, 3 | tz] != [1, 3, 3, 3], tz == [3, 3] }, |h, x| { |fresh_name_9| { x != [_, 'a', []] }, true }] }, x == P3(_, y, [_]), |z| { 'b' != z, match y { [3, [1 | x]] | _ => { matche z { [[h], [x], 1] => , _ => { y == 7, y == 8 }, _ => [z == 7, z == 8], } }, } }])
+    let q = vars.v[0].clone();
+    let x = vars.v[1].clone();
+    proto_vulcan!([match q { _ => { member(x, [1, 2, 3]) }, h | [2] => conde { [|z, x| { false, false }, [q, q, q | _] == q], [|t, y| { true, false, [] == y }, x == x], |tz| { [3 | tz] != [3, 2], tz == [2] } }, Named { a: z, b: [] } => , }, conde { [x == x, x == ([1, _], q)], [append(q, x, []), ["bc" | q] == q], [|fresh_name_9| { |x, y| { true }, conde { [(x, [2]) != q, |tz| { [2, 1 | tz] != [2, 1, 3], tz == [3] }], [false, x == q] }, true }, x == P3([1, []], _, 2)] }, append(q, x, []), { let c__: InferredGoal<DU, DE, Goal<DU, DE>> = proto_vulcan_closure!(|yy| { conde { [q == [yy | _], yy == 1], [q == [_, yy | _], yy == 2] } }); let g__: Goal<DU, DE> = ::proto_vulcan::GoalCast::cast_into(c__); let r__: InferredGoal<DU, DE, Goal<DU, DE>> = proto_vulcan!([g__.clone(), g__]); r__ }])
 }
 pub fn case_525(vars: &Vars) -> InferredGoal<DU, DE, Goal<DU, DE>> {
-    let q = vars.v[0].clone();
-    let x = vars.v[1].clone();
-    proto_vulcan!([x == (2, []), conde { [_ == x, |tz| { [1, 3 | tz] != [1, 3, 1, 1], tz == [1, 1] }], x == [x, x, []], [x == [[] | q], q == "a"] }])
+    let x = vars.v[0].clone();
+    let y = vars.v[1].clone();
+    proto_vulcan!([match y { _ => , Named { a: [1], b: [x, _] } => { |y| { [member(x, [2, 3, 1])], P3([x], [3, x], []) != y, [member(x, []), y == [x, false, y], append(x, x, [3, 3])] } }, }, { let c__: InferredGoal<DU, DE, Goal<DU, DE>> = proto_vulcan_closure!(|yy| { conde { [y == [yy | _], yy == 1], [y == [_, yy | _], yy == 2] } }); let g__: Goal<DU, DE> = ::proto_vulcan::GoalCast::cast_into(c__); let r__: InferredGoal<DU, DE, Goal<DU, DE>> = proto_vulcan!([g__.clone(), g__]); r__ }])
 }
 pub fn case_526(vars: &Vars) -> InferredGoal<DU, DE, Goal<DU, DE>> {
-    let q = vars.v[0].clone();
-    let x = vars.v[1].clone();
-    proto_vulcan!([x == (2, []), conde { [_ == x, |fresh_name_9| { [1, 3 | fresh_name_9] != [1, 3, 1, 1], fresh_name_9 == [1, 1] }], x == [x, x, []], [x == [[] | q], q == "a"] }])
+    let x = vars.v[0].clone();
+    let y = vars.v[1].clone();
+    proto_vulcan!([match y { _ => , Named { a: [1], b: [x, _] } => { |y| { [member(x, [2, 3, 1])], P3([x], [3, x], []) != y, [member(x, []), y == [x, false, y], append(x, x, [3, 3])] } }, }, { let c__: InferredGoal<DU, DE, Goal<DU, DE>> = proto_vulcan_closure!(|fresh_name_9| { conde { [y == [fresh_name_9 | _], fresh_name_9 == 1], [y == [_, fresh_name_9 | _], fresh_name_9 == 2] } }); let g__: Goal<DU, DE> = ::proto_vulcan::GoalCast::cast_into(c__); let r__: InferredGoal<DU, DE, Goal<DU, DE>> = proto_vulcan!([g__.clone(), g__]); r__ }])
 }
 pub fn case_527(vars: &Vars) -> InferredGoal<DU, DE, Goal<DU, DE>> {
     let x = vars.v[0].clone();
-    proto_vulcan!([member(x, []), match x { _ => { matche x { P3(x, [y, 1], h) => { (2, [3, []]) == h }, } }, [[h, 3], 2, [[], 2]] => append(x, h, [2]), }])
+    proto_vulcan!(['a' != x, |t| {  }, |t| { [x, []] == P3(_, [1, []], 3) }])
 }
 pub fn case_528(vars: &Vars) -> InferredGoal<DU, DE, Goal<DU, DE>> {
     let x = vars.v[0].clone();
-    proto_vulcan!([member(x, []), match x { _ => { matche x { P3(x, [y, 1], fresh_name_9) => { (2, [3, []]) == fresh_name_9 }, } }, [[h, 3], 2, [[], 2]] => append(x, h, [2]), }])
+    proto_vulcan!(['a' != x, |t| {  }, |fresh_name_9| { [x, []] == P3(_, [1, []], 3) }])
 }
 pub fn case_529(vars: &Vars) -> InferredGoal<DU, DE, Goal<DU, DE>> {
     let x = vars.v[0].clone();
     let y = vars.v[1].clone();
-    proto_vulcan!([[x, [3, y | x]] == [x, x], y == [2, [], y], y == [3], { let c__: InferredGoal<DU, DE, Goal<DU, DE>> = proto_vulcan_closure!(|yy| { conde { [y == [yy | _], yy == 1], [y == [_, yy | _], yy == 2] } }); let g__: Goal<DU, DE> = ::proto_vulcan::GoalCast::cast_into(c__); let r__: InferredGoal<DU, DE, Goal<DU, DE>> = proto_vulcan!([g__.clone(), g__]); r__ }])
+    proto_vulcan!([|tz| { tz == [1, 2], [1, 1, 2] != [1 | tz] }, |t, y| { conde { false, [conde { false, 1 == y }, matche x { [[2, true, 1], [x, t], 1] | _ => [y != 3, y == [[], _]], [y, [t]] => , _ => { x == 1, |tz| { tz == [2, 2], [2 | tz] != [2, 2, 2] } }, }] } }])
 }
 pub fn case_530(vars: &Vars) -> InferredGoal<DU, DE, Goal<DU, DE>> {
     let x = vars.v[0].clone();
     let y = vars.v[1].clone();
-    proto_vulcan!([[x, [3, y | x]] == [x, x], y == [2, [], y], y == [3], { let c__: InferredGoal<DU, DE, Goal<DU, DE>> = proto_vulcan_closure!(|fresh_name_9| { conde { [y == [fresh_name_9 | _], fresh_name_9 == 1], [y == [_, fresh_name_9 | _], fresh_name_9 == 2] } }); let g__: Goal<DU, DE> = ::proto_vulcan::GoalCast::cast_into(c__); let r__: InferredGoal<DU, DE, Goal<DU, DE>> = proto_vulcan!([g__.clone(), g__]); r__ }])
+    proto_vulcan!([|fresh_name_9| { fresh_name_9 == [1, 2], [1, 1, 2] != [1 | fresh_name_9] }, |t, y| { conde { false, [conde { false, 1 == y }, matche x { [[2, true, 1], [x, t], 1] | _ => [y != 3, y == [[], _]], [y, [t]] => , _ => { x == 1, |tz| { tz == [2, 2], [2 | tz] != [2, 2, 2] } }, }] } }])
 }
 pub fn case_531(vars: &Vars) -> InferredGoal<DU, DE, Goal<DU, DE>> {
-    let q = vars.v[0].clone();
-    let x = vars.v[1].clone();
-    proto_vulcan!([matche q { Named { a: [2], b: z } => |tz| { [2, 2, 1, 3] != [2, 2 | tz], tz == [1, 3] }, x => [[q] == x, append(x, x, [2])], }, closure { [q, [_, [], 1], 2] == [_, 2, 2] }])
+    let x = vars.v[0].clone();
+    proto_vulcan!([match x { P3([h], [[]], y) | Named { a: y, b: 2 } => , [["bc" | [_]]] | _ => { P3([[], x], [3, 2], x) == x }, }, conde { [[|x| { append(x, x, [3]), x == (1, [3]), x == x }, [_, x, 1] == x, match [x, _, x] { true | _ => |tz| { tz == [1, 3], [3, 1 | tz] != [3, 1, 1, 3] }, [t, [y, 1]] | _ => , }], |h| { match h { 1 => [|tz| { tz == [1, 1], [3, 3 | tz] != [3, 3, 1, 1] }, P3([_], 1, x) == h], }, |tz| { tz == [3], [2, 2 | tz] != [2, 2, 3] } }], 2 == x, [2, 2] == x }, [x, []] == x])
 }
 pub fn case_532(vars: &Vars) -> InferredGoal<DU, DE, Goal<DU, DE>> {
-    let q = vars.v[0].clone();
-    let x = vars.v[1].clone();
-    proto_vulcan!([matche q { Named { a: [2], b: z } => |tz| { [2, 2, 1, 3] != [2, 2 | tz], tz == [1, 3] }, fresh_name_9 => [[q] == fresh_name_9, append(fresh_name_9, fresh_name_9, [2])], }, closure { [q, [_, [], 1], 2] == [_, 2, 2] }])
+    let x = vars.v[0].clone();
+    proto_vulcan!([match x { P3([h], [[]], y) | Named { a: y, b: 2 } => , [["bc" | [_]]] | _ => { P3([[], x], [3, 2], x) == x }, }, conde { [[|x| { append(x, x, [3]), x == (1, [3]), x == x }, [_, x, 1] == x, match [x, _, x] { true | _ => |tz| { tz == [1, 3], [3, 1 | tz] != [3, 1, 1, 3] }, [t, [y, 1]] | _ => , }], |h| { match h { 1 => [|tz| { tz == [1, 1], [3, 3 | tz] != [3, 3, 1, 1] }, P3([_], 1, x) == h], }, |fresh_name_9| { fresh_name_9 == [3], [2, 2 | fresh_name_9] != [2, 2, 3] } }], 2 == x, [2, 2] == x }, [x, []] == x])
 }
 pub fn case_533(vars: &Vars) -> InferredGoal<DU, DE, Goal<DU, DE>> {
     let x = vars.v[0].clone();
     let y = vars.v[1].clone();
-    proto_vulcan!([y != x, |tz| { tz == [3], [1, 3, 3] != [1, 3 | tz] }])
+    proto_vulcan!([match x { [[_]] | _ => [[y == [[], [_, [] | y], x]]], }, match x { Named { a: 1, b: _ } | [1, _, h] => [|h| {  }, true != []], 3 => [y == [x, x, y], 1 == y], Named { a: 1, b: 3 } | [[false] | h] => , }, []])
 }
 pub fn case_534(vars: &Vars) -> InferredGoal<DU, DE, Goal<DU, DE>> {
     let x = vars.v[0].clone();
     let y = vars.v[1].clone();
-    proto_vulcan!([y != x, |fresh_name_9| { fresh_name_9 == [3], [1, 3, 3] != [1, 3 | fresh_name_9] }])
+    proto_vulcan!([match x { [[_]] | _ => [[y == [[], [_, [] | y], x]]], }, match x { Named { a: 1, b: _ } | [1, _, h] => [|fresh_name_9| {  }, true != []], 3 => [y == [x, x, y], 1 == y], Named { a: 1, b: 3 } | [[false] | h] => , }, []])
 }
 pub fn case_535(vars: &Vars) -> InferredGoal<DU, DE, Goal<DU, DE>> {
     let x = vars.v[0].clone();
-    let y = vars.v[1].clone();
-    proto_vulcan!([|h, t| { h == [2], [t != P3([3, 3], 2, 3), 1 == t, |y, t| { x != [[], 3 | [1]], x == [[3, y], [x] | t], [1, [], 'b' | t] == t }] }, x != [2, [1], _ | x], [[], false, 3] == y])
+    proto_vulcan!([2 == x, [], [x | x] == x, { let c__: InferredGoal<DU, DE, Goal<DU, DE>> = proto_vulcan_closure!(|yy| { conde { [x == [yy | _], yy == 1], [x == [_, yy | _], yy == 2] } }); let g__: Goal<DU, DE> = ::proto_vulcan::GoalCast::cast_into(c__); let r__: InferredGoal<DU, DE, Goal<DU, DE>> = proto_vulcan!([g__.clone(), g__]); r__ }])
 }
 pub fn case_536(vars: &Vars) -> InferredGoal<DU, DE, Goal<DU, DE>> {
     let x = vars.v[0].clone();
-    let y = vars.v[1].clone();
-    proto_vulcan!([|fresh_name_9, t| { fresh_name_9 == [2], [t != P3([3, 3], 2, 3), 1 == t, |y, t| { x != [[], 3 | [1]], x == [[3, y], [x] | t], [1, [], 'b' | t] == t }] }, x != [2, [1], _ | x], [[], false, 3] == y])
+    proto_vulcan!([2 == x, [], [x | x] == x, { let c__: InferredGoal<DU, DE, Goal<DU, DE>> = proto_vulcan_closure!(|fresh_name_9| { conde { [x == [fresh_name_9 | _], fresh_name_9 == 1], [x == [_, fresh_name_9 | _], fresh_name_9 == 2] } }); let g__: Goal<DU, DE> = ::proto_vulcan::GoalCast::cast_into(c__); let r__: InferredGoal<DU, DE, Goal<DU, DE>> = proto_vulcan!([g__.clone(), g__]); r__ }])
 }
 pub fn case_537(vars: &Vars) -> InferredGoal<DU, DE, Goal<DU, DE>> {
     let x = vars.v[0].clone();
-    let y = vars.v[1].clone();
-    proto_vulcan!([|tz| { tz == [1], [2, 3, 1] != [2, 3 | tz] }, conde { [], [y != y, |x| { P3(1, x, _) == [3, 1], [y, x] == y, |z, t| { [1, t] == [[y, 1], [t], [[], t, x | t]], t == [1, y] } }] }, x == [false, y]])
+    proto_vulcan!([([], 3) == x, |z| {  }, closure { conde { [|y| { x == [y, _, []], true }, conde { [1, false, 1 | x] == x, [x == x, true] }], [x == [x, 1 | 3], |tz| { tz == [2, 1], [1 | tz] != [1, 2, 1] }], false } }])
 }
 pub fn case_538(vars: &Vars) -> InferredGoal<DU, DE, Goal<DU, DE>> {
     let x = vars.v[0].clone();
-    let y = vars.v[1].clone();
-    proto_vulcan!([|tz| { tz == [1], [2, 3, 1] != [2, 3 | tz] }, conde { [], [y != y, |x| { P3(1, x, _) == [3, 1], [y, x] == y, |fresh_name_9, t| { [1, t] == [[y, 1], [t], [[], t, x | t]], t == [1, y] } }] }, x == [false, y]])
+    proto_vulcan!([([], 3) == x, |z| {  }, closure { conde { [|fresh_name_9| { x == [fresh_name_9, _, []], true }, conde { [1, false, 1 | x] == x, [x == x, true] }], [x == [x, 1 | 3], |tz| { tz == [2, 1], [1 | tz] != [1, 2, 1] }], false } }])
 }
 pub fn case_539(vars: &Vars) -> InferredGoal<DU, DE, Goal<DU, DE>> {
-    let q = vars.v[0].clone();
-    let x = vars.v[1].clone();
-    proto_vulcan!([[_, [], 3] != q, |h, y| { q == h, |x, h| { [x == 3, h == x] } }, (2, q) != [[[]]]])
+    let x = vars.v[0].clone();
+    let y = vars.v[1].clone();
+    proto_vulcan!([y != [3, [y]], |h, z| { [y, 'a', "a"] == y }, match y { [[[], 3], 'a', _] => { y == [3, y, y] }, }, closure { x != P3(1, x, x) }])
 }
 pub fn case_540(vars: &Vars) -> InferredGoal<DU, DE, Goal<DU, DE>> {
-    let q = vars.v[0].clone();
-    let x = vars.v[1].clone();
-    proto_vulcan!([[_, [], 3] != q, |h, fresh_name_9| { q == h, |x, h| { [x == 3, h == x] } }, (2, q) != [[[]]]])
+    let x = vars.v[0].clone();
+    let y = vars.v[1].clone();
+    proto_vulcan!([y != [3, [y]], |h, fresh_name_9| { [y, 'a', "a"] == y }, match y { [[[], 3], 'a', _] => { y == [3, y, y] }, }, closure { x != P3(1, x, x) }])
 }
 pub fn case_541(vars: &Vars) -> InferredGoal<DU, DE, Goal<DU, DE>> {
-    let x = vars.v[0].clone();
-    proto_vulcan!([match x { [[2, 1 | h] | _] => , }, [[], x, x | 'b'] != x, [[], matche x { _ | [[[], t, _], 3] => { append(x, x, []), match x { [[[], z, []]] => { x == z }, } }, }]])
+    let q = vars.v[0].clone();
+    let x = vars.v[1].clone();
+    proto_vulcan!([match x { [[], [x, y], []] => conde { y == [3 | q], [y == [x, _, y], conde { [member(x, []), append(y, x, [2])] }] }, }, |h| { conde { [h == h, |t| { q == [[t, []], [t, 1, 3], [[] | h]], append(t, h, []), q == (1, [h, 3]) }], conde { [], [[2 | _] == h, [_, 3] != q] } }, q != 2 }, |tz| { [3, 2, 3, 2] != [3, 2 | tz], tz == [3, 2] }])
 }
 pub fn case_542(vars: &Vars) -> InferredGoal<DU, DE, Goal<DU, DE>> {
-    let x = vars.v[0].clone();
-    proto_vulcan!([match x { [[2, 1 | fresh_name_9] | _] => , }, [[], x, x | 'b'] != x, [[], matche x { _ | [[[], t, _], 3] => { append(x, x, []), match x { [[[], z, []]] => { x == z }, } }, }]])
+    let q = vars.v[0].clone();
+    let x = vars.v[1].clone();
+    proto_vulcan!([match x { [[], [x, y], []] => conde { y == [3 | q], [y == [x, _, y], conde { [member(x, []), append(y, x, [2])] }] }, }, |fresh_name_9| { conde { [fresh_name_9 == fresh_name_9, |t| { q == [[t, []], [t, 1, 3], [[] | fresh_name_9]], append(t, fresh_name_9, []), q == (1, [fresh_name_9, 3]) }], conde { [], [[2 | _] == fresh_name_9, [_, 3] != q] } }, q != 2 }, |tz| { [3, 2, 3, 2] != [3, 2 | tz], tz == [3, 2] }])
 }
 pub fn case_543(vars: &Vars) -> InferredGoal<DU, DE, Goal<DU, DE>> {
     let q = vars.v[0].clone();
     let x = vars.v[1].clone();
-    proto_vulcan!([matche q { _ => { |z| { x == [1, x, q] } }, [['b'] | z] | [[[]], ["a", 2 | y]] => , P3([1, h], [], y) => , }, { let c__: InferredGoal<DU, DE, Goal<DU, DE>> = proto_vulcan_closure!(|yy| { conde { [q == [yy | _], yy == 1], [q == [_, yy | _], yy == 2] } }); let g__: Goal<DU, DE> = ::proto_vulcan::GoalCast::cast_into(c__); let r__: InferredGoal<DU, DE, Goal<DU, DE>> = proto_vulcan!([g__.clone(), g__]); r__ }])
+    proto_vulcan!([conde { [member(x, [1, 3, 1]), 2 == x], q == q }, match true { 2 | false => { x != [x, 2 | q], |x, t| { P3(x, 1, [3, x]) == 2, conde { member(t, [2]) } } }, }])
 }
 pub fn case_544(vars: &Vars) -> InferredGoal<DU, DE, Goal<DU, DE>> {
     let q = vars.v[0].clone();
     let x = vars.v[1].clone();
-    proto_vulcan!([matche q { _ => { |z| { x == [1, x, q] } }, [['b'] | z] | [[[]], ["a", 2 | y]] => , P3([1, fresh_name_9], [], y) => , }, { let c__: InferredGoal<DU, DE, Goal<DU, DE>> = proto_vulcan_closure!(|yy| { conde { [q == [yy | _], yy == 1], [q == [_, yy | _], yy == 2] } }); let g__: Goal<DU, DE> = ::proto_vulcan::GoalCast::cast_into(c__); let r__: InferredGoal<DU, DE, Goal<DU, DE>> = proto_vulcan!([g__.clone(), g__]); r__ }])
+    proto_vulcan!([conde { [member(x, [1, 3, 1]), 2 == x], q == q }, match true { 2 | false => { x != [x, 2 | q], |fresh_name_9, t| { P3(fresh_name_9, 1, [3, fresh_name_9]) == 2, conde { member(t, [2]) } } }, }])
 }
 pub fn case_545(vars: &Vars) -> InferredGoal<DU, DE, Goal<DU, DE>> {
     let x = vars.v[0].clone();
-    let y = vars.v[1].clone();
-    proto_vulcan!([['b', _] == x, |t| { match [t, y] { _ => member(y, [1, 2, 3]), }, x == [x, false, y], false == t }, true])
+    proto_vulcan!([conde { x != [1, x, x | x] }, { let c__: InferredGoal<DU, DE, Goal<DU, DE>> = proto_vulcan_closure!([|yy| { conde { [x == [yy | _], yy == 1], [x == [_, yy | _], yy == 2] } }, [x == x]]); let g__: Goal<DU, DE> = ::proto_vulcan::GoalCast::cast_into(c__); let r__: InferredGoal<DU, DE, Goal<DU, DE>> = proto_vulcan!([g__.clone(), g__]); r__ }])
 }
 pub fn case_546(vars: &Vars) -> InferredGoal<DU, DE, Goal<DU, DE>> {
     let x = vars.v[0].clone();
-    let y = vars.v[1].clone();
-    proto_vulcan!([['b', _] == x, |fresh_name_9| { match [fresh_name_9, y] { _ => member(y, [1, 2, 3]), }, x == [x, false, y], false == fresh_name_9 }, true])
+    proto_vulcan!([conde { x != [1, x, x | x] }, { let c__: InferredGoal<DU, DE, Goal<DU, DE>> = proto_vulcan_closure!([|fresh_name_9| { conde { [x == [fresh_name_9 | _], fresh_name_9 == 1], [x == [_, fresh_name_9 | _], fresh_name_9 == 2] } }, [x == x]]); let g__: Goal<DU, DE> = ::proto_vulcan::GoalCast::cast_into(c__); let r__: InferredGoal<DU, DE, Goal<DU, DE>> = proto_vulcan!([g__.clone(), g__]); r__ }])
 }
 pub fn case_547(vars: &Vars) -> InferredGoal<DU, DE, Goal<DU, DE>> {
     let x = vars.v[0].clone();
-    proto_vulcan!([false, P3(2, x, []) == x, closure { [[x == 3, x == [2], |y| { y != ([2, 1], 1), true, ([], [[]]) == y }], x == [[], true]] }])
+    let y = vars.v[1].clone();
+    proto_vulcan!([conde { true, [conde { [], [|t| { false != x }, P3(2, [y], x) == y] }, 3 == x] }, { let c__: InferredGoal<DU, DE, Goal<DU, DE>> = proto_vulcan_closure!([|yy| { conde { [x == [yy | _], yy == 1], [x == [_, yy | _], yy == 2] } }, x == [1, [], y]]); let g__: Goal<DU, DE> = ::proto_vulcan::GoalCast::cast_into(c__); let r__: InferredGoal<DU, DE, Goal<DU, DE>> = proto_vulcan!([g__.clone(), g__]); r__ }])
 }
 pub fn case_548(vars: &Vars) -> InferredGoal<DU, DE, Goal<DU, DE>> {
     let x = vars.v[0].clone();
-    proto_vulcan!([false, P3(2, x, []) == x, closure { [[x == 3, x == [2], |fresh_name_9| { fresh_name_9 != ([2, 1], 1), true, ([], [[]]) == fresh_name_9 }], x == [[], true]] }])
+    let y = vars.v[1].clone();
+    proto_vulcan!([conde { true, [conde { [], [|t| { false != x }, P3(2, [y], x) == y] }, 3 == x] }, { let c__: InferredGoal<DU, DE, Goal<DU, DE>> = proto_vulcan_closure!([|fresh_name_9| { conde { [x == [fresh_name_9 | _], fresh_name_9 == 1], [x == [_, fresh_name_9 | _], fresh_name_9 == 2] } }, x == [1, [], y]]); let g__: Goal<DU, DE> = ::proto_vulcan::GoalCast::cast_into(c__); let r__: InferredGoal<DU, DE, Goal<DU, DE>> = proto_vulcan!([g__.clone(), g__]); r__ }])
 }
 pub fn case_549(vars: &Vars) -> InferredGoal<DU, DE, Goal<DU, DE>> {
     let q = vars.v[0].clone();
     let x = vars.v[1].clone();
-    proto_vulcan!([conde { |x| { [q, _] == q, x != [x, []], conde { [false, x == q], [|tz| { tz == [2], [1, 2 | tz] != [1, 2, 2] }, [2, [], x | 'a'] == q] } }, [], x == 2 }, |y| { member(x, [2]) }, x == [[2, 2 | q], []]])
+    proto_vulcan!([match q { [[_, 2]] => { [matche q { 3 => [q == [[x, 3] | x], [x, x, 'b'] != q], [[y, _], y, [2, h] | y] => y != 1, [[z, h], 1 | _] => h == [], }, [member(q, [3, 3, 1])], [true, _] == q], [member(q, [2, 3])] }, }, { let c__: InferredGoal<DU, DE, Goal<DU, DE>> = proto_vulcan_closure!(|yy| { conde { [q == [yy | _], yy == 1], [q == [_, yy | _], yy == 2] } }); let g__: Goal<DU, DE> = ::proto_vulcan::GoalCast::cast_into(c__); let r__: InferredGoal<DU, DE, Goal<DU, DE>> = proto_vulcan!([g__.clone(), g__]); r__ }])
 }
 pub fn case_550(vars: &Vars) -> InferredGoal<DU, DE, Goal<DU, DE>> {
     let q = vars.v[0].clone();
     let x = vars.v[1].clone();
-    proto_vulcan!([conde { |x| { [q, _] == q, x != [x, []], conde { [false, x == q], [|fresh_name_9| { fresh_name_9 == [2], [1, 2 | fresh_name_9] != [1, 2, 2] }, [2, [], x | 'a'] == q] } }, [], x == 2 }, |y| { member(x, [2]) }, x == [[2, 2 | q], []]])
+    proto_vulcan!([match q { [[_, 2]] => { [matche q { 3 => [q == [[x, 3] | x], [x, x, 'b'] != q], [[y, _], y, [2, h] | y] => y != 1, [[fresh_name_9, h], 1 | _] => h == [], }, [member(q, [3, 3, 1])], [true, _] == q], [member(q, [2, 3])] }, }, { let c__: InferredGoal<DU, DE, Goal<DU, DE>> = proto_vulcan_closure!(|yy| { conde { [q == [yy | _], yy == 1], [q == [_, yy | _], yy == 2] } }); let g__: Goal<DU, DE> = ::proto_vulcan::GoalCast::cast_into(c__); let r__: InferredGoal<DU, DE, Goal<DU, DE>> = proto_vulcan!([g__.clone(), g__]); r__ }])
 }
 pub fn case_551(vars: &Vars) -> InferredGoal<DU, DE, Goal<DU, DE>> {
     let x = vars.v[0].clone();
-    proto_vulcan!([|tz| { tz == [3, 3], [3 | tz] != [3, 3, 3] }, [] == x])
+    proto_vulcan!([x != (x, [2, 3]), matche x { P3([[]], 3, y) | P3(z, 3, x) => , t => [t != [[2, x], [[], _, t], x], t == [1]], z => , }, conde { [matche [x] { 1 => { [x, 2] == x }, [[2, _ | y]] => , }, match x { [[z], [h, t], [y, 2 | 1]] | [true | z] => [z] == z, [[3]] => [conde { [false, x == P3([], _, [_])], [x != (3, [x, _]), ([], x) == x], [1 == x, x == P3(_, x, 1)] }, x == (3, 2)], }], [conde { conde { [[2, x] == x, [[]] == x], [x == [x, [] | x], member(x, [1, 3, 1])] }, 2 == ([[], _], _) }, [x, 3] == x] }, closure { [x == (x, x), conde { [1 != x, conde { x == 1, [[x, [x] | x] == x, |tz| { tz == [3], [2, 3] != [2 | tz] }] }], |h| { x != [x, h, h | x], [x] == h, false }, conde { true, [x == [1], (x, _) == x] } }] }])
 }
 pub fn case_552(vars: &Vars) -> InferredGoal<DU, DE, Goal<DU, DE>> {
     let x = vars.v[0].clone();
-    proto_vulcan!([|fresh_name_9| { fresh_name_9 == [3, 3], [3 | fresh_name_9] != [3, 3, 3] }, [] == x])
+    proto_vulcan!([x != (x, [2, 3]), matche x { P3([[]], 3, y) | P3(z, 3, x) => , t => [t != [[2, x], [[], _, t], x], t == [1]], z => , }, conde { [matche [x] { 1 => { [x, 2] == x }, [[2, _ | fresh_name_9]] => , }, match x { [[z], [h, t], [y, 2 | 1]] | [true | z] => [z] == z, [[3]] => [conde { [false, x == P3([], _, [_])], [x != (3, [x, _]), ([], x) == x], [1 == x, x == P3(_, x, 1)] }, x == (3, 2)], }], [conde { conde { [[2, x] == x, [[]] == x], [x == [x, [] | x], member(x, [1, 3, 1])] }, 2 == ([[], _], _) }, [x, 3] == x] }, closure { [x == (x, x), conde { [1 != x, conde { x == 1, [[x, [x] | x] == x, |tz| { tz == [3], [2, 3] != [2 | tz] }] }], |h| { x != [x, h, h | x], [x] == h, false }, conde { true, [x == [1], (x, _) == x] } }] }])
 }
 pub fn case_553(vars: &Vars) -> InferredGoal<DU, DE, Goal<DU, DE>> {
-    let x = vars.v[0].clone();
-    proto_vulcan!([[x | x] == x, |tz| { tz == [2], [3, 1 | tz] != [3, 1, 2] }, |x, z| { z == [x, _], append(z, z, [2, 1]) }, { let c__: InferredGoal<DU, DE, Goal<DU, DE>> = proto_vulcan_closure!(|yy| { conde { [x == [yy | _], yy == 1], [x == [_, yy | _], yy == 2] } }); let g__: Goal<DU, DE> = ::proto_vulcan::GoalCast::cast_into(c__); let r__: InferredGoal<DU, DE, Goal<DU, DE>> = proto_vulcan!([g__.clone(), g__]); r__ }])
+    let q = vars.v[0].clone();
+    let x = vars.v[1].clone();
+    proto_vulcan!([[|h| {  }], { let c__: InferredGoal<DU, DE, Goal<DU, DE>> = proto_vulcan_closure!([|yy| { conde { [x == [yy | _], yy == 1], [x == [_, yy | _], yy == 2] } }, member(x, [3, 1, 3])]); let g__: Goal<DU, DE> = ::proto_vulcan::GoalCast::cast_into(c__); let r__: InferredGoal<DU, DE, Goal<DU, DE>> = proto_vulcan!([g__.clone(), g__]); r__ }])
 }
 pub fn case_554(vars: &Vars) -> InferredGoal<DU, DE, Goal<DU, DE>> {
-    let x = vars.v[0].clone();
-    proto_vulcan!([[x | x] == x, |tz| { tz == [2], [3, 1 | tz] != [3, 1, 2] }, |x, fresh_name_9| { fresh_name_9 == [x, _], append(fresh_name_9, fresh_name_9, [2, 1]) }, { let c__: InferredGoal<DU, DE, Goal<DU, DE>> = proto_vulcan_closure!(|yy| { conde { [x == [yy | _], yy == 1], [x == [_, yy | _], yy == 2] } }); let g__: Goal<DU, DE> = ::proto_vulcan::GoalCast::cast_into(c__); let r__: InferredGoal<DU, DE, Goal<DU, DE>> = proto_vulcan!([g__.clone(), g__]); r__ }])
+    let q = vars.v[0].clone();
+    let x = vars.v[1].clone();
+    proto_vulcan!([[|h| {  }], { let c__: InferredGoal<DU, DE, Goal<DU, DE>> = proto_vulcan_closure!([|fresh_name_9| { conde { [x == [fresh_name_9 | _], fresh_name_9 == 1], [x == [_, fresh_name_9 | _], fresh_name_9 == 2] } }, member(x, [3, 1, 3])]); let g__: Goal<DU, DE> = ::proto_vulcan::GoalCast::cast_into(c__); let r__: InferredGoal<DU, DE, Goal<DU, DE>> = proto_vulcan!([g__.clone(), g__]); r__ }])
 }
 pub fn case_555(vars: &Vars) -> InferredGoal<DU, DE, Goal<DU, DE>> {
     let x = vars.v[0].clone();
-    let y = vars.v[1].clone();
-    proto_vulcan!([match [[], "bc" | x] { _ => { x == 7, x == 8 }, [[], 2, [x] | []] | [[h], [y, _, 2], "bc"] => , Named { a: [z], b: 3 } => matche z { [z, z] => , Named { a: 2, b: z } | [[1, 1, x], [t]] => { y != (3, [y]) }, }, }, [y, x | y] == x, x == x, { let c__: InferredGoal<DU, DE, Goal<DU, DE>> = proto_vulcan_closure!(|yy| { conde { [y == [yy | _], yy == 1], [y == [_, yy | _], yy == 2] } }); let g__: Goal<DU, DE> = ::proto_vulcan::GoalCast::cast_into(c__); let r__: InferredGoal<DU, DE, Goal<DU, DE>> = proto_vulcan!([g__.clone(), g__]); r__ }])
+    proto_vulcan!([|tz| { tz == [1], [1 | tz] != [1, 1] }, closure { [|x| { |tz| { [2, 3, 3] != [2 | tz], tz == [3, 3] }, member(x, []), conde { [member(x, [3]), [[x | x], [true, x, x], [x] | x] == x], [x == [2, []], |tz| { tz == [3, 3], [2, 3, 3, 3] != [2, 3 | tz] }], [x == [x, 3, x], [x] == x] } }, match 2 { Named { a: [3, y], b: [] } => { ([y], [x]) == y, |z, x| { [1 | [y]] != z, [[1, _, _]] == P3(y, [[], _], 2), (_, _) == y } }, [t, _, "a"] | _ => { match x { [[h, z | y], 1, [2]] | Named { a: [1], b: 3 } => , } }, }] }])
 }
 pub fn case_556(vars: &Vars) -> InferredGoal<DU, DE, Goal<DU, DE>> {
     let x = vars.v[0].clone();
-    let y = vars.v[1].clone();
-    proto_vulcan!([match [[], "bc" | x] { _ => { x == 7, x == 8 }, [[], 2, [x] | []] | [[h], [y, _, 2], "bc"] => , Named { a: [z], b: 3 } => matche z { [fresh_name_9, fresh_name_9] => , Named { a: 2, b: z } | [[1, 1, x], [t]] => { y != (3, [y]) }, }, }, [y, x | y] == x, x == x, { let c__: InferredGoal<DU, DE, Goal<DU, DE>> = proto_vulcan_closure!(|yy| { conde { [y == [yy | _], yy == 1], [y == [_, yy | _], yy == 2] } }); let g__: Goal<DU, DE> = ::proto_vulcan::GoalCast::cast_into(c__); let r__: InferredGoal<DU, DE, Goal<DU, DE>> = proto_vulcan!([g__.clone(), g__]); r__ }])
+    proto_vulcan!([|tz| { tz == [1], [1 | tz] != [1, 1] }, closure { [|x| { |fresh_name_9| { [2, 3, 3] != [2 | fresh_name_9], fresh_name_9 == [3, 3] }, member(x, []), conde { [member(x, [3]), [[x | x], [true, x, x], [x] | x] == x], [x == [2, []], |tz| { tz == [3, 3], [2, 3, 3, 3] != [2, 3 | tz] }], [x == [x, 3, x], [x] == x] } }, match 2 { Named { a: [3, y], b: [] } => { ([y], [x]) == y, |z, x| { [1 | [y]] != z, [[1, _, _]] == P3(y, [[], _], 2), (_, _) == y } }, [t, _, "a"] | _ => { match x { [[h, z | y], 1, [2]] | Named { a: [1], b: 3 } => , } }, }] }])
 }
 pub fn case_557(vars: &Vars) -> InferredGoal<DU, DE, Goal<DU, DE>> {
-    let x = vars.v[0].clone();
-    let y = vars.v[1].clone();
-    proto_vulcan!([[[y, x, 2]] == [[y] | y], x == [y], { let c__: InferredGoal<DU, DE, Goal<DU, DE>> = proto_vulcan_closure!(|yy| { conde { [y == [yy | _], yy == 1], [y == [_, yy | _], yy == 2] } }); let g__: Goal<DU, DE> = ::proto_vulcan::GoalCast::cast_into(c__); let r__: InferredGoal<DU, DE, Goal<DU, DE>> = proto_vulcan!([g__.clone(), g__]); r__ }])
+    let q = vars.v[0].clone();
+    let x = vars.v[1].clone();
+    proto_vulcan!([conde { q == ([[], 2], _), [[conde { q == 2, [[]] == q, [[q] == x, q == [3, [] | x]] }, match x { _ => { x == 7, x == 8 }, _ | y => , x | [[y]] => [q == q, [q] == q], }]] }, closure { [|t| { [t, 2 | 1] == x }, conde { [x] != q, [1] == x, [_ == q, x == [2, [_, q, 2 | q], [q, x]]] }] }])
 }
 pub fn case_558(vars: &Vars) -> InferredGoal<DU, DE, Goal<DU, DE>> {
-    let x = vars.v[0].clone();
-    let y = vars.v[1].clone();
-    proto_vulcan!([[[y, x, 2]] == [[y] | y], x == [y], { let c__: InferredGoal<DU, DE, Goal<DU, DE>> = proto_vulcan_closure!(|fresh_name_9| { conde { [y == [fresh_name_9 | _], fresh_name_9 == 1], [y == [_, fresh_name_9 | _], fresh_name_9 == 2] } }); let g__: Goal<DU, DE> = ::proto_vulcan::GoalCast::cast_into(c__); let r__: InferredGoal<DU, DE, Goal<DU, DE>> = proto_vulcan!([g__.clone(), g__]); r__ }])
+    let q = vars.v[0].clone();
+    let x = vars.v[1].clone();
+    proto_vulcan!([conde { q == ([[], 2], _), [[conde { q == 2, [[]] == q, [[q] == x, q == [3, [] | x]] }, match x { _ => { x == 7, x == 8 }, _ | y => , x | [[y]] => [q == q, [q] == q], }]] }, closure { [|fresh_name_9| { [fresh_name_9, 2 | 1] == x }, conde { [x] != q, [1] == x, [_ == q, x == [2, [_, q, 2 | q], [q, x]]] }] }])
 }
 pub fn case_559(vars: &Vars) -> InferredGoal<DU, DE, Goal<DU, DE>> {
-    let q = vars.v[0].clone();
-    let x = vars.v[1].clone();
-    proto_vulcan!([conde { match q { "bc" => , ['b', [], 1] => , }, [[matche x { P3(_, [_], 2) => [|tz| { [2, 2] != [2 | tz], tz == [2] }, 2 == x], P3([2, 1], 1, [[], 2]) => { q == x }, P3([1, []], _, 3) | P3(1, [1], x) => append(q, q, [1]), }, conde { [x == x, true] }, _ == q], match q { 'a' | _ => , P3(3, h, _) | _ => , }] }, [[x | 2], q] == P3([], q, [x, []]), { let c__: InferredGoal<DU, DE, Goal<DU, DE>> = proto_vulcan_closure!([|yy| { conde { [x == [yy | _], yy == 1], [x == [_, yy | _], yy == 2] } }, x == x]); let g__: Goal<DU, DE> = ::proto_vulcan::GoalCast::cast_into(c__); let r__: InferredGoal<DU, DE, Goal<DU, DE>> = proto_vulcan!([g__.clone(), g__]); r__ }])
+    let x = vars.v[0].clone();
+    let y = vars.v[1].clone();
+    proto_vulcan!([[matche x { "bc" | false => { append(x, y, [1, 1]), |x, y| { x == [3 | y], [y, [3, 1, y], [[], 1]] == (1, y) } }, }], conde { [[[[], y, y | [[], "bc"]] == y], x == x], y == ["a", 'a', 2], [(_, x) == x, [[], [_, []]] == y] }, closure { [[|y| {  }, (3, 2) != y]] }])
 }
 pub fn case_560(vars: &Vars) -> InferredGoal<DU, DE, Goal<DU, DE>> {
-    let q = vars.v[0].clone();
-    let x = vars.v[1].clone();
-    proto_vulcan!([conde { match q { "bc" => , ['b', [], 1] => , }, [[matche x { P3(_, [_], 2) => [|tz| { [2, 2] != [2 | tz], tz == [2] }, 2 == x], P3([2, 1], 1, [[], 2]) => { q == x }, P3([1, []], _, 3) | P3(1, [1], x) => append(q, q, [1]), }, conde { [x == x, true] }, _ == q], match q { 'a' | _ => , P3(3, h, _) | _ => , }] }, [[x | 2], q] == P3([], q, [x, []]), { let c__: InferredGoal<DU, DE, Goal<DU, DE>> = proto_vulcan_closure!([|fresh_name_9| { conde { [x == [fresh_name_9 | _], fresh_name_9 == 1], [x == [_, fresh_name_9 | _], fresh_name_9 == 2] } }, x == x]); let g__: Goal<DU, DE> = ::proto_vulcan::GoalCast::cast_into(c__); let r__: InferredGoal<DU, DE, Goal<DU, DE>> = proto_vulcan!([g__.clone(), g__]); r__ }])
+    let x = vars.v[0].clone();
+    let y = vars.v[1].clone();
+    proto_vulcan!([[matche x { "bc" | false => { append(x, y, [1, 1]), |x, fresh_name_9| { x == [3 | fresh_name_9], [fresh_name_9, [3, 1, fresh_name_9], [[], 1]] == (1, fresh_name_9) } }, }], conde { [[[[], y, y | [[], "bc"]] == y], x == x], y == ["a", 'a', 2], [(_, x) == x, [[], [_, []]] == y] }, closure { [[|y| {  }, (3, 2) != y]] }])
 }
 pub fn case_561(vars: &Vars) -> InferredGoal<DU, DE, Goal<DU, DE>> {
-    let q = vars.v[0].clone();
-    let x = vars.v[1].clone();
-    proto_vulcan!([|tz| { tz == [2, 2], [2, 3, 2, 2] != [2, 3 | tz] }, [match q { [1 | x] => [x != 3, ['b', 2, []] == 3], false => { [[2, x, x] == x] }, }, [] == (2, 1), |tz| { tz == [3, 1], [3, 3, 1] != [3 | tz] }], { let c__: InferredGoal<DU, DE, Goal<DU, DE>> = proto_vulcan_closure!(|yy| { conde { [x == [yy | _], yy == 1], [x == [_, yy | _], yy == 2] } }); let g__: Goal<DU, DE> = ::proto_vulcan::GoalCast::cast_into(c__); let r__: InferredGoal<DU, DE, Goal<DU, DE>> = proto_vulcan!([g__.clone(), g__]); r__ }])
+    let x = vars.v[0].clone();
+    proto_vulcan!([[3 | 2] != x, |tz| { tz == [3], [3, 2, 3] != [3, 2 | tz] }, P3([x], 1, 3) == x])
 }
 pub fn case_562(vars: &Vars) -> InferredGoal<DU, DE, Goal<DU, DE>> {
-    let q = vars.v[0].clone();
-    let x = vars.v[1].clone();
-    proto_vulcan!([|fresh_name_9| { fresh_name_9 == [2, 2], [2, 3, 2, 2] != [2, 3 | fresh_name_9] }, [match q { [1 | x] => [x != 3, ['b', 2, []] == 3], false => { [[2, x, x] == x] }, }, [] == (2, 1), |tz| { tz == [3, 1], [3, 3, 1] != [3 | tz] }], { let c__: InferredGoal<DU, DE, Goal<DU, DE>> = proto_vulcan_closure!(|yy| { conde { [x == [yy | _], yy == 1], [x == [_, yy | _], yy == 2] } }); let g__: Goal<DU, DE> = ::proto_vulcan::GoalCast::cast_into(c__); let r__: InferredGoal<DU, DE, Goal<DU, DE>> = proto_vulcan!([g__.clone(), g__]); r__ }])
+    let x = vars.v[0].clone();
+    proto_vulcan!([[3 | 2] != x, |fresh_name_9| { fresh_name_9 == [3], [3, 2, 3] != [3, 2 | fresh_name_9] }, P3([x], 1, 3) == x])
 }
 pub fn case_563(vars: &Vars) -> InferredGoal<DU, DE, Goal<DU, DE>> {
     let x = vars.v[0].clone();
     let y = vars.v[1].clone();
-    proto_vulcan!([|z| { conde { |z, t| { [[[]]] == z, [[z, 2], 3] == t, [[z, _, y], [x, 3, 1 | z]] == [["a", t | []], [], [y, x | z]] }, [P3(z, [], [z, 3]) != y, conde { append(z, y, [2]), y == [3, 2] }] } }])
+    proto_vulcan!([|t| { y == y, |z, y| { |y| { y != [2, _] }, |h| { |tz| { tz == [3, 2], [3 | tz] != [3, 3, 2] }, y == [z, h | _], P3([], y, [3, _]) == x }, y == y }, ([x, []], [[]]) == y }, { let c__: InferredGoal<DU, DE, Goal<DU, DE>> = proto_vulcan_closure!(|yy| { conde { [y == [yy | _], yy == 1], [y == [_, yy | _], yy == 2] } }); let g__: Goal<DU, DE> = ::proto_vulcan::GoalCast::cast_into(c__); let r__: InferredGoal<DU, DE, Goal<DU, DE>> = proto_vulcan!([g__.clone(), g__]); r__ }])
 }
 pub fn case_564(vars: &Vars) -> InferredGoal<DU, DE, Goal<DU, DE>> {
     let x = vars.v[0].clone();
     let y = vars.v[1].clone();
-    proto_vulcan!([|fresh_name_9| { conde { |z, t| { [[[]]] == z, [[z, 2], 3] == t, [[z, _, y], [x, 3, 1 | z]] == [["a", t | []], [], [y, x | z]] }, [P3(fresh_name_9, [], [fresh_name_9, 3]) != y, conde { append(fresh_name_9, y, [2]), y == [3, 2] }] } }])
+    proto_vulcan!([|t| { y == y, |fresh_name_9, y| { |y| { y != [2, _] }, |h| { |tz| { tz == [3, 2], [3 | tz] != [3, 3, 2] }, y == [fresh_name_9, h | _], P3([], y, [3, _]) == x }, y == y }, ([x, []], [[]]) == y }, { let c__: InferredGoal<DU, DE, Goal<DU, DE>> = proto_vulcan_closure!(|yy| { conde { [y == [yy | _], yy == 1], [y == [_, yy | _], yy == 2] } }); let g__: Goal<DU, DE> = ::proto_vulcan::GoalCast::cast_into(c__); let r__: InferredGoal<DU, DE, Goal<DU, DE>> = proto_vulcan!([g__.clone(), g__]); r__ }])
 }
 pub fn case_565(vars: &Vars) -> InferredGoal<DU, DE, Goal<DU, DE>> {
     let x = vars.v[0].clone();
-    proto_vulcan!([conde { [x == x, []], |t, y| { [x, 1, x] != t }, P3(_, 1, 3) == x }])
+    proto_vulcan!([x == x, x == (x, _), x == x, closure { [conde { [append(x, x, [1, 2]), _ != ['b', _ | x]], [[2] != ([_], x), member(x, [1, 3, 1])], [[], match 1 { _ | [['a', [], 3] | 1] => , }] }, matche x { _ => { x == false, matche [] { [[_, 3], [1, t, 2], [y, x, h]] => { h == ([t, _], 2) }, } }, }] }])
 }
 pub fn case_566(vars: &Vars) -> InferredGoal<DU, DE, Goal<DU, DE>> {
     let x = vars.v[0].clone();
-    proto_vulcan!([conde { [x == x, []], |t, fresh_name_9| { [x, 1, x] != t }, P3(_, 1, 3) == x }])
+    proto_vulcan!([x == x, x == (x, _), x == x, closure { [conde { [append(x, x, [1, 2]), _ != ['b', _ | x]], [[2] != ([_], x), member(x, [1, 3, 1])], [[], match 1 { _ | [['a', [], 3] | 1] => , }] }, matche x { _ => { x == false, matche [] { [[_, 3], [1, t, 2], [fresh_name_9, x, h]] => { h == ([t, _], 2) }, } }, }] }])
 }
 pub fn case_567(vars: &Vars) -> InferredGoal<DU, DE, Goal<DU, DE>> {
-    let q = vars.v[0].clone();
-    let x = vars.v[1].clone();
-    proto_vulcan!([[|tz| { [2 | tz] != [2, 2, 3], tz == [2, 3] }], conde { [], [[false, q == 1]] }])
+    let x = vars.v[0].clone();
+    let y = vars.v[1].clone();
+    proto_vulcan!([x == x, |z| { [[z, _], [2], []] == y }, |h, t| { y == [h | y], [[[]], _, [x, _] | t] == [[[], true, 2 | y], [h | y]] }])
 }
 pub fn case_568(vars: &Vars) -> InferredGoal<DU, DE, Goal<DU, DE>> {
-    let q = vars.v[0].clone();
-    let x = vars.v[1].clone();
-    proto_vulcan!([[|fresh_name_9| { [2 | fresh_name_9] != [2, 2, 3], fresh_name_9 == [2, 3] }], conde { [], [[false, q == 1]] }])
+    let x = vars.v[0].clone();
+    let y = vars.v[1].clone();
+    proto_vulcan!([x == x, |z| { [[z, _], [2], []] == y }, |h, fresh_name_9| { y == [h | y], [[[]], _, [x, _] | fresh_name_9] == [[[], true, 2 | y], [h | y]] }])
 }
 pub fn case_569(vars: &Vars) -> InferredGoal<DU, DE, Goal<DU, DE>> {
     let q = vars.v[0].clone();
     let x = vars.v[1].clone();
-    proto_vulcan!([|x| { |z, y| { q == ['a', x], [] == x, |x, t| { |tz| { tz == [3, 3], [2, 3, 3, 3] != [2, 3 | tz] }, member(t, [2, 1]), z == ([], []) } }, [[], x | 2] == q, true }, |tz| { tz == [3], [2, 3] != [2 | tz] }])
+    proto_vulcan!([q == x, |tz| { [3 | tz] != [3, 2], tz == [2] }, { let c__: InferredGoal<DU, DE, Goal<DU, DE>> = proto_vulcan_closure!(|yy| { conde { [x == [yy | _], yy == 1], [x == [_, yy | _], yy == 2] } }); let g__: Goal<DU, DE> = ::proto_vulcan::GoalCast::cast_into(c__); let r__: InferredGoal<DU, DE, Goal<DU, DE>> = proto_vulcan!([g__.clone(), g__]); r__ }])
 }
 pub fn case_570(vars: &Vars) -> InferredGoal<DU, DE, Goal<DU, DE>> {
     let q = vars.v[0].clone();
     let x = vars.v[1].clone();
-    proto_vulcan!([|fresh_name_9| { |z, y| { q == ['a', fresh_name_9], [] == fresh_name_9, |x, t| { |tz| { tz == [3, 3], [2, 3, 3, 3] != [2, 3 | tz] }, member(t, [2, 1]), z == ([], []) } }, [[], fresh_name_9 | 2] == q, true }, |tz| { tz == [3], [2, 3] != [2 | tz] }])
+    proto_vulcan!([q == x, |tz| { [3 | tz] != [3, 2], tz == [2] }, { let c__: InferredGoal<DU, DE, Goal<DU, DE>> = proto_vulcan_closure!(|fresh_name_9| { conde { [x == [fresh_name_9 | _], fresh_name_9 == 1], [x == [_, fresh_name_9 | _], fresh_name_9 == 2] } }); let g__: Goal<DU, DE> = ::proto_vulcan::GoalCast::cast_into(c__); let r__: InferredGoal<DU, DE, Goal<DU, DE>> = proto_vulcan!([g__.clone(), g__]); r__ }])
 }
 pub fn case_571(vars: &Vars) -> InferredGoal<DU, DE, Goal<DU, DE>> {
-    let x = vars.v[0].clone();
-    proto_vulcan!([[x, _] == x, |t, h| { |t, z| { |z| { append(x, z, [1, 3]) }, |z| { t == [1, true, 2], z != z, |tz| { [3, 3, 1] != [3 | tz], tz == [3, 1] } }, [t] != x }, matche t { _ => , _ => { member(t, [1, 2, 3]) }, [_, [_ | t], [t]] => [3 == h, |h| { t == [false, x] }], } }, ["a", _ | x] != x])
+    let q = vars.v[0].clone();
+    let x = vars.v[1].clone();
+    proto_vulcan!([x == "bc", |tz| { tz == [3], [2, 1, 3] != [2, 1 | tz] }, closure { [match x { t => [q == (q, []), [|tz| { [1, 2, 1] != [1, 2 | tz], tz == [1] }, t == [_]]], _ => [match x { [[x, 1 | h], 3, y | y] => append(y, x, [3, 3]), [] => [append(q, x, []), append(q, x, [3])], }, |h, x| { q == [[_]], [[] | x] == x }], Named { a: [], b: z } | [z, [false, h | false], [] | _] => , }, x == "a"] }])
 }
 pub fn case_572(vars: &Vars) -> InferredGoal<DU, DE, Goal<DU, DE>> {
-    let x = vars.v[0].clone();
-    proto_vulcan!([[x, _] == x, |fresh_name_9, h| { |t, z| { |z| { append(x, z, [1, 3]) }, |z| { t == [1, true, 2], z != z, |tz| { [3, 3, 1] != [3 | tz], tz == [3, 1] } }, [t] != x }, matche fresh_name_9 { _ => , _ => { member(fresh_name_9, [1, 2, 3]) }, [_, [_ | t], [t]] => [3 == h, |h| { t == [false, x] }], } }, ["a", _ | x] != x])
+    let q = vars.v[0].clone();
+    let x = vars.v[1].clone();
+    proto_vulcan!([x == "bc", |fresh_name_9| { fresh_name_9 == [3], [2, 1, 3] != [2, 1 | fresh_name_9] }, closure { [match x { t => [q == (q, []), [|tz| { [1, 2, 1] != [1, 2 | tz], tz == [1] }, t == [_]]], _ => [match x { [[x, 1 | h], 3, y | y] => append(y, x, [3, 3]), [] => [append(q, x, []), append(q, x, [3])], }, |h, x| { q == [[_]], [[] | x] == x }], Named { a: [], b: z } | [z, [false, h | false], [] | _] => , }, x == "a"] }])
 }
 pub fn case_573(vars: &Vars) -> InferredGoal<DU, DE, Goal<DU, DE>> {
     let x = vars.v[0].clone();
-    let y = vars.v[1].clone();
-    proto_vulcan!([y == _, conde { [], x == [[y], [1] | y], [[false], match x { Named { a: [z], b: 2 } => |y, h| { ([], [h, 2]) == y, member(x, []) }, }] }, { let c__: InferredGoal<DU, DE, Goal<DU, DE>> = proto_vulcan_closure!([|yy| { conde { [y == [yy | _], yy == 1], [y == [_, yy | _], yy == 2] } }, conde { y == [1, _ | y], append(x, x, [1]) }]); let g__: Goal<DU, DE> = ::proto_vulcan::GoalCast::cast_into(c__); let r__: InferredGoal<DU, DE, Goal<DU, DE>> = proto_vulcan!([g__.clone(), g__]); r__ }])
+    proto_vulcan!([false, closure { [match x { "a" => { |t| { x != [3, 1], t == [_, 2, t | x] }, conde { [], member(x, [3, 2]) } }, [[], _ | _] => , y => { conde { [member(x, [3]), [2, 2] == y], [[x, true | y] == y, x == P3([], x, 1)] }, P3([], [3, y], y) != x }, }, match x { [[y, [], x], [3, h, [] | [2]] | []] | y => [|z| { |tz| { tz == [3, 3], [2 | tz] != [2, 3, 3] }, z == P3(y, [], [1]), z == P3(3, z, [3, 3]) }, |tz| { tz == [2], [1, 2 | tz] != [1, 2, 2] }], [["a", 2]] => , }] }])
 }
 pub fn case_574(vars: &Vars) -> InferredGoal<DU, DE, Goal<DU, DE>> {
     let x = vars.v[0].clone();
-    let y = vars.v[1].clone();
-    proto_vulcan!([y == _, conde { [], x == [[y], [1] | y], [[false], match x { Named { a: [fresh_name_9], b: 2 } => |y, h| { ([], [h, 2]) == y, member(x, []) }, }] }, { let c__: InferredGoal<DU, DE, Goal<DU, DE>> = proto_vulcan_closure!([|yy| { conde { [y == [yy | _], yy == 1], [y == [_, yy | _], yy == 2] } }, conde { y == [1, _ | y], append(x, x, [1]) }]); let g__: Goal<DU, DE> = ::proto_vulcan::GoalCast::cast_into(c__); let r__: InferredGoal<DU, DE, Goal<DU, DE>> = proto_vulcan!([g__.clone(), g__]); r__ }])
+    proto_vulcan!([false, closure { [match x { "a" => { |t| { x != [3, 1], t == [_, 2, t | x] }, conde { [], member(x, [3, 2]) } }, [[], _ | _] => , fresh_name_9 => { conde { [member(x, [3]), [2, 2] == fresh_name_9], [[x, true | fresh_name_9] == fresh_name_9, x == P3([], x, 1)] }, P3([], [3, fresh_name_9], fresh_name_9) != x }, }, match x { [[y, [], x], [3, h, [] | [2]] | []] | y => [|z| { |tz| { tz == [3, 3], [2 | tz] != [2, 3, 3] }, z == P3(y, [], [1]), z == P3(3, z, [3, 3]) }, |tz| { tz == [2], [1, 2 | tz] != [1, 2, 2] }], [["a", 2]] => , }] }])
 }
 pub fn case_575(vars: &Vars) -> InferredGoal<DU, DE, Goal<DU, DE>> {
-    let x = vars.v[0].clone();
-    proto_vulcan!([x != [2], [], closure { |x, h| { |z| { 3 == h, h == [2], x != (_, 2) }, P3(2, [3, 1], []) == h, x != [_ | x] } }])
+    let q = vars.v[0].clone();
+    let x = vars.v[1].clone();
+    proto_vulcan!([append(x, x, []), |tz| { tz == [2, 1], [2, 3 | tz] != [2, 3, 2, 1] }])
 }
 pub fn case_576(vars: &Vars) -> InferredGoal<DU, DE, Goal<DU, DE>> {
-    let x = vars.v[0].clone();
-    proto_vulcan!([x != [2], [], closure { |x, fresh_name_9| { |z| { 3 == fresh_name_9, fresh_name_9 == [2], x != (_, 2) }, P3(2, [3, 1], []) == fresh_name_9, x != [_ | x] } }])
+    let q = vars.v[0].clone();
+    let x = vars.v[1].clone();
+    proto_vulcan!([append(x, x, []), |fresh_name_9| { fresh_name_9 == [2, 1], [2, 3 | fresh_name_9] != [2, 3, 2, 1] }])
 }
 pub fn case_577(vars: &Vars) -> InferredGoal<DU, DE, Goal<DU, DE>> {
-    let q = vars.v[0].clone();
-    let x = vars.v[1].clone();
-    proto_vulcan!([conde { [x, [x], 1] == [1, [x | x]], q != [q], [[]] }, { let c__: InferredGoal<DU, DE, Goal<DU, DE>> = proto_vulcan_closure!(|yy| { conde { [q == [yy | _], yy == 1], [q == [_, yy | _], yy == 2] } }); let g__: Goal<DU, DE> = ::proto_vulcan::GoalCast::cast_into(c__); let r__: InferredGoal<DU, DE, Goal<DU, DE>> = proto_vulcan!([g__.clone(), g__]); r__ }])
+    let x = vars.v[0].clone();
+    let y = vars.v[1].clone();
+    proto_vulcan!([x == [y], |t| { conde { [[x, t] == t, |h, t| { t != [x, x | []], member(t, []) }] } }])
 }
 pub fn case_578(vars: &Vars) -> InferredGoal<DU, DE, Goal<DU, DE>> {
-    let q = vars.v[0].clone();
-    let x = vars.v[1].clone();
-    proto_vulcan!([conde { [x, [x], 1] == [1, [x | x]], q != [q], [[]] }, { let c__: InferredGoal<DU, DE, Goal<DU, DE>> = proto_vulcan_closure!(|fresh_name_9| { conde { [q == [fresh_name_9 | _], fresh_name_9 == 1], [q == [_, fresh_name_9 | _], fresh_name_9 == 2] } }); let g__: Goal<DU, DE> = ::proto_vulcan::GoalCast::cast_into(c__); let r__: InferredGoal<DU, DE, Goal<DU, DE>> = proto_vulcan!([g__.clone(), g__]); r__ }])
+    let x = vars.v[0].clone();
+    let y = vars.v[1].clone();
+    proto_vulcan!([x == [y], |t| { conde { [[x, t] == t, |fresh_name_9, t| { t != [x, x | []], member(t, []) }] } }])
 }
 pub fn case_579(vars: &Vars) -> InferredGoal<DU, DE, Goal<DU, DE>> {
     let x = vars.v[0].clone();
     let y = vars.v[1].clone();
-    proto_vulcan!([false, matche y { [[h], [_ | 2], [t]] | P3(1, _, []) => , [] => , [2, [1, 2, h]] => , }])
+    proto_vulcan!([matche x { t => { match y { _ | _ => { member(x, [1, 2, 3]) }, y => { y == ['a' | 2] }, [[], [] | _] => { t != [[] | y] }, } }, _ => { x == 7, x == 8 }, [[y, 3]] => [append(y, y, []), append(y, y, [])], }])
 }
 pub fn case_580(vars: &Vars) -> InferredGoal<DU, DE, Goal<DU, DE>> {
     let x = vars.v[0].clone();
     let y = vars.v[1].clone();
-    proto_vulcan!([false, matche y { [[h], [_ | 2], [t]] | P3(1, _, []) => , [] => , [2, [1, 2, fresh_name_9]] => , }])
+    proto_vulcan!([matche x { fresh_name_9 => { match y { _ | _ => { member(x, [1, 2, 3]) }, y => { y == ['a' | 2] }, [[], [] | _] => { fresh_name_9 != [[] | y] }, } }, _ => { x == 7, x == 8 }, [[y, 3]] => [append(y, y, []), append(y, y, [])], }])
 }
 pub fn case_581(vars: &Vars) -> InferredGoal<DU, DE, Goal<DU, DE>> {
-    let q = vars.v[0].clone();
-    let x = vars.v[1].clone();
-    proto_vulcan!([|y| { x == x, [x, 2, q | x] != y, [y != ([[], y], _)] }, |x| { |y| { x != y, match x { _ | [2] => , } }, "bc" == q, conde { [conde { [[x, x] != q, q != x], [], x != [3] }, x == P3([q], 1, x)], [|tz| { tz == [3, 3], [1, 1, 3, 3] != [1, 1 | tz] }, |h, x| { member(q, [3, 2]), x == [[2, x]], 3 == h }] } }, member(x, []), { let c__: InferredGoal<DU, DE, Goal<DU, DE>> = proto_vulcan_closure!([|yy| { conde { [x == [yy | _], yy == 1], [x == [_, yy | _], yy == 2] } }, [[x, 2, 2], [_, _ | x]] == ([], 2)]); let g__: Goal<DU, DE> = ::proto_vulcan::GoalCast::cast_into(c__); let r__: InferredGoal<DU, DE, Goal<DU, DE>> = proto_vulcan!([g__.clone(), g__]); r__ }])
+    let x = vars.v[0].clone();
+    proto_vulcan!([[1 != x, match x { [2] => , }], |y, h| { member(x, []) }, 1 != x, { let c__: InferredGoal<DU, DE, Goal<DU, DE>> = proto_vulcan_closure!([|yy| { conde { [x == [yy | _], yy == 1], [x == [_, yy | _], yy == 2] } }, |t| { P3([1, 3], [3], []) != t, x == x, |tz| { tz == [2], [1 | tz] != [1, 2] } }]); let g__: Goal<DU, DE> = ::proto_vulcan::GoalCast::cast_into(c__); let r__: InferredGoal<DU, DE, Goal<DU, DE>> = proto_vulcan!([g__.clone(), g__]); r__ }])
 }
 pub fn case_582(vars: &Vars) -> InferredGoal<DU, DE, Goal<DU, DE>> {
-    let q = vars.v[0].clone();
-    let x = vars.v[1].clone();
-    proto_vulcan!([|y| { x == x, [x, 2, q | x] != y, [y != ([[], y], _)] }, |x| { |y| { x != y, match x { _ | [2] => , } }, "bc" == q, conde { [conde { [[x, x] != q, q != x], [], x != [3] }, x == P3([q], 1, x)], [|tz| { tz == [3, 3], [1, 1, 3, 3] != [1, 1 | tz] }, |h, fresh_name_9| { member(q, [3, 2]), fresh_name_9 == [[2, fresh_name_9]], 3 == h }] } }, member(x, []), { let c__: InferredGoal<DU, DE, Goal<DU, DE>> = proto_vulcan_closure!([|yy| { conde { [x == [yy | _], yy == 1], [x == [_, yy | _], yy == 2] } }, [[x, 2, 2], [_, _ | x]] == ([], 2)]); let g__: Goal<DU, DE> = ::proto_vulcan::GoalCast::cast_into(c__); let r__: InferredGoal<DU, DE, Goal<DU, DE>> = proto_vulcan!([g__.clone(), g__]); r__ }])
+    let x = vars.v[0].clone();
+    proto_vulcan!([[1 != x, match x { [2] => , }], |y, fresh_name_9| { member(x, []) }, 1 != x, { let c__: InferredGoal<DU, DE, Goal<DU, DE>> = proto_vulcan_closure!([|yy| { conde { [x == [yy | _], yy == 1], [x == [_, yy | _], yy == 2] } }, |t| { P3([1, 3], [3], []) != t, x == x, |tz| { tz == [2], [1 | tz] != [1, 2] } }]); let g__: Goal<DU, DE> = ::proto_vulcan::GoalCast::cast_into(c__); let r__: InferredGoal<DU, DE, Goal<DU, DE>> = proto_vulcan!([g__.clone(), g__]); r__ }])
 }
 pub fn case_583(vars: &Vars) -> InferredGoal<DU, DE, Goal<DU, DE>> {
     let x = vars.v[0].clone();
-    proto_vulcan!([|y| { false, matche x { 'b' => , _ => match y { [[y, 3, _], 2] => { 3 == y, member(y, []) }, z => [[2, 1], [y]] != x, }, } }, x == [x | x], (x, x) == x])
+    let y = vars.v[1].clone();
+    proto_vulcan!([match y { z | _ => { _ != [[2, 1], [2, 1 | y], [y, _, 3 | x]], matche x { ['b'] => ([1, x], 2) == x, [[x, 3], [y, 'b', _]] => { append(y, x, [2]) }, P3(_, [[], 1], _) => { false, matche 2 { _ => , [[1, h, 2], [], [1, true]] => [[_] != y, h != [h, y, [1, _ | y] | h]], } }, } }, P3(3, 1, y) => [[y == [y, 2, [x, false, _]], |x, z| { x == x, false, [[1 | y]] == (x, _) }], |h, x| { [1, 2] == y, (2, 2) != x, conde { y == x, ['a', h] != y, [h != (1, []), [3, h, []] == h] } }], }, { let c__: InferredGoal<DU, DE, Goal<DU, DE>> = proto_vulcan_closure!([|yy| { conde { [x == [yy | _], yy == 1], [x == [_, yy | _], yy == 2] } }, y != true]); let g__: Goal<DU, DE> = ::proto_vulcan::GoalCast::cast_into(c__); let r__: InferredGoal<DU, DE, Goal<DU, DE>> = proto_vulcan!([g__.clone(), g__]); r__ }])
 }
 pub fn case_584(vars: &Vars) -> InferredGoal<DU, DE, Goal<DU, DE>> {
     let x = vars.v[0].clone();
-    proto_vulcan!([|y| { false, matche x { 'b' => , _ => match y { [[fresh_name_9, 3, _], 2] => { 3 == fresh_name_9, member(fresh_name_9, []) }, z => [[2, 1], [y]] != x, }, } }, x == [x | x], (x, x) == x])
+    let y = vars.v[1].clone();
+    proto_vulcan!([match y { z | _ => { _ != [[2, 1], [2, 1 | y], [y, _, 3 | x]], matche x { ['b'] => ([1, x], 2) == x, [[x, 3], [fresh_name_9, 'b', _]] => { append(fresh_name_9, x, [2]) }, P3(_, [[], 1], _) => { false, matche 2 { _ => , [[1, h, 2], [], [1, true]] => [[_] != y, h != [h, y, [1, _ | y] | h]], } }, } }, P3(3, 1, y) => [[y == [y, 2, [x, false, _]], |x, z| { x == x, false, [[1 | y]] == (x, _) }], |h, x| { [1, 2] == y, (2, 2) != x, conde { y == x, ['a', h] != y, [h != (1, []), [3, h, []] == h] } }], }, { let c__: InferredGoal<DU, DE, Goal<DU, DE>> = proto_vulcan_closure!([|yy| { conde { [x == [yy | _], yy == 1], [x == [_, yy | _], yy == 2] } }, y != true]); let g__: Goal<DU, DE> = ::proto_vulcan::GoalCast::cast_into(c__); let r__: InferredGoal<DU, DE, Goal<DU, DE>> = proto_vulcan!([g__.clone(), g__]); r__ }])
 }
 pub fn case_585(vars: &Vars) -> InferredGoal<DU, DE, Goal<DU, DE>> {
     let x = vars.v[0].clone();
-    proto_vulcan!([x != [3, x, 'a'], { let c__: InferredGoal<DU, DE, Goal<DU, DE>> = proto_vulcan_closure!(|yy| { conde { [x == [yy | _], yy == 1], [x == [_, yy | _], yy == 2] } }); let g__: Goal<DU, DE> = ::proto_vulcan::GoalCast::cast_into(c__); let r__: InferredGoal<DU, DE, Goal<DU, DE>> = proto_vulcan!([g__.clone(), g__]); r__ }])
+    proto_vulcan!([[[matche x { _ => { x != false, x == [[x, x | x], [x | x], _ | x] }, [[2, x, 2], [2, 2, 2]] => , }]], [x == (3, 1), x != [1], conde { conde { [|tz| { [1, 3] != [1 | tz], tz == [3] }, false] }, [[x != x], [x == (x, 2), true, x != x]] }]])
 }
 pub fn case_586(vars: &Vars) -> InferredGoal<DU, DE, Goal<DU, DE>> {
     let x = vars.v[0].clone();
-    proto_vulcan!([x != [3, x, 'a'], { let c__: InferredGoal<DU, DE, Goal<DU, DE>> = proto_vulcan_closure!(|fresh_name_9| { conde { [x == [fresh_name_9 | _], fresh_name_9 == 1], [x == [_, fresh_name_9 | _], fresh_name_9 == 2] } }); let g__: Goal<DU, DE> = ::proto_vulcan::GoalCast::cast_into(c__); let r__: InferredGoal<DU, DE, Goal<DU, DE>> = proto_vulcan!([g__.clone(), g__]); r__ }])
+    proto_vulcan!([[[matche x { _ => { x != false, x == [[x, x | x], [x | x], _ | x] }, [[2, fresh_name_9, 2], [2, 2, 2]] => , }]], [x == (3, 1), x != [1], conde { conde { [|tz| { [1, 3] != [1 | tz], tz == [3] }, false] }, [[x != x], [x == (x, 2), true, x != x]] }]])
 }
 pub fn case_587(vars: &Vars) -> InferredGoal<DU, DE, Goal<DU, DE>> {
-    let x = vars.v[0].clone();
-    let y = vars.v[1].clone();
-    proto_vulcan!([match y { P3(3, x, y) | _ => , }, [2] == x, { let c__: InferredGoal<DU, DE, Goal<DU, DE>> = proto_vulcan_closure!([|yy| { conde { [x == [yy | _], yy == 1], [x == [_, yy | _], yy == 2] } }, x == [2]]); let g__: Goal<DU, DE> = ::proto_vulcan::GoalCast::cast_into(c__); let r__: InferredGoal<DU, DE, Goal<DU, DE>> = proto_vulcan!([g__.clone(), g__]); r__ }])
+    let q = vars.v[0].clone();
+    let x = vars.v[1].clone();
+    proto_vulcan!([x == [x, 2 | x], x == [q, false | q], member(q, [2, 2, 3]), { let c__: InferredGoal<DU, DE, Goal<DU, DE>> = proto_vulcan_closure!([|yy| { conde { [x == [yy | _], yy == 1], [x == [_, yy | _], yy == 2] } }, q != x]); let g__: Goal<DU, DE> = ::proto_vulcan::GoalCast::cast_into(c__); let r__: InferredGoal<DU, DE, Goal<DU, DE>> = proto_vulcan!([g__.clone(), g__]); r__ }])
 }
 pub fn case_588(vars: &Vars) -> InferredGoal<DU, DE, Goal<DU, DE>> {
-    let x = vars.v[0].clone();
-    let y = vars.v[1].clone();
-    proto_vulcan!([match y { P3(3, x, y) | _ => , }, [2] == x, { let c__: InferredGoal<DU, DE, Goal<DU, DE>> = proto_vulcan_closure!([|fresh_name_9| { conde { [x == [fresh_name_9 | _], fresh_name_9 == 1], [x == [_, fresh_name_9 | _], fresh_name_9 == 2] } }, x == [2]]); let g__: Goal<DU, DE> = ::proto_vulcan::GoalCast::cast_into(c__); let r__: InferredGoal<DU, DE, Goal<DU, DE>> = proto_vulcan!([g__.clone(), g__]); r__ }])
+    let q = vars.v[0].clone();
+    let x = vars.v[1].clone();
+    proto_vulcan!([x == [x, 2 | x], x == [q, false | q], member(q, [2, 2, 3]), { let c__: InferredGoal<DU, DE, Goal<DU, DE>> = proto_vulcan_closure!([|fresh_name_9| { conde { [x == [fresh_name_9 | _], fresh_name_9 == 1], [x == [_, fresh_name_9 | _], fresh_name_9 == 2] } }, q != x]); let g__: Goal<DU, DE> = ::proto_vulcan::GoalCast::cast_into(c__); let r__: InferredGoal<DU, DE, Goal<DU, DE>> = proto_vulcan!([g__.clone(), g__]); r__ }])
 }
 pub fn case_589(vars: &Vars) -> InferredGoal<DU, DE, Goal<DU, DE>> {
-    let q = vars.v[0].clone();
-    let x = vars.v[1].clone();
-    proto_vulcan!([|z| { false, match x { [1 | 1] => , Named { a: y, b: 1 } | [t] => { [[q, 2, _ | z] == [[1, z | q] | q]] }, } }, match x { _ => { member(x, [1, 2, 3]) }, _ => x == ([x], x), y => { x == x, [|tz| { tz == [1, 3], [2, 3, 1, 3] != [2, 3 | tz] }] }, }, x == ([1], 3), closure { |x| { q == [false] } }])
+    let x = vars.v[0].clone();
+    let y = vars.v[1].clone();
+    proto_vulcan!([matche x { _ => [x == 7, x == 8], [1, [x]] | _ => [|x, y| { matche false { _ => { y == 7, y == 8 }, }, y == [1, x, 1 | [3]] }, true], [2 | h] => , }])
 }
 pub fn case_590(vars: &Vars) -> InferredGoal<DU, DE, Goal<DU, DE>> {
-    let q = vars.v[0].clone();
-    let x = vars.v[1].clone();
-    proto_vulcan!([|z| { false, match x { [1 | 1] => , Named { a: y, b: 1 } | [t] => { [[q, 2, _ | z] == [[1, z | q] | q]] }, } }, match x { _ => { member(x, [1, 2, 3]) }, _ => x == ([x], x), y => { x == x, [|fresh_name_9| { fresh_name_9 == [1, 3], [2, 3, 1, 3] != [2, 3 | fresh_name_9] }] }, }, x == ([1], 3), closure { |x| { q == [false] } }])
+    let x = vars.v[0].clone();
+    let y = vars.v[1].clone();
+    proto_vulcan!([matche x { _ => [x == 7, x == 8], [1, [x]] | _ => [|x, y| { matche false { _ => { y == 7, y == 8 }, }, y == [1, x, 1 | [3]] }, true], [2 | fresh_name_9] => , }])
 }
 pub fn case_591(vars: &Vars) -> InferredGoal<DU, DE, Goal<DU, DE>> {
     let x = vars.v[0].clone();
-    let y = vars.v[1].clone();
-    proto_vulcan!([x == ["a", _, y], [y == y, [conde { [append(x, x, [2]), x != y] }, x == [2, y, x | y], match [3, x, y] { _ | 1 => { append(x, x, []) }, [h, [2, 2 | h], [2, t]] => { member(x, []) }, [[_ | 1], [2, x], [z, []]] | _ => { P3(y, y, y) == y, true }, }], |z| { |tz| { [3 | tz] != [3, 2], tz == [2] } }], { let c__: InferredGoal<DU, DE, Goal<DU, DE>> = proto_vulcan_closure!([|yy| { conde { [y == [yy | _], yy == 1], [y == [_, yy | _], yy == 2] } }, [[1, []]] != x]); let g__: Goal<DU, DE> = ::proto_vulcan::GoalCast::cast_into(c__); let r__: InferredGoal<DU, DE, Goal<DU, DE>> = proto_vulcan!([g__.clone(), g__]); r__ }])
+    proto_vulcan!([match x { x => , [y, [h], _] => , }, conde { [x != [[1, _, x], [x], [[] | x] | x], x != (x, x)], [x == [], conde { [], [[], _, x] != x, |x| { P3(x, [2], [3]) == x, [x, x] == [[_, 1, _], [x, false], [x]], [x, [_, 1, x | 3]] == [x, false, 3] } }], [] }, closure { x == [[x, x, 1], [1, _ | x] | x] }])
 }
 pub fn case_592(vars: &Vars) -> InferredGoal<DU, DE, Goal<DU, DE>> {
     let x = vars.v[0].clone();
-    let y = vars.v[1].clone();
-    proto_vulcan!([x == ["a", _, y], [y == y, [conde { [append(x, x, [2]), x != y] }, x == [2, y, x | y], match [3, x, y] { _ | 1 => { append(x, x, []) }, [h, [2, 2 | h], [2, t]] => { member(x, []) }, [[_ | 1], [2, x], [z, []]] | _ => { P3(y, y, y) == y, true }, }], |fresh_name_9| { |tz| { [3 | tz] != [3, 2], tz == [2] } }], { let c__: InferredGoal<DU, DE, Goal<DU, DE>> = proto_vulcan_closure!([|yy| { conde { [y == [yy | _], yy == 1], [y == [_, yy | _], yy == 2] } }, [[1, []]] != x]); let g__: Goal<DU, DE> = ::proto_vulcan::GoalCast::cast_into(c__); let r__: InferredGoal<DU, DE, Goal<DU, DE>> = proto_vulcan!([g__.clone(), g__]); r__ }])
+    proto_vulcan!([match x { x => , [fresh_name_9, [h], _] => , }, conde { [x != [[1, _, x], [x], [[] | x] | x], x != (x, x)], [x == [], conde { [], [[], _, x] != x, |x| { P3(x, [2], [3]) == x, [x, x] == [[_, 1, _], [x, false], [x]], [x, [_, 1, x | 3]] == [x, false, 3] } }], [] }, closure { x == [[x, x, 1], [1, _ | x] | x] }])
 }
 pub fn case_593(vars: &Vars) -> InferredGoal<DU, DE, Goal<DU, DE>> {
-    let x = vars.v[0].clone();
-    proto_vulcan!([matche x { t | Named { a: _, b: 3 } => , [z, [y, z, t | z], [z, 1]] => { conde { true }, [member(z, []), |tz| { [2, 2, 2] != [2 | tz], tz == [2, 2] }] }, }, member(x, [2]), |x| { x != (_, [2, 3]) }])
+    let q = vars.v[0].clone();
+    let x = vars.v[1].clone();
+    proto_vulcan!([[append(q, q, [2]), q == [2 | x], |y, z| { |tz| { [1, 2, 1] != [1, 2 | tz], tz == [1] }, matche [2] { [[2], [2 | z], [x, []] | []] => { [_, [x, z | y], [_, y]] == [z, [] | q] }, _ => , }, y == (z, y) }]])
 }
 pub fn case_594(vars: &Vars) -> InferredGoal<DU, DE, Goal<DU, DE>> {
-    let x = vars.v[0].clone();
-    proto_vulcan!([matche x { t | Named { a: _, b: 3 } => , [z, [y, z, t | z], [z, 1]] => { conde { true }, [member(z, []), |tz| { [2, 2, 2] != [2 | tz], tz == [2, 2] }] }, }, member(x, [2]), |fresh_name_9| { fresh_name_9 != (_, [2, 3]) }])
+    let q = vars.v[0].clone();
+    let x = vars.v[1].clone();
+    proto_vulcan!([[append(q, q, [2]), q == [2 | x], |y, z| { |tz| { [1, 2, 1] != [1, 2 | tz], tz == [1] }, matche [2] { [[2], [2 | fresh_name_9], [x, []] | []] => { [_, [x, fresh_name_9 | y], [_, y]] == [fresh_name_9, [] | q] }, _ => , }, y == (z, y) }]])
 }
 pub fn case_595(vars: &Vars) -> InferredGoal<DU, DE, Goal<DU, DE>> {
     let x = vars.v[0].clone();
-    proto_vulcan!([|h| { [[[]], h] == x, [P3(h, [2, x], [_, 2]) == x] }, member(x, [3, 3]), x == P3(x, x, _)])
+    proto_vulcan!([[conde { [[2, x, _ | [x]] != x, conde { 1 == x, [] }], match x { _ | x => , } }, [[x, "a"] != x, 1 == x], |y, h| { |h, t| { true, h != h }, true == y, [[_, x | y] | y] == ['b'] }], |y| { matche x { Named { a: [h, []], b: 2 } => { x == [] }, [_] => _ == x, _ | [['a', 2 | [3, false]]] => , } }, |h, x| { [|x, h| {  }] }, closure { matche x { 2 => |h| { [_, h, 2] == x }, [[_], [z], false] => |h| {  }, h | [[2, x]] => , } }])
 }
 pub fn case_596(vars: &Vars) -> InferredGoal<DU, DE, Goal<DU, DE>> {
     let x = vars.v[0].clone();
-    proto_vulcan!([|fresh_name_9| { [[[]], fresh_name_9] == x, [P3(fresh_name_9, [2, x], [_, 2]) == x] }, member(x, [3, 3]), x == P3(x, x, _)])
+    proto_vulcan!([[conde { [[2, x, _ | [x]] != x, conde { 1 == x, [] }], match x { _ | x => , } }, [[x, "a"] != x, 1 == x], |y, h| { |h, t| { true, h != h }, true == y, [[_, x | y] | y] == ['b'] }], |y| { matche x { Named { a: [h, []], b: 2 } => { x == [] }, [_] => _ == x, _ | [['a', 2 | [3, false]]] => , } }, |h, x| { [|x, h| {  }] }, closure { matche x { 2 => |h| { [_, h, 2] == x }, [[_], [fresh_name_9], false] => |h| {  }, h | [[2, x]] => , } }])
 }
 pub fn case_597(vars: &Vars) -> InferredGoal<DU, DE, Goal<DU, DE>> {
     let x = vars.v[0].clone();
-    proto_vulcan!([conde { [[[], _, x] == x, conde { x == x, x == 1 }], [[[[2, 2 | x] != x]], [3, x] == x], [[x] != x, _ != x] }, match x { Named { a: h, b: [] } => , }])
+    proto_vulcan!([|y| { conde { conde { y == [y, 2], [] }, [member(x, [1]), y == [2 | y]] } }, closure { x == 3 }])
 }
 pub fn case_598(vars: &Vars) -> InferredGoal<DU, DE, Goal<DU, DE>> {
     let x = vars.v[0].clone();
-    proto_vulcan!([conde { [[[], _, x] == x, conde { x == x, x == 1 }], [[[[2, 2 | x] != x]], [3, x] == x], [[x] != x, _ != x] }, match x { Named { a: fresh_name_9, b: [] } => , }])
+    proto_vulcan!([|fresh_name_9| { conde { conde { fresh_name_9 == [fresh_name_9, 2], [] }, [member(x, [1]), fresh_name_9 == [2 | fresh_name_9]] } }, closure { x == 3 }])
 }
 pub fn case_599(vars: &Vars) -> InferredGoal<DU, DE, Goal<DU, DE>> {
     let q = vars.v[0].clone();
     let x = vars.v[1].clone();
-    proto_vulcan!([match x { [[_, 1, y], z] => |h, y| { conde { [([1], _) != y, true], [q == ["bc" | z], z == [y | _]], x == y } }, [z, [x, [], z]] => { false }, _ | _ => [[q == P3(_, [1], [_]), P3([], 3, x) == [], [append(q, q, [])]], |x| { |t, h| { member(x, []) }, member(x, [2]), conde { [|tz| { [3, 2, 1] != [3 | tz], tz == [2, 1] }, x == [2, x, q]], [] } }], }, false, conde { [|h, y| { y == ["bc", _, 2] }, |h| {  }], x == [2, 2, 2] }, closure { [[member(x, [1, 1])]] }])
+    proto_vulcan!([2 == [['a'] | [_]], conde { q == [[], q, []], [[["a", []] != q, match [1, q, true] { _ => , Named { a: [[], 1], b: x } | [[1, t, z | _]] => { q == [2, 1, 2], |tz| { tz == [2, 2], [1 | tz] != [1, 2, 2] } }, }]], x == [q] }, conde { [[conde { (2, 1) != [3, 'b' | x], [x != _, q == q], [[] == P3([], [], [q]), x == [q, [1, true | q] | x]] }, match x { 'b' => , [[2] | z] => , y => , }], |tz| { tz == [2], [1, 2, 2] != [1, 2 | tz] }], [x != [2, 1], (_, 3) != 2] }])
 }
 pub fn case_600(vars: &Vars) -> InferredGoal<DU, DE, Goal<DU, DE>> {
     let q = vars.v[0].clone();
     let x = vars.v[1].clone();
-    proto_vulcan!([match x { [[_, 1, y], z] => |h, y| { conde { [([1], _) != y, true], [q == ["bc" | z], z == [y | _]], x == y } }, [z, [fresh_name_9, [], z]] => { false }, _ | _ => [[q == P3(_, [1], [_]), P3([], 3, x) == [], [append(q, q, [])]], |x| { |t, h| { member(x, []) }, member(x, [2]), conde { [|tz| { [3, 2, 1] != [3 | tz], tz == [2, 1] }, x == [2, x, q]], [] } }], }, false, conde { [|h, y| { y == ["bc", _, 2] }, |h| {  }], x == [2, 2, 2] }, closure { [[member(x, [1, 1])]] }])
+    proto_vulcan!([2 == [['a'] | [_]], conde { q == [[], q, []], [[["a", []] != q, match [1, q, true] { _ => , Named { a: [[], 1], b: x } | [[1, t, z | _]] => { q == [2, 1, 2], |fresh_name_9| { fresh_name_9 == [2, 2], [1 | fresh_name_9] != [1, 2, 2] } }, }]], x == [q] }, conde { [[conde { (2, 1) != [3, 'b' | x], [x != _, q == q], [[] == P3([], [], [q]), x == [q, [1, true | q] | x]] }, match x { 'b' => , [[2] | z] => , y => , }], |tz| { tz == [2], [1, 2, 2] != [1, 2 | tz] }], [x != [2, 1], (_, 3) != 2] }])
 }
 pub fn case_601(vars: &Vars) -> InferredGoal<DU, DE, Goal<DU, DE>> {
     let q = vars.v[0].clone();
     let x = vars.v[1].clone();
-    proto_vulcan!([append(q, q, [1]), q != [1, q | 1], |h| { append(h, h, []), member(q, [2, 2]) }, { let c__: InferredGoal<DU, DE, Goal<DU, DE>> = proto_vulcan_closure!([|yy| { conde { [x == [yy | _], yy == 1], [x == [_, yy | _], yy == 2] } }, conde { [2 | x] != q, [[]] == q, member(x, []) }]); let g__: Goal<DU, DE> = ::proto_vulcan::GoalCast::cast_into(c__); let r__: InferredGoal<DU, DE, Goal<DU, DE>> = proto_vulcan!([g__.clone(), g__]); r__ }])
+    proto_vulcan!([match x { _ => { member(q, [1, 2, 3]) }, Named { a: _, b: z } => match x { _ => { |y, t| { x == P3([2], [t], 1) } }, Named { a: [[]], b: 3 } | _ => , }, [[h | []], z] => , }])
 }
 pub fn case_602(vars: &Vars) -> InferredGoal<DU, DE, Goal<DU, DE>> {
     let q = vars.v[0].clone();
     let x = vars.v[1].clone();
-    proto_vulcan!([append(q, q, [1]), q != [1, q | 1], |fresh_name_9| { append(fresh_name_9, fresh_name_9, []), member(q, [2, 2]) }, { let c__: InferredGoal<DU, DE, Goal<DU, DE>> = proto_vulcan_closure!([|yy| { conde { [x == [yy | _], yy == 1], [x == [_, yy | _], yy == 2] } }, conde { [2 | x] != q, [[]] == q, member(x, []) }]); let g__: Goal<DU, DE> = ::proto_vulcan::GoalCast::cast_into(c__); let r__: InferredGoal<DU, DE, Goal<DU, DE>> = proto_vulcan!([g__.clone(), g__]); r__ }])
+    proto_vulcan!([match x { _ => { member(q, [1, 2, 3]) }, Named { a: _, b: fresh_name_9 } => match x { _ => { |y, t| { x == P3([2], [t], 1) } }, Named { a: [[]], b: 3 } | _ => , }, [[h | []], z] => , }])
 }
 pub fn case_603(vars: &Vars) -> InferredGoal<DU, DE, Goal<DU, DE>> {
-    let x = vars.v[0].clone();
-    let y = vars.v[1].clone();
-    proto_vulcan!([match y { ["a"] | [[z, t, y], [2, 1 | [_]], [x]] => , [2] => [[conde { y == [x, [], _] }, [P3(2, x, 3) != y], [true, ([], []) == y]], matche x { [1, [t], [h] | _] => { conde { member(h, [1, 2, 1]), [], member(t, [1, 2]) }, ([], [[], 1]) == t }, }], }])
+    let q = vars.v[0].clone();
+    let x = vars.v[1].clone();
+    proto_vulcan!([[matche ['b'] { [1, [[], t | []]] | [[], [1, x, y], "a" | h] => , _ | _ => { [false, q | q] != x }, }, [|y| { _ == y, q == y }, [x, q] != q], x == [2, x]]])
 }
 pub fn case_604(vars: &Vars) -> InferredGoal<DU, DE, Goal<DU, DE>> {
-    let x = vars.v[0].clone();
-    let y = vars.v[1].clone();
-    proto_vulcan!([match y { ["a"] | [[z, t, y], [2, 1 | [_]], [x]] => , [2] => [[conde { y == [x, [], _] }, [P3(2, x, 3) != y], [true, ([], []) == y]], matche x { [1, [t], [fresh_name_9] | _] => { conde { member(fresh_name_9, [1, 2, 1]), [], member(t, [1, 2]) }, ([], [[], 1]) == t }, }], }])
+    let q = vars.v[0].clone();
+    let x = vars.v[1].clone();
+    proto_vulcan!([[matche ['b'] { [1, [[], t | []]] | [[], [1, x, y], "a" | h] => , _ | _ => { [false, q | q] != x }, }, [|fresh_name_9| { _ == fresh_name_9, q == fresh_name_9 }, [x, q] != q], x == [2, x]]])
 }
 pub fn case_605(vars: &Vars) -> InferredGoal<DU, DE, Goal<DU, DE>> {
     let x = vars.v[0].clone();
-    let y = vars.v[1].clone();
-    proto_vulcan!([conde { x == [2, []], [|x, h| { [], matche x { _ => [x == [true, [1, h], ['b', 2, "a" | [1]]], h == [[]]], [x, 2, [_, 1, _] | _] => { x == [x, x, x], P3(1, [h, 3], [h]) != x }, P3(1, 3, []) => , }, append(y, x, [2, 2]) }, [|h, y| { member(h, [2, 2, 2]) }]] }, y != [[y]], match x { [[1] | _] => [3, 2, _ | y] == y, Named { a: t, b: 3 } => [[_ | x], [x, t | t], [] | y] != [y, []], [z, [[], 3 | 2], 1] => , }])
+    proto_vulcan!([[[conde { [x == x, x == ([_], _)], member(x, []) }, conde { [false, [1] == [[x, 3, _] | x]], [false, x == []], [_ == x, x == 2] }, [P3([2], 3, 2) == (1, [])]], match x { Named { a: z, b: t } => { conde { z == P3([2, 2], 3, []) } }, [[[], 1], 'b', _] => , h | Named { a: [x, []], b: 3 } => , }, P3([], 1, 2) == x]])
 }
 pub fn case_606(vars: &Vars) -> InferredGoal<DU, DE, Goal<DU, DE>> {
     let x = vars.v[0].clone();
-    let y = vars.v[1].clone();
-    proto_vulcan!([conde { x == [2, []], [|x, h| { [], matche x { _ => [x == [true, [1, h], ['b', 2, "a" | [1]]], h == [[]]], [x, 2, [_, 1, _] | _] => { x == [x, x, x], P3(1, [h, 3], [h]) != x }, P3(1, 3, []) => , }, append(y, x, [2, 2]) }, [|fresh_name_9, y| { member(fresh_name_9, [2, 2, 2]) }]] }, y != [[y]], match x { [[1] | _] => [3, 2, _ | y] == y, Named { a: t, b: 3 } => [[_ | x], [x, t | t], [] | y] != [y, []], [z, [[], 3 | 2], 1] => , }])
+    proto_vulcan!([[[conde { [x == x, x == ([_], _)], member(x, []) }, conde { [false, [1] == [[x, 3, _] | x]], [false, x == []], [_ == x, x == 2] }, [P3([2], 3, 2) == (1, [])]], match x { Named { a: z, b: fresh_name_9 } => { conde { z == P3([2, 2], 3, []) } }, [[[], 1], 'b', _] => , h | Named { a: [x, []], b: 3 } => , }, P3([], 1, 2) == x]])
 }
 pub fn case_607(vars: &Vars) -> InferredGoal<DU, DE, Goal<DU, DE>> {
     let x = vars.v[0].clone();
-    let y = vars.v[1].clone();
-    proto_vulcan!([[[y] != y, y == x, matche y { [1] => { conde { (1, [y, y]) == y, [y != x, x == P3([], _, y)] }, |t| { [_, 3 | t] != t, ([_, 2], [_, _]) == (x, 3), t == [3, 2, t] } }, }], (2, x) != y, y != [1, y, y | y]])
+    proto_vulcan!([matche x { _ => [x == x, x == x], [x] => { match 1 { _ | [h, 2] => [x != 'b', member(x, [3])], _ => [x == 7, x == 8], [[_, _, 1 | x], [_], []] | _ => , } }, _ => [x == 7, x == 8], }, x == x, [_, 3] != x, { let c__: InferredGoal<DU, DE, Goal<DU, DE>> = proto_vulcan_closure!(|yy| { conde { [x == [yy | _], yy == 1], [x == [_, yy | _], yy == 2] } }); let g__: Goal<DU, DE> = ::proto_vulcan::GoalCast::cast_into(c__); let r__: InferredGoal<DU, DE, Goal<DU, DE>> = proto_vulcan!([g__.clone(), g__]); r__ }])
 }
 pub fn case_608(vars: &Vars) -> InferredGoal<DU, DE, Goal<DU, DE>> {
     let x = vars.v[0].clone();
-    let y = vars.v[1].clone();
-    proto_vulcan!([[[y] != y, y == x, matche y { [1] => { conde { (1, [y, y]) == y, [y != x, x == P3([], _, y)] }, |fresh_name_9| { [_, 3 | fresh_name_9] != fresh_name_9, ([_, 2], [_, _]) == (x, 3), fresh_name_9 == [3, 2, fresh_name_9] } }, }], (2, x) != y, y != [1, y, y | y]])
+    proto_vulcan!([matche x { _ => [x == x, x == x], [x] => { match 1 { _ | [h, 2] => [x != 'b', member(x, [3])], _ => [x == 7, x == 8], [[_, _, 1 | x], [_], []] | _ => , } }, _ => [x == 7, x == 8], }, x == x, [_, 3] != x, { let c__: InferredGoal<DU, DE, Goal<DU, DE>> = proto_vulcan_closure!(|fresh_name_9| { conde { [x == [fresh_name_9 | _], fresh_name_9 == 1], [x == [_, fresh_name_9 | _], fresh_name_9 == 2] } }); let g__: Goal<DU, DE> = ::proto_vulcan::GoalCast::cast_into(c__); let r__: InferredGoal<DU, DE, Goal<DU, DE>> = proto_vulcan!([g__.clone(), g__]); r__ }])
 }
 pub fn case_609(vars: &Vars) -> InferredGoal<DU, DE, Goal<DU, DE>> {
     let x = vars.v[0].clone();
-    let y = vars.v[1].clone();
-    proto_vulcan!([P3([2], [_], 3) == y, |h, z| { conde { [[[] | x] == h, conde { [P3(x, y, z) == h, append(x, x, [3])], [x == [[3, h]], append(x, x, [])], z != _ }], conde { x == [[_ | y]] } }, match y { _ => { [x == [1, [], [] | z], y == [_ | z]] }, _ => [_, [2]] != 'b', [[y], 2, 2 | t] | [x] => [member(z, [2, 2]), [] != h], } }, [y] != x])
+    proto_vulcan!([match 2 { t => { conde { [_ == t, [[x, t, x], 2, 1] == _], [|x, z| { [1, x] == t }, |tz| { tz == [3, 3], [2, 1, 3, 3] != [2, 1 | tz] }], x == P3(x, t, x) } }, }, conde { [|y| { [[x], 1 | []] == [_, 2, 1] }, conde { [], [conde { [x == [1, x, [3, x]], [[], x, [2, x, 2]] == x] }, append(x, x, [])], [] }], [x == [[], [x, x, x]], x != P3([2, 3], _, x)] }, { let c__: InferredGoal<DU, DE, Goal<DU, DE>> = proto_vulcan_closure!(|yy| { conde { [x == [yy | _], yy == 1], [x == [_, yy | _], yy == 2] } }); let g__: Goal<DU, DE> = ::proto_vulcan::GoalCast::cast_into(c__); let r__: InferredGoal<DU, DE, Goal<DU, DE>> = proto_vulcan!([g__.clone(), g__]); r__ }])
 }
 pub fn case_610(vars: &Vars) -> InferredGoal<DU, DE, Goal<DU, DE>> {
     let x = vars.v[0].clone();
-    let y = vars.v[1].clone();
-    proto_vulcan!([P3([2], [_], 3) == y, |fresh_name_9, z| { conde { [[[] | x] == fresh_name_9, conde { [P3(x, y, z) == fresh_name_9, append(x, x, [3])], [x == [[3, fresh_name_9]], append(x, x, [])], z != _ }], conde { x == [[_ | y]] } }, match y { _ => { [x == [1, [], [] | z], y == [_ | z]] }, _ => [_, [2]] != 'b', [[y], 2, 2 | t] | [x] => [member(z, [2, 2]), [] != fresh_name_9], } }, [y] != x])
+    proto_vulcan!([match 2 { t => { conde { [_ == t, [[x, t, x], 2, 1] == _], [|x, z| { [1, x] == t }, |tz| { tz == [3, 3], [2, 1, 3, 3] != [2, 1 | tz] }], x == P3(x, t, x) } }, }, conde { [|y| { [[x], 1 | []] == [_, 2, 1] }, conde { [], [conde { [x == [1, x, [3, x]], [[], x, [2, x, 2]] == x] }, append(x, x, [])], [] }], [x == [[], [x, x, x]], x != P3([2, 3], _, x)] }, { let c__: InferredGoal<DU, DE, Goal<DU, DE>> = proto_vulcan_closure!(|fresh_name_9| { conde { [x == [fresh_name_9 | _], fresh_name_9 == 1], [x == [_, fresh_name_9 | _], fresh_name_9 == 2] } }); let g__: Goal<DU, DE> = ::proto_vulcan::GoalCast::cast_into(c__); let r__: InferredGoal<DU, DE, Goal<DU, DE>> = proto_vulcan!([g__.clone(), g__]); r__ }])
 }
 pub fn case_611(vars: &Vars) -> InferredGoal<DU, DE, Goal<DU, DE>> {
-    let q = vars.v[0].clone();
-    let x = vars.v[1].clone();
-    proto_vulcan!(["bc" == q, match q { [1 | _] => , y => { |y| { |h| {  }, match [[], y, 1 | [_]] { Named { a: _, b: 2 } => y == [_, q | q], [[] | h] => { y != ['b', 'a', _] }, [[1, t], [2, []], t] => { append(y, y, [2, 3]) }, }, [[3]] == 2 } }, 3 => [match q { _ => [q == 7, q == 8], }, |y| { q == [y] }], }, conde { false, [x | q] == q }, closure { x != ([3], [1]) }])
+    let x = vars.v[0].clone();
+    let y = vars.v[1].clone();
+    proto_vulcan!([|h| { true, member(h, [1, 2]) }, |z| { |tz| { tz == [3, 1], [3 | tz] != [3, 3, 1] }, |t| { z != [1, t], y == ([], 3), matche t { 1 => false, [[_], [h, t, h], []] | [[_ | _], [2, [] | _] | x] => { y == z }, [[y], [[]], h | z] => [t, 2] == t, } }, y == [[true], 2, [x, 2, x]] }, |y, h| { x == [[], y, y], |tz| { tz == [1, 2], [2, 1, 2] != [2 | tz] } }, { let c__: InferredGoal<DU, DE, Goal<DU, DE>> = proto_vulcan_closure!(|yy| { conde { [x == [yy | _], yy == 1], [x == [_, yy | _], yy == 2] } }); let g__: Goal<DU, DE> = ::proto_vulcan::GoalCast::cast_into(c__); let r__: InferredGoal<DU, DE, Goal<DU, DE>> = proto_vulcan!([g__.clone(), g__]); r__ }])
 }
 pub fn case_612(vars: &Vars) -> InferredGoal<DU, DE, Goal<DU, DE>> {
-    let q = vars.v[0].clone();
-    let x = vars.v[1].clone();
-    proto_vulcan!(["bc" == q, match q { [1 | _] => , y => { |y| { |h| {  }, match [[], y, 1 | [_]] { Named { a: _, b: 2 } => y == [_, q | q], [[] | h] => { y != ['b', 'a', _] }, [[1, fresh_name_9], [2, []], fresh_name_9] => { append(y, y, [2, 3]) }, }, [[3]] == 2 } }, 3 => [match q { _ => [q == 7, q == 8], }, |y| { q == [y] }], }, conde { false, [x | q] == q }, closure { x != ([3], [1]) }])
+    let x = vars.v[0].clone();
+    let y = vars.v[1].clone();
+    proto_vulcan!([|h| { true, member(h, [1, 2]) }, |z| { |tz| { tz == [3, 1], [3 | tz] != [3, 3, 1] }, |t| { z != [1, t], y == ([], 3), matche t { 1 => false, [[_], [h, t, h], []] | [[_ | _], [2, [] | _] | x] => { y == z }, [[y], [[]], h | z] => [t, 2] == t, } }, y == [[true], 2, [x, 2, x]] }, |y, h| { x == [[], y, y], |fresh_name_9| { fresh_name_9 == [1, 2], [2, 1, 2] != [2 | fresh_name_9] } }, { let c__: InferredGoal<DU, DE, Goal<DU, DE>> = proto_vulcan_closure!(|yy| { conde { [x == [yy | _], yy == 1], [x == [_, yy | _], yy == 2] } }); let g__: Goal<DU, DE> = ::proto_vulcan::GoalCast::cast_into(c__); let r__: InferredGoal<DU, DE, Goal<DU, DE>> = proto_vulcan!([g__.clone(), g__]); r__ }])
 }
 pub fn case_613(vars: &Vars) -> InferredGoal<DU, DE, Goal<DU, DE>> {
-    let x = vars.v[0].clone();
-    let y = vars.v[1].clone();
-    proto_vulcan!([conde { [], y == y, append(x, x, [1, 3]) }, match y { _ => [[2, _] == x, y == P3(y, [3], _)], }, y == ([_], _), closure { |tz| { tz == [1], [3, 2, 1] != [3, 2 | tz] } }])
+    let q = vars.v[0].clone();
+    let x = vars.v[1].clone();
+    proto_vulcan!([conde { x == [1, q], [match q { [2 | []] => conde { [_ == x, x != q], append(x, q, [3, 2]) }, z => , [] | _ => , }, x == [x, q, 1]] }, conde { [q == 2, [[], [q, 2, x], [q | x] | x] == x] }, closure { [true, append(x, q, [1])] }])
 }
 pub fn case_614(vars: &Vars) -> InferredGoal<DU, DE, Goal<DU, DE>> {
-    let x = vars.v[0].clone();
-    let y = vars.v[1].clone();
-    proto_vulcan!([conde { [], y == y, append(x, x, [1, 3]) }, match y { _ => [[2, _] == x, y == P3(y, [3], _)], }, y == ([_], _), closure { |fresh_name_9| { fresh_name_9 == [1], [3, 2, 1] != [3, 2 | fresh_name_9] } }])
+    let q = vars.v[0].clone();
+    let x = vars.v[1].clone();
+    proto_vulcan!([conde { x == [1, q], [match q { [2 | []] => conde { [_ == x, x != q], append(x, q, [3, 2]) }, fresh_name_9 => , [] | _ => , }, x == [x, q, 1]] }, conde { [q == 2, [[], [q, 2, x], [q | x] | x] == x] }, closure { [true, append(x, q, [1])] }])
 }
 pub fn case_615(vars: &Vars) -> InferredGoal<DU, DE, Goal<DU, DE>> {
-    let q = vars.v[0].clone();
-    let x = vars.v[1].clone();
-    proto_vulcan!([[match x { _ => [q == 7, q == 8], 2 => { |y, x| { [x | x] == x }, match x { 1 | [2, [x, _, false], [1, z, 1 | [1]] | _] => , x => , 3 | [[_], [h, _, 2]] => , } }, }, matche q { 2 => [[false, false], q != [2]], }, q != (1, x)]])
+    let x = vars.v[0].clone();
+    proto_vulcan!([x == ['b', x], [[x] | x] == x, |t| { match t { 1 => , } }])
 }
 pub fn case_616(vars: &Vars) -> InferredGoal<DU, DE, Goal<DU, DE>> {
-    let q = vars.v[0].clone();
-    let x = vars.v[1].clone();
-    proto_vulcan!([[match x { _ => [q == 7, q == 8], 2 => { |fresh_name_9, x| { [x | x] == x }, match x { 1 | [2, [x, _, false], [1, z, 1 | [1]] | _] => , x => , 3 | [[_], [h, _, 2]] => , } }, }, matche q { 2 => [[false, false], q != [2]], }, q != (1, x)]])
+    let x = vars.v[0].clone();
+    proto_vulcan!([x == ['b', x], [[x] | x] == x, |fresh_name_9| { match fresh_name_9 { 1 => , } }])
 }
 pub fn case_617(vars: &Vars) -> InferredGoal<DU, DE, Goal<DU, DE>> {
-    let q = vars.v[0].clone();
-    let x = vars.v[1].clone();
-    proto_vulcan!([match x { _ => member(q, [1, 2, 3]), }, { let c__: InferredGoal<DU, DE, Goal<DU, DE>> = proto_vulcan_closure!(|yy| { conde { [x == [yy | _], yy == 1], [x == [_, yy | _], yy == 2] } }); let g__: Goal<DU, DE> = ::proto_vulcan::GoalCast::cast_into(c__); let r__: InferredGoal<DU, DE, Goal<DU, DE>> = proto_vulcan!([g__.clone(), g__]); r__ }])
+    let x = vars.v[0].clone();
+    let y = vars.v[1].clone();
+    proto_vulcan!([x == 'b', |h, z| { |tz| { tz == [3], [2, 2, 3] != [2, 2 | tz] } }, { let c__: InferredGoal<DU, DE, Goal<DU, DE>> = proto_vulcan_closure!(|yy| { conde { [y == [yy | _], yy == 1], [y == [_, yy | _], yy == 2] } }); let g__: Goal<DU, DE> = ::proto_vulcan::GoalCast::cast_into(c__); let r__: InferredGoal<DU, DE, Goal<DU, DE>> = proto_vulcan!([g__.clone(), g__]); r__ }])
 }
 pub fn case_618(vars: &Vars) -> InferredGoal<DU, DE, Goal<DU, DE>> {
-    let q = vars.v[0].clone();
-    let x = vars.v[1].clone();
-    proto_vulcan!([match x { _ => member(q, [1, 2, 3]), }, { let c__: InferredGoal<DU, DE, Goal<DU, DE>> = proto_vulcan_closure!(|fresh_name_9| { conde { [x == [fresh_name_9 | _], fresh_name_9 == 1], [x == [_, fresh_name_9 | _], fresh_name_9 == 2] } }); let g__: Goal<DU, DE> = ::proto_vulcan::GoalCast::cast_into(c__); let r__: InferredGoal<DU, DE, Goal<DU, DE>> = proto_vulcan!([g__.clone(), g__]); r__ }])
+    let x = vars.v[0].clone();
+    let y = vars.v[1].clone();
+    proto_vulcan!([x == 'b', |h, fresh_name_9| { |tz| { tz == [3], [2, 2, 3] != [2, 2 | tz] } }, { let c__: InferredGoal<DU, DE, Goal<DU, DE>> = proto_vulcan_closure!(|yy| { conde { [y == [yy | _], yy == 1], [y == [_, yy | _], yy == 2] } }); let g__: Goal<DU, DE> = ::proto_vulcan::GoalCast::cast_into(c__); let r__: InferredGoal<DU, DE, Goal<DU, DE>> = proto_vulcan!([g__.clone(), g__]); r__ }])
 }
 pub fn case_619(vars: &Vars) -> InferredGoal<DU, DE, Goal<DU, DE>> {
     let x = vars.v[0].clone();
     let y = vars.v[1].clone();
-    proto_vulcan!([conde { [y == [3], y == P3(1, 1, _)], [|tz| { [2 | tz] != [2, 2, 3], tz == [2, 3] }, matche y { _ => [[P3(2, _, y) == 3, append(x, x, [])], ['a' | y] == [[[], 1 | _]]], Named { a: [], b: 3 } => { [P3(3, 1, 3) == y, P3(2, 2, []) == [[x, x], [[], [] | x], ['a', y]]], ([], [y]) == y }, [["bc"]] => , }] }])
+    proto_vulcan!([P3(3, x, 1) == x, |t| { match t { _ => { member(y, [1, 2, 3]) }, }, append(y, t, [3, 3]), |x| { match y { [h] => x == ([], t), [[y, "bc" | []], [2, 1, y], [3]] => { y == (x, [[]]) }, }, match t { y => , }, x == y } }])
 }
 pub fn case_620(vars: &Vars) -> InferredGoal<DU, DE, Goal<DU, DE>> {
     let x = vars.v[0].clone();
     let y = vars.v[1].clone();
-    proto_vulcan!([conde { [y == [3], y == P3(1, 1, _)], [|fresh_name_9| { [2 | fresh_name_9] != [2, 2, 3], fresh_name_9 == [2, 3] }, matche y { _ => [[P3(2, _, y) == 3, append(x, x, [])], ['a' | y] == [[[], 1 | _]]], Named { a: [], b: 3 } => { [P3(3, 1, 3) == y, P3(2, 2, []) == [[x, x], [[], [] | x], ['a', y]]], ([], [y]) == y }, [["bc"]] => , }] }])
+    proto_vulcan!([P3(3, x, 1) == x, |t| { match t { _ => { member(y, [1, 2, 3]) }, }, append(y, t, [3, 3]), |x| { match y { [fresh_name_9] => x == ([], t), [[y, "bc" | []], [2, 1, y], [3]] => { y == (x, [[]]) }, }, match t { y => , }, x == y } }])
 }
 pub fn case_621(vars: &Vars) -> InferredGoal<DU, DE, Goal<DU, DE>> {
     let x = vars.v[0].clone();
-    proto_vulcan!([|t| { false, match x { [[_, false, 2], [[], h, t]] => , h => , }, |t| {  } }, 3 == x, { let c__: InferredGoal<DU, DE, Goal<DU, DE>> = proto_vulcan_closure!([|yy| { conde { [x == [yy | _], yy == 1], [x == [_, yy | _], yy == 2] } }, conde { |tz| { [1, 2 | tz] != [1, 2, 1, 2], tz == [1, 2] }, [[x, "bc", x | x] == x, [x, []] != x], [_, 2 | x] == x }]); let g__: Goal<DU, DE> = ::proto_vulcan::GoalCast::cast_into(c__); let r__: InferredGoal<DU, DE, Goal<DU, DE>> = proto_vulcan!([g__.clone(), g__]); r__ }])
+    proto_vulcan!([matche x { [[2, x], _] | [[3, x, t], 1 | y] => { [[]] != x }, P3(1, [], h) => , [1, [2, _ | _], t] | [[3, h, [] | z], [_], [t]] => , }, matche x { _ | false => , }])
 }
 pub fn case_622(vars: &Vars) -> InferredGoal<DU, DE, Goal<DU, DE>> {
     let x = vars.v[0].clone();
-    proto_vulcan!([|t| { false, match x { [[_, false, 2], [[], h, fresh_name_9]] => , h => , }, |t| {  } }, 3 == x, { let c__: InferredGoal<DU, DE, Goal<DU, DE>> = proto_vulcan_closure!([|yy| { conde { [x == [yy | _], yy == 1], [x == [_, yy | _], yy == 2] } }, conde { |tz| { [1, 2 | tz] != [1, 2, 1, 2], tz == [1, 2] }, [[x, "bc", x | x] == x, [x, []] != x], [_, 2 | x] == x }]); let g__: Goal<DU, DE> = ::proto_vulcan::GoalCast::cast_into(c__); let r__: InferredGoal<DU, DE, Goal<DU, DE>> = proto_vulcan!([g__.clone(), g__]); r__ }])
+    proto_vulcan!([matche x { [[2, x], _] | [[3, x, t], 1 | y] => { [[]] != x }, P3(1, [], fresh_name_9) => , [1, [2, _ | _], t] | [[3, h, [] | z], [_], [t]] => , }, matche x { _ | false => , }])
 }
 pub fn case_623(vars: &Vars) -> InferredGoal<DU, DE, Goal<DU, DE>> {
-    let q = vars.v[0].clone();
-    let x = vars.v[1].clone();
-    proto_vulcan!([|z| {  }, true, match q { [t, z, [2 | 2] | _] => { [3, [], [2]] == q }, [] => [2 == q, x != [2, _ | q]], _ => [q == 7, q == 8], }, closure { ['a'] == x }])
+    let x = vars.v[0].clone();
+    let y = vars.v[1].clone();
+    proto_vulcan!([matche y { _ => [y == 7, y == 8], }, |y, h| { x == P3([x, x], 2, []), y == P3(_, 1, 3) }])
 }
 pub fn case_624(vars: &Vars) -> InferredGoal<DU, DE, Goal<DU, DE>> {
-    let q = vars.v[0].clone();
-    let x = vars.v[1].clone();
-    proto_vulcan!([|z| {  }, true, match q { [t, fresh_name_9, [2 | 2] | _] => { [3, [], [2]] == q }, [] => [2 == q, x != [2, _ | q]], _ => [q == 7, q == 8], }, closure { ['a'] == x }])
+    let x = vars.v[0].clone();
+    let y = vars.v[1].clone();
+    proto_vulcan!([matche y { _ => [y == 7, y == 8], }, |y, fresh_name_9| { x == P3([x, x], 2, []), y == P3(_, 1, 3) }])
 }
 pub fn case_625(vars: &Vars) -> InferredGoal<DU, DE, Goal<DU, DE>> {
-    let x = vars.v[0].clone();
-    let y = vars.v[1].clone();
-    proto_vulcan!([matche [2 | x] { [3, [1] | x] => { |t, x| { [1] != y, |h| { member(x, [1]), _ == x }, [true] } }, Named { a: z, b: [x, []] } => , P3(y, 1, 3) => { conde { [|z| {  }, append(y, x, [1])], match y { [x] | [x, [y | x], [z, z, h | 3]] => { member(x, [3]), [] == x }, z | _ => { [[]] == P3(1, 2, _) }, } }, [2, 2] != y }, }, |t, h| { _ == x }, y == x])
+    let q = vars.v[0].clone();
+    let x = vars.v[1].clone();
+    proto_vulcan!([conde { [q | x] != ["bc", [x, [], 1]], [|y, h| {  }, []], [conde { ['b' != x, _ == q], [[q] != [[q, _, _], [[], 1, 2]], |h, y| {  }], [[false, [3, q | 3] != q, [_ | x] != "bc"], conde { q != [[]], [|tz| { [2, 2, 1] != [2, 2 | tz], tz == [1] }, member(q, [1, 2, 1])] }] }, match q { 1 | 1 => [[[q], 2] == [_], q == [2, q, x]], _ => { x == x, |tz| { tz == [3], [1, 2 | tz] != [1, 2, 3] } }, }] }, { let c__: InferredGoal<DU, DE, Goal<DU, DE>> = proto_vulcan_closure!(|yy| { conde { [x == [yy | _], yy == 1], [x == [_, yy | _], yy == 2] } }); let g__: Goal<DU, DE> = ::proto_vulcan::GoalCast::cast_into(c__); let r__: InferredGoal<DU, DE, Goal<DU, DE>> = proto_vulcan!([g__.clone(), g__]); r__ }])
 }
 pub fn case_626(vars: &Vars) -> InferredGoal<DU, DE, Goal<DU, DE>> {
-    let x = vars.v[0].clone();
-    let y = vars.v[1].clone();
-    proto_vulcan!([matche [2 | x] { [3, [1] | x] => { |t, x| { [1] != y, |h| { member(x, [1]), _ == x }, [true] } }, Named { a: z, b: [x, []] } => , P3(fresh_name_9, 1, 3) => { conde { [|z| {  }, append(fresh_name_9, x, [1])], match fresh_name_9 { [x] | [x, [y | x], [z, z, h | 3]] => { member(x, [3]), [] == x }, z | _ => { [[]] == P3(1, 2, _) }, } }, [2, 2] != fresh_name_9 }, }, |t, h| { _ == x }, y == x])
+    let q = vars.v[0].clone();
+    let x = vars.v[1].clone();
+    proto_vulcan!([conde { [q | x] != ["bc", [x, [], 1]], [|y, h| {  }, []], [conde { ['b' != x, _ == q], [[q] != [[q, _, _], [[], 1, 2]], |h, fresh_name_9| {  }], [[false, [3, q | 3] != q, [_ | x] != "bc"], conde { q != [[]], [|tz| { [2, 2, 1] != [2, 2 | tz], tz == [1] }, member(q, [1, 2, 1])] }] }, match q { 1 | 1 => [[[q], 2] == [_], q == [2, q, x]], _ => { x == x, |tz| { tz == [3], [1, 2 | tz] != [1, 2, 3] } }, }] }, { let c__: InferredGoal<DU, DE, Goal<DU, DE>> = proto_vulcan_closure!(|yy| { conde { [x == [yy | _], yy == 1], [x == [_, yy | _], yy == 2] } }); let g__: Goal<DU, DE> = ::proto_vulcan::GoalCast::cast_into(c__); let r__: InferredGoal<DU, DE, Goal<DU, DE>> = proto_vulcan!([g__.clone(), g__]); r__ }])
 }
 pub fn case_627(vars: &Vars) -> InferredGoal<DU, DE, Goal<DU, DE>> {
-    let x = vars.v[0].clone();
-    proto_vulcan!([false, conde { [[match [[], 3 | x] { [[h, z, y | _], [h, y] | t] => , _ => { x == 7, x == 8 }, }, match x { Named { a: [t, h], b: _ } => [1 == h, 2 == x], [h] => , }, ([[], x], [3, x]) == x]] }, closure { [match x { [[2, h, x], [z, h | x]] => , x => , [[2]] => { (3, [3, _]) == (1, _) }, }, x != []] }])
+    let q = vars.v[0].clone();
+    let x = vars.v[1].clone();
+    proto_vulcan!([q == [x, 1, false], x != x, [1 == q, matche x { _ => member(q, [1, 2, 3]), Named { a: [], b: t } => { [append(t, q, [])], q != false }, y => , }, |tz| { tz == [3, 3], [3, 3, 3] != [3 | tz] }]])
 }
 pub fn case_628(vars: &Vars) -> InferredGoal<DU, DE, Goal<DU, DE>> {
-    let x = vars.v[0].clone();
-    proto_vulcan!([false, conde { [[match [[], 3 | x] { [[h, z, y | _], [h, y] | t] => , _ => { x == 7, x == 8 }, }, match x { Named { a: [t, fresh_name_9], b: _ } => [1 == fresh_name_9, 2 == x], [h] => , }, ([[], x], [3, x]) == x]] }, closure { [match x { [[2, h, x], [z, h | x]] => , x => , [[2]] => { (3, [3, _]) == (1, _) }, }, x != []] }])
+    let q = vars.v[0].clone();
+    let x = vars.v[1].clone();
+    proto_vulcan!([q == [x, 1, false], x != x, [1 == q, matche x { _ => member(q, [1, 2, 3]), Named { a: [], b: t } => { [append(t, q, [])], q != false }, y => , }, |fresh_name_9| { fresh_name_9 == [3, 3], [3, 3, 3] != [3 | fresh_name_9] }]])
 }
 pub fn case_629(vars: &Vars) -> InferredGoal<DU, DE, Goal<DU, DE>> {
-    let q = vars.v[0].clone();
-    let x = vars.v[1].clone();
-    proto_vulcan!([x != q, closure { [matche [] { [[y, 1, 2 | t], _] => { false }, P3(h, _, [[]]) => , [[1, _ | _]] => , }, x == [[3, 3, 2]]] }])
+    let x = vars.v[0].clone();
+    proto_vulcan!([[conde { [[], match x { [[2, []], ["a"], 3] | _ => { x != [[], x, x | x] }, [z, [y]] => , }], [match x { [[_, []]] => append(x, x, [3]), y => , }, [|tz| { tz == [1], [1, 2, 1] != [1, 2 | tz] }, (x, [x]) != x]] }, (3, x) == x], |y| { x != y, conde { y != ([], _), [[], [[y, []], x] == [x, _, []]] } }, x == x, closure { [|z, h| { |tz| { tz == [1], [1 | tz] != [1, 1] }, [append(x, z, []), (_, 2) == (_, 3)], [[_, [], 2], [x, [] | h]] != z }, conde { [([[]], x) != x, matche 1 { _ => { [[x, x, x] | [1, _]] == x }, _ => , }], [matche x { x => [[x, 'b', x] == x, P3(x, 3, 2) != x], }, matche [_] { [["bc" | _], [x, _], y] | Named { a: [[]], b: 2 } => , }] }] }])
 }
 pub fn case_630(vars: &Vars) -> InferredGoal<DU, DE, Goal<DU, DE>> {
-    let q = vars.v[0].clone();
-    let x = vars.v[1].clone();
-    proto_vulcan!([x != q, closure { [matche [] { [[y, 1, 2 | t], _] => { false }, P3(fresh_name_9, _, [[]]) => , [[1, _ | _]] => , }, x == [[3, 3, 2]]] }])
+    let x = vars.v[0].clone();
+    proto_vulcan!([[conde { [[], match x { [[2, []], ["a"], 3] | _ => { x != [[], x, x | x] }, [z, [fresh_name_9]] => , }], [match x { [[_, []]] => append(x, x, [3]), y => , }, [|tz| { tz == [1], [1, 2, 1] != [1, 2 | tz] }, (x, [x]) != x]] }, (3, x) == x], |y| { x != y, conde { y != ([], _), [[], [[y, []], x] == [x, _, []]] } }, x == x, closure { [|z, h| { |tz| { tz == [1], [1 | tz] != [1, 1] }, [append(x, z, []), (_, 2) == (_, 3)], [[_, [], 2], [x, [] | h]] != z }, conde { [([[]], x) != x, matche 1 { _ => { [[x, x, x] | [1, _]] == x }, _ => , }], [matche x { x => [[x, 'b', x] == x, P3(x, 3, 2) != x], }, matche [_] { [["bc" | _], [x, _], y] | Named { a: [[]], b: 2 } => , }] }] }])
 }
 pub fn case_631(vars: &Vars) -> InferredGoal<DU, DE, Goal<DU, DE>> {
-    let q = vars.v[0].clone();
-    let x = vars.v[1].clone();
-    proto_vulcan!([|h| { q == x, match q { [[t]] => { h == P3(q, [], 3), h != q }, [[t, false], [y] | _] => [false | x] != (_, 1), } }, 3 == q, { let c__: InferredGoal<DU, DE, Goal<DU, DE>> = proto_vulcan_closure!([|yy| { conde { [q == [yy | _], yy == 1], [q == [_, yy | _], yy == 2] } }, P3([1, _], [x, _], 3) == q]); let g__: Goal<DU, DE> = ::proto_vulcan::GoalCast::cast_into(c__); let r__: InferredGoal<DU, DE, Goal<DU, DE>> = proto_vulcan!([g__.clone(), g__]); r__ }])
+    let x = vars.v[0].clone();
+    let y = vars.v[1].clone();
+    proto_vulcan!([y == x, |z| { matche y { x => [[x] == (1, [[], _]), append(y, x, [])], P3(x, [x], [x, _]) => , _ => { [member(x, [1, 3])], [y] == y }, }, [[3], [_] | z] != (x, _) }, closure { ['b' == y, match y { Named { a: 1, b: 3 } => [["bc", 3 | y] == [y], matche x { _ => , [[2, h, true], _, ['b', z] | _] | [] => { append(x, x, [2]), x == x }, }], [2, [z]] => { ["bc", 2, true] == x }, }] }])
 }
 pub fn case_632(vars: &Vars) -> InferredGoal<DU, DE, Goal<DU, DE>> {
-    let q = vars.v[0].clone();
-    let x = vars.v[1].clone();
-    proto_vulcan!([|h| { q == x, match q { [[t]] => { h == P3(q, [], 3), h != q }, [[t, false], [y] | _] => [false | x] != (_, 1), } }, 3 == q, { let c__: InferredGoal<DU, DE, Goal<DU, DE>> = proto_vulcan_closure!([|fresh_name_9| { conde { [q == [fresh_name_9 | _], fresh_name_9 == 1], [q == [_, fresh_name_9 | _], fresh_name_9 == 2] } }, P3([1, _], [x, _], 3) == q]); let g__: Goal<DU, DE> = ::proto_vulcan::GoalCast::cast_into(c__); let r__: InferredGoal<DU, DE, Goal<DU, DE>> = proto_vulcan!([g__.clone(), g__]); r__ }])
+    let x = vars.v[0].clone();
+    let y = vars.v[1].clone();
+    proto_vulcan!([y == x, |z| { matche y { x => [[x] == (1, [[], _]), append(y, x, [])], P3(fresh_name_9, [fresh_name_9], [fresh_name_9, _]) => , _ => { [member(x, [1, 3])], [y] == y }, }, [[3], [_] | z] != (x, _) }, closure { ['b' == y, match y { Named { a: 1, b: 3 } => [["bc", 3 | y] == [y], matche x { _ => , [[2, h, true], _, ['b', z] | _] | [] => { append(x, x, [2]), x == x }, }], [2, [z]] => { ["bc", 2, true] == x }, }] }])
 }
 pub fn case_633(vars: &Vars) -> InferredGoal<DU, DE, Goal<DU, DE>> {
     let x = vars.v[0].clone();
-    proto_vulcan!([match x { [["a"] | x] => x != x, [] => , _ => conde { [], |x, y| { x == [[3], [x, x]] }, [x == [[], [3, x, x]], member(x, [])] }, }, conde { [x == false, |y| { |z, y| { P3(_, z, y) == y } }], [], [] }, { let c__: InferredGoal<DU, DE, Goal<DU, DE>> = proto_vulcan_closure!(|yy| { conde { [x == [yy | _], yy == 1], [x == [_, yy | _], yy == 2] } }); let g__: Goal<DU, DE> = ::proto_vulcan::GoalCast::cast_into(c__); let r__: InferredGoal<DU, DE, Goal<DU, DE>> = proto_vulcan!([g__.clone(), g__]); r__ }])
+    proto_vulcan!([conde { [[matche [1] { Named { a: [3, []], b: 1 } | [3 | _] => , }, matche [2, []] { P3(3, [], 1) => [x != P3(1, 1, x), false], [[3, z] | h] => , }, ["a" | [3, _]] == [[], [[], x, 2 | x], []]]], [[conde { [P3(2, x, x) == x, |tz| { [1 | tz] != [1, 1, 1], tz == [1, 1] }], [x == [_, x], true], [] }, |x, h| { append(x, h, []), append(x, x, [2, 2]) }, [x != (x, [3])]], conde { conde { [1, 3, x | x] != x, [], x == ['b' | [x]] }, [[], [x, [] | x] != [["bc", true, 'b' | x] | [true, x]]], [] }] }, x == [false, [x, 2 | x]], conde { [[_ != _]], [] }])
 }
 pub fn case_634(vars: &Vars) -> InferredGoal<DU, DE, Goal<DU, DE>> {
     let x = vars.v[0].clone();
-    proto_vulcan!([match x { [["a"] | x] => x != x, [] => , _ => conde { [], |fresh_name_9, y| { fresh_name_9 == [[3], [fresh_name_9, fresh_name_9]] }, [x == [[], [3, x, x]], member(x, [])] }, }, conde { [x == false, |y| { |z, y| { P3(_, z, y) == y } }], [], [] }, { let c__: InferredGoal<DU, DE, Goal<DU, DE>> = proto_vulcan_closure!(|yy| { conde { [x == [yy | _], yy == 1], [x == [_, yy | _], yy == 2] } }); let g__: Goal<DU, DE> = ::proto_vulcan::GoalCast::cast_into(c__); let r__: InferredGoal<DU, DE, Goal<DU, DE>> = proto_vulcan!([g__.clone(), g__]); r__ }])
+    proto_vulcan!([conde { [[matche [1] { Named { a: [3, []], b: 1 } | [3 | _] => , }, matche [2, []] { P3(3, [], 1) => [x != P3(1, 1, x), false], [[3, z] | h] => , }, ["a" | [3, _]] == [[], [[], x, 2 | x], []]]], [[conde { [P3(2, x, x) == x, |fresh_name_9| { [1 | fresh_name_9] != [1, 1, 1], fresh_name_9 == [1, 1] }], [x == [_, x], true], [] }, |x, h| { append(x, h, []), append(x, x, [2, 2]) }, [x != (x, [3])]], conde { conde { [1, 3, x | x] != x, [], x == ['b' | [x]] }, [[], [x, [] | x] != [["bc", true, 'b' | x] | [true, x]]], [] }] }, x == [false, [x, 2 | x]], conde { [[_ != _]], [] }])
 }
 pub fn case_635(vars: &Vars) -> InferredGoal<DU, DE, Goal<DU, DE>> {
-    let x = vars.v[0].clone();
-    let y = vars.v[1].clone();
-    proto_vulcan!([3 != 3, { let c__: InferredGoal<DU, DE, Goal<DU, DE>> = proto_vulcan_closure!(|yy| { conde { [y == [yy | _], yy == 1], [y == [_, yy | _], yy == 2] } }); let g__: Goal<DU, DE> = ::proto_vulcan::GoalCast::cast_into(c__); let r__: InferredGoal<DU, DE, Goal<DU, DE>> = proto_vulcan!([g__.clone(), g__]); r__ }])
+    let q = vars.v[0].clone();
+    let x = vars.v[1].clone();
+    proto_vulcan!([|tz| { tz == [3, 1], [1, 3 | tz] != [1, 3, 3, 1] }, q == x, |y, x| { [x == [[], x | "bc"], conde { append(x, x, [1, 2]) }] }])
 }
 pub fn case_636(vars: &Vars) -> InferredGoal<DU, DE, Goal<DU, DE>> {
-    let x = vars.v[0].clone();
-    let y = vars.v[1].clone();
-    proto_vulcan!([3 != 3, { let c__: InferredGoal<DU, DE, Goal<DU, DE>> = proto_vulcan_closure!(|fresh_name_9| { conde { [y == [fresh_name_9 | _], fresh_name_9 == 1], [y == [_, fresh_name_9 | _], fresh_name_9 == 2] } }); let g__: Goal<DU, DE> = ::proto_vulcan::GoalCast::cast_into(c__); let r__: InferredGoal<DU, DE, Goal<DU, DE>> = proto_vulcan!([g__.clone(), g__]); r__ }])
+    let q = vars.v[0].clone();
+    let x = vars.v[1].clone();
+    proto_vulcan!([|tz| { tz == [3, 1], [1, 3 | tz] != [1, 3, 3, 1] }, q == x, |y, fresh_name_9| { [fresh_name_9 == [[], fresh_name_9 | "bc"], conde { append(fresh_name_9, fresh_name_9, [1, 2]) }] }])
 }
 pub fn case_637(vars: &Vars) -> InferredGoal<DU, DE, Goal<DU, DE>> {
     let x = vars.v[0].clone();
-    proto_vulcan!([x == (2, 3), 2 != [2, [x | x]], { let c__: InferredGoal<DU, DE, Goal<DU, DE>> = proto_vulcan_closure!([|yy| { conde { [x == [yy | _], yy == 1], [x == [_, yy | _], yy == 2] } }, _ == x]); let g__: Goal<DU, DE> = ::proto_vulcan::GoalCast::cast_into(c__); let r__: InferredGoal<DU, DE, Goal<DU, DE>> = proto_vulcan!([g__.clone(), g__]); r__ }])
+    let y = vars.v[1].clone();
+    proto_vulcan!([|tz| { [2, 1, 1, 1] != [2, 1 | tz], tz == [1, 1] }, [[x, y] == P3([], _, _), matche x { P3([_, 3], _, _) => { match x { 1 | _ => [member(x, [2, 1, 2]), 3 == x], _ => { |tz| { [1 | tz] != [1, 2], tz == [2] }, x != [x, x | [1, 3]] }, _ => , } }, _ => { |h, y| { |tz| { [3, 2, 1] != [3 | tz], tz == [2, 1] }, _ != [] } }, }, |z, y| { 3 != z, [y, y] == y }]])
 }
 pub fn case_638(vars: &Vars) -> InferredGoal<DU, DE, Goal<DU, DE>> {
     let x = vars.v[0].clone();
-    proto_vulcan!([x == (2, 3), 2 != [2, [x | x]], { let c__: InferredGoal<DU, DE, Goal<DU, DE>> = proto_vulcan_closure!([|fresh_name_9| { conde { [x == [fresh_name_9 | _], fresh_name_9 == 1], [x == [_, fresh_name_9 | _], fresh_name_9 == 2] } }, _ == x]); let g__: Goal<DU, DE> = ::proto_vulcan::GoalCast::cast_into(c__); let r__: InferredGoal<DU, DE, Goal<DU, DE>> = proto_vulcan!([g__.clone(), g__]); r__ }])
+    let y = vars.v[1].clone();
+    proto_vulcan!([|tz| { [2, 1, 1, 1] != [2, 1 | tz], tz == [1, 1] }, [[x, y] == P3([], _, _), matche x { P3([_, 3], _, _) => { match x { 1 | _ => [member(x, [2, 1, 2]), 3 == x], _ => { |tz| { [1 | tz] != [1, 2], tz == [2] }, x != [x, x | [1, 3]] }, _ => , } }, _ => { |h, y| { |tz| { [3, 2, 1] != [3 | tz], tz == [2, 1] }, _ != [] } }, }, |z, fresh_name_9| { 3 != z, [fresh_name_9, fresh_name_9] == fresh_name_9 }]])
 }
 pub fn case_639(vars: &Vars) -> InferredGoal<DU, DE, Goal<DU, DE>> {
-    let q = vars.v[0].clone();
-    let x = vars.v[1].clone();
-    proto_vulcan!([|x, y| { |h, x| { |tz| { tz == [1], [3 | tz] != [3, 1] }, match 1 { [h, [_] | y] => , 1 => { q == x, P3([3, h], 3, x) == [[_, 2, 2], y, [3, 3, _]] }, }, x != [[2, [], _]] }, [] != x, [_, y, 2] != q }, false])
+    let x = vars.v[0].clone();
+    let y = vars.v[1].clone();
+    proto_vulcan!([[[1, 'a', 2], 1, [3, y] | y] != y, conde { y == 3, |h| { true, matche y { [[[], 2, true | [2, z]], [2, t, 2] | _] => { x != ['a' | x], [y | h] == h }, }, [[_, h, x], 1, [2]] == 2 } }, member(x, [3, 2]), { let c__: InferredGoal<DU, DE, Goal<DU, DE>> = proto_vulcan_closure!(|yy| { conde { [y == [yy | _], yy == 1], [y == [_, yy | _], yy == 2] } }); let g__: Goal<DU, DE> = ::proto_vulcan::GoalCast::cast_into(c__); let r__: InferredGoal<DU, DE, Goal<DU, DE>> = proto_vulcan!([g__.clone(), g__]); r__ }])
 }
 pub fn case_640(vars: &Vars) -> InferredGoal<DU, DE, Goal<DU, DE>> {
-    let q = vars.v[0].clone();
-    let x = vars.v[1].clone();
-    proto_vulcan!([|x, y| { |fresh_name_9, x| { |tz| { tz == [1], [3 | tz] != [3, 1] }, match 1 { [h, [_] | y] => , 1 => { q == x, P3([3, fresh_name_9], 3, x) == [[_, 2, 2], y, [3, 3, _]] }, }, x != [[2, [], _]] }, [] != x, [_, y, 2] != q }, false])
-}
-pub fn case_641(vars: &Vars) -> InferredGoal<DU, DE, Goal<DU, DE>> {
-    let q = vars.v[0].clone();
-    let x = vars.v[1].clone();
-    proto_vulcan!(['a' == P3([], 3, q), { let c__: InferredGoal<DU, DE, Goal<DU, DE>> = proto_vulcan_closure!(|yy| { conde { [x == [yy | _], yy == 1], [x == [_, yy | _], yy == 2] } }); let g__: Goal<DU, DE> = ::proto_vulcan::GoalCast::cast_into(c__); let r__: InferredGoal<DU, DE, Goal<DU, DE>> = proto_vulcan!([g__.clone(), g__]); r__ }])
-}
-pub fn case_642(vars: &Vars) -> InferredGoal<DU, DE, Goal<DU, DE>> {
-    let q = vars.v[0].clone();
-    let x = vars.v[1].clone();
-    proto_vulcan!(['a' == P3([], 3, q), { let c__: InferredGoal<DU, DE, Goal<DU, DE>> = proto_vulcan_closure!(|fresh_name_9| { conde { [x == [fresh_name_9 | _], fresh_name_9 == 1], [x == [_, fresh_name_9 | _], fresh_name_9 == 2] } }); let g__: Goal<DU, DE> = ::proto_vulcan::GoalCast::cast_into(c__); let r__: InferredGoal<DU, DE, Goal<DU, DE>> = proto_vulcan!([g__.clone(), g__]); r__ }])
-}
-pub fn case_643(vars: &Vars) -> InferredGoal<DU, DE, Goal<DU, DE>> {
-    let x = vars.v[0].clone();
-    proto_vulcan!([matche x { "a" => { matche [] { [['b', 2], _] => [|y| { append(x, y, []) }, conde { ([3], _) == x, [x, x, x] == x, [["a", x, x | [x, 1]] == x, 3 == x] }], _ => member(x, [1, 2, 3]), _ => { |z| { z == 1, true, z != 2 }, conde { member(x, []), ([], [[]]) != x, false } }, }, [matche x { _ => [append(x, x, [2]), x != P3(x, [x], [])], }] }, P3(1, 2, 2) | _ => match x { [1 | 'a'] | _ => matche x { [1, 2 | _] | h => , _ => [x == P3([x, 1], [], []), true], h => { true, [] == h }, }, _ | 3 => , }, Named { a: [], b: _ } => { [x == "a", x == 1, matche x { _ => [] == x, }], append(x, x, []) }, }, { let c__: InferredGoal<DU, DE, Goal<DU, DE>> = proto_vulcan_closure!(|yy| { conde { [x == [yy | _], yy == 1], [x == [_, yy | _], yy == 2] } }); let g__: Goal<DU, DE> = ::proto_vulcan::GoalCast::cast_into(c__); let r__: InferredGoal<DU, DE, Goal<DU, DE>> = proto_vulcan!([g__.clone(), g__]); r__ }])
-}
-pub fn case_644(vars: &Vars) -> InferredGoal<DU, DE, Goal<DU, DE>> {
-    let x = vars.v[0].clone();
-    proto_vulcan!([matche x { "a" => { matche [] { [['b', 2], _] => [|y| { append(x, y, []) }, conde { ([3], _) == x, [x, x, x] == x, [["a", x, x | [x, 1]] == x, 3 == x] }], _ => member(x, [1, 2, 3]), _ => { |fresh_name_9| { fresh_name_9 == 1, true, fresh_name_9 != 2 }, conde { member(x, []), ([], [[]]) != x, false } }, }, [matche x { _ => [append(x, x, [2]), x != P3(x, [x], [])], }] }, P3(1, 2, 2) | _ => match x { [1 | 'a'] | _ => matche x { [1, 2 | _] | h => , _ => [x == P3([x, 1], [], []), true], h => { true, [] == h }, }, _ | 3 => , }, Named { a: [], b: _ } => { [x == "a", x == 1, matche x { _ => [] == x, }], append(x, x, []) }, }, { let c__: InferredGoal<DU, DE, Goal<DU, DE>> = proto_vulcan_closure!(|yy| { conde { [x == [yy | _], yy == 1], [x == [_, yy | _], yy == 2] } }); let g__: Goal<DU, DE> = ::proto_vulcan::GoalCast::cast_into(c__); let r__: InferredGoal<DU, DE, Goal<DU, DE>> = proto_vulcan!([g__.clone(), g__]); r__ }])
-}
-pub fn case_645(vars: &Vars) -> InferredGoal<DU, DE, Goal<DU, DE>> {
-    let x = vars.v[0].clone();
-    proto_vulcan!([[2, x] == x, |t| { [[x, 3, t | t], [2, x, t]] == x, [2, t, _] == t, x == [t] }, |h| {  }, { let c__: InferredGoal<DU, DE, Goal<DU, DE>> = proto_vulcan_closure!(|yy| { conde { [x == [yy | _], yy == 1], [x == [_, yy | _], yy == 2] } }); let g__: Goal<DU, DE> = ::proto_vulcan::GoalCast::cast_into(c__); let r__: InferredGoal<DU, DE, Goal<DU, DE>> = proto_vulcan!([g__.clone(), g__]); r__ }])
-}
-pub fn case_646(vars: &Vars) -> InferredGoal<DU, DE, Goal<DU, DE>> {
-    let x = vars.v[0].clone();
-    proto_vulcan!([[2, x] == x, |fresh_name_9| { [[x, 3, fresh_name_9 | fresh_name_9], [2, x, fresh_name_9]] == x, [2, fresh_name_9, _] == fresh_name_9, x == [fresh_name_9] }, |h| {  }, { let c__: InferredGoal<DU, DE, Goal<DU, DE>> = proto_vulcan_closure!(|yy| { conde { [x == [yy | _], yy == 1], [x == [_, yy | _], yy == 2] } }); let g__: Goal<DU, DE> = ::proto_vulcan::GoalCast::cast_into(c__); let r__: InferredGoal<DU, DE, Goal<DU, DE>> = proto_vulcan!([g__.clone(), g__]); r__ }])
-}
-pub fn case_647(vars: &Vars) -> InferredGoal<DU, DE, Goal<DU, DE>> {
-    let x = vars.v[0].clone();
-    proto_vulcan!([|h, y| { [x] == y }, [x, x, _] != [[x | x] | "a"]])
-}
-pub fn case_648(vars: &Vars) -> InferredGoal<DU, DE, Goal<DU, DE>> {
-    let x = vars.v[0].clone();
-    proto_vulcan!([|fresh_name_9, y| { [x] == y }, [x, x, _] != [[x | x] | "a"]])
-}
-pub fn case_649(vars: &Vars) -> InferredGoal<DU, DE, Goal<DU, DE>> {
-    let q = vars.v[0].clone();
-    let x = vars.v[1].clone();
-    proto_vulcan!([[x | x] != q, |h| {  }])
-}
-pub fn case_650(vars: &Vars) -> InferredGoal<DU, DE, Goal<DU, DE>> {
-    let q = vars.v[0].clone();
-    let x = vars.v[1].clone();
-    proto_vulcan!([[x | x] != q, |fresh_name_9| {  }])
-}
-pub fn case_651(vars: &Vars) -> InferredGoal<DU, DE, Goal<DU, DE>> {
     let x = vars.v[0].clone();
     let y = vars.v[1].clone();
-    proto_vulcan!([|h| { x != [2, [_ | h]], [append(x, y, []), conde { y == [[], h, [] | y] }, h == y] }, P3(y, x, [y, y]) != y, [y | x] == x, { let c__: InferredGoal<DU, DE, Goal<DU, DE>> = proto_vulcan_closure!(|yy| { conde { [y == [yy | _], yy == 1], [y == [_, yy | _], yy == 2] } }); let g__: Goal<DU, DE> = ::proto_vulcan::GoalCast::cast_into(c__); let r__: InferredGoal<DU, DE, Goal<DU, DE>> = proto_vulcan!([g__.clone(), g__]); r__ }])
+    proto_vulcan!([[[1, 'a', 2], 1, [3, y] | y] != y, conde { y == 3, |h| { true, matche y { [[[], 2, true | [2, fresh_name_9]], [2, t, 2] | _] => { x != ['a' | x], [y | h] == h }, }, [[_, h, x], 1, [2]] == 2 } }, member(x, [3, 2]), { let c__: InferredGoal<DU, DE, Goal<DU, DE>> = proto_vulcan_closure!(|yy| { conde { [y == [yy | _], yy == 1], [y == [_, yy | _], yy == 2] } }); let g__: Goal<DU, DE> = ::proto_vulcan::GoalCast::cast_into(c__); let r__: InferredGoal<DU, DE, Goal<DU, DE>> = proto_vulcan!([g__.clone(), g__]); r__ }])
 }
-pub fn case_652(vars: &Vars) -> InferredGoal<DU, DE, Goal<DU, DE>> {
-    let x = vars.v[0].clone();
-    let y = vars.v[1].clone();
-    proto_vulcan!([|h| { x != [2, [_ | h]], [append(x, y, []), conde { y == [[], h, [] | y] }, h == y] }, P3(y, x, [y, y]) != y, [y | x] == x, { let c__: InferredGoal<DU, DE, Goal<DU, DE>> = proto_vulcan_closure!(|fresh_name_9| { conde { [y == [fresh_name_9 | _], fresh_name_9 == 1], [y == [_, fresh_name_9 | _], fresh_name_9 == 2] } }); let g__: Goal<DU, DE> = ::proto_vulcan::GoalCast::cast_into(c__); let r__: InferredGoal<DU, DE, Goal<DU, DE>> = proto_vulcan!([g__.clone(), g__]); r__ }])
-}
-pub fn case_653(vars: &Vars) -> InferredGoal<DU, DE, Goal<DU, DE>> {
-    let q = vars.v[0].clone();
-    let x = vars.v[1].clone();
-    proto_vulcan!([|t, z| { t == P3([x], [t], x) }, x == (_, _)])
-}
-pub fn case_654(vars: &Vars) -> InferredGoal<DU, DE, Goal<DU, DE>> {
-    let q = vars.v[0].clone();
-    let x = vars.v[1].clone();
-    proto_vulcan!([|fresh_name_9, z| { fresh_name_9 == P3([x], [fresh_name_9], x) }, x == (_, _)])
-}
-pub fn case_655(vars: &Vars) -> InferredGoal<DU, DE, Goal<DU, DE>> {
-    let q = vars.v[0].clone();
-    let x = vars.v[1].clone();
-    proto_vulcan!([true, { let c__: InferredGoal<DU, DE, Goal<DU, DE>> = proto_vulcan_closure!(|yy| { conde { [x == [yy | _], yy == 1], [x == [_, yy | _], yy == 2] } }); let g__: Goal<DU, DE> = ::proto_vulcan::GoalCast::cast_into(c__); let r__: InferredGoal<DU, DE, Goal<DU, DE>> = proto_vulcan!([g__.clone(), g__]); r__ }])
-}
-pub fn case_656(vars: &Vars) -> InferredGoal<DU, DE, Goal<DU, DE>> {
-    let q = vars.v[0].clone();
-    let x = vars.v[1].clone();
-    proto_vulcan!([true, { let c__: InferredGoal<DU, DE, Goal<DU, DE>> = proto_vulcan_closure!(|fresh_name_9| { conde { [x == [fresh_name_9 | _], fresh_name_9 == 1], [x == [_, fresh_name_9 | _], fresh_name_9 == 2] } }); let g__: Goal<DU, DE> = ::proto_vulcan::GoalCast::cast_into(c__); let r__: InferredGoal<DU, DE, Goal<DU, DE>> = proto_vulcan!([g__.clone(), g__]); r__ }])
-}
-pub fn case_657(vars: &Vars) -> InferredGoal<DU, DE, Goal<DU, DE>> {
-    let q = vars.v[0].clone();
-    let x = vars.v[1].clone();
-    proto_vulcan!([[[match q { _ => [|tz| { [1, 3 | tz] != [1, 3, 2, 3], tz == [2, 3] }, [q] == [q]], }], P3([], [2, 3], q) == q]])
-}
-pub fn case_658(vars: &Vars) -> InferredGoal<DU, DE, Goal<DU, DE>> {
-    let q = vars.v[0].clone();
-    let x = vars.v[1].clone();
-    proto_vulcan!([[[match q { _ => [|fresh_name_9| { [1, 3 | fresh_name_9] != [1, 3, 2, 3], fresh_name_9 == [2, 3] }, [q] == [q]], }], P3([], [2, 3], q) == q]])
-}
-pub fn case_659(vars: &Vars) -> InferredGoal<DU, DE, Goal<DU, DE>> {
-    let x = vars.v[0].clone();
-    proto_vulcan!([|t| { |t| { |x| {  } }, t == [3, 'b', 1 | t], match x { _ => { t == 7, t == 8 }, ["a", [h | t]] | [_, [1, h, 'b'] | y] => { x == h }, [1, t | y] => { conde { x == [[2, x], ['a', _], y] }, [] }, } }, ["bc", 2] == x])
-}
-pub fn case_660(vars: &Vars) -> InferredGoal<DU, DE, Goal<DU, DE>> {
-    let x = vars.v[0].clone();
-    proto_vulcan!([|t| { |t| { |fresh_name_9| {  } }, t == [3, 'b', 1 | t], match x { _ => { t == 7, t == 8 }, ["a", [h | t]] | [_, [1, h, 'b'] | y] => { x == h }, [1, t | y] => { conde { x == [[2, x], ['a', _], y] }, [] }, } }, ["bc", 2] == x])
-}
-pub fn case_661(vars: &Vars) -> InferredGoal<DU, DE, Goal<DU, DE>> {
-    let x = vars.v[0].clone();
-    let y = vars.v[1].clone();
-    proto_vulcan!([|x| { conde { [[|tz| { tz == [1], [2, 1, 1] != [2, 1 | tz] }, P3(x, y, x) == x, member(x, [2, 1, 2])], conde { ([[], 3], []) == y }], x == y, conde { y != x, [] } } }, P3(y, _, [x, 1]) == y, conde { |t| { match y { [[y, 3, 'a'], [_, 2, h | t]] => [[x, 1 | x] != x, y != 1], P3(t, [x, 1], 1) => , } }, [|t, h| { h == [2, 3, []], y != [[true]], match x { [y, t] => { [1, 1 | t] == y }, } }, |x| { x == y }] }])
-}
-pub fn case_662(vars: &Vars) -> InferredGoal<DU, DE, Goal<DU, DE>> {
-    let x = vars.v[0].clone();
-    let y = vars.v[1].clone();
-    proto_vulcan!([|x| { conde { [[|tz| { tz == [1], [2, 1, 1] != [2, 1 | tz] }, P3(x, y, x) == x, member(x, [2, 1, 2])], conde { ([[], 3], []) == y }], x == y, conde { y != x, [] } } }, P3(y, _, [x, 1]) == y, conde { |t| { match y { [[fresh_name_9, 3, 'a'], [_, 2, h | t]] => [[x, 1 | x] != x, fresh_name_9 != 1], P3(t, [x, 1], 1) => , } }, [|t, h| { h == [2, 3, []], y != [[true]], match x { [y, t] => { [1, 1 | t] == y }, } }, |x| { x == y }] }])
-}
-pub fn case_663(vars: &Vars) -> InferredGoal<DU, DE, Goal<DU, DE>> {
-    let x = vars.v[0].clone();
-    let y = vars.v[1].clone();
-    proto_vulcan!([|y| { [], append(y, x, [1, 1]) }, |y, t| { |y| { [x, 1] != y, y == P3(1, [1, 2], x), x != x } }, { let c__: InferredGoal<DU, DE, Goal<DU, DE>> = proto_vulcan_closure!(|yy| { conde { [y == [yy | _], yy == 1], [y == [_, yy | _], yy == 2] } }); let g__: Goal<DU, DE> = ::proto_vulcan::GoalCast::cast_into(c__); let r__: InferredGoal<DU, DE, Goal<DU, DE>> = proto_vulcan!([g__.clone(), g__]); r__ }])
-}
-pub fn case_664(vars: &Vars) -> InferredGoal<DU, DE, Goal<DU, DE>> {
-    let x = vars.v[0].clone();
-    let y = vars.v[1].clone();
-    proto_vulcan!([|y| { [], append(y, x, [1, 1]) }, |y, t| { |fresh_name_9| { [x, 1] != fresh_name_9, fresh_name_9 == P3(1, [1, 2], x), x != x } }, { let c__: InferredGoal<DU, DE, Goal<DU, DE>> = proto_vulcan_closure!(|yy| { conde { [y == [yy | _], yy == 1], [y == [_, yy | _], yy == 2] } }); let g__: Goal<DU, DE> = ::proto_vulcan::GoalCast::cast_into(c__); let r__: InferredGoal<DU, DE, Goal<DU, DE>> = proto_vulcan!([g__.clone(), g__]); r__ }])
-}
-pub fn case_665(vars: &Vars) -> InferredGoal<DU, DE, Goal<DU, DE>> {
-    let x = vars.v[0].clone();
-    let y = vars.v[1].clone();
-    proto_vulcan!([conde { conde { [x == ['a', 3], [[y] == y]], append(x, y, [1, 2]), [append(x, x, [2, 3]), x == y] }, [match y { [h, [z, 1], 2 | []] => { z != [2, [[], y, x], [1, "bc" | z]] }, [[1, _, _] | y] => [true, [1 | []] == y], _ => [x == 7, x == 8], }, match x { [[x, _, h | _], [h, y, y | y], [_, _, 1] | _] => [matche y { [[]] => [P3(3, y, [y]) == [[2]], (1, 2) == h], _ => { x == 7, x == 8 }, x => { y != (y, [3, 3]), h == x }, }, x == y], }], |tz| { tz == [1, 2], [1, 1, 2] != [1 | tz] } }, { let c__: InferredGoal<DU, DE, Goal<DU, DE>> = proto_vulcan_closure!([|yy| { conde { [x == [yy | _], yy == 1], [x == [_, yy | _], yy == 2] } }, conde { member(y, [2]), [_ == y, member(y, [2, 3, 2])] }]); let g__: Goal<DU, DE> = ::proto_vulcan::GoalCast::cast_into(c__); let r__: InferredGoal<DU, DE, Goal<DU, DE>> = proto_vulcan!([g__.clone(), g__]); r__ }])
-}
-pub fn case_666(vars: &Vars) -> InferredGoal<DU, DE, Goal<DU, DE>> {
-    let x = vars.v[0].clone();
-    let y = vars.v[1].clone();
-    proto_vulcan!([conde { conde { [x == ['a', 3], [[y] == y]], append(x, y, [1, 2]), [append(x, x, [2, 3]), x == y] }, [match y { [h, [z, 1], 2 | []] => { z != [2, [[], y, x], [1, "bc" | z]] }, [[1, _, _] | y] => [true, [1 | []] == y], _ => [x == 7, x == 8], }, match x { [[x, _, h | _], [h, y, y | y], [_, _, 1] | _] => [matche y { [[]] => [P3(3, y, [y]) == [[2]], (1, 2) == h], _ => { x == 7, x == 8 }, x => { y != (y, [3, 3]), h == x }, }, x == y], }], |tz| { tz == [1, 2], [1, 1, 2] != [1 | tz] } }, { let c__: InferredGoal<DU, DE, Goal<DU, DE>> = proto_vulcan_closure!([|fresh_name_9| { conde { [x == [fresh_name_9 | _], fresh_name_9 == 1], [x == [_, fresh_name_9 | _], fresh_name_9 == 2] } }, conde { member(y, [2]), [_ == y, member(y, [2, 3, 2])] }]); let g__: Goal<DU, DE> = ::proto_vulcan::GoalCast::cast_into(c__); let r__: InferredGoal<DU, DE, Goal<DU, DE>> = proto_vulcan!([g__.clone(), g__]); r__ }])
-}
-pub const NCASES: usize = 667;
+pub const NCASES: usize = 641;
 pub fn case(i: usize, vars: &Vars) -> Goal<DU, DE> {
     match i {
         0 => case_0(vars).goal,
@@ -3961,32 +3829,6 @@ pub fn case(i: usize, vars: &Vars) -> Goal<DU, DE> {
         638 => case_638(vars).goal,
         639 => case_639(vars).goal,
         640 => case_640(vars).goal,
-        641 => case_641(vars).goal,
-        642 => case_642(vars).goal,
-        643 => case_643(vars).goal,
-        644 => case_644(vars).goal,
-        645 => case_645(vars).goal,
-        646 => case_646(vars).goal,
-        647 => case_647(vars).goal,
-        648 => case_648(vars).goal,
-        649 => case_649(vars).goal,
-        650 => case_650(vars).goal,
-        651 => case_651(vars).goal,
-        652 => case_652(vars).goal,
-        653 => case_653(vars).goal,
-        654 => case_654(vars).goal,
-        655 => case_655(vars).goal,
-        656 => case_656(vars).goal,
-        657 => case_657(vars).goal,
-        658 => case_658(vars).goal,
-        659 => case_659(vars).goal,
-        660 => case_660(vars).goal,
-        661 => case_661(vars).goal,
-        662 => case_662(vars).goal,
-        663 => case_663(vars).goal,
-        664 => case_664(vars).goal,
-        665 => case_665(vars).goal,
-        666 => case_666(vars).goal,
         _ => unreachable!(),
     }
 }
